@@ -514,3 +514,5972 @@ Proof. unfold connect_next; frR. Qed.
 Lemma Fr_conn_established : forall n s0 s, Fr s0 s -> Fr s0 (fst (conn_established n s)).
 Proof. unfold conn_established; frR. Qed.
 #[export] Hint Resolve Fr_conn_established : frdb.
+
+(* ================================================================== the phases of run_once *)
+Definition ph_pre (rd0 : rdev) (s0 : state) : state :=
+  match rd0, st s0 with
+  | RdNone, _ => s0
+  | _, Disconnected => s0
+  | _, _ => set_rxq (rxq s0 ++ [rd0]) s0
+  end.
+Definition ph_reset (s1 : state) : state :=
+  if reset_parser s1 then set_ps PDepth0 (set_reset_parser false s1) else s1.
+Definition ph_watch (now : Z) (s3 : state) : R :=
+  match st s3 with
+  | Connecting =>
+      if now - stamp s3 <=? CONNECT_TIMEOUT then ret s3
+      else let '(s', o', ok) := connect_next now s3 in
+           if ok then (s', o')
+           else
+             let s'' := set_neg_done false (set_st Disconnected (set_err ETIMEDOUT s')) in
+             (reset_sm_for_reconnect s'', o' ++ [ODisconnect ETIMEDOUT (stream_error s'')])
+  | _ => ret s3
+  end.
+Definition ph_ready (s4 : state) : bool :=
+  match st s4 with
+  | Connecting => match cur_ep s4 with EpHang => false | _ => true end
+  | Connected => (match rxq s4 with [] => false | _ => true end) || negb (Nat.eqb (List.length (sendq s4)) 0)
+  | Disconnected => false
+  end.
+Definition ph_io (now : Z) (s4 : state) : R :=
+  match st s4 with
+  | Connecting =>
+      match cur_ep s4 with
+      | EpAccept => conn_established now (set_st Connected s4)
+      | EpLate =>
+          let '(s', o', ok) := connect_next now s4 in
+          if ok then (s', o')
+          else let s'' := set_neg_done false (set_st Disconnected (set_err (-1) s')) in
+               (reset_sm_for_reconnect s'', o' ++ [ODisconnect (-1) (stream_error s'')])
+      | _ => ret s4
+      end
+  | Connected =>
+      let rd := match rxq s4 with [] => RdNone | x :: _ => x end in
+      let s4 := set_rxq (tl (rxq s4)) s4 in
+      match rd with
+      | RdNone => ret s4
+      | RdChunk its =>
+          let '(s', o', bad) := feed_items now its s4 in
+          if bad then (send_gated WStreamErr false false s', o') else (s', o')
+      | RdClose =>
+          if tls_present s4 then conn_disconnect (set_err ECONNRESET s4)
+          else conn_disconnect (set_err ECONNRESET s4)
+      | RdReset => conn_disconnect (set_err ECONNRESET s4)
+      end
+  | Disconnected => ret s4
+  end.
+
+Lemma run_once_eq : forall now rd0 s0, run_once now rd0 s0 =
+  if crashed s0 then ret s0 else
+  let s := ph_pre rd0 s0 in
+  let '(s1, o1) := send_phase s in
+  if crashed s1 then (s1, o1) else
+  let s2 := ph_reset s1 in
+  let '(s3, o3) := fire_timed now s2 in
+  if crashed s3 then (s3, o1 ++ o3) else
+  let '(s4, o4) := ph_watch now s3 in
+  if negb (ph_ready s4) then (s4, o1 ++ o3 ++ o4 ++ [OIter]) else
+  let '(s5, o5) := ph_io now s4 in
+  if crashed s5 then (s5, o1 ++ o3 ++ o4 ++ o5) else
+  let '(s6, o6) := fire_timed now s5 in
+  (s6, o1 ++ o3 ++ o4 ++ o5 ++ o6 ++ [OIter]).
+Proof. reflexivity. Qed.
+
+Lemma run_once_ind : forall (P1 P2 P3 P4 P5 P6 Rr : state -> list out -> Prop) n rd s0,
+  (crashed s0 = true -> Rr s0 []) ->
+  (crashed s0 = false -> P1 (fst (send_phase (ph_pre rd s0))) (snd (send_phase (ph_pre rd s0)))) ->
+  (forall s o, P1 s o -> Rr s o) ->
+  (forall s o, P1 s o -> P2 (ph_reset s) o) ->
+  (forall s o, P2 s o -> P3 (fst (fire_timed n s)) (o ++ snd (fire_timed n s))) ->
+  (forall s o, P3 s o -> Rr s o) ->
+  (forall s o, P3 s o -> P4 (fst (ph_watch n s)) (o ++ snd (ph_watch n s))) ->
+  (forall s o, P4 s o -> Rr s (o ++ [OIter])) ->
+  (forall s o, P4 s o -> P5 (fst (ph_io n s)) (o ++ snd (ph_io n s))) ->
+  (forall s o, P5 s o -> Rr s o) ->
+  (forall s o, P5 s o -> P6 (fst (fire_timed n s)) (o ++ snd (fire_timed n s))) ->
+  (forall s o, P6 s o -> Rr s (o ++ [OIter])) ->
+  Rr (fst (run_once n rd s0)) (snd (run_once n rd s0)).
+Proof.
+  intros P1 P2 P3 P4 P5 P6 Rr n rd s0 Hc H1 H1r H2 H3 H3r H4 H4r H5 H5r H6 H6r.
+  rewrite run_once_eq. destruct (crashed s0) eqn:C; [exact (Hc eq_refl)|]. specialize (H1 eq_refl). cbv zeta.
+  destruct (send_phase (ph_pre rd s0)) as [s1 o1]. cbn [fst snd] in H1.
+  destruct (crashed s1); [apply H1r; exact H1|].
+  pose proof (H3 _ _ (H2 _ _ H1)) as K3. destruct (fire_timed n (ph_reset s1)) as [s3 o3]. cbn [fst snd] in *.
+  destruct (crashed s3); [apply H3r; exact K3|].
+  pose proof (H4 _ _ K3) as K4. destruct (ph_watch n s3) as [s4 o4]. cbn [fst snd] in *.
+  destruct (negb (ph_ready s4)).
+  { replace (o1 ++ o3 ++ o4 ++ [OIter]) with (((o1 ++ o3) ++ o4) ++ [OIter]) by (rewrite <- !app_assoc; reflexivity).
+    apply H4r; exact K4. }
+  pose proof (H5 _ _ K4) as K5. destruct (ph_io n s4) as [s5 o5]. cbn [fst snd] in *.
+  destruct (crashed s5).
+  { replace (o1 ++ o3 ++ o4 ++ o5) with (((o1 ++ o3) ++ o4) ++ o5) by (rewrite <- !app_assoc; reflexivity).
+    apply H5r; exact K5. }
+  pose proof (H6 _ _ K5) as K6. destruct (fire_timed n s5) as [s6 o6]. cbn [fst snd] in *.
+  replace (o1 ++ o3 ++ o4 ++ o5 ++ o6 ++ [OIter]) with (((((o1 ++ o3) ++ o4) ++ o5) ++ o6) ++ [OIter])
+    by (rewrite <- !app_assoc; reflexivity).
+  apply H6r; exact K6.
+Qed.
+
+
+(* step-level helpers *)
+Lemma step_eq : forall s o, step s o = (note_outs (snd (step0 s o)) (fst (step0 s o)), snd (step0 s o)).
+Proof. intros; unfold step; destruct (step0 s o); reflexivity. Qed.
+Lemma check_run_inv : forall (ok : state -> op -> state -> list out -> bool) (Inv : state -> Prop),
+  (forall s o, Inv s -> Inv (fst (step s o))) ->
+  (forall s o, Inv s -> ok s o (fst (step s o)) (snd (step s o)) = true) ->
+  forall ops s, Inv s -> check_run ok s ops = true.
+Proof.
+  intros ok Inv Hp Ho. induction ops as [|o r IH]; intros s Hs; cbn [check_run]; auto.
+  specialize (Hp s o Hs). specialize (Ho s o Hs). destruct (step s o) as [s' outs]. cbn [fst snd] in *.
+  rewrite Ho. cbn. auto.
+Qed.
+
+(* ================================================================== negotiation "tokens" *)
+(* The negotiation handlers form a token game: at rest at most one of them (or a pending client
+   stream restart) is present.  marks counts them; Bd is the relation satisfied by the code that
+   runs inside one handler / id handler / timed handler / open handler. *)
+Definition b2n (b : bool) : nat := if b then 1%nat else 0%nat.
+Definition is_main (k : hkind) : bool := match k with HUser | HError | HComponentHs => false | _ => true end.
+Definition is_main_id (k : idk) : bool := match k with IKBind | IKSession => true | IKLegacy => false end.
+Definition client_oh (h : openh) : bool := match h with OpenAuth | OpenTls | OpenSasl | OpenCompress => true | _ => false end.
+Definition is_depth0 (p : pstate) : bool := match p with PDepth0 => true | _ => false end.
+Definition hmarks (s : state) : nat := List.length (filter (fun x => is_main (fst x)) (handlers s)).
+Definition imarks (s : state) : nat := List.length (filter (fun x => is_main_id (fst x)) (idhandlers s)).
+Definition pending (s : state) : nat := b2n (client_oh (oh s) && (reset_parser s || is_depth0 (ps s))).
+Definition marks (s : state) : nat := (hmarks s + imarks s + pending s)%nat.
+
+Record Bd (d : nat) (s0 s : state) : Prop := mkBd {
+  bd_marks : (marks s <= marks s0 + d)%nat;
+  bd_h : exists l, handlers s = handlers s0 ++ l;
+  bd_i : exists l, idhandlers s = idhandlers s0 ++ l;
+  bd_ps : ps s = ps s0
+}.
+Lemma Bd_refl : forall s, Bd 0 s s.
+Proof. intros; constructor; auto; try lia; exists []; symmetry; apply app_nil_r. Qed.
+Lemma Bd_weaken : forall d d' s0 s, Bd d s0 s -> (d <= d')%nat -> Bd d' s0 s.
+Proof. intros d d' s0 s [] L; constructor; auto; lia. Qed.
+Lemma Bd_trans : forall d1 d2 a b c, Bd d1 a b -> Bd d2 b c -> Bd (d2 + d1) a c.
+Proof.
+  intros d1 d2 a b c [] []; constructor; try lia; try congruence.
+  - destruct bd_h0 as [l1 E1], bd_h1 as [l2 E2]. exists (l1 ++ l2). rewrite E2, E1, app_assoc. reflexivity.
+  - destruct bd_i0 as [l1 E1], bd_i1 as [l2 E2]. exists (l1 ++ l2). rewrite E2, E1, app_assoc. reflexivity.
+Qed.
+(* a step that leaves handlers, idhandlers, oh, reset_parser and ps alone *)
+Lemma Bd_same : forall d s0 s s', Bd d s0 s ->
+  handlers s' = handlers s -> idhandlers s' = idhandlers s -> oh s' = oh s -> reset_parser s' = reset_parser s -> ps s' = ps s ->
+  Bd d s0 s'.
+Proof.
+  intros d s0 s s' [] A B C D E. constructor.
+  - unfold marks, hmarks, imarks, pending in *. rewrite A, B, C, D, E. assumption.
+  - rewrite A. assumption.
+  - rewrite B. assumption.
+  - congruence.
+Qed.
+Lemma Bd_set_f_tls_disabled : forall v d s0 s, Bd d s0 s -> Bd d s0 (set_f_tls_disabled v s).
+Proof. intros v d s0 s H; apply (Bd_same _ _ _ _ H); destruct s; reflexivity. Qed.
+#[export] Hint Resolve Bd_set_f_tls_disabled : bddb.
+Lemma Bd_set_f_tls_mandatory : forall v d s0 s, Bd d s0 s -> Bd d s0 (set_f_tls_mandatory v s).
+Proof. intros v d s0 s H; apply (Bd_same _ _ _ _ H); destruct s; reflexivity. Qed.
+#[export] Hint Resolve Bd_set_f_tls_mandatory : bddb.
+Lemma Bd_set_f_legacy_ssl : forall v d s0 s, Bd d s0 s -> Bd d s0 (set_f_legacy_ssl v s).
+Proof. intros v d s0 s H; apply (Bd_same _ _ _ _ H); destruct s; reflexivity. Qed.
+#[export] Hint Resolve Bd_set_f_legacy_ssl : bddb.
+Lemma Bd_set_f_tls_trust : forall v d s0 s, Bd d s0 s -> Bd d s0 (set_f_tls_trust v s).
+Proof. intros v d s0 s H; apply (Bd_same _ _ _ _ H); destruct s; reflexivity. Qed.
+#[export] Hint Resolve Bd_set_f_tls_trust : bddb.
+Lemma Bd_set_f_legacy_auth : forall v d s0 s, Bd d s0 s -> Bd d s0 (set_f_legacy_auth v s).
+Proof. intros v d s0 s H; apply (Bd_same _ _ _ _ H); destruct s; reflexivity. Qed.
+#[export] Hint Resolve Bd_set_f_legacy_auth : bddb.
+Lemma Bd_set_f_sm_disable : forall v d s0 s, Bd d s0 s -> Bd d s0 (set_f_sm_disable v s).
+Proof. intros v d s0 s H; apply (Bd_same _ _ _ _ H); destruct s; reflexivity. Qed.
+#[export] Hint Resolve Bd_set_f_sm_disable : bddb.
+Lemma Bd_set_f_comp_allowed : forall v d s0 s, Bd d s0 s -> Bd d s0 (set_f_comp_allowed v s).
+Proof. intros v d s0 s H; apply (Bd_same _ _ _ _ H); destruct s; reflexivity. Qed.
+#[export] Hint Resolve Bd_set_f_comp_allowed : bddb.
+Lemma Bd_set_f_comp_dont_reset : forall v d s0 s, Bd d s0 s -> Bd d s0 (set_f_comp_dont_reset v s).
+Proof. intros v d s0 s H; apply (Bd_same _ _ _ _ H); destruct s; reflexivity. Qed.
+#[export] Hint Resolve Bd_set_f_comp_dont_reset : bddb.
+Lemma Bd_set_jid_set : forall v d s0 s, Bd d s0 s -> Bd d s0 (set_jid_set v s).
+Proof. intros v d s0 s H; apply (Bd_same _ _ _ _ H); destruct s; reflexivity. Qed.
+#[export] Hint Resolve Bd_set_jid_set : bddb.
+Lemma Bd_set_jid_node : forall v d s0 s, Bd d s0 s -> Bd d s0 (set_jid_node v s).
+Proof. intros v d s0 s H; apply (Bd_same _ _ _ _ H); destruct s; reflexivity. Qed.
+#[export] Hint Resolve Bd_set_jid_node : bddb.
+Lemma Bd_set_jid_res : forall v d s0 s, Bd d s0 s -> Bd d s0 (set_jid_res v s).
+Proof. intros v d s0 s H; apply (Bd_same _ _ _ _ H); destruct s; reflexivity. Qed.
+#[export] Hint Resolve Bd_set_jid_res : bddb.
+Lemma Bd_set_pass_set : forall v d s0 s, Bd d s0 s -> Bd d s0 (set_pass_set v s).
+Proof. intros v d s0 s H; apply (Bd_same _ _ _ _ H); destruct s; reflexivity. Qed.
+#[export] Hint Resolve Bd_set_pass_set : bddb.
+Lemma Bd_set_cert_set : forall v d s0 s, Bd d s0 s -> Bd d s0 (set_cert_set v s).
+Proof. intros v d s0 s H; apply (Bd_same _ _ _ _ H); destruct s; reflexivity. Qed.
+#[export] Hint Resolve Bd_set_cert_set : bddb.
+Lemma Bd_set_is_raw : forall v d s0 s, Bd d s0 s -> Bd d s0 (set_is_raw v s).
+Proof. intros v d s0 s H; apply (Bd_same _ _ _ _ H); destruct s; reflexivity. Qed.
+#[export] Hint Resolve Bd_set_is_raw : bddb.
+Lemma Bd_set_typ : forall v d s0 s, Bd d s0 s -> Bd d s0 (set_typ v s).
+Proof. intros v d s0 s H; apply (Bd_same _ _ _ _ H); destruct s; reflexivity. Qed.
+#[export] Hint Resolve Bd_set_typ : bddb.
+Lemma Bd_set_user_handler : forall v d s0 s, Bd d s0 s -> Bd d s0 (set_user_handler v s).
+Proof. intros v d s0 s H; apply (Bd_same _ _ _ _ H); destruct s; reflexivity. Qed.
+#[export] Hint Resolve Bd_set_user_handler : bddb.
+Lemma Bd_set_user_timed : forall v d s0 s, Bd d s0 s -> Bd d s0 (set_user_timed v s).
+Proof. intros v d s0 s H; apply (Bd_same _ _ _ _ H); destruct s; reflexivity. Qed.
+#[export] Hint Resolve Bd_set_user_timed : bddb.
+Lemma Bd_set_tlsnew_ok : forall v d s0 s, Bd d s0 s -> Bd d s0 (set_tlsnew_ok v s).
+Proof. intros v d s0 s H; apply (Bd_same _ _ _ _ H); destruct s; reflexivity. Qed.
+#[export] Hint Resolve Bd_set_tlsnew_ok : bddb.
+Lemma Bd_set_cb_avail : forall v d s0 s, Bd d s0 s -> Bd d s0 (set_cb_avail v s).
+Proof. intros v d s0 s H; apply (Bd_same _ _ _ _ H); destruct s; reflexivity. Qed.
+#[export] Hint Resolve Bd_set_cb_avail : bddb.
+Lemma Bd_set_tls_verdicts : forall v d s0 s, Bd d s0 s -> Bd d s0 (set_tls_verdicts v s).
+Proof. intros v d s0 s H; apply (Bd_same _ _ _ _ H); destruct s; reflexivity. Qed.
+#[export] Hint Resolve Bd_set_tls_verdicts : bddb.
+Lemma Bd_set_next_cands : forall v d s0 s, Bd d s0 s -> Bd d s0 (set_next_cands v s).
+Proof. intros v d s0 s H; apply (Bd_same _ _ _ _ H); destruct s; reflexivity. Qed.
+#[export] Hint Resolve Bd_set_next_cands : bddb.
+Lemma Bd_set_cands : forall v d s0 s, Bd d s0 s -> Bd d s0 (set_cands v s).
+Proof. intros v d s0 s H; apply (Bd_same _ _ _ _ H); destruct s; reflexivity. Qed.
+#[export] Hint Resolve Bd_set_cands : bddb.
+Lemma Bd_set_cur_ep : forall v d s0 s, Bd d s0 s -> Bd d s0 (set_cur_ep v s).
+Proof. intros v d s0 s H; apply (Bd_same _ _ _ _ H); destruct s; reflexivity. Qed.
+#[export] Hint Resolve Bd_set_cur_ep : bddb.
+Lemma Bd_set_st : forall v d s0 s, Bd d s0 s -> Bd d s0 (set_st v s).
+Proof. intros v d s0 s H; apply (Bd_same _ _ _ _ H); destruct s; reflexivity. Qed.
+#[export] Hint Resolve Bd_set_st : bddb.
+Lemma Bd_set_stamp : forall v d s0 s, Bd d s0 s -> Bd d s0 (set_stamp v s).
+Proof. intros v d s0 s H; apply (Bd_same _ _ _ _ H); destruct s; reflexivity. Qed.
+#[export] Hint Resolve Bd_set_stamp : bddb.
+Lemma Bd_set_err : forall v d s0 s, Bd d s0 s -> Bd d s0 (set_err v s).
+Proof. intros v d s0 s H; apply (Bd_same _ _ _ _ H); destruct s; reflexivity. Qed.
+#[export] Hint Resolve Bd_set_err : bddb.
+Lemma Bd_set_stream_error : forall v d s0 s, Bd d s0 s -> Bd d s0 (set_stream_error v s).
+Proof. intros v d s0 s H; apply (Bd_same _ _ _ _ H); destruct s; reflexivity. Qed.
+#[export] Hint Resolve Bd_set_stream_error : bddb.
+Lemma Bd_set_secured : forall v d s0 s, Bd d s0 s -> Bd d s0 (set_secured v s).
+Proof. intros v d s0 s H; apply (Bd_same _ _ _ _ H); destruct s; reflexivity. Qed.
+#[export] Hint Resolve Bd_set_secured : bddb.
+Lemma Bd_set_tls_present : forall v d s0 s, Bd d s0 s -> Bd d s0 (set_tls_present v s).
+Proof. intros v d s0 s H; apply (Bd_same _ _ _ _ H); destruct s; reflexivity. Qed.
+#[export] Hint Resolve Bd_set_tls_present : bddb.
+Lemma Bd_set_tls_failed : forall v d s0 s, Bd d s0 s -> Bd d s0 (set_tls_failed v s).
+Proof. intros v d s0 s H; apply (Bd_same _ _ _ _ H); destruct s; reflexivity. Qed.
+#[export] Hint Resolve Bd_set_tls_failed : bddb.
+Lemma Bd_set_tls_support : forall v d s0 s, Bd d s0 s -> Bd d s0 (set_tls_support v s).
+Proof. intros v d s0 s H; apply (Bd_same _ _ _ _ H); destruct s; reflexivity. Qed.
+#[export] Hint Resolve Bd_set_tls_support : bddb.
+Lemma Bd_set_sasl : forall v d s0 s, Bd d s0 s -> Bd d s0 (set_sasl v s).
+Proof. intros v d s0 s H; apply (Bd_same _ _ _ _ H); destruct s; reflexivity. Qed.
+#[export] Hint Resolve Bd_set_sasl : bddb.
+Lemma Bd_set_bind_required : forall v d s0 s, Bd d s0 s -> Bd d s0 (set_bind_required v s).
+Proof. intros v d s0 s H; apply (Bd_same _ _ _ _ H); destruct s; reflexivity. Qed.
+#[export] Hint Resolve Bd_set_bind_required : bddb.
+Lemma Bd_set_session_required : forall v d s0 s, Bd d s0 s -> Bd d s0 (set_session_required v s).
+Proof. intros v d s0 s H; apply (Bd_same _ _ _ _ H); destruct s; reflexivity. Qed.
+#[export] Hint Resolve Bd_set_session_required : bddb.
+Lemma Bd_set_comp_supported : forall v d s0 s, Bd d s0 s -> Bd d s0 (set_comp_supported v s).
+Proof. intros v d s0 s H; apply (Bd_same _ _ _ _ H); destruct s; reflexivity. Qed.
+#[export] Hint Resolve Bd_set_comp_supported : bddb.
+Lemma Bd_set_comp_active : forall v d s0 s, Bd d s0 s -> Bd d s0 (set_comp_active v s).
+Proof. intros v d s0 s H; apply (Bd_same _ _ _ _ H); destruct s; reflexivity. Qed.
+#[export] Hint Resolve Bd_set_comp_active : bddb.
+Lemma Bd_set_sm_alloc : forall v d s0 s, Bd d s0 s -> Bd d s0 (set_sm_alloc v s).
+Proof. intros v d s0 s H; apply (Bd_same _ _ _ _ H); destruct s; reflexivity. Qed.
+#[export] Hint Resolve Bd_set_sm_alloc : bddb.
+Lemma Bd_set_sm_support : forall v d s0 s, Bd d s0 s -> Bd d s0 (set_sm_support v s).
+Proof. intros v d s0 s H; apply (Bd_same _ _ _ _ H); destruct s; reflexivity. Qed.
+#[export] Hint Resolve Bd_set_sm_support : bddb.
+Lemma Bd_set_sm_enabled : forall v d s0 s, Bd d s0 s -> Bd d s0 (set_sm_enabled v s).
+Proof. intros v d s0 s H; apply (Bd_same _ _ _ _ H); destruct s; reflexivity. Qed.
+#[export] Hint Resolve Bd_set_sm_enabled : bddb.
+Lemma Bd_set_sm_can_resume : forall v d s0 s, Bd d s0 s -> Bd d s0 (set_sm_can_resume v s).
+Proof. intros v d s0 s H; apply (Bd_same _ _ _ _ H); destruct s; reflexivity. Qed.
+#[export] Hint Resolve Bd_set_sm_can_resume : bddb.
+Lemma Bd_set_sm_resume : forall v d s0 s, Bd d s0 s -> Bd d s0 (set_sm_resume v s).
+Proof. intros v d s0 s H; apply (Bd_same _ _ _ _ H); destruct s; reflexivity. Qed.
+#[export] Hint Resolve Bd_set_sm_resume : bddb.
+Lemma Bd_set_sm_dont_request : forall v d s0 s, Bd d s0 s -> Bd d s0 (set_sm_dont_request v s).
+Proof. intros v d s0 s H; apply (Bd_same _ _ _ _ H); destruct s; reflexivity. Qed.
+#[export] Hint Resolve Bd_set_sm_dont_request : bddb.
+Lemma Bd_set_sm_has_previd : forall v d s0 s, Bd d s0 s -> Bd d s0 (set_sm_has_previd v s).
+Proof. intros v d s0 s H; apply (Bd_same _ _ _ _ H); destruct s; reflexivity. Qed.
+#[export] Hint Resolve Bd_set_sm_has_previd : bddb.
+Lemma Bd_set_sm_has_id : forall v d s0 s, Bd d s0 s -> Bd d s0 (set_sm_has_id v s).
+Proof. intros v d s0 s H; apply (Bd_same _ _ _ _ H); destruct s; reflexivity. Qed.
+#[export] Hint Resolve Bd_set_sm_has_id : bddb.
+Lemma Bd_set_sm_parked : forall v d s0 s, Bd d s0 s -> Bd d s0 (set_sm_parked v s).
+Proof. intros v d s0 s H; apply (Bd_same _ _ _ _ H); destruct s; reflexivity. Qed.
+#[export] Hint Resolve Bd_set_sm_parked : bddb.
+Lemma Bd_set_sm_r_sent : forall v d s0 s, Bd d s0 s -> Bd d s0 (set_sm_r_sent v s).
+Proof. intros v d s0 s H; apply (Bd_same _ _ _ _ H); destruct s; reflexivity. Qed.
+#[export] Hint Resolve Bd_set_sm_r_sent : bddb.
+Lemma Bd_set_sm_bind_saved : forall v d s0 s, Bd d s0 s -> Bd d s0 (set_sm_bind_saved v s).
+Proof. intros v d s0 s H; apply (Bd_same _ _ _ _ H); destruct s; reflexivity. Qed.
+#[export] Hint Resolve Bd_set_sm_bind_saved : bddb.
+Lemma Bd_set_bound_jid : forall v d s0 s, Bd d s0 s -> Bd d s0 (set_bound_jid v s).
+Proof. intros v d s0 s H; apply (Bd_same _ _ _ _ H); destruct s; reflexivity. Qed.
+#[export] Hint Resolve Bd_set_bound_jid : bddb.
+Lemma Bd_set_stream_id : forall v d s0 s, Bd d s0 s -> Bd d s0 (set_stream_id v s).
+Proof. intros v d s0 s H; apply (Bd_same _ _ _ _ H); destruct s; reflexivity. Qed.
+#[export] Hint Resolve Bd_set_stream_id : bddb.
+Lemma Bd_set_neg_done : forall v d s0 s, Bd d s0 s -> Bd d s0 (set_neg_done v s).
+Proof. intros v d s0 s H; apply (Bd_same _ _ _ _ H); destruct s; reflexivity. Qed.
+#[export] Hint Resolve Bd_set_neg_done : bddb.
+Lemma Bd_set_timed : forall v d s0 s, Bd d s0 s -> Bd d s0 (set_timed v s).
+Proof. intros v d s0 s H; apply (Bd_same _ _ _ _ H); destruct s; reflexivity. Qed.
+#[export] Hint Resolve Bd_set_timed : bddb.
+Lemma Bd_set_sendq : forall v d s0 s, Bd d s0 s -> Bd d s0 (set_sendq v s).
+Proof. intros v d s0 s H; apply (Bd_same _ _ _ _ H); destruct s; reflexivity. Qed.
+#[export] Hint Resolve Bd_set_sendq : bddb.
+Lemma Bd_set_rxq : forall v d s0 s, Bd d s0 s -> Bd d s0 (set_rxq v s).
+Proof. intros v d s0 s H; apply (Bd_same _ _ _ _ H); destruct s; reflexivity. Qed.
+#[export] Hint Resolve Bd_set_rxq : bddb.
+Lemma Bd_set_smq : forall v d s0 s, Bd d s0 s -> Bd d s0 (set_smq v s).
+Proof. intros v d s0 s H; apply (Bd_same _ _ _ _ H); destruct s; reflexivity. Qed.
+#[export] Hint Resolve Bd_set_smq : bddb.
+Lemma Bd_set_sm_sent : forall v d s0 s, Bd d s0 s -> Bd d s0 (set_sm_sent v s).
+Proof. intros v d s0 s H; apply (Bd_same _ _ _ _ H); destruct s; reflexivity. Qed.
+#[export] Hint Resolve Bd_set_sm_sent : bddb.
+Lemma Bd_set_scram_serial : forall v d s0 s, Bd d s0 s -> Bd d s0 (set_scram_serial v s).
+Proof. intros v d s0 s H; apply (Bd_same _ _ _ _ H); destruct s; reflexivity. Qed.
+#[export] Hint Resolve Bd_set_scram_serial : bddb.
+Lemma Bd_set_crashed : forall v d s0 s, Bd d s0 s -> Bd d s0 (set_crashed v s).
+Proof. intros v d s0 s H; apply (Bd_same _ _ _ _ H); destruct s; reflexivity. Qed.
+#[export] Hint Resolve Bd_set_crashed : bddb.
+Lemma Bd_set_gh : forall v d s0 s, Bd d s0 s -> Bd d s0 (set_gh v s).
+Proof. intros v d s0 s H; apply (Bd_same _ _ _ _ H); destruct s; reflexivity. Qed.
+#[export] Hint Resolve Bd_set_gh : bddb.
+Lemma Bd_upg : forall f d s0 s, Bd d s0 s -> Bd d s0 (upg f s).
+Proof. intros f d s0 s H; apply (Bd_same _ _ _ _ H); destruct s; reflexivity. Qed.
+#[export] Hint Resolve Bd_upg : bddb.
+
+Lemma filter_length_app : forall {A} (f : A -> bool) a b,
+  List.length (filter f (a ++ b)) = (List.length (filter f a) + List.length (filter f b))%nat.
+Proof. intros. rewrite filter_app, app_length. reflexivity. Qed.
+
+Lemma Bd_h_add : forall k d s0 s, Bd d s0 s -> Bd (b2n (is_main k) + d) s0 (h_add k s).
+Proof.
+  intros k d s0 s H. unfold h_add. destruct (h_has k s).
+  - apply (Bd_weaken _ _ _ _ H). lia.
+  - destruct H. constructor.
+    + unfold marks, hmarks, imarks, pending in *. sproj. rewrite filter_length_app. cbn [filter fst].
+      destruct (is_main k); cbn [List.length b2n]; lia.
+    + sproj. destruct bd_h0 as [l E]. exists (l ++ [(k, false)]). rewrite E, app_assoc. reflexivity.
+    + sproj. assumption.
+    + sproj. assumption.
+Qed.
+Lemma Bd_id_add : forall k d s0 s, Bd d s0 s -> Bd (b2n (is_main_id k) + d) s0 (id_add k s).
+Proof.
+  intros k d s0 s H. unfold id_add. destruct (id_has k s).
+  - apply (Bd_weaken _ _ _ _ H). lia.
+  - destruct H. constructor.
+    + unfold marks, hmarks, imarks, pending in *. sproj. rewrite filter_length_app. cbn [filter fst].
+      destruct (is_main_id k); cbn [List.length b2n]; lia.
+    + sproj. assumption.
+    + sproj. destruct bd_i0 as [l E]. exists (l ++ [(k, false)]). rewrite E, app_assoc. reflexivity.
+    + sproj. assumption.
+Qed.
+Lemma Bd_prepare_reset : forall h d s0 s, Bd d s0 s -> Bd (1 + d) s0 (prepare_reset h s).
+Proof.
+  intros h d s0 s []. unfold prepare_reset. constructor; sproj; auto.
+  unfold marks, hmarks, imarks, pending in *. sproj.
+  destruct (client_oh h && (true || is_depth0 (ps s))), (client_oh (oh s) && (reset_parser s || is_depth0 (ps s))); cbn [b2n] in *; lia.
+Qed.
+#[export] Hint Resolve Bd_h_add Bd_id_add Bd_prepare_reset : bddb.
+
+Ltac bd := cases; leaf; (eapply Bd_weaken; [eauto 40 with bddb | sproj; cbn [b2n is_main is_main_id client_oh andb negb Nat.add]; lia]).
+Lemma Bd_q_append : forall w u sm d s0 s, Bd d s0 s -> Bd (0 + d) s0 (q_append w u sm s).
+Proof. intros w u sm d s0 s H; apply (Bd_same _ _ _ _ H); unfold q_append; cases; reflexivity. Qed.
+#[export] Hint Resolve Bd_q_append : bddb.
+Lemma Bd_send_gated : forall w u sm d s0 s, Bd d s0 s -> Bd (0 + d) s0 (send_gated w u sm s).
+Proof. intros; unfold send_gated, ret; bd. Qed.
+#[export] Hint Resolve Bd_send_gated : bddb.
+Lemma Bd_send_raw_m : forall w u sm d s0 s, Bd d s0 s -> Bd (0 + d) s0 (send_raw_m w u sm s).
+Proof. intros; unfold send_raw_m, ret; bd. Qed.
+#[export] Hint Resolve Bd_send_raw_m : bddb.
+Lemma Bd_timed_add : forall k n d s0 s, Bd d s0 s -> Bd (0 + d) s0 (timed_add k n s).
+Proof. intros; unfold timed_add, ret; bd. Qed.
+#[export] Hint Resolve Bd_timed_add : bddb.
+Lemma Bd_timed_del : forall k d s0 s, Bd d s0 s -> Bd (0 + d) s0 (timed_del k s).
+Proof. intros; unfold timed_del, ret; bd. Qed.
+#[export] Hint Resolve Bd_timed_del : bddb.
+Lemma Bd_timed_reset_all : forall n d s0 s, Bd d s0 s -> Bd (0 + d) s0 (timed_reset_all n s).
+Proof. intros; unfold timed_reset_all, ret; bd. Qed.
+#[export] Hint Resolve Bd_timed_reset_all : bddb.
+Lemma Bd_timed_set_stamp : forall k n d s0 s, Bd d s0 s -> Bd (0 + d) s0 (timed_set_stamp k n s).
+Proof. intros; unfold timed_set_stamp, ret; bd. Qed.
+#[export] Hint Resolve Bd_timed_set_stamp : bddb.
+Lemma Bd_reset_sm_for_reconnect : forall d s0 s, Bd d s0 s -> Bd (0 + d) s0 (reset_sm_for_reconnect s).
+Proof. intros; unfold reset_sm_for_reconnect, ret; bd. Qed.
+#[export] Hint Resolve Bd_reset_sm_for_reconnect : bddb.
+Lemma Bd_sm_queue_cleanup : forall h d s0 s, Bd d s0 s -> Bd (0 + d) s0 (sm_queue_cleanup h s).
+Proof. intros; unfold sm_queue_cleanup, ret; bd. Qed.
+#[export] Hint Resolve Bd_sm_queue_cleanup : bddb.
+Lemma Bd_sm_queue_resend : forall d s0 s, Bd d s0 s -> Bd (0 + d) s0 (sm_queue_resend s).
+Proof.
+  intros d s0 s H. unfold sm_queue_resend. apply (fold_left_inv (Bd (0 + d) s0)).
+  - intros a b Ha. eapply Bd_weaken; [apply Bd_send_raw_m; exact Ha | lia].
+  - apply (Bd_weaken d); [eauto with bddb | lia].
+Qed.
+#[export] Hint Resolve Bd_sm_queue_resend : bddb.
+Lemma Bd_conn_disconnect : forall d s0 s, Bd d s0 s -> Bd (0 + d) s0 (fst (conn_disconnect s)).
+Proof. intros; name_result; unfold conn_disconnect, ret; bd. Qed.
+#[export] Hint Resolve Bd_conn_disconnect : bddb.
+Lemma Bd_xmpp_disconnect : forall n d s0 s, Bd d s0 s -> Bd (0 + d) s0 (xmpp_disconnect n s).
+Proof. intros; unfold xmpp_disconnect, ret; bd. Qed.
+#[export] Hint Resolve Bd_xmpp_disconnect : bddb.
+Lemma Bd_conn_open_stream : forall d s0 s, Bd d s0 s -> Bd (0 + d) s0 (conn_open_stream s).
+Proof. intros; unfold conn_open_stream, ret; bd. Qed.
+#[export] Hint Resolve Bd_conn_open_stream : bddb.
+Lemma Bd_conn_tls_start : forall d s0 s, Bd d s0 s -> Bd (0 + d) s0 (fst (fst (conn_tls_start s))).
+Proof. intros; name_result; unfold conn_tls_start; bd. Qed.
+#[export] Hint Resolve Bd_conn_tls_start : bddb.
+Lemma Bd_stream_negotiation_success : forall d s0 s, Bd d s0 s -> Bd (0 + d) s0 (fst (stream_negotiation_success s)).
+Proof. intros; name_result; unfold stream_negotiation_success, ret; bd. Qed.
+#[export] Hint Resolve Bd_stream_negotiation_success : bddb.
+Lemma Bd_do_bind : forall n b d s0 s, Bd d s0 s -> Bd (1 + d) s0 (fst (do_bind n b s)).
+Proof. intros; name_result; unfold do_bind, ret; bd. Qed.
+#[export] Hint Resolve Bd_do_bind : bddb.
+Lemma Bd_session_start : forall n d s0 s, Bd d s0 s -> Bd (1 + d) s0 (session_start n s).
+Proof. intros; unfold session_start, ret; bd. Qed.
+#[export] Hint Resolve Bd_session_start : bddb.
+Lemma Bd_sm_enable : forall d s0 s, Bd d s0 s -> Bd (1 + d) s0 (sm_enable s).
+Proof. intros; unfold sm_enable, ret; bd. Qed.
+#[export] Hint Resolve Bd_sm_enable : bddb.
+Lemma Bd_auth_legacy : forall n d s0 s, Bd d s0 s -> Bd (0 + d) s0 (auth_legacy n s).
+Proof. intros; unfold auth_legacy, ret; bd. Qed.
+#[export] Hint Resolve Bd_auth_legacy : bddb.
+Lemma Bd_auth : forall fuel n d s0 s, Bd d s0 s -> Bd (1 + d) s0 (fst (auth fuel n s)).
+Proof.
+  induction fuel; intros; name_result; cbn [auth]; unfold ret; cases; leaf;
+    try (eapply Bd_weaken; [eauto 40 with bddb | sproj; cbn [b2n is_main is_main_id client_oh andb negb Nat.add]; lia]).
+Qed.
+#[export] Hint Resolve Bd_auth : bddb.
+Lemma Bd_sasl_result : forall n e d s0 s, Bd d s0 s -> Bd (1 + d) s0 (fst (sasl_result n e s)).
+Proof. intros; name_result; unfold sasl_result, ret; bd. Qed.
+#[export] Hint Resolve Bd_sasl_result : bddb.
+Lemma Bd_features_sasl : forall n e d s0 s, Bd d s0 s -> Bd (1 + d) s0 (fst (features_sasl n e s)).
+Proof. intros; name_result; unfold features_sasl, ret; bd. Qed.
+#[export] Hint Resolve Bd_features_sasl : bddb.
+Lemma Bd_call_id_handler : forall k n e d s0 s, Bd d s0 s -> Bd (b2n (is_main_id k) + d) s0 (fst (call_id_handler k n e s)).
+Proof. intros k; destruct k; intros; name_result; unfold call_id_handler, ret; bd. Qed.
+#[export] Hint Resolve Bd_call_id_handler : bddb.
+Lemma Bd_note_rx : forall e d s0 s, Bd d s0 s -> Bd (0 + d) s0 (note_rx e s).
+Proof. intros e d s0 s H; apply (Bd_same _ _ _ _ H); unfold note_rx; reflexivity. Qed.
+#[export] Hint Resolve Bd_note_rx : bddb.
+Lemma Bd_sm_handle : forall e d s0 s, Bd d s0 s -> Bd (0 + d) s0 (sm_handle e s).
+Proof. intros; unfold sm_handle, ret; bd. Qed.
+#[export] Hint Resolve Bd_sm_handle : bddb.
+Lemma Bd_open_handler : forall n d s0 s, Bd d s0 s -> Bd (b2n (client_oh (oh s)) + d) s0 (fst (open_handler n s)).
+Proof. intros; name_result; unfold open_handler, ret; bd. Qed.
+#[export] Hint Resolve Bd_open_handler : bddb.
+Lemma Bd_stream_start : forall n a b d s0 s, Bd d s0 s -> Bd (b2n (client_oh (oh s)) + d) s0 (fst (stream_start n a b s)).
+Proof. intros; name_result; unfold stream_start, ret; bd. Qed.
+#[export] Hint Resolve Bd_stream_start : bddb.
+Lemma Bd_stream_end : forall d s0 s, Bd d s0 s -> Bd (0 + d) s0 (fst (stream_end s)).
+Proof. intros; name_result; unfold stream_end, ret; bd. Qed.
+#[export] Hint Resolve Bd_stream_end : bddb.
+Lemma Bd_connect_next : forall n d s0 s, Bd d s0 s -> Bd (0 + d) s0 (fst (fst (connect_next n s))).
+Proof. intros; name_result; unfold connect_next, ret; bd. Qed.
+#[export] Hint Resolve Bd_connect_next : bddb.
+
+(* ------------------------------------------------------------------ list observables *)
+Lemma h_has_app : forall k (s : state) l, existsb (fun x : hkind * bool => hkind_eqb k (fst x)) (handlers s ++ l) =
+  h_has k s || existsb (fun x : hkind * bool => hkind_eqb k (fst x)) l.
+Proof. intros; unfold h_has; apply existsb_app. Qed.
+Lemma hkind_eqb_refl : forall k, hkind_eqb k k = true.
+Proof.
+  destruct k; cbn; auto.
+  - destruct m; cbn; auto. apply Nat.eqb_refl.
+  - rewrite !Nat.eqb_refl. reflexivity.
+Qed.
+Lemma mech_eqb_eq : forall a b, mech_eqb a b = true -> a = b.
+Proof. destruct a, b; cbn; intros H; try discriminate; auto. apply Nat.eqb_eq in H. congruence. Qed.
+Lemma hkind_eqb_eq : forall a b, hkind_eqb a b = true -> a = b.
+Proof.
+  destruct a, b; cbn; intros H; try discriminate; auto.
+  - apply mech_eqb_eq in H. congruence.
+  - apply andb_prop in H. destruct H as [A B]. apply Nat.eqb_eq in A. apply Nat.eqb_eq in B. congruence.
+Qed.
+Lemma h_has_h_add : forall k' k s, h_has k' (h_add k s) = h_has k' s || hkind_eqb k' k.
+Proof.
+  intros k' k s. unfold h_add. destruct (h_has k s) eqn:E.
+  - destruct (hkind_eqb k' k) eqn:E2; [|rewrite orb_false_r; reflexivity].
+    apply hkind_eqb_eq in E2. subst k'. rewrite E. reflexivity.
+  - unfold h_has at 1. sproj. rewrite h_has_app. cbn. rewrite orb_false_r. reflexivity.
+Qed.
+Lemma h_has_h_del : forall k' k s, h_has k' (h_del k s) = h_has k' s && negb (hkind_eqb k' k).
+Proof.
+  intros k' k s. unfold h_del, h_has. sproj. induction (handlers s) as [|x l IH]; [reflexivity|].
+  cbn [filter existsb]. destruct (hkind_eqb k (fst x)) eqn:E; cbn [negb].
+  - rewrite IH. apply hkind_eqb_eq in E. subst k.
+    destruct (hkind_eqb k' (fst x)) eqn:E2; cbn [orb negb]; rewrite ?andb_false_r; reflexivity.
+  - cbn [existsb]. rewrite IH. destruct (hkind_eqb k' (fst x)) eqn:E2; cbn [orb]; [|reflexivity].
+    apply hkind_eqb_eq in E2. subst k'.
+    assert (hkind_eqb (fst x) k = false) as ->.
+    { destruct (hkind_eqb (fst x) k) eqn:E3; auto. apply hkind_eqb_eq in E3. subst k. rewrite hkind_eqb_refl in E. discriminate. }
+    reflexivity.
+Qed.
+Lemma h_has_enable_all : forall k s, h_has k (set_handlers (map (fun x => (fst x, true)) (handlers s)) s) = h_has k s.
+Proof.
+  intros. unfold h_has. sproj. induction (handlers s) as [|x l IH]; [reflexivity|]. cbn. rewrite IH. reflexivity.
+Qed.
+
+(* ================================================================== TI: TLS bookkeeping at rest *)
+Definition TI (s : state) : Prop :=
+  tls_support s = false /\
+  (tls_present s = true -> secured s = true) /\
+  (secured s = true -> h_has HProceedTls s = false).
+Ltac ti_split := refine (conj _ (conj _ _)).
+Lemma TI_set_f_tls_disabled : forall v s, TI s -> TI (set_f_tls_disabled v s).
+Proof. intros v []; exact (fun h => h). Qed.
+#[export] Hint Resolve TI_set_f_tls_disabled : tidb.
+Lemma TI_set_f_tls_mandatory : forall v s, TI s -> TI (set_f_tls_mandatory v s).
+Proof. intros v []; exact (fun h => h). Qed.
+#[export] Hint Resolve TI_set_f_tls_mandatory : tidb.
+Lemma TI_set_f_legacy_ssl : forall v s, TI s -> TI (set_f_legacy_ssl v s).
+Proof. intros v []; exact (fun h => h). Qed.
+#[export] Hint Resolve TI_set_f_legacy_ssl : tidb.
+Lemma TI_set_f_tls_trust : forall v s, TI s -> TI (set_f_tls_trust v s).
+Proof. intros v []; exact (fun h => h). Qed.
+#[export] Hint Resolve TI_set_f_tls_trust : tidb.
+Lemma TI_set_f_legacy_auth : forall v s, TI s -> TI (set_f_legacy_auth v s).
+Proof. intros v []; exact (fun h => h). Qed.
+#[export] Hint Resolve TI_set_f_legacy_auth : tidb.
+Lemma TI_set_f_sm_disable : forall v s, TI s -> TI (set_f_sm_disable v s).
+Proof. intros v []; exact (fun h => h). Qed.
+#[export] Hint Resolve TI_set_f_sm_disable : tidb.
+Lemma TI_set_f_comp_allowed : forall v s, TI s -> TI (set_f_comp_allowed v s).
+Proof. intros v []; exact (fun h => h). Qed.
+#[export] Hint Resolve TI_set_f_comp_allowed : tidb.
+Lemma TI_set_f_comp_dont_reset : forall v s, TI s -> TI (set_f_comp_dont_reset v s).
+Proof. intros v []; exact (fun h => h). Qed.
+#[export] Hint Resolve TI_set_f_comp_dont_reset : tidb.
+Lemma TI_set_jid_set : forall v s, TI s -> TI (set_jid_set v s).
+Proof. intros v []; exact (fun h => h). Qed.
+#[export] Hint Resolve TI_set_jid_set : tidb.
+Lemma TI_set_jid_node : forall v s, TI s -> TI (set_jid_node v s).
+Proof. intros v []; exact (fun h => h). Qed.
+#[export] Hint Resolve TI_set_jid_node : tidb.
+Lemma TI_set_jid_res : forall v s, TI s -> TI (set_jid_res v s).
+Proof. intros v []; exact (fun h => h). Qed.
+#[export] Hint Resolve TI_set_jid_res : tidb.
+Lemma TI_set_pass_set : forall v s, TI s -> TI (set_pass_set v s).
+Proof. intros v []; exact (fun h => h). Qed.
+#[export] Hint Resolve TI_set_pass_set : tidb.
+Lemma TI_set_cert_set : forall v s, TI s -> TI (set_cert_set v s).
+Proof. intros v []; exact (fun h => h). Qed.
+#[export] Hint Resolve TI_set_cert_set : tidb.
+Lemma TI_set_is_raw : forall v s, TI s -> TI (set_is_raw v s).
+Proof. intros v []; exact (fun h => h). Qed.
+#[export] Hint Resolve TI_set_is_raw : tidb.
+Lemma TI_set_typ : forall v s, TI s -> TI (set_typ v s).
+Proof. intros v []; exact (fun h => h). Qed.
+#[export] Hint Resolve TI_set_typ : tidb.
+Lemma TI_set_user_handler : forall v s, TI s -> TI (set_user_handler v s).
+Proof. intros v []; exact (fun h => h). Qed.
+#[export] Hint Resolve TI_set_user_handler : tidb.
+Lemma TI_set_user_timed : forall v s, TI s -> TI (set_user_timed v s).
+Proof. intros v []; exact (fun h => h). Qed.
+#[export] Hint Resolve TI_set_user_timed : tidb.
+Lemma TI_set_tlsnew_ok : forall v s, TI s -> TI (set_tlsnew_ok v s).
+Proof. intros v []; exact (fun h => h). Qed.
+#[export] Hint Resolve TI_set_tlsnew_ok : tidb.
+Lemma TI_set_cb_avail : forall v s, TI s -> TI (set_cb_avail v s).
+Proof. intros v []; exact (fun h => h). Qed.
+#[export] Hint Resolve TI_set_cb_avail : tidb.
+Lemma TI_set_tls_verdicts : forall v s, TI s -> TI (set_tls_verdicts v s).
+Proof. intros v []; exact (fun h => h). Qed.
+#[export] Hint Resolve TI_set_tls_verdicts : tidb.
+Lemma TI_set_next_cands : forall v s, TI s -> TI (set_next_cands v s).
+Proof. intros v []; exact (fun h => h). Qed.
+#[export] Hint Resolve TI_set_next_cands : tidb.
+Lemma TI_set_cands : forall v s, TI s -> TI (set_cands v s).
+Proof. intros v []; exact (fun h => h). Qed.
+#[export] Hint Resolve TI_set_cands : tidb.
+Lemma TI_set_cur_ep : forall v s, TI s -> TI (set_cur_ep v s).
+Proof. intros v []; exact (fun h => h). Qed.
+#[export] Hint Resolve TI_set_cur_ep : tidb.
+Lemma TI_set_st : forall v s, TI s -> TI (set_st v s).
+Proof. intros v []; exact (fun h => h). Qed.
+#[export] Hint Resolve TI_set_st : tidb.
+Lemma TI_set_stamp : forall v s, TI s -> TI (set_stamp v s).
+Proof. intros v []; exact (fun h => h). Qed.
+#[export] Hint Resolve TI_set_stamp : tidb.
+Lemma TI_set_err : forall v s, TI s -> TI (set_err v s).
+Proof. intros v []; exact (fun h => h). Qed.
+#[export] Hint Resolve TI_set_err : tidb.
+Lemma TI_set_stream_error : forall v s, TI s -> TI (set_stream_error v s).
+Proof. intros v []; exact (fun h => h). Qed.
+#[export] Hint Resolve TI_set_stream_error : tidb.
+Lemma TI_set_tls_failed : forall v s, TI s -> TI (set_tls_failed v s).
+Proof. intros v []; exact (fun h => h). Qed.
+#[export] Hint Resolve TI_set_tls_failed : tidb.
+Lemma TI_set_sasl : forall v s, TI s -> TI (set_sasl v s).
+Proof. intros v []; exact (fun h => h). Qed.
+#[export] Hint Resolve TI_set_sasl : tidb.
+Lemma TI_set_bind_required : forall v s, TI s -> TI (set_bind_required v s).
+Proof. intros v []; exact (fun h => h). Qed.
+#[export] Hint Resolve TI_set_bind_required : tidb.
+Lemma TI_set_session_required : forall v s, TI s -> TI (set_session_required v s).
+Proof. intros v []; exact (fun h => h). Qed.
+#[export] Hint Resolve TI_set_session_required : tidb.
+Lemma TI_set_comp_supported : forall v s, TI s -> TI (set_comp_supported v s).
+Proof. intros v []; exact (fun h => h). Qed.
+#[export] Hint Resolve TI_set_comp_supported : tidb.
+Lemma TI_set_comp_active : forall v s, TI s -> TI (set_comp_active v s).
+Proof. intros v []; exact (fun h => h). Qed.
+#[export] Hint Resolve TI_set_comp_active : tidb.
+Lemma TI_set_sm_alloc : forall v s, TI s -> TI (set_sm_alloc v s).
+Proof. intros v []; exact (fun h => h). Qed.
+#[export] Hint Resolve TI_set_sm_alloc : tidb.
+Lemma TI_set_sm_support : forall v s, TI s -> TI (set_sm_support v s).
+Proof. intros v []; exact (fun h => h). Qed.
+#[export] Hint Resolve TI_set_sm_support : tidb.
+Lemma TI_set_sm_enabled : forall v s, TI s -> TI (set_sm_enabled v s).
+Proof. intros v []; exact (fun h => h). Qed.
+#[export] Hint Resolve TI_set_sm_enabled : tidb.
+Lemma TI_set_sm_can_resume : forall v s, TI s -> TI (set_sm_can_resume v s).
+Proof. intros v []; exact (fun h => h). Qed.
+#[export] Hint Resolve TI_set_sm_can_resume : tidb.
+Lemma TI_set_sm_resume : forall v s, TI s -> TI (set_sm_resume v s).
+Proof. intros v []; exact (fun h => h). Qed.
+#[export] Hint Resolve TI_set_sm_resume : tidb.
+Lemma TI_set_sm_dont_request : forall v s, TI s -> TI (set_sm_dont_request v s).
+Proof. intros v []; exact (fun h => h). Qed.
+#[export] Hint Resolve TI_set_sm_dont_request : tidb.
+Lemma TI_set_sm_has_previd : forall v s, TI s -> TI (set_sm_has_previd v s).
+Proof. intros v []; exact (fun h => h). Qed.
+#[export] Hint Resolve TI_set_sm_has_previd : tidb.
+Lemma TI_set_sm_has_id : forall v s, TI s -> TI (set_sm_has_id v s).
+Proof. intros v []; exact (fun h => h). Qed.
+#[export] Hint Resolve TI_set_sm_has_id : tidb.
+Lemma TI_set_sm_parked : forall v s, TI s -> TI (set_sm_parked v s).
+Proof. intros v []; exact (fun h => h). Qed.
+#[export] Hint Resolve TI_set_sm_parked : tidb.
+Lemma TI_set_sm_r_sent : forall v s, TI s -> TI (set_sm_r_sent v s).
+Proof. intros v []; exact (fun h => h). Qed.
+#[export] Hint Resolve TI_set_sm_r_sent : tidb.
+Lemma TI_set_sm_bind_saved : forall v s, TI s -> TI (set_sm_bind_saved v s).
+Proof. intros v []; exact (fun h => h). Qed.
+#[export] Hint Resolve TI_set_sm_bind_saved : tidb.
+Lemma TI_set_bound_jid : forall v s, TI s -> TI (set_bound_jid v s).
+Proof. intros v []; exact (fun h => h). Qed.
+#[export] Hint Resolve TI_set_bound_jid : tidb.
+Lemma TI_set_stream_id : forall v s, TI s -> TI (set_stream_id v s).
+Proof. intros v []; exact (fun h => h). Qed.
+#[export] Hint Resolve TI_set_stream_id : tidb.
+Lemma TI_set_neg_done : forall v s, TI s -> TI (set_neg_done v s).
+Proof. intros v []; exact (fun h => h). Qed.
+#[export] Hint Resolve TI_set_neg_done : tidb.
+Lemma TI_set_reset_parser : forall v s, TI s -> TI (set_reset_parser v s).
+Proof. intros v []; exact (fun h => h). Qed.
+#[export] Hint Resolve TI_set_reset_parser : tidb.
+Lemma TI_set_oh : forall v s, TI s -> TI (set_oh v s).
+Proof. intros v []; exact (fun h => h). Qed.
+#[export] Hint Resolve TI_set_oh : tidb.
+Lemma TI_set_ps : forall v s, TI s -> TI (set_ps v s).
+Proof. intros v []; exact (fun h => h). Qed.
+#[export] Hint Resolve TI_set_ps : tidb.
+Lemma TI_set_idhandlers : forall v s, TI s -> TI (set_idhandlers v s).
+Proof. intros v []; exact (fun h => h). Qed.
+#[export] Hint Resolve TI_set_idhandlers : tidb.
+Lemma TI_set_timed : forall v s, TI s -> TI (set_timed v s).
+Proof. intros v []; exact (fun h => h). Qed.
+#[export] Hint Resolve TI_set_timed : tidb.
+Lemma TI_set_sendq : forall v s, TI s -> TI (set_sendq v s).
+Proof. intros v []; exact (fun h => h). Qed.
+#[export] Hint Resolve TI_set_sendq : tidb.
+Lemma TI_set_rxq : forall v s, TI s -> TI (set_rxq v s).
+Proof. intros v []; exact (fun h => h). Qed.
+#[export] Hint Resolve TI_set_rxq : tidb.
+Lemma TI_set_smq : forall v s, TI s -> TI (set_smq v s).
+Proof. intros v []; exact (fun h => h). Qed.
+#[export] Hint Resolve TI_set_smq : tidb.
+Lemma TI_set_sm_sent : forall v s, TI s -> TI (set_sm_sent v s).
+Proof. intros v []; exact (fun h => h). Qed.
+#[export] Hint Resolve TI_set_sm_sent : tidb.
+Lemma TI_set_scram_serial : forall v s, TI s -> TI (set_scram_serial v s).
+Proof. intros v []; exact (fun h => h). Qed.
+#[export] Hint Resolve TI_set_scram_serial : tidb.
+Lemma TI_set_crashed : forall v s, TI s -> TI (set_crashed v s).
+Proof. intros v []; exact (fun h => h). Qed.
+#[export] Hint Resolve TI_set_crashed : tidb.
+Lemma TI_set_gh : forall v s, TI s -> TI (set_gh v s).
+Proof. intros v []; exact (fun h => h). Qed.
+#[export] Hint Resolve TI_set_gh : tidb.
+Lemma TI_upg : forall f s, TI s -> TI (upg f s).
+Proof. intros f []; exact (fun h => h). Qed.
+Lemma TI_set_tls_present_false : forall s, TI s -> TI (set_tls_present false s).
+Proof. intros s (ti_ts & ti_i6 & ti_i2). ti_split; sproj; auto. intros; discriminate. Qed.
+Lemma TI_enable_all : forall s, TI s -> TI (set_handlers (map (fun x => (fst x, true)) (handlers s)) s).
+Proof. intros s (ti_ts & ti_i6 & ti_i2). ti_split; sproj; auto. intros S. rewrite h_has_enable_all. auto. Qed.
+#[export] Hint Resolve TI_upg TI_set_tls_present_false TI_enable_all : tidb.
+Lemma TI_q_append : forall w u sm s, TI s -> TI (q_append w u sm s).
+Proof. intros; unfold q_append; cases; eauto 10 with tidb. Qed.
+#[export] Hint Resolve TI_q_append : tidb.
+Lemma TI_send_gated : forall w u sm s, TI s -> TI (send_gated w u sm s).
+Proof. intros; unfold send_gated, ret; cases; leaf; eauto 30 with tidb. Qed.
+#[export] Hint Resolve TI_send_gated : tidb.
+Lemma TI_send_raw_m : forall w u sm s, TI s -> TI (send_raw_m w u sm s).
+Proof. intros; unfold send_raw_m, ret; cases; leaf; eauto 30 with tidb. Qed.
+#[export] Hint Resolve TI_send_raw_m : tidb.
+Lemma TI_timed_add : forall k n s, TI s -> TI (timed_add k n s).
+Proof. intros; unfold timed_add, ret; cases; leaf; eauto 30 with tidb. Qed.
+#[export] Hint Resolve TI_timed_add : tidb.
+Lemma TI_timed_del : forall k s, TI s -> TI (timed_del k s).
+Proof. intros; unfold timed_del, ret; cases; leaf; eauto 30 with tidb. Qed.
+#[export] Hint Resolve TI_timed_del : tidb.
+Lemma TI_timed_reset_all : forall n s, TI s -> TI (timed_reset_all n s).
+Proof. intros; unfold timed_reset_all, ret; cases; leaf; eauto 30 with tidb. Qed.
+#[export] Hint Resolve TI_timed_reset_all : tidb.
+Lemma TI_timed_set_stamp : forall k n s, TI s -> TI (timed_set_stamp k n s).
+Proof. intros; unfold timed_set_stamp, ret; cases; leaf; eauto 30 with tidb. Qed.
+#[export] Hint Resolve TI_timed_set_stamp : tidb.
+Lemma TI_h_add : forall k s, hkind_eqb HProceedTls k = false -> TI s -> TI (h_add k s).
+Proof.
+  intros k s E (ti_ts & ti_i6 & ti_i2). ti_split; try (unfold h_add; cases; sproj; assumption).
+  intros S. rewrite h_has_h_add, E, orb_false_r. apply ti_i2. revert S. unfold h_add; cases; sproj; auto.
+Qed.
+#[export] Hint Extern 1 (TI (h_add _ _)) => (apply TI_h_add; [reflexivity | ]) : tidb.
+Lemma TI_h_del : forall k s, TI s -> TI (h_del k s).
+Proof.
+  intros k s (ti_ts & ti_i6 & ti_i2). ti_split; try (unfold h_del; sproj; assumption).
+  intros S. rewrite h_has_h_del, ti_i2; auto.
+Qed.
+#[export] Hint Resolve TI_h_del : tidb.
+Lemma TI_id_add : forall k s, TI s -> TI (id_add k s).
+Proof. intros; unfold id_add, ret; cases; leaf; eauto 30 with tidb. Qed.
+#[export] Hint Resolve TI_id_add : tidb.
+Lemma TI_id_del : forall k s, TI s -> TI (id_del k s).
+Proof. intros; unfold id_del, ret; cases; leaf; eauto 30 with tidb. Qed.
+#[export] Hint Resolve TI_id_del : tidb.
+Lemma TI_reset_sm_for_reconnect : forall s, TI s -> TI (reset_sm_for_reconnect s).
+Proof. intros; unfold reset_sm_for_reconnect, ret; cases; leaf; eauto 30 with tidb. Qed.
+#[export] Hint Resolve TI_reset_sm_for_reconnect : tidb.
+Lemma TI_sm_queue_cleanup : forall h s, TI s -> TI (sm_queue_cleanup h s).
+Proof. intros; unfold sm_queue_cleanup, ret; cases; leaf; eauto 30 with tidb. Qed.
+#[export] Hint Resolve TI_sm_queue_cleanup : tidb.
+Lemma TI_sm_queue_resend : forall s, TI s -> TI (sm_queue_resend s).
+Proof. intros; unfold sm_queue_resend. apply fold_left_inv; eauto with tidb. Qed.
+#[export] Hint Resolve TI_sm_queue_resend : tidb.
+Lemma TI_conn_disconnect : forall s, TI s -> TI (fst (conn_disconnect s)).
+Proof. intros; name_result; unfold conn_disconnect, ret; cases; leaf; eauto 30 with tidb. Qed.
+#[export] Hint Resolve TI_conn_disconnect : tidb.
+Lemma TI_xmpp_disconnect : forall n s, TI s -> TI (xmpp_disconnect n s).
+Proof. intros; unfold xmpp_disconnect, ret; cases; leaf; eauto 30 with tidb. Qed.
+#[export] Hint Resolve TI_xmpp_disconnect : tidb.
+Lemma TI_prepare_reset : forall h s, TI s -> TI (prepare_reset h s).
+Proof. intros; unfold prepare_reset, ret; cases; leaf; eauto 30 with tidb. Qed.
+#[export] Hint Resolve TI_prepare_reset : tidb.
+Lemma TI_conn_open_stream : forall s, TI s -> TI (conn_open_stream s).
+Proof. intros; unfold conn_open_stream, ret; cases; leaf; eauto 30 with tidb. Qed.
+#[export] Hint Resolve TI_conn_open_stream : tidb.
+(* conn_tls_start: TLS comes up while the handler that asked for it is still registered; TI is
+   re-established when visit removes that handler (TI_proceed below) *)
+Lemma TI_conn_tls_start_weak : forall s, TI s ->
+  tls_support (fst (fst (conn_tls_start s))) = false /\
+  (tls_present (fst (fst (conn_tls_start s))) = true -> secured (fst (fst (conn_tls_start s))) = true) /\
+  handlers (fst (fst (conn_tls_start s))) = handlers s.
+Proof.
+  intros s (ti_ts & ti_i6 & ti_i2). name_result. unfold conn_tls_start. cases; leaf; sproj; repeat split; auto; intros; discriminate.
+Qed.
+Lemma TI_stream_negotiation_success : forall s, TI s -> TI (fst (stream_negotiation_success s)).
+Proof. intros; name_result; unfold stream_negotiation_success, ret; cases; leaf; eauto 30 with tidb. Qed.
+#[export] Hint Resolve TI_stream_negotiation_success : tidb.
+Lemma TI_do_bind : forall n b s, TI s -> TI (fst (do_bind n b s)).
+Proof. intros; name_result; unfold do_bind, ret; cases; leaf; eauto 30 with tidb. Qed.
+#[export] Hint Resolve TI_do_bind : tidb.
+Lemma TI_session_start : forall n s, TI s -> TI (session_start n s).
+Proof. intros; unfold session_start, ret; cases; leaf; eauto 30 with tidb. Qed.
+#[export] Hint Resolve TI_session_start : tidb.
+Lemma TI_sm_enable : forall s, TI s -> TI (sm_enable s).
+Proof. intros; unfold sm_enable, ret; cases; leaf; eauto 30 with tidb. Qed.
+#[export] Hint Resolve TI_sm_enable : tidb.
+Lemma TI_auth_legacy : forall n s, TI s -> TI (auth_legacy n s).
+Proof. intros; unfold auth_legacy, ret; cases; leaf; eauto 30 with tidb. Qed.
+#[export] Hint Resolve TI_auth_legacy : tidb.
+(* _auth ends with tls_support cleared; it registers the <proceed/> handler only when tls_support was set *)
+Lemma TI_auth_gen : forall fuel n s,
+  (fuel <> O \/ tls_support s = false) ->
+  (tls_present s = true -> secured s = true) ->
+  (secured s = true -> h_has HProceedTls s = false /\ tls_support s = false) ->
+  TI (fst (auth fuel n s)).
+Proof.
+  induction fuel; intros n s F A B; name_result; cbn [auth]; unfold ret.
+  - destruct F as [F|F]; [congruence|]. rewrite F.
+    assert (T0 : TI s) by (ti_split; auto; apply B).
+    cases; leaf; eauto 30 with tidb.
+  - destruct (tls_support s) eqn:T.
+    + assert (S0 : secured s = false) by (destruct (secured s); auto; destruct (B eq_refl); congruence).
+      cases; leaf.
+      * apply IHfuel; sproj; auto. intros; congruence.
+      * match goal with |- TI (set_tls_support false ?x) =>
+          assert (E1 : secured x = secured s) by (unfold send_gated, q_append, h_add; cases; reflexivity);
+          assert (E2 : tls_present x = tls_present s) by (unfold send_gated, q_append, h_add; cases; reflexivity)
+        end.
+        ti_split; sproj; auto; rewrite ?E1, ?E2; auto. intros; congruence.
+    + assert (T0 : TI s) by (ti_split; auto; apply B).
+      cases; leaf; eauto 30 with tidb.
+Qed.
+Lemma TI_auth : forall fuel n s, TI s -> TI (fst (auth fuel n s)).
+Proof. intros fuel n s (A & B & C). apply TI_auth_gen; auto. Qed.
+#[export] Hint Resolve TI_auth : tidb.
+Lemma TI_sasl_result : forall n e s, TI s -> TI (fst (sasl_result n e s)).
+Proof. intros; name_result; unfold sasl_result, ret; cases; leaf; eauto 30 with tidb. Qed.
+#[export] Hint Resolve TI_sasl_result : tidb.
+Lemma TI_features_sasl : forall n e s, TI s -> TI (fst (features_sasl n e s)).
+Proof. intros; name_result; unfold features_sasl, ret; cases; leaf; eauto 30 with tidb. Qed.
+#[export] Hint Resolve TI_features_sasl : tidb.
+Lemma TI_call_handler_other : forall k n e s, hkind_eqb k HFeatures = false -> hkind_eqb k HProceedTls = false ->
+  TI s -> TI (fst (fst (call_handler k n e s))).
+Proof.
+  intros k; destruct k; intros n0 e s K1 K2 H; try discriminate;
+    name_result; unfold call_handler, ret; cases; leaf; eauto 30 with tidb.
+Qed.
+Lemma TI_call_handler_visit : forall k n e s, TI s -> h_has k s = true ->
+  TI (if snd (call_handler k n e s) then fst (fst (call_handler k n e s)) else h_del k (fst (fst (call_handler k n e s)))).
+Proof.
+  intros k n e s H Hk.
+  destruct (hkind_eqb k HFeatures) eqn:K1; [apply hkind_eqb_eq in K1; subst k|].
+  { (* _handle_features *)
+    unfold call_handler. cbv zeta.
+    match goal with |- context [auth 1 n ?x] =>
+      assert (T : TI (fst (auth 1 n x))); [ | destruct (auth 1 n x) as [s4 o4]; cbn [fst snd] in *; apply TI_h_del; exact T ] end.
+    destruct H as (ti_ts & ti_i6 & ti_i2). apply TI_auth_gen; [left; discriminate | | ].
+    - cases; sproj; unfold timed_del; sproj; auto.
+    - cases; intros S; unfold timed_del in *; sproj_all; try congruence;
+        (split; [unfold h_has; sproj; auto | sproj; auto]). }
+  destruct (hkind_eqb k HProceedTls) eqn:K2; [apply hkind_eqb_eq in K2; subst k|].
+  { (* _handle_proceedtls_default *)
+    unfold call_handler. destruct (e_name e); try (cbn [fst snd]; apply TI_h_del; exact H).
+    destruct (TI_conn_tls_start_weak s H) as (W1 & W2 & W3).
+    destruct (conn_tls_start s) as [[s1 o1] ok]. cbn [fst snd] in *.
+    assert (F : forall x, tls_support x = tls_support s1 -> tls_present x = tls_present s1 -> secured x = secured s1 ->
+                TI (h_del HProceedTls x)).
+    { intros x A B C. ti_split.
+      - unfold h_del; sproj. congruence.
+      - unfold h_del; sproj. rewrite B, C. exact W2.
+      - intros _. rewrite h_has_h_del, hkind_eqb_refl. apply andb_false_r. }
+    destruct ok; cbn [fst snd]; apply F;
+      unfold conn_open_stream, prepare_reset, xmpp_disconnect, send_gated, q_append, timed_add; cases; reflexivity. }
+  pose proof (TI_call_handler_other k n e s K1 K2 H) as T.
+  destruct (call_handler k n e s) as [[s1 o1] keep]. cbn [fst snd] in *. destruct keep; auto with tidb.
+Qed.
+Lemma TI_call_id_handler : forall k n e s, TI s -> TI (fst (call_id_handler k n e s)).
+Proof. intros k; destruct k; intros; name_result; unfold call_id_handler, ret; cases; leaf; eauto 30 with tidb. Qed.
+#[export] Hint Resolve TI_call_id_handler : tidb.
+Lemma TI_note_rx : forall e s, TI s -> TI (note_rx e s).
+Proof. intros; unfold note_rx; cbv zeta; eauto with tidb. Qed.
+#[export] Hint Resolve TI_note_rx : tidb.
+Lemma TI_visit : forall n e r k, TI (fst r) -> TI (fst (visit n e r k)).
+Proof.
+  intros n e [s o] k H. cbn [fst] in H. unfold visit.
+  destruct (crashed s); auto. destruct (negb (h_has k s)) eqn:E; auto. apply negb_false_iff in E.
+  destruct (hkind_eqb k HUser && negb (neg_done s)); auto. destruct (negb (filter_match k e)); auto.
+  pose proof (TI_call_handler_visit k n e s H E) as T.
+  destruct (call_handler k n e s) as [[s1 o1] keep]. cbn [fst snd] in *. exact T.
+Qed.
+Lemma TI_fold_visit : forall n e l s o, TI s -> TI (fst (fold_left (visit n e) l (s, o))).
+Proof. intros n e l s o H. apply (fold_left_inv (fun r => TI (fst r))); auto. intros; apply TI_visit; auto. Qed.
+#[export] Hint Resolve TI_fold_visit : tidb.
+Lemma TI_sm_handle : forall e s, TI s -> TI (sm_handle e s).
+Proof. intros; unfold sm_handle, ret; cases; leaf; eauto 30 with tidb. Qed.
+#[export] Hint Resolve TI_sm_handle : tidb.
+Lemma TI_dispatch : forall n e s, TI s -> TI (fst (dispatch n e s)).
+Proof. intros; name_result; unfold dispatch, ret; cases; leaf; eauto 30 with tidb. Qed.
+#[export] Hint Resolve TI_dispatch : tidb.
+Lemma TI_open_handler : forall n s, TI s -> TI (fst (open_handler n s)).
+Proof. intros; name_result; unfold open_handler, ret; cases; leaf; eauto 30 with tidb. Qed.
+#[export] Hint Resolve TI_open_handler : tidb.
+Lemma TI_stream_start : forall n a b s, TI s -> TI (fst (stream_start n a b s)).
+Proof. intros; name_result; unfold stream_start, ret; cases; leaf; eauto 30 with tidb. Qed.
+#[export] Hint Resolve TI_stream_start : tidb.
+Lemma TI_stream_end : forall s, TI s -> TI (fst (stream_end s)).
+Proof. intros; name_result; unfold stream_end, ret; cases; leaf; eauto 30 with tidb. Qed.
+#[export] Hint Resolve TI_stream_end : tidb.
+Lemma TI_feed_item : forall n it s, TI s -> TI (fst (fst (feed_item n it s))).
+Proof. intros; name_result; unfold feed_item, ret; cases; leaf; eauto 30 with tidb. Qed.
+#[export] Hint Resolve TI_feed_item : tidb.
+Lemma TI_feed_items : forall n its s, TI s -> TI (fst (fst (feed_items n its s))).
+Proof. induction its; intros; name_result; cbn [feed_items]; cases; leaf; eauto 30 with tidb. Qed.
+#[export] Hint Resolve TI_feed_items : tidb.
+Lemma TI_call_timed : forall k n s, TI s -> TI (fst (fst (call_timed k n s))).
+Proof. intros k; destruct k; intros; name_result; unfold call_timed, ret; cases; leaf; eauto 30 with tidb. Qed.
+#[export] Hint Resolve TI_call_timed : tidb.
+Lemma TI_visit_timed : forall n r k, TI (fst r) -> TI (fst (visit_timed n r k)).
+Proof. intros n [s o] k H. cbn [fst] in H. name_result. unfold visit_timed. cases; leaf; eauto 30 with tidb. Qed.
+Lemma TI_fold_visit_timed : forall n l s o, TI s -> TI (fst (fold_left (visit_timed n) l (s, o))).
+Proof. intros n l s o H. apply (fold_left_inv (fun r => TI (fst r))); auto. intros; apply TI_visit_timed; auto. Qed.
+#[export] Hint Resolve TI_fold_visit_timed : tidb.
+Lemma TI_fire_timed : forall n s, TI s -> TI (fst (fire_timed n s)).
+Proof. intros; name_result; unfold fire_timed, ret; cases; leaf; eauto 30 with tidb. Qed.
+#[export] Hint Resolve TI_fire_timed : tidb.
+Lemma TI_connect_next : forall n s, TI s -> TI (fst (fst (connect_next n s))).
+Proof. intros; name_result; unfold connect_next, ret; cases; leaf; eauto 30 with tidb. Qed.
+#[export] Hint Resolve TI_connect_next : tidb.
+Lemma TI_conn_established : forall n s, h_has HProceedTls s = false -> TI s -> TI (fst (conn_established n s)).
+Proof.
+  intros n s Hp H. name_result. unfold conn_established.
+  destruct (f_legacy_ssl s && negb (is_raw s)).
+  - destruct (TI_conn_tls_start_weak s H) as (W1 & W2 & W3).
+    destruct (conn_tls_start s) as [[s1 o1] ok]. cbn [fst snd] in *.
+    assert (T1 : TI s1).
+    { ti_split; auto. intros _. unfold h_has. rewrite W3. exact Hp. }
+    cases; leaf; eauto 30 with tidb.
+  - cases; leaf; eauto 30 with tidb.
+Qed.
+
+(* ================================================================== marks through deletions *)
+Lemma hmarks_h_del : forall k s, (hmarks (h_del k s) + b2n (is_main k && h_has k s) <= hmarks s)%nat.
+Proof.
+  intros k s. unfold hmarks, h_del, h_has. sproj. induction (handlers s) as [|x l IH]; [cbn; rewrite andb_false_r; cbn; lia|].
+  cbn [filter existsb]. destruct (hkind_eqb k (fst x)) eqn:E; cbn [negb].
+  - apply hkind_eqb_eq in E. subst k. cbn [orb]. rewrite andb_true_r.
+    destruct (is_main (fst x)) eqn:M; cbn [b2n List.length] in *; [|rewrite andb_false_l in IH; cbn [b2n] in IH; lia].
+    destruct (existsb (fun x0 : hkind * bool => hkind_eqb (fst x) (fst x0)) l); rewrite ?andb_true_r, ?andb_false_r in IH; cbn [b2n] in IH; lia.
+  - cbn [filter orb]. destruct (is_main (fst x)); cbn [List.length]; lia.
+Qed.
+Lemma imarks_id_del : forall k s, (imarks (id_del k s) + b2n (is_main_id k && id_has k s) <= imarks s)%nat.
+Proof.
+  intros k s. unfold imarks, id_del, id_has. sproj. induction (idhandlers s) as [|x l IH]; [cbn; rewrite andb_false_r; cbn; lia|].
+  cbn [filter existsb]. destruct (idk_eqb k (fst x)) eqn:E; cbn [negb].
+  - assert (k = fst x) by (destruct k, (fst x); cbn in E; congruence). subst k. cbn [orb]. rewrite andb_true_r.
+    destruct (is_main_id (fst x)) eqn:M; cbn [b2n List.length] in *; [|rewrite andb_false_l in IH; cbn [b2n] in IH; lia].
+    destruct (existsb (fun x0 : idk * bool => idk_eqb (fst x) (fst x0)) l); rewrite ?andb_true_r, ?andb_false_r in IH; cbn [b2n] in IH; lia.
+  - cbn [filter orb]. destruct (is_main_id (fst x)); cbn [List.length]; lia.
+Qed.
+Lemma marks_h_del : forall k s, (marks (h_del k s) + b2n (is_main k && h_has k s) <= marks s)%nat.
+Proof.
+  intros k s. pose proof (hmarks_h_del k s). unfold marks.
+  assert (imarks (h_del k s) = imarks s) as -> by reflexivity.
+  assert (pending (h_del k s) = pending s) as -> by reflexivity. lia.
+Qed.
+Lemma marks_id_del : forall k s, (marks (id_del k s) + b2n (is_main_id k && id_has k s) <= marks s)%nat.
+Proof.
+  intros k s. pose proof (imarks_id_del k s). unfold marks.
+  assert (hmarks (id_del k s) = hmarks s) as -> by reflexivity.
+  assert (pending (id_del k s) = pending s) as -> by reflexivity. lia.
+Qed.
+Lemma hmarks_enable_all : forall s, hmarks (set_handlers (map (fun x => (fst x, true)) (handlers s)) s) = hmarks s.
+Proof.
+  intros. unfold hmarks. sproj. induction (handlers s) as [|x l IH]; [reflexivity|]. cbn [map filter fst].
+  destruct (is_main (fst x)); cbn [List.length]; rewrite IH; reflexivity.
+Qed.
+Lemma marks_enable_all : forall s, marks (set_handlers (map (fun x => (fst x, true)) (handlers s)) s) = marks s.
+Proof. intros. unfold marks. rewrite hmarks_enable_all. reflexivity. Qed.
+Lemma h_has_Bd : forall d s0 s k, Bd d s0 s -> h_has k s0 = true -> h_has k s = true.
+Proof. intros d s0 s k [] H. destruct bd_h0 as [l E]. unfold h_has at 1. rewrite E, h_has_app, H. reflexivity. Qed.
+Lemma id_has_Bd : forall d s0 s k, Bd d s0 s -> id_has k s0 = true -> id_has k s = true.
+Proof. intros d s0 s k [] H. destruct bd_i0 as [l E]. unfold id_has in *. rewrite E, existsb_app, H. reflexivity. Qed.
+
+Lemma Bd_call_handler : forall k n e d s0 s, Bd d s0 s ->
+  Bd (b2n (is_main k && negb (snd (call_handler k n e s))) + d) s0 (fst (fst (call_handler k n e s))).
+Proof. intros k; destruct k; intros; name_result; unfold call_handler, ret; bd. Qed.
+Lemma first_scram_nil : forall k i, first_scram i k [] = None.
+Proof. induction k; intros; cbn; auto. Qed.
+(* _auth started by the features time-out: nothing was offered, so no SASL / STARTTLS handler *)
+Lemma Bd_auth0 : forall fuel n d s0 s, tls_support s = false -> sasl s = [] -> Bd d s0 s -> Bd (0 + d) s0 (fst (auth fuel n s)).
+Proof.
+  intros fuel n d s0 s T S H. name_result.
+  destruct fuel; cbn [auth]; unfold ret; rewrite T, S, first_scram_nil; cbn [mem_mech existsb andb]; bd.
+Qed.
+Lemma st_q_append : forall w u sm s, st (q_append w u sm s) = st s.
+Proof. intros; unfold q_append, ret; cases; leaf; repeat (autorewrite with stdb; sproj); first [reflexivity | congruence]. Qed.
+#[export] Hint Rewrite st_q_append : stdb.
+Lemma st_send_gated : forall w u sm s, st (send_gated w u sm s) = st s.
+Proof. intros; unfold send_gated, ret; cases; leaf; repeat (autorewrite with stdb; sproj); first [reflexivity | congruence]. Qed.
+#[export] Hint Rewrite st_send_gated : stdb.
+Lemma st_send_raw_m : forall w u sm s, st (send_raw_m w u sm s) = st s.
+Proof. intros; unfold send_raw_m, ret; cases; leaf; repeat (autorewrite with stdb; sproj); first [reflexivity | congruence]. Qed.
+#[export] Hint Rewrite st_send_raw_m : stdb.
+Lemma st_timed_add : forall k n s, st (timed_add k n s) = st s.
+Proof. intros; unfold timed_add, ret; cases; leaf; repeat (autorewrite with stdb; sproj); first [reflexivity | congruence]. Qed.
+#[export] Hint Rewrite st_timed_add : stdb.
+Lemma st_timed_del : forall k s, st (timed_del k s) = st s.
+Proof. intros; unfold timed_del, ret; cases; leaf; repeat (autorewrite with stdb; sproj); first [reflexivity | congruence]. Qed.
+#[export] Hint Rewrite st_timed_del : stdb.
+Lemma st_timed_reset_all : forall n s, st (timed_reset_all n s) = st s.
+Proof. intros; unfold timed_reset_all, ret; cases; leaf; repeat (autorewrite with stdb; sproj); first [reflexivity | congruence]. Qed.
+#[export] Hint Rewrite st_timed_reset_all : stdb.
+Lemma st_timed_set_stamp : forall k n s, st (timed_set_stamp k n s) = st s.
+Proof. intros; unfold timed_set_stamp, ret; cases; leaf; repeat (autorewrite with stdb; sproj); first [reflexivity | congruence]. Qed.
+#[export] Hint Rewrite st_timed_set_stamp : stdb.
+Lemma st_h_add : forall k s, st (h_add k s) = st s.
+Proof. intros; unfold h_add, ret; cases; leaf; repeat (autorewrite with stdb; sproj); first [reflexivity | congruence]. Qed.
+#[export] Hint Rewrite st_h_add : stdb.
+Lemma st_h_del : forall k s, st (h_del k s) = st s.
+Proof. intros; unfold h_del, ret; cases; leaf; repeat (autorewrite with stdb; sproj); first [reflexivity | congruence]. Qed.
+#[export] Hint Rewrite st_h_del : stdb.
+Lemma st_id_add : forall k s, st (id_add k s) = st s.
+Proof. intros; unfold id_add, ret; cases; leaf; repeat (autorewrite with stdb; sproj); first [reflexivity | congruence]. Qed.
+#[export] Hint Rewrite st_id_add : stdb.
+Lemma st_id_del : forall k s, st (id_del k s) = st s.
+Proof. intros; unfold id_del, ret; cases; leaf; repeat (autorewrite with stdb; sproj); first [reflexivity | congruence]. Qed.
+#[export] Hint Rewrite st_id_del : stdb.
+Lemma st_reset_sm_for_reconnect : forall s, st (reset_sm_for_reconnect s) = st s.
+Proof. intros; unfold reset_sm_for_reconnect, ret; cases; leaf; repeat (autorewrite with stdb; sproj); first [reflexivity | congruence]. Qed.
+#[export] Hint Rewrite st_reset_sm_for_reconnect : stdb.
+Lemma st_sm_queue_cleanup : forall h s, st (sm_queue_cleanup h s) = st s.
+Proof. intros; unfold sm_queue_cleanup, ret; cases; leaf; repeat (autorewrite with stdb; sproj); first [reflexivity | congruence]. Qed.
+#[export] Hint Rewrite st_sm_queue_cleanup : stdb.
+Lemma st_sm_queue_resend : forall s, st (sm_queue_resend s) = st s.
+Proof. intros; unfold sm_queue_resend. match goal with |- st (fold_left ?f ?l ?a) = _ => change (st s) with (st a); apply (fold_left_inv (fun x => st x = st a)); [intros x y E; rewrite <- E; autorewrite with stdb; reflexivity | reflexivity] end. Qed.
+#[export] Hint Rewrite st_sm_queue_resend : stdb.
+Lemma st_xmpp_disconnect : forall n s, st (xmpp_disconnect n s) = st s.
+Proof. intros; unfold xmpp_disconnect, ret; cases; leaf; repeat (autorewrite with stdb; sproj); first [reflexivity | congruence]. Qed.
+#[export] Hint Rewrite st_xmpp_disconnect : stdb.
+Lemma st_prepare_reset : forall h s, st (prepare_reset h s) = st s.
+Proof. intros; unfold prepare_reset, ret; cases; leaf; repeat (autorewrite with stdb; sproj); first [reflexivity | congruence]. Qed.
+#[export] Hint Rewrite st_prepare_reset : stdb.
+Lemma st_conn_open_stream : forall s, st (conn_open_stream s) = st s.
+Proof. intros; unfold conn_open_stream, ret; cases; leaf; repeat (autorewrite with stdb; sproj); first [reflexivity | congruence]. Qed.
+#[export] Hint Rewrite st_conn_open_stream : stdb.
+Lemma st_conn_tls_start : forall s, st (fst (fst (conn_tls_start s))) = st s.
+Proof. intros; name_result; unfold conn_tls_start, ret; cases; leaf; repeat (autorewrite with stdb; sproj); first [reflexivity | congruence]. Qed.
+#[export] Hint Rewrite st_conn_tls_start : stdb.
+Lemma st_stream_negotiation_success : forall s, st (fst (stream_negotiation_success s)) = st s.
+Proof. intros; name_result; unfold stream_negotiation_success, ret; cases; leaf; repeat (autorewrite with stdb; sproj); first [reflexivity | congruence]. Qed.
+#[export] Hint Rewrite st_stream_negotiation_success : stdb.
+Lemma st_do_bind : forall n b s, st (fst (do_bind n b s)) = st s.
+Proof. intros; name_result; unfold do_bind, ret; cases; leaf; repeat (autorewrite with stdb; sproj); first [reflexivity | congruence]. Qed.
+#[export] Hint Rewrite st_do_bind : stdb.
+Lemma st_session_start : forall n s, st (session_start n s) = st s.
+Proof. intros; unfold session_start, ret; cases; leaf; repeat (autorewrite with stdb; sproj); first [reflexivity | congruence]. Qed.
+#[export] Hint Rewrite st_session_start : stdb.
+Lemma st_sm_enable : forall s, st (sm_enable s) = st s.
+Proof. intros; unfold sm_enable, ret; cases; leaf; repeat (autorewrite with stdb; sproj); first [reflexivity | congruence]. Qed.
+#[export] Hint Rewrite st_sm_enable : stdb.
+Lemma st_auth_legacy : forall n s, st (auth_legacy n s) = st s.
+Proof. intros; unfold auth_legacy, ret; cases; leaf; repeat (autorewrite with stdb; sproj); first [reflexivity | congruence]. Qed.
+#[export] Hint Rewrite st_auth_legacy : stdb.
+Lemma st_features_sasl : forall n e s, st (fst (features_sasl n e s)) = st s.
+Proof. intros; name_result; unfold features_sasl, ret; cases; leaf; repeat (autorewrite with stdb; sproj); first [reflexivity | congruence]. Qed.
+#[export] Hint Rewrite st_features_sasl : stdb.
+Lemma st_note_rx : forall e s, st (note_rx e s) = st s.
+Proof. intros; unfold note_rx; reflexivity. Qed.
+#[export] Hint Rewrite st_note_rx : stdb.
+Lemma st_sm_handle : forall e s, st (sm_handle e s) = st s.
+Proof. intros; unfold sm_handle, ret; cases; leaf; repeat (autorewrite with stdb; sproj); first [reflexivity | congruence]. Qed.
+#[export] Hint Rewrite st_sm_handle : stdb.
+Lemma st_open_handler : forall n s, st (fst (open_handler n s)) = st s.
+Proof. intros; name_result; unfold open_handler, ret; cases; leaf; repeat (autorewrite with stdb; sproj); first [reflexivity | congruence]. Qed.
+#[export] Hint Rewrite st_open_handler : stdb.
+Lemma st_connect_next : forall n s, st (fst (fst (connect_next n s))) = st s.
+Proof. intros; name_result; unfold connect_next, ret; cases; leaf; repeat (autorewrite with stdb; sproj); first [reflexivity | congruence]. Qed.
+#[export] Hint Rewrite st_connect_next : stdb.
+
+(* ================================================================== HFr: handlers, id handlers and parser bookkeeping untouched *)
+Record HFr (s0 s : state) : Prop := mkHFr {
+  hfr_h : handlers s = handlers s0;
+  hfr_i : idhandlers s = idhandlers s0;
+  hfr_oh : oh s = oh s0;
+  hfr_rp : reset_parser s = reset_parser s0;
+  hfr_ps : ps s = ps s0
+}.
+Lemma HFr_refl : forall s, HFr s s. Proof. intros; constructor; reflexivity. Qed.
+Lemma HFr_trans : forall a b c, HFr a b -> HFr b c -> HFr a c.
+Proof. intros a b c [] []; constructor; congruence. Qed.
+#[export] Hint Resolve HFr_refl : hfrdb.
+Lemma HFr_set_f_tls_disabled : forall v s0 s, HFr s0 s -> HFr s0 (set_f_tls_disabled v s).
+Proof. intros v s0 s H; apply (HFr_trans _ _ _ H); destruct s; constructor; reflexivity. Qed.
+#[export] Hint Resolve HFr_set_f_tls_disabled : hfrdb.
+Lemma HFr_set_f_tls_mandatory : forall v s0 s, HFr s0 s -> HFr s0 (set_f_tls_mandatory v s).
+Proof. intros v s0 s H; apply (HFr_trans _ _ _ H); destruct s; constructor; reflexivity. Qed.
+#[export] Hint Resolve HFr_set_f_tls_mandatory : hfrdb.
+Lemma HFr_set_f_legacy_ssl : forall v s0 s, HFr s0 s -> HFr s0 (set_f_legacy_ssl v s).
+Proof. intros v s0 s H; apply (HFr_trans _ _ _ H); destruct s; constructor; reflexivity. Qed.
+#[export] Hint Resolve HFr_set_f_legacy_ssl : hfrdb.
+Lemma HFr_set_f_tls_trust : forall v s0 s, HFr s0 s -> HFr s0 (set_f_tls_trust v s).
+Proof. intros v s0 s H; apply (HFr_trans _ _ _ H); destruct s; constructor; reflexivity. Qed.
+#[export] Hint Resolve HFr_set_f_tls_trust : hfrdb.
+Lemma HFr_set_f_legacy_auth : forall v s0 s, HFr s0 s -> HFr s0 (set_f_legacy_auth v s).
+Proof. intros v s0 s H; apply (HFr_trans _ _ _ H); destruct s; constructor; reflexivity. Qed.
+#[export] Hint Resolve HFr_set_f_legacy_auth : hfrdb.
+Lemma HFr_set_f_sm_disable : forall v s0 s, HFr s0 s -> HFr s0 (set_f_sm_disable v s).
+Proof. intros v s0 s H; apply (HFr_trans _ _ _ H); destruct s; constructor; reflexivity. Qed.
+#[export] Hint Resolve HFr_set_f_sm_disable : hfrdb.
+Lemma HFr_set_f_comp_allowed : forall v s0 s, HFr s0 s -> HFr s0 (set_f_comp_allowed v s).
+Proof. intros v s0 s H; apply (HFr_trans _ _ _ H); destruct s; constructor; reflexivity. Qed.
+#[export] Hint Resolve HFr_set_f_comp_allowed : hfrdb.
+Lemma HFr_set_f_comp_dont_reset : forall v s0 s, HFr s0 s -> HFr s0 (set_f_comp_dont_reset v s).
+Proof. intros v s0 s H; apply (HFr_trans _ _ _ H); destruct s; constructor; reflexivity. Qed.
+#[export] Hint Resolve HFr_set_f_comp_dont_reset : hfrdb.
+Lemma HFr_set_jid_set : forall v s0 s, HFr s0 s -> HFr s0 (set_jid_set v s).
+Proof. intros v s0 s H; apply (HFr_trans _ _ _ H); destruct s; constructor; reflexivity. Qed.
+#[export] Hint Resolve HFr_set_jid_set : hfrdb.
+Lemma HFr_set_jid_node : forall v s0 s, HFr s0 s -> HFr s0 (set_jid_node v s).
+Proof. intros v s0 s H; apply (HFr_trans _ _ _ H); destruct s; constructor; reflexivity. Qed.
+#[export] Hint Resolve HFr_set_jid_node : hfrdb.
+Lemma HFr_set_jid_res : forall v s0 s, HFr s0 s -> HFr s0 (set_jid_res v s).
+Proof. intros v s0 s H; apply (HFr_trans _ _ _ H); destruct s; constructor; reflexivity. Qed.
+#[export] Hint Resolve HFr_set_jid_res : hfrdb.
+Lemma HFr_set_pass_set : forall v s0 s, HFr s0 s -> HFr s0 (set_pass_set v s).
+Proof. intros v s0 s H; apply (HFr_trans _ _ _ H); destruct s; constructor; reflexivity. Qed.
+#[export] Hint Resolve HFr_set_pass_set : hfrdb.
+Lemma HFr_set_cert_set : forall v s0 s, HFr s0 s -> HFr s0 (set_cert_set v s).
+Proof. intros v s0 s H; apply (HFr_trans _ _ _ H); destruct s; constructor; reflexivity. Qed.
+#[export] Hint Resolve HFr_set_cert_set : hfrdb.
+Lemma HFr_set_is_raw : forall v s0 s, HFr s0 s -> HFr s0 (set_is_raw v s).
+Proof. intros v s0 s H; apply (HFr_trans _ _ _ H); destruct s; constructor; reflexivity. Qed.
+#[export] Hint Resolve HFr_set_is_raw : hfrdb.
+Lemma HFr_set_typ : forall v s0 s, HFr s0 s -> HFr s0 (set_typ v s).
+Proof. intros v s0 s H; apply (HFr_trans _ _ _ H); destruct s; constructor; reflexivity. Qed.
+#[export] Hint Resolve HFr_set_typ : hfrdb.
+Lemma HFr_set_user_handler : forall v s0 s, HFr s0 s -> HFr s0 (set_user_handler v s).
+Proof. intros v s0 s H; apply (HFr_trans _ _ _ H); destruct s; constructor; reflexivity. Qed.
+#[export] Hint Resolve HFr_set_user_handler : hfrdb.
+Lemma HFr_set_user_timed : forall v s0 s, HFr s0 s -> HFr s0 (set_user_timed v s).
+Proof. intros v s0 s H; apply (HFr_trans _ _ _ H); destruct s; constructor; reflexivity. Qed.
+#[export] Hint Resolve HFr_set_user_timed : hfrdb.
+Lemma HFr_set_tlsnew_ok : forall v s0 s, HFr s0 s -> HFr s0 (set_tlsnew_ok v s).
+Proof. intros v s0 s H; apply (HFr_trans _ _ _ H); destruct s; constructor; reflexivity. Qed.
+#[export] Hint Resolve HFr_set_tlsnew_ok : hfrdb.
+Lemma HFr_set_cb_avail : forall v s0 s, HFr s0 s -> HFr s0 (set_cb_avail v s).
+Proof. intros v s0 s H; apply (HFr_trans _ _ _ H); destruct s; constructor; reflexivity. Qed.
+#[export] Hint Resolve HFr_set_cb_avail : hfrdb.
+Lemma HFr_set_tls_verdicts : forall v s0 s, HFr s0 s -> HFr s0 (set_tls_verdicts v s).
+Proof. intros v s0 s H; apply (HFr_trans _ _ _ H); destruct s; constructor; reflexivity. Qed.
+#[export] Hint Resolve HFr_set_tls_verdicts : hfrdb.
+Lemma HFr_set_next_cands : forall v s0 s, HFr s0 s -> HFr s0 (set_next_cands v s).
+Proof. intros v s0 s H; apply (HFr_trans _ _ _ H); destruct s; constructor; reflexivity. Qed.
+#[export] Hint Resolve HFr_set_next_cands : hfrdb.
+Lemma HFr_set_cands : forall v s0 s, HFr s0 s -> HFr s0 (set_cands v s).
+Proof. intros v s0 s H; apply (HFr_trans _ _ _ H); destruct s; constructor; reflexivity. Qed.
+#[export] Hint Resolve HFr_set_cands : hfrdb.
+Lemma HFr_set_cur_ep : forall v s0 s, HFr s0 s -> HFr s0 (set_cur_ep v s).
+Proof. intros v s0 s H; apply (HFr_trans _ _ _ H); destruct s; constructor; reflexivity. Qed.
+#[export] Hint Resolve HFr_set_cur_ep : hfrdb.
+Lemma HFr_set_st : forall v s0 s, HFr s0 s -> HFr s0 (set_st v s).
+Proof. intros v s0 s H; apply (HFr_trans _ _ _ H); destruct s; constructor; reflexivity. Qed.
+#[export] Hint Resolve HFr_set_st : hfrdb.
+Lemma HFr_set_stamp : forall v s0 s, HFr s0 s -> HFr s0 (set_stamp v s).
+Proof. intros v s0 s H; apply (HFr_trans _ _ _ H); destruct s; constructor; reflexivity. Qed.
+#[export] Hint Resolve HFr_set_stamp : hfrdb.
+Lemma HFr_set_err : forall v s0 s, HFr s0 s -> HFr s0 (set_err v s).
+Proof. intros v s0 s H; apply (HFr_trans _ _ _ H); destruct s; constructor; reflexivity. Qed.
+#[export] Hint Resolve HFr_set_err : hfrdb.
+Lemma HFr_set_stream_error : forall v s0 s, HFr s0 s -> HFr s0 (set_stream_error v s).
+Proof. intros v s0 s H; apply (HFr_trans _ _ _ H); destruct s; constructor; reflexivity. Qed.
+#[export] Hint Resolve HFr_set_stream_error : hfrdb.
+Lemma HFr_set_secured : forall v s0 s, HFr s0 s -> HFr s0 (set_secured v s).
+Proof. intros v s0 s H; apply (HFr_trans _ _ _ H); destruct s; constructor; reflexivity. Qed.
+#[export] Hint Resolve HFr_set_secured : hfrdb.
+Lemma HFr_set_tls_present : forall v s0 s, HFr s0 s -> HFr s0 (set_tls_present v s).
+Proof. intros v s0 s H; apply (HFr_trans _ _ _ H); destruct s; constructor; reflexivity. Qed.
+#[export] Hint Resolve HFr_set_tls_present : hfrdb.
+Lemma HFr_set_tls_failed : forall v s0 s, HFr s0 s -> HFr s0 (set_tls_failed v s).
+Proof. intros v s0 s H; apply (HFr_trans _ _ _ H); destruct s; constructor; reflexivity. Qed.
+#[export] Hint Resolve HFr_set_tls_failed : hfrdb.
+Lemma HFr_set_tls_support : forall v s0 s, HFr s0 s -> HFr s0 (set_tls_support v s).
+Proof. intros v s0 s H; apply (HFr_trans _ _ _ H); destruct s; constructor; reflexivity. Qed.
+#[export] Hint Resolve HFr_set_tls_support : hfrdb.
+Lemma HFr_set_sasl : forall v s0 s, HFr s0 s -> HFr s0 (set_sasl v s).
+Proof. intros v s0 s H; apply (HFr_trans _ _ _ H); destruct s; constructor; reflexivity. Qed.
+#[export] Hint Resolve HFr_set_sasl : hfrdb.
+Lemma HFr_set_bind_required : forall v s0 s, HFr s0 s -> HFr s0 (set_bind_required v s).
+Proof. intros v s0 s H; apply (HFr_trans _ _ _ H); destruct s; constructor; reflexivity. Qed.
+#[export] Hint Resolve HFr_set_bind_required : hfrdb.
+Lemma HFr_set_session_required : forall v s0 s, HFr s0 s -> HFr s0 (set_session_required v s).
+Proof. intros v s0 s H; apply (HFr_trans _ _ _ H); destruct s; constructor; reflexivity. Qed.
+#[export] Hint Resolve HFr_set_session_required : hfrdb.
+Lemma HFr_set_comp_supported : forall v s0 s, HFr s0 s -> HFr s0 (set_comp_supported v s).
+Proof. intros v s0 s H; apply (HFr_trans _ _ _ H); destruct s; constructor; reflexivity. Qed.
+#[export] Hint Resolve HFr_set_comp_supported : hfrdb.
+Lemma HFr_set_comp_active : forall v s0 s, HFr s0 s -> HFr s0 (set_comp_active v s).
+Proof. intros v s0 s H; apply (HFr_trans _ _ _ H); destruct s; constructor; reflexivity. Qed.
+#[export] Hint Resolve HFr_set_comp_active : hfrdb.
+Lemma HFr_set_sm_alloc : forall v s0 s, HFr s0 s -> HFr s0 (set_sm_alloc v s).
+Proof. intros v s0 s H; apply (HFr_trans _ _ _ H); destruct s; constructor; reflexivity. Qed.
+#[export] Hint Resolve HFr_set_sm_alloc : hfrdb.
+Lemma HFr_set_sm_support : forall v s0 s, HFr s0 s -> HFr s0 (set_sm_support v s).
+Proof. intros v s0 s H; apply (HFr_trans _ _ _ H); destruct s; constructor; reflexivity. Qed.
+#[export] Hint Resolve HFr_set_sm_support : hfrdb.
+Lemma HFr_set_sm_enabled : forall v s0 s, HFr s0 s -> HFr s0 (set_sm_enabled v s).
+Proof. intros v s0 s H; apply (HFr_trans _ _ _ H); destruct s; constructor; reflexivity. Qed.
+#[export] Hint Resolve HFr_set_sm_enabled : hfrdb.
+Lemma HFr_set_sm_can_resume : forall v s0 s, HFr s0 s -> HFr s0 (set_sm_can_resume v s).
+Proof. intros v s0 s H; apply (HFr_trans _ _ _ H); destruct s; constructor; reflexivity. Qed.
+#[export] Hint Resolve HFr_set_sm_can_resume : hfrdb.
+Lemma HFr_set_sm_resume : forall v s0 s, HFr s0 s -> HFr s0 (set_sm_resume v s).
+Proof. intros v s0 s H; apply (HFr_trans _ _ _ H); destruct s; constructor; reflexivity. Qed.
+#[export] Hint Resolve HFr_set_sm_resume : hfrdb.
+Lemma HFr_set_sm_dont_request : forall v s0 s, HFr s0 s -> HFr s0 (set_sm_dont_request v s).
+Proof. intros v s0 s H; apply (HFr_trans _ _ _ H); destruct s; constructor; reflexivity. Qed.
+#[export] Hint Resolve HFr_set_sm_dont_request : hfrdb.
+Lemma HFr_set_sm_has_previd : forall v s0 s, HFr s0 s -> HFr s0 (set_sm_has_previd v s).
+Proof. intros v s0 s H; apply (HFr_trans _ _ _ H); destruct s; constructor; reflexivity. Qed.
+#[export] Hint Resolve HFr_set_sm_has_previd : hfrdb.
+Lemma HFr_set_sm_has_id : forall v s0 s, HFr s0 s -> HFr s0 (set_sm_has_id v s).
+Proof. intros v s0 s H; apply (HFr_trans _ _ _ H); destruct s; constructor; reflexivity. Qed.
+#[export] Hint Resolve HFr_set_sm_has_id : hfrdb.
+Lemma HFr_set_sm_parked : forall v s0 s, HFr s0 s -> HFr s0 (set_sm_parked v s).
+Proof. intros v s0 s H; apply (HFr_trans _ _ _ H); destruct s; constructor; reflexivity. Qed.
+#[export] Hint Resolve HFr_set_sm_parked : hfrdb.
+Lemma HFr_set_sm_r_sent : forall v s0 s, HFr s0 s -> HFr s0 (set_sm_r_sent v s).
+Proof. intros v s0 s H; apply (HFr_trans _ _ _ H); destruct s; constructor; reflexivity. Qed.
+#[export] Hint Resolve HFr_set_sm_r_sent : hfrdb.
+Lemma HFr_set_sm_bind_saved : forall v s0 s, HFr s0 s -> HFr s0 (set_sm_bind_saved v s).
+Proof. intros v s0 s H; apply (HFr_trans _ _ _ H); destruct s; constructor; reflexivity. Qed.
+#[export] Hint Resolve HFr_set_sm_bind_saved : hfrdb.
+Lemma HFr_set_bound_jid : forall v s0 s, HFr s0 s -> HFr s0 (set_bound_jid v s).
+Proof. intros v s0 s H; apply (HFr_trans _ _ _ H); destruct s; constructor; reflexivity. Qed.
+#[export] Hint Resolve HFr_set_bound_jid : hfrdb.
+Lemma HFr_set_stream_id : forall v s0 s, HFr s0 s -> HFr s0 (set_stream_id v s).
+Proof. intros v s0 s H; apply (HFr_trans _ _ _ H); destruct s; constructor; reflexivity. Qed.
+#[export] Hint Resolve HFr_set_stream_id : hfrdb.
+Lemma HFr_set_neg_done : forall v s0 s, HFr s0 s -> HFr s0 (set_neg_done v s).
+Proof. intros v s0 s H; apply (HFr_trans _ _ _ H); destruct s; constructor; reflexivity. Qed.
+#[export] Hint Resolve HFr_set_neg_done : hfrdb.
+Lemma HFr_set_timed : forall v s0 s, HFr s0 s -> HFr s0 (set_timed v s).
+Proof. intros v s0 s H; apply (HFr_trans _ _ _ H); destruct s; constructor; reflexivity. Qed.
+#[export] Hint Resolve HFr_set_timed : hfrdb.
+Lemma HFr_set_sendq : forall v s0 s, HFr s0 s -> HFr s0 (set_sendq v s).
+Proof. intros v s0 s H; apply (HFr_trans _ _ _ H); destruct s; constructor; reflexivity. Qed.
+#[export] Hint Resolve HFr_set_sendq : hfrdb.
+Lemma HFr_set_rxq : forall v s0 s, HFr s0 s -> HFr s0 (set_rxq v s).
+Proof. intros v s0 s H; apply (HFr_trans _ _ _ H); destruct s; constructor; reflexivity. Qed.
+#[export] Hint Resolve HFr_set_rxq : hfrdb.
+Lemma HFr_set_smq : forall v s0 s, HFr s0 s -> HFr s0 (set_smq v s).
+Proof. intros v s0 s H; apply (HFr_trans _ _ _ H); destruct s; constructor; reflexivity. Qed.
+#[export] Hint Resolve HFr_set_smq : hfrdb.
+Lemma HFr_set_sm_sent : forall v s0 s, HFr s0 s -> HFr s0 (set_sm_sent v s).
+Proof. intros v s0 s H; apply (HFr_trans _ _ _ H); destruct s; constructor; reflexivity. Qed.
+#[export] Hint Resolve HFr_set_sm_sent : hfrdb.
+Lemma HFr_set_scram_serial : forall v s0 s, HFr s0 s -> HFr s0 (set_scram_serial v s).
+Proof. intros v s0 s H; apply (HFr_trans _ _ _ H); destruct s; constructor; reflexivity. Qed.
+#[export] Hint Resolve HFr_set_scram_serial : hfrdb.
+Lemma HFr_set_crashed : forall v s0 s, HFr s0 s -> HFr s0 (set_crashed v s).
+Proof. intros v s0 s H; apply (HFr_trans _ _ _ H); destruct s; constructor; reflexivity. Qed.
+#[export] Hint Resolve HFr_set_crashed : hfrdb.
+Lemma HFr_set_gh : forall v s0 s, HFr s0 s -> HFr s0 (set_gh v s).
+Proof. intros v s0 s H; apply (HFr_trans _ _ _ H); destruct s; constructor; reflexivity. Qed.
+#[export] Hint Resolve HFr_set_gh : hfrdb.
+Lemma HFr_upg : forall f s0 s, HFr s0 s -> HFr s0 (upg f s).
+Proof. intros f s0 s H; apply (HFr_trans _ _ _ H); destruct s; constructor; reflexivity. Qed.
+#[export] Hint Resolve HFr_upg : hfrdb.
+Lemma HFr_q_append : forall w u sm s0 s, HFr s0 s -> HFr s0 (q_append w u sm s).
+Proof. intros; unfold q_append, ret; cases; leaf; eauto 30 with hfrdb. Qed.
+#[export] Hint Resolve HFr_q_append : hfrdb.
+Lemma HFr_send_gated : forall w u sm s0 s, HFr s0 s -> HFr s0 (send_gated w u sm s).
+Proof. intros; unfold send_gated, ret; cases; leaf; eauto 30 with hfrdb. Qed.
+#[export] Hint Resolve HFr_send_gated : hfrdb.
+Lemma HFr_send_raw_m : forall w u sm s0 s, HFr s0 s -> HFr s0 (send_raw_m w u sm s).
+Proof. intros; unfold send_raw_m, ret; cases; leaf; eauto 30 with hfrdb. Qed.
+#[export] Hint Resolve HFr_send_raw_m : hfrdb.
+Lemma HFr_timed_add : forall k n s0 s, HFr s0 s -> HFr s0 (timed_add k n s).
+Proof. intros; unfold timed_add, ret; cases; leaf; eauto 30 with hfrdb. Qed.
+#[export] Hint Resolve HFr_timed_add : hfrdb.
+Lemma HFr_timed_del : forall k s0 s, HFr s0 s -> HFr s0 (timed_del k s).
+Proof. intros; unfold timed_del, ret; cases; leaf; eauto 30 with hfrdb. Qed.
+#[export] Hint Resolve HFr_timed_del : hfrdb.
+Lemma HFr_timed_reset_all : forall n s0 s, HFr s0 s -> HFr s0 (timed_reset_all n s).
+Proof. intros; unfold timed_reset_all, ret; cases; leaf; eauto 30 with hfrdb. Qed.
+#[export] Hint Resolve HFr_timed_reset_all : hfrdb.
+Lemma HFr_timed_set_stamp : forall k n s0 s, HFr s0 s -> HFr s0 (timed_set_stamp k n s).
+Proof. intros; unfold timed_set_stamp, ret; cases; leaf; eauto 30 with hfrdb. Qed.
+#[export] Hint Resolve HFr_timed_set_stamp : hfrdb.
+Lemma HFr_reset_sm_for_reconnect : forall s0 s, HFr s0 s -> HFr s0 (reset_sm_for_reconnect s).
+Proof. intros; unfold reset_sm_for_reconnect, ret; cases; leaf; eauto 30 with hfrdb. Qed.
+#[export] Hint Resolve HFr_reset_sm_for_reconnect : hfrdb.
+Lemma HFr_sm_queue_cleanup : forall h s0 s, HFr s0 s -> HFr s0 (sm_queue_cleanup h s).
+Proof. intros; unfold sm_queue_cleanup, ret; cases; leaf; eauto 30 with hfrdb. Qed.
+#[export] Hint Resolve HFr_sm_queue_cleanup : hfrdb.
+Lemma HFr_sm_queue_resend : forall s0 s, HFr s0 s -> HFr s0 (sm_queue_resend s).
+Proof. intros; unfold sm_queue_resend; apply fold_left_inv; eauto with hfrdb. Qed.
+#[export] Hint Resolve HFr_sm_queue_resend : hfrdb.
+Lemma HFr_conn_disconnect : forall s0 s, HFr s0 s -> HFr s0 (fst (conn_disconnect s)).
+Proof. intros; name_result; unfold conn_disconnect, ret; cases; leaf; eauto 30 with hfrdb. Qed.
+#[export] Hint Resolve HFr_conn_disconnect : hfrdb.
+Lemma HFr_xmpp_disconnect : forall n s0 s, HFr s0 s -> HFr s0 (xmpp_disconnect n s).
+Proof. intros; unfold xmpp_disconnect, ret; cases; leaf; eauto 30 with hfrdb. Qed.
+#[export] Hint Resolve HFr_xmpp_disconnect : hfrdb.
+Lemma HFr_conn_open_stream : forall s0 s, HFr s0 s -> HFr s0 (conn_open_stream s).
+Proof. intros; unfold conn_open_stream, ret; cases; leaf; eauto 30 with hfrdb. Qed.
+#[export] Hint Resolve HFr_conn_open_stream : hfrdb.
+Lemma HFr_conn_tls_start : forall s0 s, HFr s0 s -> HFr s0 (fst (fst (conn_tls_start s))).
+Proof. intros; name_result; unfold conn_tls_start, ret; cases; leaf; eauto 30 with hfrdb. Qed.
+#[export] Hint Resolve HFr_conn_tls_start : hfrdb.
+Lemma HFr_stream_negotiation_success : forall s0 s, HFr s0 s -> HFr s0 (fst (stream_negotiation_success s)).
+Proof. intros; name_result; unfold stream_negotiation_success, ret; cases; leaf; eauto 30 with hfrdb. Qed.
+#[export] Hint Resolve HFr_stream_negotiation_success : hfrdb.
+Lemma HFr_note_rx : forall e s0 s, HFr s0 s -> HFr s0 (note_rx e s).
+Proof. intros; unfold note_rx; cbv zeta; eauto with hfrdb. Qed.
+#[export] Hint Resolve HFr_note_rx : hfrdb.
+Lemma HFr_sm_handle : forall e s0 s, HFr s0 s -> HFr s0 (sm_handle e s).
+Proof. intros; unfold sm_handle, ret; cases; leaf; eauto 30 with hfrdb. Qed.
+#[export] Hint Resolve HFr_sm_handle : hfrdb.
+Lemma HFr_connect_next : forall n s0 s, HFr s0 s -> HFr s0 (fst (fst (connect_next n s))).
+Proof. intros; name_result; unfold connect_next; destruct (sock_connect (cands s)) as [oo [[k r]|]]; leaf; eauto 20 with hfrdb. Qed.
+#[export] Hint Resolve HFr_connect_next : hfrdb.
+Lemma marks_HFr : forall s0 s, HFr s0 s -> marks s = marks s0.
+Proof. intros s0 s []. unfold marks, hmarks, imarks, pending. rewrite hfr_h0, hfr_i0, hfr_oh0, hfr_rp0, hfr_ps0. reflexivity. Qed.
+
+(* ------------------------------------------------------------------ timed-list observables *)
+Lemma tkind_eqb_eq : forall a b, tkind_eqb a b = true -> a = b.
+Proof. destruct a, b; cbn; intros; try discriminate; reflexivity. Qed.
+Lemma tkind_eqb_refl : forall a, tkind_eqb a a = true.
+Proof. destruct a; reflexivity. Qed.
+Lemma timed_has_timed_add : forall k' k n s, timed_has k' (timed_add k n s) = timed_has k' s || tkind_eqb k' k.
+Proof.
+  intros. unfold timed_add. destruct (timed_has k s) eqn:E.
+  - destruct (tkind_eqb k' k) eqn:E2; [apply tkind_eqb_eq in E2; subst; rewrite E; reflexivity | rewrite orb_false_r; reflexivity].
+  - unfold timed_has. sproj. cbn [existsb fst]. apply orb_comm.
+Qed.
+Lemma timed_has_timed_del : forall k' k s, timed_has k' (timed_del k s) = timed_has k' s && negb (tkind_eqb k' k).
+Proof.
+  intros k' k s. unfold timed_del, timed_has. sproj. induction (timed s) as [|x l IH]; [reflexivity|].
+  cbn [filter existsb]. destruct (tkind_eqb k (fst (fst x))) eqn:E; cbn [negb].
+  - rewrite IH. apply tkind_eqb_eq in E. subst k.
+    destruct (tkind_eqb k' (fst (fst x))) eqn:E2; cbn [orb negb]; rewrite ?andb_false_r; reflexivity.
+  - cbn [existsb]. rewrite IH. destruct (tkind_eqb k' (fst (fst x))) eqn:E2; cbn [orb]; [|reflexivity].
+    apply tkind_eqb_eq in E2. subst k'.
+    assert (tkind_eqb (fst (fst x)) k = false) as ->.
+    { destruct (tkind_eqb (fst (fst x)) k) eqn:E3; auto. apply tkind_eqb_eq in E3. subst k. rewrite tkind_eqb_refl in E. discriminate. }
+    reflexivity.
+Qed.
+Lemma timed_has_timed_reset_all : forall k n s, timed_has k (timed_reset_all n s) = timed_has k s.
+Proof.
+  intros. unfold timed_reset_all, timed_has. sproj. induction (timed s) as [|x l IH]; [reflexivity|]. cbn. rewrite IH. reflexivity.
+Qed.
+Lemma timed_has_timed_set_stamp : forall k k' n s, timed_has k (timed_set_stamp k' n s) = timed_has k s.
+Proof.
+  intros. unfold timed_set_stamp, timed_has. sproj. induction (timed s) as [|x l IH]; [reflexivity|]. cbn [map existsb].
+  rewrite IH. destruct (tkind_eqb k' (fst (fst x))); reflexivity.
+Qed.
+Lemma del_mech_nil : forall m, del_mech m [] = []. Proof. reflexivity. Qed.
+
+(* ================================================================== T01: what the features time-out may rely on *)
+Definition T0 (s : state) : Prop := oh s = OpenAuth -> (reset_parser s || is_depth0 (ps s)) = true -> sasl s = [].
+Definition T1 (s : state) : Prop := timed_has TMissingFeatures s = true -> sasl s = [] /\ h_has HFeatures s = true.
+Definition T01 (s : state) : Prop := T0 s /\ T1 s.
+Lemma T01_set_f_tls_disabled : forall v s, T01 s -> T01 (set_f_tls_disabled v s).
+Proof. intros v []; exact (fun h => h). Qed.
+#[export] Hint Resolve T01_set_f_tls_disabled : t01db.
+Lemma T01_set_f_tls_mandatory : forall v s, T01 s -> T01 (set_f_tls_mandatory v s).
+Proof. intros v []; exact (fun h => h). Qed.
+#[export] Hint Resolve T01_set_f_tls_mandatory : t01db.
+Lemma T01_set_f_legacy_ssl : forall v s, T01 s -> T01 (set_f_legacy_ssl v s).
+Proof. intros v []; exact (fun h => h). Qed.
+#[export] Hint Resolve T01_set_f_legacy_ssl : t01db.
+Lemma T01_set_f_tls_trust : forall v s, T01 s -> T01 (set_f_tls_trust v s).
+Proof. intros v []; exact (fun h => h). Qed.
+#[export] Hint Resolve T01_set_f_tls_trust : t01db.
+Lemma T01_set_f_legacy_auth : forall v s, T01 s -> T01 (set_f_legacy_auth v s).
+Proof. intros v []; exact (fun h => h). Qed.
+#[export] Hint Resolve T01_set_f_legacy_auth : t01db.
+Lemma T01_set_f_sm_disable : forall v s, T01 s -> T01 (set_f_sm_disable v s).
+Proof. intros v []; exact (fun h => h). Qed.
+#[export] Hint Resolve T01_set_f_sm_disable : t01db.
+Lemma T01_set_f_comp_allowed : forall v s, T01 s -> T01 (set_f_comp_allowed v s).
+Proof. intros v []; exact (fun h => h). Qed.
+#[export] Hint Resolve T01_set_f_comp_allowed : t01db.
+Lemma T01_set_f_comp_dont_reset : forall v s, T01 s -> T01 (set_f_comp_dont_reset v s).
+Proof. intros v []; exact (fun h => h). Qed.
+#[export] Hint Resolve T01_set_f_comp_dont_reset : t01db.
+Lemma T01_set_jid_set : forall v s, T01 s -> T01 (set_jid_set v s).
+Proof. intros v []; exact (fun h => h). Qed.
+#[export] Hint Resolve T01_set_jid_set : t01db.
+Lemma T01_set_jid_node : forall v s, T01 s -> T01 (set_jid_node v s).
+Proof. intros v []; exact (fun h => h). Qed.
+#[export] Hint Resolve T01_set_jid_node : t01db.
+Lemma T01_set_jid_res : forall v s, T01 s -> T01 (set_jid_res v s).
+Proof. intros v []; exact (fun h => h). Qed.
+#[export] Hint Resolve T01_set_jid_res : t01db.
+Lemma T01_set_pass_set : forall v s, T01 s -> T01 (set_pass_set v s).
+Proof. intros v []; exact (fun h => h). Qed.
+#[export] Hint Resolve T01_set_pass_set : t01db.
+Lemma T01_set_cert_set : forall v s, T01 s -> T01 (set_cert_set v s).
+Proof. intros v []; exact (fun h => h). Qed.
+#[export] Hint Resolve T01_set_cert_set : t01db.
+Lemma T01_set_is_raw : forall v s, T01 s -> T01 (set_is_raw v s).
+Proof. intros v []; exact (fun h => h). Qed.
+#[export] Hint Resolve T01_set_is_raw : t01db.
+Lemma T01_set_typ : forall v s, T01 s -> T01 (set_typ v s).
+Proof. intros v []; exact (fun h => h). Qed.
+#[export] Hint Resolve T01_set_typ : t01db.
+Lemma T01_set_user_handler : forall v s, T01 s -> T01 (set_user_handler v s).
+Proof. intros v []; exact (fun h => h). Qed.
+#[export] Hint Resolve T01_set_user_handler : t01db.
+Lemma T01_set_user_timed : forall v s, T01 s -> T01 (set_user_timed v s).
+Proof. intros v []; exact (fun h => h). Qed.
+#[export] Hint Resolve T01_set_user_timed : t01db.
+Lemma T01_set_tlsnew_ok : forall v s, T01 s -> T01 (set_tlsnew_ok v s).
+Proof. intros v []; exact (fun h => h). Qed.
+#[export] Hint Resolve T01_set_tlsnew_ok : t01db.
+Lemma T01_set_cb_avail : forall v s, T01 s -> T01 (set_cb_avail v s).
+Proof. intros v []; exact (fun h => h). Qed.
+#[export] Hint Resolve T01_set_cb_avail : t01db.
+Lemma T01_set_tls_verdicts : forall v s, T01 s -> T01 (set_tls_verdicts v s).
+Proof. intros v []; exact (fun h => h). Qed.
+#[export] Hint Resolve T01_set_tls_verdicts : t01db.
+Lemma T01_set_next_cands : forall v s, T01 s -> T01 (set_next_cands v s).
+Proof. intros v []; exact (fun h => h). Qed.
+#[export] Hint Resolve T01_set_next_cands : t01db.
+Lemma T01_set_cands : forall v s, T01 s -> T01 (set_cands v s).
+Proof. intros v []; exact (fun h => h). Qed.
+#[export] Hint Resolve T01_set_cands : t01db.
+Lemma T01_set_cur_ep : forall v s, T01 s -> T01 (set_cur_ep v s).
+Proof. intros v []; exact (fun h => h). Qed.
+#[export] Hint Resolve T01_set_cur_ep : t01db.
+Lemma T01_set_st : forall v s, T01 s -> T01 (set_st v s).
+Proof. intros v []; exact (fun h => h). Qed.
+#[export] Hint Resolve T01_set_st : t01db.
+Lemma T01_set_stamp : forall v s, T01 s -> T01 (set_stamp v s).
+Proof. intros v []; exact (fun h => h). Qed.
+#[export] Hint Resolve T01_set_stamp : t01db.
+Lemma T01_set_err : forall v s, T01 s -> T01 (set_err v s).
+Proof. intros v []; exact (fun h => h). Qed.
+#[export] Hint Resolve T01_set_err : t01db.
+Lemma T01_set_stream_error : forall v s, T01 s -> T01 (set_stream_error v s).
+Proof. intros v []; exact (fun h => h). Qed.
+#[export] Hint Resolve T01_set_stream_error : t01db.
+Lemma T01_set_secured : forall v s, T01 s -> T01 (set_secured v s).
+Proof. intros v []; exact (fun h => h). Qed.
+#[export] Hint Resolve T01_set_secured : t01db.
+Lemma T01_set_tls_present : forall v s, T01 s -> T01 (set_tls_present v s).
+Proof. intros v []; exact (fun h => h). Qed.
+#[export] Hint Resolve T01_set_tls_present : t01db.
+Lemma T01_set_tls_failed : forall v s, T01 s -> T01 (set_tls_failed v s).
+Proof. intros v []; exact (fun h => h). Qed.
+#[export] Hint Resolve T01_set_tls_failed : t01db.
+Lemma T01_set_tls_support : forall v s, T01 s -> T01 (set_tls_support v s).
+Proof. intros v []; exact (fun h => h). Qed.
+#[export] Hint Resolve T01_set_tls_support : t01db.
+Lemma T01_set_bind_required : forall v s, T01 s -> T01 (set_bind_required v s).
+Proof. intros v []; exact (fun h => h). Qed.
+#[export] Hint Resolve T01_set_bind_required : t01db.
+Lemma T01_set_session_required : forall v s, T01 s -> T01 (set_session_required v s).
+Proof. intros v []; exact (fun h => h). Qed.
+#[export] Hint Resolve T01_set_session_required : t01db.
+Lemma T01_set_comp_supported : forall v s, T01 s -> T01 (set_comp_supported v s).
+Proof. intros v []; exact (fun h => h). Qed.
+#[export] Hint Resolve T01_set_comp_supported : t01db.
+Lemma T01_set_comp_active : forall v s, T01 s -> T01 (set_comp_active v s).
+Proof. intros v []; exact (fun h => h). Qed.
+#[export] Hint Resolve T01_set_comp_active : t01db.
+Lemma T01_set_sm_alloc : forall v s, T01 s -> T01 (set_sm_alloc v s).
+Proof. intros v []; exact (fun h => h). Qed.
+#[export] Hint Resolve T01_set_sm_alloc : t01db.
+Lemma T01_set_sm_support : forall v s, T01 s -> T01 (set_sm_support v s).
+Proof. intros v []; exact (fun h => h). Qed.
+#[export] Hint Resolve T01_set_sm_support : t01db.
+Lemma T01_set_sm_enabled : forall v s, T01 s -> T01 (set_sm_enabled v s).
+Proof. intros v []; exact (fun h => h). Qed.
+#[export] Hint Resolve T01_set_sm_enabled : t01db.
+Lemma T01_set_sm_can_resume : forall v s, T01 s -> T01 (set_sm_can_resume v s).
+Proof. intros v []; exact (fun h => h). Qed.
+#[export] Hint Resolve T01_set_sm_can_resume : t01db.
+Lemma T01_set_sm_resume : forall v s, T01 s -> T01 (set_sm_resume v s).
+Proof. intros v []; exact (fun h => h). Qed.
+#[export] Hint Resolve T01_set_sm_resume : t01db.
+Lemma T01_set_sm_dont_request : forall v s, T01 s -> T01 (set_sm_dont_request v s).
+Proof. intros v []; exact (fun h => h). Qed.
+#[export] Hint Resolve T01_set_sm_dont_request : t01db.
+Lemma T01_set_sm_has_previd : forall v s, T01 s -> T01 (set_sm_has_previd v s).
+Proof. intros v []; exact (fun h => h). Qed.
+#[export] Hint Resolve T01_set_sm_has_previd : t01db.
+Lemma T01_set_sm_has_id : forall v s, T01 s -> T01 (set_sm_has_id v s).
+Proof. intros v []; exact (fun h => h). Qed.
+#[export] Hint Resolve T01_set_sm_has_id : t01db.
+Lemma T01_set_sm_parked : forall v s, T01 s -> T01 (set_sm_parked v s).
+Proof. intros v []; exact (fun h => h). Qed.
+#[export] Hint Resolve T01_set_sm_parked : t01db.
+Lemma T01_set_sm_r_sent : forall v s, T01 s -> T01 (set_sm_r_sent v s).
+Proof. intros v []; exact (fun h => h). Qed.
+#[export] Hint Resolve T01_set_sm_r_sent : t01db.
+Lemma T01_set_sm_bind_saved : forall v s, T01 s -> T01 (set_sm_bind_saved v s).
+Proof. intros v []; exact (fun h => h). Qed.
+#[export] Hint Resolve T01_set_sm_bind_saved : t01db.
+Lemma T01_set_bound_jid : forall v s, T01 s -> T01 (set_bound_jid v s).
+Proof. intros v []; exact (fun h => h). Qed.
+#[export] Hint Resolve T01_set_bound_jid : t01db.
+Lemma T01_set_stream_id : forall v s, T01 s -> T01 (set_stream_id v s).
+Proof. intros v []; exact (fun h => h). Qed.
+#[export] Hint Resolve T01_set_stream_id : t01db.
+Lemma T01_set_neg_done : forall v s, T01 s -> T01 (set_neg_done v s).
+Proof. intros v []; exact (fun h => h). Qed.
+#[export] Hint Resolve T01_set_neg_done : t01db.
+Lemma T01_set_idhandlers : forall v s, T01 s -> T01 (set_idhandlers v s).
+Proof. intros v []; exact (fun h => h). Qed.
+#[export] Hint Resolve T01_set_idhandlers : t01db.
+Lemma T01_set_sendq : forall v s, T01 s -> T01 (set_sendq v s).
+Proof. intros v []; exact (fun h => h). Qed.
+#[export] Hint Resolve T01_set_sendq : t01db.
+Lemma T01_set_rxq : forall v s, T01 s -> T01 (set_rxq v s).
+Proof. intros v []; exact (fun h => h). Qed.
+#[export] Hint Resolve T01_set_rxq : t01db.
+Lemma T01_set_smq : forall v s, T01 s -> T01 (set_smq v s).
+Proof. intros v []; exact (fun h => h). Qed.
+#[export] Hint Resolve T01_set_smq : t01db.
+Lemma T01_set_sm_sent : forall v s, T01 s -> T01 (set_sm_sent v s).
+Proof. intros v []; exact (fun h => h). Qed.
+#[export] Hint Resolve T01_set_sm_sent : t01db.
+Lemma T01_set_scram_serial : forall v s, T01 s -> T01 (set_scram_serial v s).
+Proof. intros v []; exact (fun h => h). Qed.
+#[export] Hint Resolve T01_set_scram_serial : t01db.
+Lemma T01_set_crashed : forall v s, T01 s -> T01 (set_crashed v s).
+Proof. intros v []; exact (fun h => h). Qed.
+#[export] Hint Resolve T01_set_crashed : t01db.
+Lemma T01_set_gh : forall v s, T01 s -> T01 (set_gh v s).
+Proof. intros v []; exact (fun h => h). Qed.
+#[export] Hint Resolve T01_set_gh : t01db.
+Lemma T01_upg : forall f s, T01 s -> T01 (upg f s).
+Proof. intros f []; exact (fun h => h). Qed.
+Ltac fe := intros; unfold h_add, timed_add, timed_has; cases; reflexivity.
+Lemma T01_same : forall s s', oh s' = oh s -> reset_parser s' = reset_parser s -> ps s' = ps s -> sasl s' = sasl s ->
+  timed_has TMissingFeatures s' = timed_has TMissingFeatures s -> (h_has HFeatures s = true -> h_has HFeatures s' = true) ->
+  T01 s -> T01 s'.
+Proof.
+  intros s s' E1 E2 E3 E4 E5 E6 [A B]. split.
+  - intros O R. rewrite E4. apply A; congruence.
+  - unfold T1 in *. rewrite E5, E4. intros T. destruct (B T). auto.
+Qed.
+Lemma T01_h_add : forall k s, T01 s -> T01 (h_add k s).
+Proof.
+  intros k s. apply T01_same; try (unfold h_add; cases; reflexivity).
+  intros H. rewrite h_has_h_add, H. reflexivity.
+Qed.
+Lemma T01_h_del : forall k s, hkind_eqb HFeatures k = false -> T01 s -> T01 (h_del k s).
+Proof.
+  intros k s E [A B]. split.
+  - exact A.
+  - intros T. destruct (B T) as [B1 B2]. split; [exact B1 | rewrite h_has_h_del, B2, E; reflexivity].
+Qed.
+Lemma T01_enable_all : forall s, T01 s -> T01 (set_handlers (map (fun x => (fst x, true)) (handlers s)) s).
+Proof. intros s [A B]. split; [exact A|]. intros T. destruct (B T) as [B1 B2]. split; [exact B1 | rewrite h_has_enable_all; exact B2]. Qed.
+Lemma T01_timed_add : forall k n s, tkind_eqb TMissingFeatures k = false -> T01 s -> T01 (timed_add k n s).
+Proof.
+  intros k n s E. apply T01_same; try (unfold timed_add; cases; reflexivity).
+  - rewrite timed_has_timed_add, E, orb_false_r. reflexivity.
+  - unfold timed_add, h_has; cases; auto.
+Qed.
+Lemma T01_timed_del : forall k s, T01 s -> T01 (timed_del k s).
+Proof.
+  intros k s [A B]. split; [exact A|]. unfold T1. rewrite timed_has_timed_del. intros T. apply andb_prop in T. destruct T as [T _]. exact (B T).
+Qed.
+Lemma T01_timed_reset_all : forall n s, T01 s -> T01 (timed_reset_all n s).
+Proof. intros n s [A B]. split; [exact A|]. unfold T1. rewrite timed_has_timed_reset_all. exact B. Qed.
+Lemma T01_timed_set_stamp : forall k n s, T01 s -> T01 (timed_set_stamp k n s).
+Proof. intros k n s [A B]. split; [exact A|]. unfold T1. rewrite timed_has_timed_set_stamp. exact B. Qed.
+Lemma T01_set_sasl : forall l s, (sasl s = [] -> l = []) -> T01 s -> T01 (set_sasl l s).
+Proof.
+  intros l s L [A B]. split.
+  - intros O R. sproj. apply L. apply A; revert O R; sproj; auto.
+  - intros T. destruct (B T) as [B1 B2]. split; [sproj; auto | exact B2].
+Qed.
+Lemma T01_prepare_reset : forall h s, h <> OpenAuth -> T01 s -> T01 (prepare_reset h s).
+Proof. intros h s N [A B]. split; [intros O; revert O; unfold prepare_reset; sproj; congruence | exact B]. Qed.
+Lemma T01_set_ps : forall p s, is_depth0 p = false -> T01 s -> T01 (set_ps p s).
+Proof.
+  intros p s D [A B]. split; [|exact B]. intros O R. sproj. apply A; [exact O|]. revert R. sproj. rewrite D, orb_false_r. intros ->. reflexivity.
+Qed.
+#[export] Hint Resolve T01_upg T01_h_add T01_enable_all T01_timed_del T01_timed_reset_all T01_timed_set_stamp : t01db.
+#[export] Hint Extern 1 (T01 (h_del _ _)) => (apply T01_h_del; [reflexivity | ]) : t01db.
+#[export] Hint Extern 1 (T01 (timed_add _ _ _)) => (apply T01_timed_add; [reflexivity | ]) : t01db.
+#[export] Hint Extern 1 (T01 (prepare_reset _ _)) => (apply T01_prepare_reset; [discriminate | ]) : t01db.
+#[export] Hint Extern 1 (T01 (set_ps _ _)) => (apply T01_set_ps; [reflexivity | ]) : t01db.
+Lemma timed_has_enable_all : forall k s, timed_has k (set_timed (map (fun x => (fst (fst x), true, snd x)) (timed s)) s) = timed_has k s.
+Proof. intros. unfold timed_has. sproj. induction (timed s) as [|x l IH]; [reflexivity|]. cbn. rewrite IH. reflexivity. Qed.
+Lemma T01_enable_timed : forall s, T01 s -> T01 (set_timed (map (fun x => (fst (fst x), true, snd x)) (timed s)) s).
+Proof. intros s [A B]. split; [exact A|]. unfold T1. rewrite timed_has_enable_all. exact B. Qed.
+#[export] Hint Resolve T01_enable_timed : t01db.
+
+(* NT1: the features time-out is not armed *)
+Definition NT1 (s : state) : Prop := timed_has TMissingFeatures s = false.
+Lemma NT1_set_f_tls_disabled : forall v s, NT1 s -> NT1 (set_f_tls_disabled v s).
+Proof. intros v []; exact (fun h => h). Qed.
+#[export] Hint Resolve NT1_set_f_tls_disabled : nt1db.
+Lemma NT1_set_f_tls_mandatory : forall v s, NT1 s -> NT1 (set_f_tls_mandatory v s).
+Proof. intros v []; exact (fun h => h). Qed.
+#[export] Hint Resolve NT1_set_f_tls_mandatory : nt1db.
+Lemma NT1_set_f_legacy_ssl : forall v s, NT1 s -> NT1 (set_f_legacy_ssl v s).
+Proof. intros v []; exact (fun h => h). Qed.
+#[export] Hint Resolve NT1_set_f_legacy_ssl : nt1db.
+Lemma NT1_set_f_tls_trust : forall v s, NT1 s -> NT1 (set_f_tls_trust v s).
+Proof. intros v []; exact (fun h => h). Qed.
+#[export] Hint Resolve NT1_set_f_tls_trust : nt1db.
+Lemma NT1_set_f_legacy_auth : forall v s, NT1 s -> NT1 (set_f_legacy_auth v s).
+Proof. intros v []; exact (fun h => h). Qed.
+#[export] Hint Resolve NT1_set_f_legacy_auth : nt1db.
+Lemma NT1_set_f_sm_disable : forall v s, NT1 s -> NT1 (set_f_sm_disable v s).
+Proof. intros v []; exact (fun h => h). Qed.
+#[export] Hint Resolve NT1_set_f_sm_disable : nt1db.
+Lemma NT1_set_f_comp_allowed : forall v s, NT1 s -> NT1 (set_f_comp_allowed v s).
+Proof. intros v []; exact (fun h => h). Qed.
+#[export] Hint Resolve NT1_set_f_comp_allowed : nt1db.
+Lemma NT1_set_f_comp_dont_reset : forall v s, NT1 s -> NT1 (set_f_comp_dont_reset v s).
+Proof. intros v []; exact (fun h => h). Qed.
+#[export] Hint Resolve NT1_set_f_comp_dont_reset : nt1db.
+Lemma NT1_set_jid_set : forall v s, NT1 s -> NT1 (set_jid_set v s).
+Proof. intros v []; exact (fun h => h). Qed.
+#[export] Hint Resolve NT1_set_jid_set : nt1db.
+Lemma NT1_set_jid_node : forall v s, NT1 s -> NT1 (set_jid_node v s).
+Proof. intros v []; exact (fun h => h). Qed.
+#[export] Hint Resolve NT1_set_jid_node : nt1db.
+Lemma NT1_set_jid_res : forall v s, NT1 s -> NT1 (set_jid_res v s).
+Proof. intros v []; exact (fun h => h). Qed.
+#[export] Hint Resolve NT1_set_jid_res : nt1db.
+Lemma NT1_set_pass_set : forall v s, NT1 s -> NT1 (set_pass_set v s).
+Proof. intros v []; exact (fun h => h). Qed.
+#[export] Hint Resolve NT1_set_pass_set : nt1db.
+Lemma NT1_set_cert_set : forall v s, NT1 s -> NT1 (set_cert_set v s).
+Proof. intros v []; exact (fun h => h). Qed.
+#[export] Hint Resolve NT1_set_cert_set : nt1db.
+Lemma NT1_set_is_raw : forall v s, NT1 s -> NT1 (set_is_raw v s).
+Proof. intros v []; exact (fun h => h). Qed.
+#[export] Hint Resolve NT1_set_is_raw : nt1db.
+Lemma NT1_set_typ : forall v s, NT1 s -> NT1 (set_typ v s).
+Proof. intros v []; exact (fun h => h). Qed.
+#[export] Hint Resolve NT1_set_typ : nt1db.
+Lemma NT1_set_user_handler : forall v s, NT1 s -> NT1 (set_user_handler v s).
+Proof. intros v []; exact (fun h => h). Qed.
+#[export] Hint Resolve NT1_set_user_handler : nt1db.
+Lemma NT1_set_user_timed : forall v s, NT1 s -> NT1 (set_user_timed v s).
+Proof. intros v []; exact (fun h => h). Qed.
+#[export] Hint Resolve NT1_set_user_timed : nt1db.
+Lemma NT1_set_tlsnew_ok : forall v s, NT1 s -> NT1 (set_tlsnew_ok v s).
+Proof. intros v []; exact (fun h => h). Qed.
+#[export] Hint Resolve NT1_set_tlsnew_ok : nt1db.
+Lemma NT1_set_cb_avail : forall v s, NT1 s -> NT1 (set_cb_avail v s).
+Proof. intros v []; exact (fun h => h). Qed.
+#[export] Hint Resolve NT1_set_cb_avail : nt1db.
+Lemma NT1_set_tls_verdicts : forall v s, NT1 s -> NT1 (set_tls_verdicts v s).
+Proof. intros v []; exact (fun h => h). Qed.
+#[export] Hint Resolve NT1_set_tls_verdicts : nt1db.
+Lemma NT1_set_next_cands : forall v s, NT1 s -> NT1 (set_next_cands v s).
+Proof. intros v []; exact (fun h => h). Qed.
+#[export] Hint Resolve NT1_set_next_cands : nt1db.
+Lemma NT1_set_cands : forall v s, NT1 s -> NT1 (set_cands v s).
+Proof. intros v []; exact (fun h => h). Qed.
+#[export] Hint Resolve NT1_set_cands : nt1db.
+Lemma NT1_set_cur_ep : forall v s, NT1 s -> NT1 (set_cur_ep v s).
+Proof. intros v []; exact (fun h => h). Qed.
+#[export] Hint Resolve NT1_set_cur_ep : nt1db.
+Lemma NT1_set_st : forall v s, NT1 s -> NT1 (set_st v s).
+Proof. intros v []; exact (fun h => h). Qed.
+#[export] Hint Resolve NT1_set_st : nt1db.
+Lemma NT1_set_stamp : forall v s, NT1 s -> NT1 (set_stamp v s).
+Proof. intros v []; exact (fun h => h). Qed.
+#[export] Hint Resolve NT1_set_stamp : nt1db.
+Lemma NT1_set_err : forall v s, NT1 s -> NT1 (set_err v s).
+Proof. intros v []; exact (fun h => h). Qed.
+#[export] Hint Resolve NT1_set_err : nt1db.
+Lemma NT1_set_stream_error : forall v s, NT1 s -> NT1 (set_stream_error v s).
+Proof. intros v []; exact (fun h => h). Qed.
+#[export] Hint Resolve NT1_set_stream_error : nt1db.
+Lemma NT1_set_secured : forall v s, NT1 s -> NT1 (set_secured v s).
+Proof. intros v []; exact (fun h => h). Qed.
+#[export] Hint Resolve NT1_set_secured : nt1db.
+Lemma NT1_set_tls_present : forall v s, NT1 s -> NT1 (set_tls_present v s).
+Proof. intros v []; exact (fun h => h). Qed.
+#[export] Hint Resolve NT1_set_tls_present : nt1db.
+Lemma NT1_set_tls_failed : forall v s, NT1 s -> NT1 (set_tls_failed v s).
+Proof. intros v []; exact (fun h => h). Qed.
+#[export] Hint Resolve NT1_set_tls_failed : nt1db.
+Lemma NT1_set_tls_support : forall v s, NT1 s -> NT1 (set_tls_support v s).
+Proof. intros v []; exact (fun h => h). Qed.
+#[export] Hint Resolve NT1_set_tls_support : nt1db.
+Lemma NT1_set_sasl : forall v s, NT1 s -> NT1 (set_sasl v s).
+Proof. intros v []; exact (fun h => h). Qed.
+#[export] Hint Resolve NT1_set_sasl : nt1db.
+Lemma NT1_set_bind_required : forall v s, NT1 s -> NT1 (set_bind_required v s).
+Proof. intros v []; exact (fun h => h). Qed.
+#[export] Hint Resolve NT1_set_bind_required : nt1db.
+Lemma NT1_set_session_required : forall v s, NT1 s -> NT1 (set_session_required v s).
+Proof. intros v []; exact (fun h => h). Qed.
+#[export] Hint Resolve NT1_set_session_required : nt1db.
+Lemma NT1_set_comp_supported : forall v s, NT1 s -> NT1 (set_comp_supported v s).
+Proof. intros v []; exact (fun h => h). Qed.
+#[export] Hint Resolve NT1_set_comp_supported : nt1db.
+Lemma NT1_set_comp_active : forall v s, NT1 s -> NT1 (set_comp_active v s).
+Proof. intros v []; exact (fun h => h). Qed.
+#[export] Hint Resolve NT1_set_comp_active : nt1db.
+Lemma NT1_set_sm_alloc : forall v s, NT1 s -> NT1 (set_sm_alloc v s).
+Proof. intros v []; exact (fun h => h). Qed.
+#[export] Hint Resolve NT1_set_sm_alloc : nt1db.
+Lemma NT1_set_sm_support : forall v s, NT1 s -> NT1 (set_sm_support v s).
+Proof. intros v []; exact (fun h => h). Qed.
+#[export] Hint Resolve NT1_set_sm_support : nt1db.
+Lemma NT1_set_sm_enabled : forall v s, NT1 s -> NT1 (set_sm_enabled v s).
+Proof. intros v []; exact (fun h => h). Qed.
+#[export] Hint Resolve NT1_set_sm_enabled : nt1db.
+Lemma NT1_set_sm_can_resume : forall v s, NT1 s -> NT1 (set_sm_can_resume v s).
+Proof. intros v []; exact (fun h => h). Qed.
+#[export] Hint Resolve NT1_set_sm_can_resume : nt1db.
+Lemma NT1_set_sm_resume : forall v s, NT1 s -> NT1 (set_sm_resume v s).
+Proof. intros v []; exact (fun h => h). Qed.
+#[export] Hint Resolve NT1_set_sm_resume : nt1db.
+Lemma NT1_set_sm_dont_request : forall v s, NT1 s -> NT1 (set_sm_dont_request v s).
+Proof. intros v []; exact (fun h => h). Qed.
+#[export] Hint Resolve NT1_set_sm_dont_request : nt1db.
+Lemma NT1_set_sm_has_previd : forall v s, NT1 s -> NT1 (set_sm_has_previd v s).
+Proof. intros v []; exact (fun h => h). Qed.
+#[export] Hint Resolve NT1_set_sm_has_previd : nt1db.
+Lemma NT1_set_sm_has_id : forall v s, NT1 s -> NT1 (set_sm_has_id v s).
+Proof. intros v []; exact (fun h => h). Qed.
+#[export] Hint Resolve NT1_set_sm_has_id : nt1db.
+Lemma NT1_set_sm_parked : forall v s, NT1 s -> NT1 (set_sm_parked v s).
+Proof. intros v []; exact (fun h => h). Qed.
+#[export] Hint Resolve NT1_set_sm_parked : nt1db.
+Lemma NT1_set_sm_r_sent : forall v s, NT1 s -> NT1 (set_sm_r_sent v s).
+Proof. intros v []; exact (fun h => h). Qed.
+#[export] Hint Resolve NT1_set_sm_r_sent : nt1db.
+Lemma NT1_set_sm_bind_saved : forall v s, NT1 s -> NT1 (set_sm_bind_saved v s).
+Proof. intros v []; exact (fun h => h). Qed.
+#[export] Hint Resolve NT1_set_sm_bind_saved : nt1db.
+Lemma NT1_set_bound_jid : forall v s, NT1 s -> NT1 (set_bound_jid v s).
+Proof. intros v []; exact (fun h => h). Qed.
+#[export] Hint Resolve NT1_set_bound_jid : nt1db.
+Lemma NT1_set_stream_id : forall v s, NT1 s -> NT1 (set_stream_id v s).
+Proof. intros v []; exact (fun h => h). Qed.
+#[export] Hint Resolve NT1_set_stream_id : nt1db.
+Lemma NT1_set_neg_done : forall v s, NT1 s -> NT1 (set_neg_done v s).
+Proof. intros v []; exact (fun h => h). Qed.
+#[export] Hint Resolve NT1_set_neg_done : nt1db.
+Lemma NT1_set_reset_parser : forall v s, NT1 s -> NT1 (set_reset_parser v s).
+Proof. intros v []; exact (fun h => h). Qed.
+#[export] Hint Resolve NT1_set_reset_parser : nt1db.
+Lemma NT1_set_oh : forall v s, NT1 s -> NT1 (set_oh v s).
+Proof. intros v []; exact (fun h => h). Qed.
+#[export] Hint Resolve NT1_set_oh : nt1db.
+Lemma NT1_set_ps : forall v s, NT1 s -> NT1 (set_ps v s).
+Proof. intros v []; exact (fun h => h). Qed.
+#[export] Hint Resolve NT1_set_ps : nt1db.
+Lemma NT1_set_handlers : forall v s, NT1 s -> NT1 (set_handlers v s).
+Proof. intros v []; exact (fun h => h). Qed.
+#[export] Hint Resolve NT1_set_handlers : nt1db.
+Lemma NT1_set_idhandlers : forall v s, NT1 s -> NT1 (set_idhandlers v s).
+Proof. intros v []; exact (fun h => h). Qed.
+#[export] Hint Resolve NT1_set_idhandlers : nt1db.
+Lemma NT1_set_sendq : forall v s, NT1 s -> NT1 (set_sendq v s).
+Proof. intros v []; exact (fun h => h). Qed.
+#[export] Hint Resolve NT1_set_sendq : nt1db.
+Lemma NT1_set_rxq : forall v s, NT1 s -> NT1 (set_rxq v s).
+Proof. intros v []; exact (fun h => h). Qed.
+#[export] Hint Resolve NT1_set_rxq : nt1db.
+Lemma NT1_set_smq : forall v s, NT1 s -> NT1 (set_smq v s).
+Proof. intros v []; exact (fun h => h). Qed.
+#[export] Hint Resolve NT1_set_smq : nt1db.
+Lemma NT1_set_sm_sent : forall v s, NT1 s -> NT1 (set_sm_sent v s).
+Proof. intros v []; exact (fun h => h). Qed.
+#[export] Hint Resolve NT1_set_sm_sent : nt1db.
+Lemma NT1_set_scram_serial : forall v s, NT1 s -> NT1 (set_scram_serial v s).
+Proof. intros v []; exact (fun h => h). Qed.
+#[export] Hint Resolve NT1_set_scram_serial : nt1db.
+Lemma NT1_set_crashed : forall v s, NT1 s -> NT1 (set_crashed v s).
+Proof. intros v []; exact (fun h => h). Qed.
+#[export] Hint Resolve NT1_set_crashed : nt1db.
+Lemma NT1_set_gh : forall v s, NT1 s -> NT1 (set_gh v s).
+Proof. intros v []; exact (fun h => h). Qed.
+#[export] Hint Resolve NT1_set_gh : nt1db.
+Lemma NT1_upg : forall f s, NT1 s -> NT1 (upg f s).
+Proof. intros f []; exact (fun h => h). Qed.
+Lemma NT1_timed_add : forall k n s, tkind_eqb TMissingFeatures k = false -> NT1 s -> NT1 (timed_add k n s).
+Proof. intros k n s E H. unfold NT1. rewrite timed_has_timed_add, H, E. reflexivity. Qed.
+Lemma NT1_timed_del : forall k s, NT1 s -> NT1 (timed_del k s).
+Proof. intros k s H. unfold NT1. rewrite timed_has_timed_del, H. reflexivity. Qed.
+#[export] Hint Resolve NT1_upg NT1_timed_del : nt1db.
+#[export] Hint Extern 1 (NT1 (timed_add _ _ _)) => (apply NT1_timed_add; [reflexivity | ]) : nt1db.
+Lemma NT1_q_append : forall w u sm s, NT1 s -> NT1 (q_append w u sm s).
+Proof. intros; unfold q_append; cases; eauto 10 with nt1db. Qed.
+#[export] Hint Resolve NT1_q_append : nt1db.
+Lemma NT1_send_gated : forall w u sm s, NT1 s -> NT1 (send_gated w u sm s).
+Proof. intros; unfold send_gated, ret; cases; leaf; eauto 30 with nt1db. Qed.
+#[export] Hint Resolve NT1_send_gated : nt1db.
+Lemma NT1_send_raw_m : forall w u sm s, NT1 s -> NT1 (send_raw_m w u sm s).
+Proof. intros; unfold send_raw_m, ret; cases; leaf; eauto 30 with nt1db. Qed.
+#[export] Hint Resolve NT1_send_raw_m : nt1db.
+Lemma NT1_h_add : forall k s, NT1 s -> NT1 (h_add k s).
+Proof. intros; unfold h_add, ret; cases; leaf; eauto 30 with nt1db. Qed.
+#[export] Hint Resolve NT1_h_add : nt1db.
+Lemma NT1_id_add : forall k s, NT1 s -> NT1 (id_add k s).
+Proof. intros; unfold id_add, ret; cases; leaf; eauto 30 with nt1db. Qed.
+#[export] Hint Resolve NT1_id_add : nt1db.
+Lemma NT1_reset_sm_for_reconnect : forall s, NT1 s -> NT1 (reset_sm_for_reconnect s).
+Proof. intros; unfold reset_sm_for_reconnect, ret; cases; leaf; eauto 30 with nt1db. Qed.
+#[export] Hint Resolve NT1_reset_sm_for_reconnect : nt1db.
+Lemma NT1_conn_disconnect : forall s, NT1 s -> NT1 (fst (conn_disconnect s)).
+Proof. intros; name_result; unfold conn_disconnect, ret; cases; leaf; eauto 30 with nt1db. Qed.
+#[export] Hint Resolve NT1_conn_disconnect : nt1db.
+Lemma NT1_xmpp_disconnect : forall n s, NT1 s -> NT1 (xmpp_disconnect n s).
+Proof. intros; unfold xmpp_disconnect, ret; cases; leaf; eauto 30 with nt1db. Qed.
+#[export] Hint Resolve NT1_xmpp_disconnect : nt1db.
+Lemma NT1_conn_open_stream : forall s, NT1 s -> NT1 (conn_open_stream s).
+Proof. intros; unfold conn_open_stream, ret; cases; leaf; eauto 30 with nt1db. Qed.
+#[export] Hint Resolve NT1_conn_open_stream : nt1db.
+Lemma NT1_auth_legacy : forall n s, NT1 s -> NT1 (auth_legacy n s).
+Proof. intros; unfold auth_legacy, ret; cases; leaf; eauto 30 with nt1db. Qed.
+#[export] Hint Resolve NT1_auth_legacy : nt1db.
+Lemma NT1_auth : forall fuel n s, NT1 s -> NT1 (fst (auth fuel n s)).
+Proof. induction fuel; intros; name_result; cbn [auth]; unfold ret; cases; leaf; eauto 30 with nt1db. Qed.
+
+(* PZ: an initial client stream is not pending *)
+Definition PZ (s : state) : Prop := oh s = OpenAuth -> (reset_parser s || is_depth0 (ps s)) = false.
+Lemma PZ_set_f_tls_disabled : forall v s, PZ s -> PZ (set_f_tls_disabled v s).
+Proof. intros v []; exact (fun h => h). Qed.
+#[export] Hint Resolve PZ_set_f_tls_disabled : pzdb.
+Lemma PZ_set_f_tls_mandatory : forall v s, PZ s -> PZ (set_f_tls_mandatory v s).
+Proof. intros v []; exact (fun h => h). Qed.
+#[export] Hint Resolve PZ_set_f_tls_mandatory : pzdb.
+Lemma PZ_set_f_legacy_ssl : forall v s, PZ s -> PZ (set_f_legacy_ssl v s).
+Proof. intros v []; exact (fun h => h). Qed.
+#[export] Hint Resolve PZ_set_f_legacy_ssl : pzdb.
+Lemma PZ_set_f_tls_trust : forall v s, PZ s -> PZ (set_f_tls_trust v s).
+Proof. intros v []; exact (fun h => h). Qed.
+#[export] Hint Resolve PZ_set_f_tls_trust : pzdb.
+Lemma PZ_set_f_legacy_auth : forall v s, PZ s -> PZ (set_f_legacy_auth v s).
+Proof. intros v []; exact (fun h => h). Qed.
+#[export] Hint Resolve PZ_set_f_legacy_auth : pzdb.
+Lemma PZ_set_f_sm_disable : forall v s, PZ s -> PZ (set_f_sm_disable v s).
+Proof. intros v []; exact (fun h => h). Qed.
+#[export] Hint Resolve PZ_set_f_sm_disable : pzdb.
+Lemma PZ_set_f_comp_allowed : forall v s, PZ s -> PZ (set_f_comp_allowed v s).
+Proof. intros v []; exact (fun h => h). Qed.
+#[export] Hint Resolve PZ_set_f_comp_allowed : pzdb.
+Lemma PZ_set_f_comp_dont_reset : forall v s, PZ s -> PZ (set_f_comp_dont_reset v s).
+Proof. intros v []; exact (fun h => h). Qed.
+#[export] Hint Resolve PZ_set_f_comp_dont_reset : pzdb.
+Lemma PZ_set_jid_set : forall v s, PZ s -> PZ (set_jid_set v s).
+Proof. intros v []; exact (fun h => h). Qed.
+#[export] Hint Resolve PZ_set_jid_set : pzdb.
+Lemma PZ_set_jid_node : forall v s, PZ s -> PZ (set_jid_node v s).
+Proof. intros v []; exact (fun h => h). Qed.
+#[export] Hint Resolve PZ_set_jid_node : pzdb.
+Lemma PZ_set_jid_res : forall v s, PZ s -> PZ (set_jid_res v s).
+Proof. intros v []; exact (fun h => h). Qed.
+#[export] Hint Resolve PZ_set_jid_res : pzdb.
+Lemma PZ_set_pass_set : forall v s, PZ s -> PZ (set_pass_set v s).
+Proof. intros v []; exact (fun h => h). Qed.
+#[export] Hint Resolve PZ_set_pass_set : pzdb.
+Lemma PZ_set_cert_set : forall v s, PZ s -> PZ (set_cert_set v s).
+Proof. intros v []; exact (fun h => h). Qed.
+#[export] Hint Resolve PZ_set_cert_set : pzdb.
+Lemma PZ_set_is_raw : forall v s, PZ s -> PZ (set_is_raw v s).
+Proof. intros v []; exact (fun h => h). Qed.
+#[export] Hint Resolve PZ_set_is_raw : pzdb.
+Lemma PZ_set_typ : forall v s, PZ s -> PZ (set_typ v s).
+Proof. intros v []; exact (fun h => h). Qed.
+#[export] Hint Resolve PZ_set_typ : pzdb.
+Lemma PZ_set_user_handler : forall v s, PZ s -> PZ (set_user_handler v s).
+Proof. intros v []; exact (fun h => h). Qed.
+#[export] Hint Resolve PZ_set_user_handler : pzdb.
+Lemma PZ_set_user_timed : forall v s, PZ s -> PZ (set_user_timed v s).
+Proof. intros v []; exact (fun h => h). Qed.
+#[export] Hint Resolve PZ_set_user_timed : pzdb.
+Lemma PZ_set_tlsnew_ok : forall v s, PZ s -> PZ (set_tlsnew_ok v s).
+Proof. intros v []; exact (fun h => h). Qed.
+#[export] Hint Resolve PZ_set_tlsnew_ok : pzdb.
+Lemma PZ_set_cb_avail : forall v s, PZ s -> PZ (set_cb_avail v s).
+Proof. intros v []; exact (fun h => h). Qed.
+#[export] Hint Resolve PZ_set_cb_avail : pzdb.
+Lemma PZ_set_tls_verdicts : forall v s, PZ s -> PZ (set_tls_verdicts v s).
+Proof. intros v []; exact (fun h => h). Qed.
+#[export] Hint Resolve PZ_set_tls_verdicts : pzdb.
+Lemma PZ_set_next_cands : forall v s, PZ s -> PZ (set_next_cands v s).
+Proof. intros v []; exact (fun h => h). Qed.
+#[export] Hint Resolve PZ_set_next_cands : pzdb.
+Lemma PZ_set_cands : forall v s, PZ s -> PZ (set_cands v s).
+Proof. intros v []; exact (fun h => h). Qed.
+#[export] Hint Resolve PZ_set_cands : pzdb.
+Lemma PZ_set_cur_ep : forall v s, PZ s -> PZ (set_cur_ep v s).
+Proof. intros v []; exact (fun h => h). Qed.
+#[export] Hint Resolve PZ_set_cur_ep : pzdb.
+Lemma PZ_set_st : forall v s, PZ s -> PZ (set_st v s).
+Proof. intros v []; exact (fun h => h). Qed.
+#[export] Hint Resolve PZ_set_st : pzdb.
+Lemma PZ_set_stamp : forall v s, PZ s -> PZ (set_stamp v s).
+Proof. intros v []; exact (fun h => h). Qed.
+#[export] Hint Resolve PZ_set_stamp : pzdb.
+Lemma PZ_set_err : forall v s, PZ s -> PZ (set_err v s).
+Proof. intros v []; exact (fun h => h). Qed.
+#[export] Hint Resolve PZ_set_err : pzdb.
+Lemma PZ_set_stream_error : forall v s, PZ s -> PZ (set_stream_error v s).
+Proof. intros v []; exact (fun h => h). Qed.
+#[export] Hint Resolve PZ_set_stream_error : pzdb.
+Lemma PZ_set_secured : forall v s, PZ s -> PZ (set_secured v s).
+Proof. intros v []; exact (fun h => h). Qed.
+#[export] Hint Resolve PZ_set_secured : pzdb.
+Lemma PZ_set_tls_present : forall v s, PZ s -> PZ (set_tls_present v s).
+Proof. intros v []; exact (fun h => h). Qed.
+#[export] Hint Resolve PZ_set_tls_present : pzdb.
+Lemma PZ_set_tls_failed : forall v s, PZ s -> PZ (set_tls_failed v s).
+Proof. intros v []; exact (fun h => h). Qed.
+#[export] Hint Resolve PZ_set_tls_failed : pzdb.
+Lemma PZ_set_tls_support : forall v s, PZ s -> PZ (set_tls_support v s).
+Proof. intros v []; exact (fun h => h). Qed.
+#[export] Hint Resolve PZ_set_tls_support : pzdb.
+Lemma PZ_set_sasl : forall v s, PZ s -> PZ (set_sasl v s).
+Proof. intros v []; exact (fun h => h). Qed.
+#[export] Hint Resolve PZ_set_sasl : pzdb.
+Lemma PZ_set_bind_required : forall v s, PZ s -> PZ (set_bind_required v s).
+Proof. intros v []; exact (fun h => h). Qed.
+#[export] Hint Resolve PZ_set_bind_required : pzdb.
+Lemma PZ_set_session_required : forall v s, PZ s -> PZ (set_session_required v s).
+Proof. intros v []; exact (fun h => h). Qed.
+#[export] Hint Resolve PZ_set_session_required : pzdb.
+Lemma PZ_set_comp_supported : forall v s, PZ s -> PZ (set_comp_supported v s).
+Proof. intros v []; exact (fun h => h). Qed.
+#[export] Hint Resolve PZ_set_comp_supported : pzdb.
+Lemma PZ_set_comp_active : forall v s, PZ s -> PZ (set_comp_active v s).
+Proof. intros v []; exact (fun h => h). Qed.
+#[export] Hint Resolve PZ_set_comp_active : pzdb.
+Lemma PZ_set_sm_alloc : forall v s, PZ s -> PZ (set_sm_alloc v s).
+Proof. intros v []; exact (fun h => h). Qed.
+#[export] Hint Resolve PZ_set_sm_alloc : pzdb.
+Lemma PZ_set_sm_support : forall v s, PZ s -> PZ (set_sm_support v s).
+Proof. intros v []; exact (fun h => h). Qed.
+#[export] Hint Resolve PZ_set_sm_support : pzdb.
+Lemma PZ_set_sm_enabled : forall v s, PZ s -> PZ (set_sm_enabled v s).
+Proof. intros v []; exact (fun h => h). Qed.
+#[export] Hint Resolve PZ_set_sm_enabled : pzdb.
+Lemma PZ_set_sm_can_resume : forall v s, PZ s -> PZ (set_sm_can_resume v s).
+Proof. intros v []; exact (fun h => h). Qed.
+#[export] Hint Resolve PZ_set_sm_can_resume : pzdb.
+Lemma PZ_set_sm_resume : forall v s, PZ s -> PZ (set_sm_resume v s).
+Proof. intros v []; exact (fun h => h). Qed.
+#[export] Hint Resolve PZ_set_sm_resume : pzdb.
+Lemma PZ_set_sm_dont_request : forall v s, PZ s -> PZ (set_sm_dont_request v s).
+Proof. intros v []; exact (fun h => h). Qed.
+#[export] Hint Resolve PZ_set_sm_dont_request : pzdb.
+Lemma PZ_set_sm_has_previd : forall v s, PZ s -> PZ (set_sm_has_previd v s).
+Proof. intros v []; exact (fun h => h). Qed.
+#[export] Hint Resolve PZ_set_sm_has_previd : pzdb.
+Lemma PZ_set_sm_has_id : forall v s, PZ s -> PZ (set_sm_has_id v s).
+Proof. intros v []; exact (fun h => h). Qed.
+#[export] Hint Resolve PZ_set_sm_has_id : pzdb.
+Lemma PZ_set_sm_parked : forall v s, PZ s -> PZ (set_sm_parked v s).
+Proof. intros v []; exact (fun h => h). Qed.
+#[export] Hint Resolve PZ_set_sm_parked : pzdb.
+Lemma PZ_set_sm_r_sent : forall v s, PZ s -> PZ (set_sm_r_sent v s).
+Proof. intros v []; exact (fun h => h). Qed.
+#[export] Hint Resolve PZ_set_sm_r_sent : pzdb.
+Lemma PZ_set_sm_bind_saved : forall v s, PZ s -> PZ (set_sm_bind_saved v s).
+Proof. intros v []; exact (fun h => h). Qed.
+#[export] Hint Resolve PZ_set_sm_bind_saved : pzdb.
+Lemma PZ_set_bound_jid : forall v s, PZ s -> PZ (set_bound_jid v s).
+Proof. intros v []; exact (fun h => h). Qed.
+#[export] Hint Resolve PZ_set_bound_jid : pzdb.
+Lemma PZ_set_stream_id : forall v s, PZ s -> PZ (set_stream_id v s).
+Proof. intros v []; exact (fun h => h). Qed.
+#[export] Hint Resolve PZ_set_stream_id : pzdb.
+Lemma PZ_set_neg_done : forall v s, PZ s -> PZ (set_neg_done v s).
+Proof. intros v []; exact (fun h => h). Qed.
+#[export] Hint Resolve PZ_set_neg_done : pzdb.
+Lemma PZ_set_handlers : forall v s, PZ s -> PZ (set_handlers v s).
+Proof. intros v []; exact (fun h => h). Qed.
+#[export] Hint Resolve PZ_set_handlers : pzdb.
+Lemma PZ_set_idhandlers : forall v s, PZ s -> PZ (set_idhandlers v s).
+Proof. intros v []; exact (fun h => h). Qed.
+#[export] Hint Resolve PZ_set_idhandlers : pzdb.
+Lemma PZ_set_timed : forall v s, PZ s -> PZ (set_timed v s).
+Proof. intros v []; exact (fun h => h). Qed.
+#[export] Hint Resolve PZ_set_timed : pzdb.
+Lemma PZ_set_sendq : forall v s, PZ s -> PZ (set_sendq v s).
+Proof. intros v []; exact (fun h => h). Qed.
+#[export] Hint Resolve PZ_set_sendq : pzdb.
+Lemma PZ_set_rxq : forall v s, PZ s -> PZ (set_rxq v s).
+Proof. intros v []; exact (fun h => h). Qed.
+#[export] Hint Resolve PZ_set_rxq : pzdb.
+Lemma PZ_set_smq : forall v s, PZ s -> PZ (set_smq v s).
+Proof. intros v []; exact (fun h => h). Qed.
+#[export] Hint Resolve PZ_set_smq : pzdb.
+Lemma PZ_set_sm_sent : forall v s, PZ s -> PZ (set_sm_sent v s).
+Proof. intros v []; exact (fun h => h). Qed.
+#[export] Hint Resolve PZ_set_sm_sent : pzdb.
+Lemma PZ_set_scram_serial : forall v s, PZ s -> PZ (set_scram_serial v s).
+Proof. intros v []; exact (fun h => h). Qed.
+#[export] Hint Resolve PZ_set_scram_serial : pzdb.
+Lemma PZ_set_crashed : forall v s, PZ s -> PZ (set_crashed v s).
+Proof. intros v []; exact (fun h => h). Qed.
+#[export] Hint Resolve PZ_set_crashed : pzdb.
+Lemma PZ_set_gh : forall v s, PZ s -> PZ (set_gh v s).
+Proof. intros v []; exact (fun h => h). Qed.
+#[export] Hint Resolve PZ_set_gh : pzdb.
+Lemma T01_q_append : forall w u sm s, T01 s -> T01 (q_append w u sm s).
+Proof. intros; unfold q_append; cases; eauto 10 with t01db. Qed.
+#[export] Hint Resolve T01_q_append : t01db.
+Lemma T01_send_gated : forall w u sm s, T01 s -> T01 (send_gated w u sm s).
+Proof. intros; unfold send_gated, ret; cases; leaf; eauto 30 with t01db. Qed.
+#[export] Hint Resolve T01_send_gated : t01db.
+Lemma T01_send_raw_m : forall w u sm s, T01 s -> T01 (send_raw_m w u sm s).
+Proof. intros; unfold send_raw_m, ret; cases; leaf; eauto 30 with t01db. Qed.
+#[export] Hint Resolve T01_send_raw_m : t01db.
+
+
+
+
+
+
+Lemma T01_id_add : forall k s, T01 s -> T01 (id_add k s).
+Proof. intros; unfold id_add, ret; cases; leaf; eauto 30 with t01db. Qed.
+#[export] Hint Resolve T01_id_add : t01db.
+Lemma T01_id_del : forall k s, T01 s -> T01 (id_del k s).
+Proof. intros; unfold id_del, ret; cases; leaf; eauto 30 with t01db. Qed.
+#[export] Hint Resolve T01_id_del : t01db.
+Lemma T01_reset_sm_for_reconnect : forall s, T01 s -> T01 (reset_sm_for_reconnect s).
+Proof. intros; unfold reset_sm_for_reconnect, ret; cases; leaf; eauto 30 with t01db. Qed.
+#[export] Hint Resolve T01_reset_sm_for_reconnect : t01db.
+Lemma T01_sm_queue_cleanup : forall h s, T01 s -> T01 (sm_queue_cleanup h s).
+Proof. intros; unfold sm_queue_cleanup, ret; cases; leaf; eauto 30 with t01db. Qed.
+#[export] Hint Resolve T01_sm_queue_cleanup : t01db.
+Lemma T01_sm_queue_resend : forall s, T01 s -> T01 (sm_queue_resend s).
+Proof. intros; unfold sm_queue_resend. apply fold_left_inv; eauto with t01db. Qed.
+#[export] Hint Resolve T01_sm_queue_resend : t01db.
+Lemma T01_conn_disconnect : forall s, T01 s -> T01 (fst (conn_disconnect s)).
+Proof. intros; name_result; unfold conn_disconnect, ret; cases; leaf; eauto 30 with t01db. Qed.
+#[export] Hint Resolve T01_conn_disconnect : t01db.
+Lemma T01_xmpp_disconnect : forall n s, T01 s -> T01 (xmpp_disconnect n s).
+Proof. intros; unfold xmpp_disconnect, ret; cases; leaf; eauto 30 with t01db. Qed.
+#[export] Hint Resolve T01_xmpp_disconnect : t01db.
+
+Lemma T01_conn_open_stream : forall s, T01 s -> T01 (conn_open_stream s).
+Proof. intros; unfold conn_open_stream, ret; cases; leaf; eauto 30 with t01db. Qed.
+#[export] Hint Resolve T01_conn_open_stream : t01db.
+Lemma T01_conn_tls_start : forall s, T01 s -> T01 (fst (fst (conn_tls_start s))).
+Proof. intros; name_result; unfold conn_tls_start, ret; cases; leaf; eauto 30 with t01db. Qed.
+#[export] Hint Resolve T01_conn_tls_start : t01db.
+Lemma T01_stream_negotiation_success : forall s, T01 s -> T01 (fst (stream_negotiation_success s)).
+Proof. intros; name_result; unfold stream_negotiation_success, ret; cases; leaf; eauto 30 with t01db. Qed.
+#[export] Hint Resolve T01_stream_negotiation_success : t01db.
+Lemma T01_do_bind : forall n b s, T01 s -> T01 (fst (do_bind n b s)).
+Proof. intros; name_result; unfold do_bind, ret; cases; leaf; eauto 30 with t01db. Qed.
+#[export] Hint Resolve T01_do_bind : t01db.
+Lemma T01_session_start : forall n s, T01 s -> T01 (session_start n s).
+Proof. intros; unfold session_start, ret; cases; leaf; eauto 30 with t01db. Qed.
+#[export] Hint Resolve T01_session_start : t01db.
+Lemma T01_sm_enable : forall s, T01 s -> T01 (sm_enable s).
+Proof. intros; unfold sm_enable, ret; cases; leaf; eauto 30 with t01db. Qed.
+#[export] Hint Resolve T01_sm_enable : t01db.
+Lemma T01_auth_legacy : forall n s, T01 s -> T01 (auth_legacy n s).
+Proof. intros; unfold auth_legacy, ret; cases; leaf; eauto 30 with t01db. Qed.
+#[export] Hint Resolve T01_auth_legacy : t01db.
+Ltac t01_sasl :=
+  match goal with
+  | |- T01 (set_sasl (del_mech ?m (sasl ?s)) ?x) =>
+      apply T01_set_sasl;
+      [ let E := fresh in intros E;
+        assert (sasl s = []) as -> by (revert E; unfold send_gated, q_append, h_add; cases; sproj; auto); reflexivity
+      | ]
+  end.
+#[export] Hint Extern 1 (T01 (set_sasl (del_mech _ _) _)) => t01_sasl : t01db.
+Lemma T01_auth : forall fuel n s, T01 s -> T01 (fst (auth fuel n s)).
+Proof. induction fuel; intros; name_result; cbn [auth]; unfold ret; cases; leaf; eauto 30 with t01db. Qed.
+#[export] Hint Resolve T01_auth : t01db.
+Lemma T01_sasl_result : forall n e s, T01 s -> T01 (fst (sasl_result n e s)).
+Proof. intros; name_result; unfold sasl_result, ret; cases; leaf; eauto 30 with t01db. Qed.
+#[export] Hint Resolve T01_sasl_result : t01db.
+Lemma T01_features_sasl : forall n e s, T01 s -> T01 (fst (features_sasl n e s)).
+Proof. intros; name_result; unfold features_sasl, ret; cases; leaf; eauto 30 with t01db. Qed.
+#[export] Hint Resolve T01_features_sasl : t01db.
+Lemma T01_call_handler_other : forall k n e s, hkind_eqb k HFeatures = false -> T01 s -> T01 (fst (fst (call_handler k n e s))).
+Proof.
+  intros k; destruct k; intros n0 e s K1 H; try discriminate;
+    name_result; unfold call_handler, ret; cases; leaf; eauto 30 with t01db.
+Qed.
+Lemma T01_of_PZ_NT1 : forall s, PZ s -> NT1 s -> T01 s.
+Proof.
+  intros s P N. split.
+  - intros O R. rewrite (P O) in R. discriminate.
+  - intros T. unfold NT1 in N. congruence.
+Qed.
+Lemma T01_h_del_NT1 : forall k s, NT1 s -> T01 s -> T01 (h_del k s).
+Proof. intros k s N [A B]. split; [exact A|]. intros T. unfold NT1 in N. unfold h_del, timed_has in T. revert T. sproj. fold (timed_has TMissingFeatures s). congruence. Qed.
+Lemma hmarks_pos : forall k s, is_main k = true -> h_has k s = true -> (1 <= hmarks s)%nat.
+Proof.
+  intros k s M. unfold hmarks, h_has. induction (handlers s) as [|x l IH]; cbn; [discriminate|].
+  destruct (hkind_eqb k (fst x)) eqn:E; [apply hkind_eqb_eq in E; rewrite <- E, M; cbn; lia|].
+  cbn [orb]. intros Hl. specialize (IH Hl). destruct (is_main (fst x)); cbn; lia.
+Qed.
+(* _handle_features is the only place where the mechanism list grows; it has removed the features
+   time-out before, and it runs on an open stream (its own registration is the one token) *)
+Lemma T01_call_handler_visit : forall k n e s, T01 s -> (marks s <= 1)%nat -> h_has k s = true ->
+  T01 (if snd (call_handler k n e s) then fst (fst (call_handler k n e s)) else h_del k (fst (fst (call_handler k n e s)))).
+Proof.
+  intros k n e s H M Hk.
+  destruct (hkind_eqb k HFeatures) eqn:K1; [apply hkind_eqb_eq in K1; subst k|].
+  { (* _handle_features *)
+    assert (P0 : PZ s).
+    { intros O. unfold marks, pending in M. rewrite O in M. cbn [client_oh andb] in M.
+      pose proof (hmarks_pos HFeatures s eq_refl Hk).
+      destruct (reset_parser s || is_depth0 (ps s)); auto. cbn [b2n] in M. lia. }
+    unfold call_handler. cbv zeta.
+    match goal with |- context [auth 1 n ?x] => assert (T : PZ x /\ NT1 x) end.
+    { split.
+      - cases; unfold timed_del; eauto 10 with pzdb.
+      - assert (N0 : NT1 (timed_del TMissingFeaturesSasl (timed_del TMissingFeatures s))).
+        { unfold NT1. rewrite !timed_has_timed_del. cbn. rewrite andb_false_r. reflexivity. }
+        cases; eauto 10 with nt1db. }
+    destruct T as [T1' T2'].
+    match goal with |- context [auth 1 n ?x] =>
+      pose proof (T01_auth 1 n x (T01_of_PZ_NT1 _ T1' T2')) as T3; pose proof (NT1_auth 1 n x T2') as T4;
+      destruct (auth 1 n x) as [s4 o4] end.
+    cbn [fst snd] in *. apply T01_h_del_NT1; assumption. }
+  pose proof (T01_call_handler_other k n e s K1 H) as T.
+  destruct (call_handler k n e s) as [[s1 o1] keep]. cbn [fst snd] in *. destruct keep; auto.
+  apply T01_h_del; auto.
+  all: try (destruct (hkind_eqb HFeatures k) eqn:E; auto; apply hkind_eqb_eq in E; subst k; rewrite hkind_eqb_refl in K1; discriminate).
+Qed.
+Lemma T01_call_id_handler : forall k n e s, T01 s -> T01 (fst (call_id_handler k n e s)).
+Proof. intros k; destruct k; intros; name_result; unfold call_id_handler, ret; cases; leaf; eauto 30 with t01db. Qed.
+#[export] Hint Resolve T01_call_id_handler : t01db.
+Lemma T01_note_rx : forall e s, T01 s -> T01 (note_rx e s).
+Proof. intros; unfold note_rx; cbv zeta; eauto with t01db. Qed.
+#[export] Hint Resolve T01_note_rx : t01db.
+Lemma T01_sm_handle : forall e s, T01 s -> T01 (sm_handle e s).
+Proof. intros; unfold sm_handle, ret; cases; leaf; eauto 30 with t01db. Qed.
+#[export] Hint Resolve T01_sm_handle : t01db.
+Lemma T01_open_handler : forall n s, (oh s = OpenAuth -> sasl s = []) -> T01 s -> T01 (fst (open_handler n s)).
+Proof.
+  intros n s O H. name_result. unfold open_handler, ret. destruct (oh s) eqn:E; try (cases; leaf; eauto 30 with t01db; fail).
+  specialize (O eq_refl). leaf.
+  match goal with |- T01 (timed_add TMissingFeatures n ?x) =>
+    assert (Hx : T01 x) by eauto 30 with t01db;
+    assert (Sx : sasl x = []) by (rewrite <- O; unfold h_add, timed_reset_all; cases; reflexivity);
+    assert (Fx : h_has HFeatures x = true) by (rewrite h_has_h_add, hkind_eqb_refl; apply orb_true_r);
+    revert Hx Sx Fx; generalize x end.
+  intros x [A B] Sx Fx. split.
+  - intros O1 R. rewrite <- Sx. unfold timed_add; cases; reflexivity.
+  - intros _. split; [rewrite <- Sx; unfold timed_add; cases; reflexivity | revert Fx; unfold timed_add, h_has; cases; auto].
+Qed.
+Lemma T01_stream_start : forall n a b s, (oh s = OpenAuth -> sasl s = []) -> T01 s -> T01 (fst (stream_start n a b s)).
+Proof.
+  intros n a b s O H. name_result. unfold stream_start. cases; leaf; eauto 30 with t01db.
+  all: apply T01_open_handler; eauto 30 with t01db.
+Qed.
+Lemma T01_stream_end : forall s, T01 s -> T01 (fst (stream_end s)).
+Proof. intros; name_result; unfold stream_end, ret; cases; leaf; eauto 30 with t01db. Qed.
+#[export] Hint Resolve T01_stream_end : t01db.
+Lemma T01_call_timed : forall k n s, T01 s -> T01 (fst (fst (call_timed k n s))).
+Proof. intros k; destruct k; intros; name_result; unfold call_timed, ret; cases; leaf; eauto 30 with t01db. Qed.
+#[export] Hint Resolve T01_call_timed : t01db.
+Lemma T01_visit_timed : forall n r k, T01 (fst r) -> T01 (fst (visit_timed n r k)).
+Proof. intros n [s o] k H. cbn [fst] in H. name_result. unfold visit_timed. cases; leaf; eauto 30 with t01db. Qed.
+Lemma T01_fold_visit_timed : forall n l s o, T01 s -> T01 (fst (fold_left (visit_timed n) l (s, o))).
+Proof. intros n l s o H. apply (fold_left_inv (fun r => T01 (fst r))); auto. intros; apply T01_visit_timed; auto. Qed.
+#[export] Hint Resolve T01_fold_visit_timed : t01db.
+Lemma T01_fire_timed : forall n s, T01 s -> T01 (fst (fire_timed n s)).
+Proof. intros; name_result; unfold fire_timed, ret; cases; leaf; eauto 30 with t01db. Qed.
+#[export] Hint Resolve T01_fire_timed : t01db.
+Lemma T01_connect_next : forall n s, T01 s -> T01 (fst (fst (connect_next n s))).
+Proof. intros; name_result; unfold connect_next, ret; cases; leaf; eauto 30 with t01db. Qed.
+#[export] Hint Resolve T01_connect_next : t01db.
+Lemma T01_conn_established : forall n s, T01 s -> T01 (fst (conn_established n s)).
+Proof. intros; name_result; unfold conn_established, ret; cases; leaf; eauto 30 with t01db. Qed.
+#[export] Hint Resolve T01_conn_established : t01db.
+
+(* CS: the mandatory-TLS check passes (or is irrelevant) *)
+Definition CS (s : state) : Prop := st s = Disconnected \/ f_tls_mandatory s = false \/ is_secured s = true.
+Lemma CS_set_f_tls_disabled : forall v s, CS s -> CS (set_f_tls_disabled v s).
+Proof. intros v []; exact (fun h => h). Qed.
+#[export] Hint Resolve CS_set_f_tls_disabled : csdb.
+Lemma CS_set_f_legacy_ssl : forall v s, CS s -> CS (set_f_legacy_ssl v s).
+Proof. intros v []; exact (fun h => h). Qed.
+#[export] Hint Resolve CS_set_f_legacy_ssl : csdb.
+Lemma CS_set_f_tls_trust : forall v s, CS s -> CS (set_f_tls_trust v s).
+Proof. intros v []; exact (fun h => h). Qed.
+#[export] Hint Resolve CS_set_f_tls_trust : csdb.
+Lemma CS_set_f_legacy_auth : forall v s, CS s -> CS (set_f_legacy_auth v s).
+Proof. intros v []; exact (fun h => h). Qed.
+#[export] Hint Resolve CS_set_f_legacy_auth : csdb.
+Lemma CS_set_f_sm_disable : forall v s, CS s -> CS (set_f_sm_disable v s).
+Proof. intros v []; exact (fun h => h). Qed.
+#[export] Hint Resolve CS_set_f_sm_disable : csdb.
+Lemma CS_set_f_comp_allowed : forall v s, CS s -> CS (set_f_comp_allowed v s).
+Proof. intros v []; exact (fun h => h). Qed.
+#[export] Hint Resolve CS_set_f_comp_allowed : csdb.
+Lemma CS_set_f_comp_dont_reset : forall v s, CS s -> CS (set_f_comp_dont_reset v s).
+Proof. intros v []; exact (fun h => h). Qed.
+#[export] Hint Resolve CS_set_f_comp_dont_reset : csdb.
+Lemma CS_set_jid_set : forall v s, CS s -> CS (set_jid_set v s).
+Proof. intros v []; exact (fun h => h). Qed.
+#[export] Hint Resolve CS_set_jid_set : csdb.
+Lemma CS_set_jid_node : forall v s, CS s -> CS (set_jid_node v s).
+Proof. intros v []; exact (fun h => h). Qed.
+#[export] Hint Resolve CS_set_jid_node : csdb.
+Lemma CS_set_jid_res : forall v s, CS s -> CS (set_jid_res v s).
+Proof. intros v []; exact (fun h => h). Qed.
+#[export] Hint Resolve CS_set_jid_res : csdb.
+Lemma CS_set_pass_set : forall v s, CS s -> CS (set_pass_set v s).
+Proof. intros v []; exact (fun h => h). Qed.
+#[export] Hint Resolve CS_set_pass_set : csdb.
+Lemma CS_set_cert_set : forall v s, CS s -> CS (set_cert_set v s).
+Proof. intros v []; exact (fun h => h). Qed.
+#[export] Hint Resolve CS_set_cert_set : csdb.
+Lemma CS_set_is_raw : forall v s, CS s -> CS (set_is_raw v s).
+Proof. intros v []; exact (fun h => h). Qed.
+#[export] Hint Resolve CS_set_is_raw : csdb.
+Lemma CS_set_typ : forall v s, CS s -> CS (set_typ v s).
+Proof. intros v []; exact (fun h => h). Qed.
+#[export] Hint Resolve CS_set_typ : csdb.
+Lemma CS_set_user_handler : forall v s, CS s -> CS (set_user_handler v s).
+Proof. intros v []; exact (fun h => h). Qed.
+#[export] Hint Resolve CS_set_user_handler : csdb.
+Lemma CS_set_user_timed : forall v s, CS s -> CS (set_user_timed v s).
+Proof. intros v []; exact (fun h => h). Qed.
+#[export] Hint Resolve CS_set_user_timed : csdb.
+Lemma CS_set_tlsnew_ok : forall v s, CS s -> CS (set_tlsnew_ok v s).
+Proof. intros v []; exact (fun h => h). Qed.
+#[export] Hint Resolve CS_set_tlsnew_ok : csdb.
+Lemma CS_set_cb_avail : forall v s, CS s -> CS (set_cb_avail v s).
+Proof. intros v []; exact (fun h => h). Qed.
+#[export] Hint Resolve CS_set_cb_avail : csdb.
+Lemma CS_set_tls_verdicts : forall v s, CS s -> CS (set_tls_verdicts v s).
+Proof. intros v []; exact (fun h => h). Qed.
+#[export] Hint Resolve CS_set_tls_verdicts : csdb.
+Lemma CS_set_next_cands : forall v s, CS s -> CS (set_next_cands v s).
+Proof. intros v []; exact (fun h => h). Qed.
+#[export] Hint Resolve CS_set_next_cands : csdb.
+Lemma CS_set_cands : forall v s, CS s -> CS (set_cands v s).
+Proof. intros v []; exact (fun h => h). Qed.
+#[export] Hint Resolve CS_set_cands : csdb.
+Lemma CS_set_cur_ep : forall v s, CS s -> CS (set_cur_ep v s).
+Proof. intros v []; exact (fun h => h). Qed.
+#[export] Hint Resolve CS_set_cur_ep : csdb.
+Lemma CS_set_stamp : forall v s, CS s -> CS (set_stamp v s).
+Proof. intros v []; exact (fun h => h). Qed.
+#[export] Hint Resolve CS_set_stamp : csdb.
+Lemma CS_set_err : forall v s, CS s -> CS (set_err v s).
+Proof. intros v []; exact (fun h => h). Qed.
+#[export] Hint Resolve CS_set_err : csdb.
+Lemma CS_set_stream_error : forall v s, CS s -> CS (set_stream_error v s).
+Proof. intros v []; exact (fun h => h). Qed.
+#[export] Hint Resolve CS_set_stream_error : csdb.
+Lemma CS_set_tls_support : forall v s, CS s -> CS (set_tls_support v s).
+Proof. intros v []; exact (fun h => h). Qed.
+#[export] Hint Resolve CS_set_tls_support : csdb.
+Lemma CS_set_sasl : forall v s, CS s -> CS (set_sasl v s).
+Proof. intros v []; exact (fun h => h). Qed.
+#[export] Hint Resolve CS_set_sasl : csdb.
+Lemma CS_set_bind_required : forall v s, CS s -> CS (set_bind_required v s).
+Proof. intros v []; exact (fun h => h). Qed.
+#[export] Hint Resolve CS_set_bind_required : csdb.
+Lemma CS_set_session_required : forall v s, CS s -> CS (set_session_required v s).
+Proof. intros v []; exact (fun h => h). Qed.
+#[export] Hint Resolve CS_set_session_required : csdb.
+Lemma CS_set_comp_supported : forall v s, CS s -> CS (set_comp_supported v s).
+Proof. intros v []; exact (fun h => h). Qed.
+#[export] Hint Resolve CS_set_comp_supported : csdb.
+Lemma CS_set_comp_active : forall v s, CS s -> CS (set_comp_active v s).
+Proof. intros v []; exact (fun h => h). Qed.
+#[export] Hint Resolve CS_set_comp_active : csdb.
+Lemma CS_set_sm_alloc : forall v s, CS s -> CS (set_sm_alloc v s).
+Proof. intros v []; exact (fun h => h). Qed.
+#[export] Hint Resolve CS_set_sm_alloc : csdb.
+Lemma CS_set_sm_support : forall v s, CS s -> CS (set_sm_support v s).
+Proof. intros v []; exact (fun h => h). Qed.
+#[export] Hint Resolve CS_set_sm_support : csdb.
+Lemma CS_set_sm_enabled : forall v s, CS s -> CS (set_sm_enabled v s).
+Proof. intros v []; exact (fun h => h). Qed.
+#[export] Hint Resolve CS_set_sm_enabled : csdb.
+Lemma CS_set_sm_can_resume : forall v s, CS s -> CS (set_sm_can_resume v s).
+Proof. intros v []; exact (fun h => h). Qed.
+#[export] Hint Resolve CS_set_sm_can_resume : csdb.
+Lemma CS_set_sm_resume : forall v s, CS s -> CS (set_sm_resume v s).
+Proof. intros v []; exact (fun h => h). Qed.
+#[export] Hint Resolve CS_set_sm_resume : csdb.
+Lemma CS_set_sm_dont_request : forall v s, CS s -> CS (set_sm_dont_request v s).
+Proof. intros v []; exact (fun h => h). Qed.
+#[export] Hint Resolve CS_set_sm_dont_request : csdb.
+Lemma CS_set_sm_has_previd : forall v s, CS s -> CS (set_sm_has_previd v s).
+Proof. intros v []; exact (fun h => h). Qed.
+#[export] Hint Resolve CS_set_sm_has_previd : csdb.
+Lemma CS_set_sm_has_id : forall v s, CS s -> CS (set_sm_has_id v s).
+Proof. intros v []; exact (fun h => h). Qed.
+#[export] Hint Resolve CS_set_sm_has_id : csdb.
+Lemma CS_set_sm_parked : forall v s, CS s -> CS (set_sm_parked v s).
+Proof. intros v []; exact (fun h => h). Qed.
+#[export] Hint Resolve CS_set_sm_parked : csdb.
+Lemma CS_set_sm_r_sent : forall v s, CS s -> CS (set_sm_r_sent v s).
+Proof. intros v []; exact (fun h => h). Qed.
+#[export] Hint Resolve CS_set_sm_r_sent : csdb.
+Lemma CS_set_sm_bind_saved : forall v s, CS s -> CS (set_sm_bind_saved v s).
+Proof. intros v []; exact (fun h => h). Qed.
+#[export] Hint Resolve CS_set_sm_bind_saved : csdb.
+Lemma CS_set_bound_jid : forall v s, CS s -> CS (set_bound_jid v s).
+Proof. intros v []; exact (fun h => h). Qed.
+#[export] Hint Resolve CS_set_bound_jid : csdb.
+Lemma CS_set_stream_id : forall v s, CS s -> CS (set_stream_id v s).
+Proof. intros v []; exact (fun h => h). Qed.
+#[export] Hint Resolve CS_set_stream_id : csdb.
+Lemma CS_set_neg_done : forall v s, CS s -> CS (set_neg_done v s).
+Proof. intros v []; exact (fun h => h). Qed.
+#[export] Hint Resolve CS_set_neg_done : csdb.
+Lemma CS_set_reset_parser : forall v s, CS s -> CS (set_reset_parser v s).
+Proof. intros v []; exact (fun h => h). Qed.
+#[export] Hint Resolve CS_set_reset_parser : csdb.
+Lemma CS_set_oh : forall v s, CS s -> CS (set_oh v s).
+Proof. intros v []; exact (fun h => h). Qed.
+#[export] Hint Resolve CS_set_oh : csdb.
+Lemma CS_set_ps : forall v s, CS s -> CS (set_ps v s).
+Proof. intros v []; exact (fun h => h). Qed.
+#[export] Hint Resolve CS_set_ps : csdb.
+Lemma CS_set_handlers : forall v s, CS s -> CS (set_handlers v s).
+Proof. intros v []; exact (fun h => h). Qed.
+#[export] Hint Resolve CS_set_handlers : csdb.
+Lemma CS_set_idhandlers : forall v s, CS s -> CS (set_idhandlers v s).
+Proof. intros v []; exact (fun h => h). Qed.
+#[export] Hint Resolve CS_set_idhandlers : csdb.
+Lemma CS_set_timed : forall v s, CS s -> CS (set_timed v s).
+Proof. intros v []; exact (fun h => h). Qed.
+#[export] Hint Resolve CS_set_timed : csdb.
+Lemma CS_set_sendq : forall v s, CS s -> CS (set_sendq v s).
+Proof. intros v []; exact (fun h => h). Qed.
+#[export] Hint Resolve CS_set_sendq : csdb.
+Lemma CS_set_rxq : forall v s, CS s -> CS (set_rxq v s).
+Proof. intros v []; exact (fun h => h). Qed.
+#[export] Hint Resolve CS_set_rxq : csdb.
+Lemma CS_set_smq : forall v s, CS s -> CS (set_smq v s).
+Proof. intros v []; exact (fun h => h). Qed.
+#[export] Hint Resolve CS_set_smq : csdb.
+Lemma CS_set_sm_sent : forall v s, CS s -> CS (set_sm_sent v s).
+Proof. intros v []; exact (fun h => h). Qed.
+#[export] Hint Resolve CS_set_sm_sent : csdb.
+Lemma CS_set_scram_serial : forall v s, CS s -> CS (set_scram_serial v s).
+Proof. intros v []; exact (fun h => h). Qed.
+#[export] Hint Resolve CS_set_scram_serial : csdb.
+Lemma CS_set_crashed : forall v s, CS s -> CS (set_crashed v s).
+Proof. intros v []; exact (fun h => h). Qed.
+#[export] Hint Resolve CS_set_crashed : csdb.
+Lemma CS_set_gh : forall v s, CS s -> CS (set_gh v s).
+Proof. intros v []; exact (fun h => h). Qed.
+#[export] Hint Resolve CS_set_gh : csdb.
+Lemma CS_upg : forall f s, CS s -> CS (upg f s).
+Proof. intros f []; exact (fun h => h). Qed.
+Lemma CS_set_st_disc : forall s, CS (set_st Disconnected s).
+Proof. intros; left; destruct s; reflexivity. Qed.
+Lemma CS_disc : forall s, st s = Disconnected -> CS s.
+Proof. intros; left; assumption. Qed.
+Lemma CS_set_tls_present_false_disc : forall s, st s = Disconnected -> CS (set_tls_present false s).
+Proof. intros s H; left; destruct s; exact H. Qed.
+#[export] Hint Resolve CS_upg CS_set_st_disc : csdb.
+Lemma CS_q_append : forall w u sm s, CS s -> CS (q_append w u sm s).
+Proof. intros; unfold q_append; cases; eauto 10 with csdb. Qed.
+#[export] Hint Resolve CS_q_append : csdb.
+Lemma CS_send_gated : forall w u sm s, CS s -> CS (send_gated w u sm s).
+Proof. intros; unfold send_gated, ret; cases; leaf; eauto 30 with csdb. Qed.
+#[export] Hint Resolve CS_send_gated : csdb.
+Lemma CS_send_raw_m : forall w u sm s, CS s -> CS (send_raw_m w u sm s).
+Proof. intros; unfold send_raw_m, ret; cases; leaf; eauto 30 with csdb. Qed.
+#[export] Hint Resolve CS_send_raw_m : csdb.
+Lemma CS_timed_add : forall k n s, CS s -> CS (timed_add k n s).
+Proof. intros; unfold timed_add, ret; cases; leaf; eauto 30 with csdb. Qed.
+#[export] Hint Resolve CS_timed_add : csdb.
+Lemma CS_timed_del : forall k s, CS s -> CS (timed_del k s).
+Proof. intros; unfold timed_del, ret; cases; leaf; eauto 30 with csdb. Qed.
+#[export] Hint Resolve CS_timed_del : csdb.
+Lemma CS_timed_reset_all : forall n s, CS s -> CS (timed_reset_all n s).
+Proof. intros; unfold timed_reset_all, ret; cases; leaf; eauto 30 with csdb. Qed.
+#[export] Hint Resolve CS_timed_reset_all : csdb.
+Lemma CS_timed_set_stamp : forall k n s, CS s -> CS (timed_set_stamp k n s).
+Proof. intros; unfold timed_set_stamp, ret; cases; leaf; eauto 30 with csdb. Qed.
+#[export] Hint Resolve CS_timed_set_stamp : csdb.
+Lemma CS_h_add : forall k s, CS s -> CS (h_add k s).
+Proof. intros; unfold h_add, ret; cases; leaf; eauto 30 with csdb. Qed.
+#[export] Hint Resolve CS_h_add : csdb.
+Lemma CS_h_del : forall k s, CS s -> CS (h_del k s).
+Proof. intros; unfold h_del, ret; cases; leaf; eauto 30 with csdb. Qed.
+#[export] Hint Resolve CS_h_del : csdb.
+Lemma CS_id_add : forall k s, CS s -> CS (id_add k s).
+Proof. intros; unfold id_add, ret; cases; leaf; eauto 30 with csdb. Qed.
+#[export] Hint Resolve CS_id_add : csdb.
+Lemma CS_id_del : forall k s, CS s -> CS (id_del k s).
+Proof. intros; unfold id_del, ret; cases; leaf; eauto 30 with csdb. Qed.
+#[export] Hint Resolve CS_id_del : csdb.
+Lemma CS_reset_sm_for_reconnect : forall s, CS s -> CS (reset_sm_for_reconnect s).
+Proof. intros; unfold reset_sm_for_reconnect, ret; cases; leaf; eauto 30 with csdb. Qed.
+#[export] Hint Resolve CS_reset_sm_for_reconnect : csdb.
+Lemma CS_sm_queue_cleanup : forall h s, CS s -> CS (sm_queue_cleanup h s).
+Proof. intros; unfold sm_queue_cleanup, ret; cases; leaf; eauto 30 with csdb. Qed.
+#[export] Hint Resolve CS_sm_queue_cleanup : csdb.
+Lemma CS_sm_queue_resend : forall s, CS s -> CS (sm_queue_resend s).
+Proof. intros; unfold sm_queue_resend. apply fold_left_inv; eauto with csdb. Qed.
+#[export] Hint Resolve CS_sm_queue_resend : csdb.
+Lemma CS_conn_disconnect : forall s, CS s -> CS (fst (conn_disconnect s)).
+Proof.
+  intros s H. name_result. unfold conn_disconnect, ret. cases; leaf; auto with csdb;
+    left; unfold reset_sm_for_reconnect; cases; reflexivity.
+Qed.
+#[export] Hint Resolve CS_conn_disconnect : csdb.
+Lemma CS_xmpp_disconnect : forall n s, CS s -> CS (xmpp_disconnect n s).
+Proof. intros; unfold xmpp_disconnect, ret; cases; leaf; eauto 30 with csdb. Qed.
+#[export] Hint Resolve CS_xmpp_disconnect : csdb.
+Lemma CS_prepare_reset : forall h s, CS s -> CS (prepare_reset h s).
+Proof. intros; unfold prepare_reset, ret; cases; leaf; eauto 30 with csdb. Qed.
+#[export] Hint Resolve CS_prepare_reset : csdb.
+Lemma CS_conn_open_stream : forall s, CS s -> CS (conn_open_stream s).
+Proof. intros; unfold conn_open_stream, ret; cases; leaf; eauto 30 with csdb. Qed.
+#[export] Hint Resolve CS_conn_open_stream : csdb.
+Lemma CS_stream_negotiation_success : forall s, CS s -> CS (fst (stream_negotiation_success s)).
+Proof. intros; name_result; unfold stream_negotiation_success, ret; cases; leaf; eauto 30 with csdb. Qed.
+#[export] Hint Resolve CS_stream_negotiation_success : csdb.
+Lemma CS_do_bind : forall n b s, CS s -> CS (fst (do_bind n b s)).
+Proof. intros; name_result; unfold do_bind, ret; cases; leaf; eauto 30 with csdb. Qed.
+#[export] Hint Resolve CS_do_bind : csdb.
+Lemma CS_session_start : forall n s, CS s -> CS (session_start n s).
+Proof. intros; unfold session_start, ret; cases; leaf; eauto 30 with csdb. Qed.
+#[export] Hint Resolve CS_session_start : csdb.
+Lemma CS_sm_enable : forall s, CS s -> CS (sm_enable s).
+Proof. intros; unfold sm_enable, ret; cases; leaf; eauto 30 with csdb. Qed.
+#[export] Hint Resolve CS_sm_enable : csdb.
+Lemma CS_auth_legacy : forall n s, CS s -> CS (auth_legacy n s).
+Proof. intros; unfold auth_legacy, ret; cases; leaf; eauto 30 with csdb. Qed.
+#[export] Hint Resolve CS_auth_legacy : csdb.
+Lemma CS_auth : forall fuel n s, CS s -> CS (fst (auth fuel n s)).
+Proof. induction fuel; intros; name_result; cbn [auth]; unfold ret; cases; leaf; eauto 30 with csdb. Qed.
+#[export] Hint Resolve CS_auth : csdb.
+Lemma CS_sasl_result : forall n e s, CS s -> CS (fst (sasl_result n e s)).
+Proof. intros; name_result; unfold sasl_result, ret; cases; leaf; eauto 30 with csdb. Qed.
+#[export] Hint Resolve CS_sasl_result : csdb.
+Lemma CS_features_sasl : forall n e s, CS s -> CS (fst (features_sasl n e s)).
+Proof. intros; name_result; unfold features_sasl, ret; cases; leaf; eauto 30 with csdb. Qed.
+#[export] Hint Resolve CS_features_sasl : csdb.
+Lemma CS_call_handler : forall k n e s, hkind_eqb k HProceedTls = false -> CS s -> CS (fst (fst (call_handler k n e s))).
+Proof.
+  intros k; destruct k; intros n0 e s K H; try discriminate;
+    name_result; unfold call_handler, ret; cases; leaf; eauto 30 with csdb.
+Qed.
+Lemma CS_call_id_handler : forall k n e s, CS s -> CS (fst (call_id_handler k n e s)).
+Proof. intros k; destruct k; intros; name_result; unfold call_id_handler, ret; cases; leaf; eauto 30 with csdb. Qed.
+#[export] Hint Resolve CS_call_id_handler : csdb.
+Lemma CS_note_rx : forall e s, CS s -> CS (note_rx e s).
+Proof. intros; unfold note_rx; cbv zeta; eauto with csdb. Qed.
+#[export] Hint Resolve CS_note_rx : csdb.
+Lemma CS_sm_handle : forall e s, CS s -> CS (sm_handle e s).
+Proof. intros; unfold sm_handle, ret; cases; leaf; eauto 30 with csdb. Qed.
+#[export] Hint Resolve CS_sm_handle : csdb.
+Lemma CS_open_handler : forall n s, CS s -> CS (fst (open_handler n s)).
+Proof. intros; name_result; unfold open_handler, ret; cases; leaf; eauto 30 with csdb. Qed.
+#[export] Hint Resolve CS_open_handler : csdb.
+Lemma CS_stream_start : forall n a b s, CS s -> CS (fst (stream_start n a b s)).
+Proof. intros; name_result; unfold stream_start, ret; cases; leaf; eauto 30 with csdb. Qed.
+#[export] Hint Resolve CS_stream_start : csdb.
+Lemma CS_stream_end : forall s, CS s -> CS (fst (stream_end s)).
+Proof. intros; name_result; unfold stream_end, ret; cases; leaf; eauto 30 with csdb. Qed.
+#[export] Hint Resolve CS_stream_end : csdb.
+Lemma CS_call_timed : forall k n s, CS s -> CS (fst (fst (call_timed k n s))).
+Proof. intros k; destruct k; intros; name_result; unfold call_timed, ret; cases; leaf; eauto 30 with csdb. Qed.
+#[export] Hint Resolve CS_call_timed : csdb.
+Lemma CS_visit_timed : forall n r k, CS (fst r) -> CS (fst (visit_timed n r k)).
+Proof. intros n [s o] k H. cbn [fst] in H. name_result. unfold visit_timed. cases; leaf; eauto 30 with csdb. Qed.
+Lemma CS_fold_visit_timed : forall n l s o, CS s -> CS (fst (fold_left (visit_timed n) l (s, o))).
+Proof. intros n l s o H. apply (fold_left_inv (fun r => CS (fst r))); auto. intros; apply CS_visit_timed; auto. Qed.
+#[export] Hint Resolve CS_fold_visit_timed : csdb.
+Lemma CS_fire_timed : forall n s, CS s -> CS (fst (fire_timed n s)).
+Proof. intros; name_result; unfold fire_timed, ret; cases; leaf; eauto 30 with csdb. Qed.
+#[export] Hint Resolve CS_fire_timed : csdb.
+Lemma CS_connect_next : forall n s, CS s -> CS (fst (fst (connect_next n s))).
+Proof. intros; name_result; unfold connect_next, ret; cases; leaf; eauto 30 with csdb. Qed.
+#[export] Hint Resolve CS_connect_next : csdb.
+
+(* PL: no handler that could report "connected" without further negotiation *)
+Definition PL (s : state) : Prop := id_has IKLegacy s = false /\ h_has HComponentHs s = false /\ oh s <> OpenComponent.
+Lemma PL_set_f_tls_disabled : forall v s, PL s -> PL (set_f_tls_disabled v s).
+Proof. intros v []; exact (fun h => h). Qed.
+#[export] Hint Resolve PL_set_f_tls_disabled : pldb.
+Lemma PL_set_f_tls_mandatory : forall v s, PL s -> PL (set_f_tls_mandatory v s).
+Proof. intros v []; exact (fun h => h). Qed.
+#[export] Hint Resolve PL_set_f_tls_mandatory : pldb.
+Lemma PL_set_f_legacy_ssl : forall v s, PL s -> PL (set_f_legacy_ssl v s).
+Proof. intros v []; exact (fun h => h). Qed.
+#[export] Hint Resolve PL_set_f_legacy_ssl : pldb.
+Lemma PL_set_f_tls_trust : forall v s, PL s -> PL (set_f_tls_trust v s).
+Proof. intros v []; exact (fun h => h). Qed.
+#[export] Hint Resolve PL_set_f_tls_trust : pldb.
+Lemma PL_set_f_legacy_auth : forall v s, PL s -> PL (set_f_legacy_auth v s).
+Proof. intros v []; exact (fun h => h). Qed.
+#[export] Hint Resolve PL_set_f_legacy_auth : pldb.
+Lemma PL_set_f_sm_disable : forall v s, PL s -> PL (set_f_sm_disable v s).
+Proof. intros v []; exact (fun h => h). Qed.
+#[export] Hint Resolve PL_set_f_sm_disable : pldb.
+Lemma PL_set_f_comp_allowed : forall v s, PL s -> PL (set_f_comp_allowed v s).
+Proof. intros v []; exact (fun h => h). Qed.
+#[export] Hint Resolve PL_set_f_comp_allowed : pldb.
+Lemma PL_set_f_comp_dont_reset : forall v s, PL s -> PL (set_f_comp_dont_reset v s).
+Proof. intros v []; exact (fun h => h). Qed.
+#[export] Hint Resolve PL_set_f_comp_dont_reset : pldb.
+Lemma PL_set_jid_set : forall v s, PL s -> PL (set_jid_set v s).
+Proof. intros v []; exact (fun h => h). Qed.
+#[export] Hint Resolve PL_set_jid_set : pldb.
+Lemma PL_set_jid_node : forall v s, PL s -> PL (set_jid_node v s).
+Proof. intros v []; exact (fun h => h). Qed.
+#[export] Hint Resolve PL_set_jid_node : pldb.
+Lemma PL_set_jid_res : forall v s, PL s -> PL (set_jid_res v s).
+Proof. intros v []; exact (fun h => h). Qed.
+#[export] Hint Resolve PL_set_jid_res : pldb.
+Lemma PL_set_pass_set : forall v s, PL s -> PL (set_pass_set v s).
+Proof. intros v []; exact (fun h => h). Qed.
+#[export] Hint Resolve PL_set_pass_set : pldb.
+Lemma PL_set_cert_set : forall v s, PL s -> PL (set_cert_set v s).
+Proof. intros v []; exact (fun h => h). Qed.
+#[export] Hint Resolve PL_set_cert_set : pldb.
+Lemma PL_set_is_raw : forall v s, PL s -> PL (set_is_raw v s).
+Proof. intros v []; exact (fun h => h). Qed.
+#[export] Hint Resolve PL_set_is_raw : pldb.
+Lemma PL_set_typ : forall v s, PL s -> PL (set_typ v s).
+Proof. intros v []; exact (fun h => h). Qed.
+#[export] Hint Resolve PL_set_typ : pldb.
+Lemma PL_set_user_handler : forall v s, PL s -> PL (set_user_handler v s).
+Proof. intros v []; exact (fun h => h). Qed.
+#[export] Hint Resolve PL_set_user_handler : pldb.
+Lemma PL_set_user_timed : forall v s, PL s -> PL (set_user_timed v s).
+Proof. intros v []; exact (fun h => h). Qed.
+#[export] Hint Resolve PL_set_user_timed : pldb.
+Lemma PL_set_tlsnew_ok : forall v s, PL s -> PL (set_tlsnew_ok v s).
+Proof. intros v []; exact (fun h => h). Qed.
+#[export] Hint Resolve PL_set_tlsnew_ok : pldb.
+Lemma PL_set_cb_avail : forall v s, PL s -> PL (set_cb_avail v s).
+Proof. intros v []; exact (fun h => h). Qed.
+#[export] Hint Resolve PL_set_cb_avail : pldb.
+Lemma PL_set_tls_verdicts : forall v s, PL s -> PL (set_tls_verdicts v s).
+Proof. intros v []; exact (fun h => h). Qed.
+#[export] Hint Resolve PL_set_tls_verdicts : pldb.
+Lemma PL_set_next_cands : forall v s, PL s -> PL (set_next_cands v s).
+Proof. intros v []; exact (fun h => h). Qed.
+#[export] Hint Resolve PL_set_next_cands : pldb.
+Lemma PL_set_cands : forall v s, PL s -> PL (set_cands v s).
+Proof. intros v []; exact (fun h => h). Qed.
+#[export] Hint Resolve PL_set_cands : pldb.
+Lemma PL_set_cur_ep : forall v s, PL s -> PL (set_cur_ep v s).
+Proof. intros v []; exact (fun h => h). Qed.
+#[export] Hint Resolve PL_set_cur_ep : pldb.
+Lemma PL_set_st : forall v s, PL s -> PL (set_st v s).
+Proof. intros v []; exact (fun h => h). Qed.
+#[export] Hint Resolve PL_set_st : pldb.
+Lemma PL_set_stamp : forall v s, PL s -> PL (set_stamp v s).
+Proof. intros v []; exact (fun h => h). Qed.
+#[export] Hint Resolve PL_set_stamp : pldb.
+Lemma PL_set_err : forall v s, PL s -> PL (set_err v s).
+Proof. intros v []; exact (fun h => h). Qed.
+#[export] Hint Resolve PL_set_err : pldb.
+Lemma PL_set_stream_error : forall v s, PL s -> PL (set_stream_error v s).
+Proof. intros v []; exact (fun h => h). Qed.
+#[export] Hint Resolve PL_set_stream_error : pldb.
+Lemma PL_set_secured : forall v s, PL s -> PL (set_secured v s).
+Proof. intros v []; exact (fun h => h). Qed.
+#[export] Hint Resolve PL_set_secured : pldb.
+Lemma PL_set_tls_present : forall v s, PL s -> PL (set_tls_present v s).
+Proof. intros v []; exact (fun h => h). Qed.
+#[export] Hint Resolve PL_set_tls_present : pldb.
+Lemma PL_set_tls_failed : forall v s, PL s -> PL (set_tls_failed v s).
+Proof. intros v []; exact (fun h => h). Qed.
+#[export] Hint Resolve PL_set_tls_failed : pldb.
+Lemma PL_set_tls_support : forall v s, PL s -> PL (set_tls_support v s).
+Proof. intros v []; exact (fun h => h). Qed.
+#[export] Hint Resolve PL_set_tls_support : pldb.
+Lemma PL_set_sasl : forall v s, PL s -> PL (set_sasl v s).
+Proof. intros v []; exact (fun h => h). Qed.
+#[export] Hint Resolve PL_set_sasl : pldb.
+Lemma PL_set_bind_required : forall v s, PL s -> PL (set_bind_required v s).
+Proof. intros v []; exact (fun h => h). Qed.
+#[export] Hint Resolve PL_set_bind_required : pldb.
+Lemma PL_set_session_required : forall v s, PL s -> PL (set_session_required v s).
+Proof. intros v []; exact (fun h => h). Qed.
+#[export] Hint Resolve PL_set_session_required : pldb.
+Lemma PL_set_comp_supported : forall v s, PL s -> PL (set_comp_supported v s).
+Proof. intros v []; exact (fun h => h). Qed.
+#[export] Hint Resolve PL_set_comp_supported : pldb.
+Lemma PL_set_comp_active : forall v s, PL s -> PL (set_comp_active v s).
+Proof. intros v []; exact (fun h => h). Qed.
+#[export] Hint Resolve PL_set_comp_active : pldb.
+Lemma PL_set_sm_alloc : forall v s, PL s -> PL (set_sm_alloc v s).
+Proof. intros v []; exact (fun h => h). Qed.
+#[export] Hint Resolve PL_set_sm_alloc : pldb.
+Lemma PL_set_sm_support : forall v s, PL s -> PL (set_sm_support v s).
+Proof. intros v []; exact (fun h => h). Qed.
+#[export] Hint Resolve PL_set_sm_support : pldb.
+Lemma PL_set_sm_enabled : forall v s, PL s -> PL (set_sm_enabled v s).
+Proof. intros v []; exact (fun h => h). Qed.
+#[export] Hint Resolve PL_set_sm_enabled : pldb.
+Lemma PL_set_sm_can_resume : forall v s, PL s -> PL (set_sm_can_resume v s).
+Proof. intros v []; exact (fun h => h). Qed.
+#[export] Hint Resolve PL_set_sm_can_resume : pldb.
+Lemma PL_set_sm_resume : forall v s, PL s -> PL (set_sm_resume v s).
+Proof. intros v []; exact (fun h => h). Qed.
+#[export] Hint Resolve PL_set_sm_resume : pldb.
+Lemma PL_set_sm_dont_request : forall v s, PL s -> PL (set_sm_dont_request v s).
+Proof. intros v []; exact (fun h => h). Qed.
+#[export] Hint Resolve PL_set_sm_dont_request : pldb.
+Lemma PL_set_sm_has_previd : forall v s, PL s -> PL (set_sm_has_previd v s).
+Proof. intros v []; exact (fun h => h). Qed.
+#[export] Hint Resolve PL_set_sm_has_previd : pldb.
+Lemma PL_set_sm_has_id : forall v s, PL s -> PL (set_sm_has_id v s).
+Proof. intros v []; exact (fun h => h). Qed.
+#[export] Hint Resolve PL_set_sm_has_id : pldb.
+Lemma PL_set_sm_parked : forall v s, PL s -> PL (set_sm_parked v s).
+Proof. intros v []; exact (fun h => h). Qed.
+#[export] Hint Resolve PL_set_sm_parked : pldb.
+Lemma PL_set_sm_r_sent : forall v s, PL s -> PL (set_sm_r_sent v s).
+Proof. intros v []; exact (fun h => h). Qed.
+#[export] Hint Resolve PL_set_sm_r_sent : pldb.
+Lemma PL_set_sm_bind_saved : forall v s, PL s -> PL (set_sm_bind_saved v s).
+Proof. intros v []; exact (fun h => h). Qed.
+#[export] Hint Resolve PL_set_sm_bind_saved : pldb.
+Lemma PL_set_bound_jid : forall v s, PL s -> PL (set_bound_jid v s).
+Proof. intros v []; exact (fun h => h). Qed.
+#[export] Hint Resolve PL_set_bound_jid : pldb.
+Lemma PL_set_stream_id : forall v s, PL s -> PL (set_stream_id v s).
+Proof. intros v []; exact (fun h => h). Qed.
+#[export] Hint Resolve PL_set_stream_id : pldb.
+Lemma PL_set_neg_done : forall v s, PL s -> PL (set_neg_done v s).
+Proof. intros v []; exact (fun h => h). Qed.
+#[export] Hint Resolve PL_set_neg_done : pldb.
+Lemma PL_set_reset_parser : forall v s, PL s -> PL (set_reset_parser v s).
+Proof. intros v []; exact (fun h => h). Qed.
+#[export] Hint Resolve PL_set_reset_parser : pldb.
+Lemma PL_set_ps : forall v s, PL s -> PL (set_ps v s).
+Proof. intros v []; exact (fun h => h). Qed.
+#[export] Hint Resolve PL_set_ps : pldb.
+Lemma PL_set_timed : forall v s, PL s -> PL (set_timed v s).
+Proof. intros v []; exact (fun h => h). Qed.
+#[export] Hint Resolve PL_set_timed : pldb.
+Lemma PL_set_sendq : forall v s, PL s -> PL (set_sendq v s).
+Proof. intros v []; exact (fun h => h). Qed.
+#[export] Hint Resolve PL_set_sendq : pldb.
+Lemma PL_set_rxq : forall v s, PL s -> PL (set_rxq v s).
+Proof. intros v []; exact (fun h => h). Qed.
+#[export] Hint Resolve PL_set_rxq : pldb.
+Lemma PL_set_smq : forall v s, PL s -> PL (set_smq v s).
+Proof. intros v []; exact (fun h => h). Qed.
+#[export] Hint Resolve PL_set_smq : pldb.
+Lemma PL_set_sm_sent : forall v s, PL s -> PL (set_sm_sent v s).
+Proof. intros v []; exact (fun h => h). Qed.
+#[export] Hint Resolve PL_set_sm_sent : pldb.
+Lemma PL_set_scram_serial : forall v s, PL s -> PL (set_scram_serial v s).
+Proof. intros v []; exact (fun h => h). Qed.
+#[export] Hint Resolve PL_set_scram_serial : pldb.
+Lemma PL_set_crashed : forall v s, PL s -> PL (set_crashed v s).
+Proof. intros v []; exact (fun h => h). Qed.
+#[export] Hint Resolve PL_set_crashed : pldb.
+Lemma PL_set_gh : forall v s, PL s -> PL (set_gh v s).
+Proof. intros v []; exact (fun h => h). Qed.
+#[export] Hint Resolve PL_set_gh : pldb.
+Lemma PL_upg : forall f s, PL s -> PL (upg f s).
+Proof. intros f []; exact (fun h => h). Qed.
+Lemma id_has_id_add : forall k' k s, id_has k' (id_add k s) = id_has k' s || idk_eqb k' k.
+Proof.
+  intros k' k s. unfold id_add. destruct (id_has k s) eqn:E.
+  - destruct (idk_eqb k' k) eqn:E2; [|rewrite orb_false_r; reflexivity].
+    assert (k' = k) by (destruct k', k; cbn in E2; congruence). subst. rewrite E. reflexivity.
+  - unfold id_has. sproj. rewrite existsb_app. cbn. rewrite orb_false_r. reflexivity.
+Qed.
+Lemma id_has_id_del : forall k' k s, id_has k' (id_del k s) = id_has k' s && negb (idk_eqb k' k).
+Proof.
+  intros k' k s. unfold id_del, id_has. sproj. induction (idhandlers s) as [|x l IH]; [reflexivity|].
+  cbn [filter existsb]. destruct (idk_eqb k (fst x)) eqn:E; cbn [negb].
+  - rewrite IH. assert (k = fst x) by (destruct k, (fst x); cbn in E; congruence). subst k.
+    destruct (idk_eqb k' (fst x)) eqn:E2; cbn [orb negb]; rewrite ?andb_false_r; reflexivity.
+  - cbn [existsb]. rewrite IH. destruct (idk_eqb k' (fst x)) eqn:E2; cbn [orb]; [|reflexivity].
+    assert (k' = fst x) by (destruct k', (fst x); cbn in E2; congruence). subst k'.
+    assert (idk_eqb (fst x) k = false) as -> by (destruct (fst x), k; cbn in *; congruence).
+    reflexivity.
+Qed.
+Lemma PL_h_add : forall k s, hkind_eqb HComponentHs k = false -> PL s -> PL (h_add k s).
+Proof.
+  intros k s E (A & B & C). refine (conj _ (conj _ _)).
+  - revert A. unfold h_add, id_has; cases; auto.
+  - rewrite h_has_h_add, B, E. reflexivity.
+  - revert C. unfold h_add; cases; auto.
+Qed.
+Lemma PL_h_del : forall k s, PL s -> PL (h_del k s).
+Proof. intros k s (A & B & C). refine (conj _ (conj _ _)); auto. rewrite h_has_h_del, B. reflexivity. Qed.
+Lemma PL_id_add : forall k s, idk_eqb IKLegacy k = false -> PL s -> PL (id_add k s).
+Proof.
+  intros k s E (A & B & C). refine (conj _ (conj _ _)).
+  - rewrite id_has_id_add, A, E. reflexivity.
+  - revert B. unfold id_add, h_has; cases; auto.
+  - revert C. unfold id_add; cases; auto.
+Qed.
+Lemma PL_id_del : forall k s, PL s -> PL (id_del k s).
+Proof. intros k s (A & B & C). refine (conj _ (conj _ _)); auto. rewrite id_has_id_del, A. reflexivity. Qed.
+Lemma PL_prepare_reset : forall h s, h <> OpenComponent -> PL s -> PL (prepare_reset h s).
+Proof. intros h s N (A & B & C). refine (conj _ (conj _ _)); auto. Qed.
+Lemma PL_enable_all : forall s, PL s -> PL (set_handlers (map (fun x => (fst x, true)) (handlers s)) s).
+Proof. intros s (A & B & C). refine (conj _ (conj _ _)); auto. rewrite h_has_enable_all. exact B. Qed.
+#[export] Hint Resolve PL_upg PL_h_del PL_id_del PL_enable_all : pldb.
+#[export] Hint Extern 1 (PL (h_add _ _)) => (apply PL_h_add; [reflexivity | ]) : pldb.
+#[export] Hint Extern 1 (PL (id_add _ _)) => (apply PL_id_add; [reflexivity | ]) : pldb.
+#[export] Hint Extern 1 (PL (prepare_reset _ _)) => (apply PL_prepare_reset; [discriminate | ]) : pldb.
+Lemma PL_q_append : forall w u sm s, PL s -> PL (q_append w u sm s).
+Proof. intros; unfold q_append; cases; eauto 10 with pldb. Qed.
+#[export] Hint Resolve PL_q_append : pldb.
+Lemma PL_send_gated : forall w u sm s, PL s -> PL (send_gated w u sm s).
+Proof. intros; unfold send_gated, ret; cases; leaf; eauto 30 with pldb. Qed.
+#[export] Hint Resolve PL_send_gated : pldb.
+Lemma PL_send_raw_m : forall w u sm s, PL s -> PL (send_raw_m w u sm s).
+Proof. intros; unfold send_raw_m, ret; cases; leaf; eauto 30 with pldb. Qed.
+#[export] Hint Resolve PL_send_raw_m : pldb.
+Lemma PL_timed_add : forall k n s, PL s -> PL (timed_add k n s).
+Proof. intros; unfold timed_add, ret; cases; leaf; eauto 30 with pldb. Qed.
+#[export] Hint Resolve PL_timed_add : pldb.
+Lemma PL_timed_del : forall k s, PL s -> PL (timed_del k s).
+Proof. intros; unfold timed_del, ret; cases; leaf; eauto 30 with pldb. Qed.
+#[export] Hint Resolve PL_timed_del : pldb.
+Lemma PL_timed_reset_all : forall n s, PL s -> PL (timed_reset_all n s).
+Proof. intros; unfold timed_reset_all, ret; cases; leaf; eauto 30 with pldb. Qed.
+#[export] Hint Resolve PL_timed_reset_all : pldb.
+Lemma PL_timed_set_stamp : forall k n s, PL s -> PL (timed_set_stamp k n s).
+Proof. intros; unfold timed_set_stamp, ret; cases; leaf; eauto 30 with pldb. Qed.
+#[export] Hint Resolve PL_timed_set_stamp : pldb.
+
+
+
+
+Lemma PL_reset_sm_for_reconnect : forall s, PL s -> PL (reset_sm_for_reconnect s).
+Proof. intros; unfold reset_sm_for_reconnect, ret; cases; leaf; eauto 30 with pldb. Qed.
+#[export] Hint Resolve PL_reset_sm_for_reconnect : pldb.
+Lemma PL_sm_queue_cleanup : forall h s, PL s -> PL (sm_queue_cleanup h s).
+Proof. intros; unfold sm_queue_cleanup, ret; cases; leaf; eauto 30 with pldb. Qed.
+#[export] Hint Resolve PL_sm_queue_cleanup : pldb.
+Lemma PL_sm_queue_resend : forall s, PL s -> PL (sm_queue_resend s).
+Proof. intros; unfold sm_queue_resend. apply fold_left_inv; eauto with pldb. Qed.
+#[export] Hint Resolve PL_sm_queue_resend : pldb.
+Lemma PL_conn_disconnect : forall s, PL s -> PL (fst (conn_disconnect s)).
+Proof. intros; name_result; unfold conn_disconnect, ret; cases; leaf; eauto 30 with pldb. Qed.
+#[export] Hint Resolve PL_conn_disconnect : pldb.
+Lemma PL_xmpp_disconnect : forall n s, PL s -> PL (xmpp_disconnect n s).
+Proof. intros; unfold xmpp_disconnect, ret; cases; leaf; eauto 30 with pldb. Qed.
+#[export] Hint Resolve PL_xmpp_disconnect : pldb.
+
+Lemma PL_conn_open_stream : forall s, PL s -> PL (conn_open_stream s).
+Proof. intros; unfold conn_open_stream, ret; cases; leaf; eauto 30 with pldb. Qed.
+#[export] Hint Resolve PL_conn_open_stream : pldb.
+Lemma PL_conn_tls_start : forall s, PL s -> PL (fst (fst (conn_tls_start s))).
+Proof. intros; name_result; unfold conn_tls_start, ret; cases; leaf; eauto 30 with pldb. Qed.
+#[export] Hint Resolve PL_conn_tls_start : pldb.
+Lemma PL_stream_negotiation_success : forall s, PL s -> PL (fst (stream_negotiation_success s)).
+Proof. intros; name_result; unfold stream_negotiation_success, ret; cases; leaf; eauto 30 with pldb. Qed.
+#[export] Hint Resolve PL_stream_negotiation_success : pldb.
+Lemma PL_do_bind : forall n b s, PL s -> PL (fst (do_bind n b s)).
+Proof. intros; name_result; unfold do_bind, ret; cases; leaf; eauto 30 with pldb. Qed.
+#[export] Hint Resolve PL_do_bind : pldb.
+Lemma PL_session_start : forall n s, PL s -> PL (session_start n s).
+Proof. intros; unfold session_start, ret; cases; leaf; eauto 30 with pldb. Qed.
+#[export] Hint Resolve PL_session_start : pldb.
+Lemma PL_sm_enable : forall s, PL s -> PL (sm_enable s).
+Proof. intros; unfold sm_enable, ret; cases; leaf; eauto 30 with pldb. Qed.
+#[export] Hint Resolve PL_sm_enable : pldb.
+Lemma PL_features_sasl : forall n e s, PL s -> PL (fst (features_sasl n e s)).
+Proof. intros; name_result; unfold features_sasl, ret; cases; leaf; eauto 30 with pldb. Qed.
+#[export] Hint Resolve PL_features_sasl : pldb.
+Lemma PL_call_id_handler : forall k n e s, PL s -> PL (fst (call_id_handler k n e s)).
+Proof. intros k; destruct k; intros; name_result; unfold call_id_handler, ret; cases; leaf; eauto 30 with pldb. Qed.
+#[export] Hint Resolve PL_call_id_handler : pldb.
+Lemma PL_note_rx : forall e s, PL s -> PL (note_rx e s).
+Proof. intros; unfold note_rx; cbv zeta; eauto with pldb. Qed.
+#[export] Hint Resolve PL_note_rx : pldb.
+Lemma PL_sm_handle : forall e s, PL s -> PL (sm_handle e s).
+Proof. intros; unfold sm_handle, ret; cases; leaf; eauto 30 with pldb. Qed.
+#[export] Hint Resolve PL_sm_handle : pldb.
+Lemma PL_stream_end : forall s, PL s -> PL (fst (stream_end s)).
+Proof. intros; name_result; unfold stream_end, ret; cases; leaf; eauto 30 with pldb. Qed.
+#[export] Hint Resolve PL_stream_end : pldb.
+Lemma PL_connect_next : forall n s, PL s -> PL (fst (fst (connect_next n s))).
+Proof. intros; name_result; unfold connect_next, ret; cases; leaf; eauto 30 with pldb. Qed.
+#[export] Hint Resolve PL_connect_next : pldb.
+
+(* SmOff: a disconnected object has no stream-management negotiation state left *)
+Definition SmOff (s : state) : Prop :=
+  st s = Disconnected -> sm_enabled s = false /\ sm_support s = false /\ sm_bind_saved s = false.
+Lemma SmOff_set_f_tls_disabled : forall v s, SmOff s -> SmOff (set_f_tls_disabled v s).
+Proof. intros v []; exact (fun h => h). Qed.
+#[export] Hint Resolve SmOff_set_f_tls_disabled : smoffdb.
+Lemma SmOff_set_f_tls_mandatory : forall v s, SmOff s -> SmOff (set_f_tls_mandatory v s).
+Proof. intros v []; exact (fun h => h). Qed.
+#[export] Hint Resolve SmOff_set_f_tls_mandatory : smoffdb.
+Lemma SmOff_set_f_legacy_ssl : forall v s, SmOff s -> SmOff (set_f_legacy_ssl v s).
+Proof. intros v []; exact (fun h => h). Qed.
+#[export] Hint Resolve SmOff_set_f_legacy_ssl : smoffdb.
+Lemma SmOff_set_f_tls_trust : forall v s, SmOff s -> SmOff (set_f_tls_trust v s).
+Proof. intros v []; exact (fun h => h). Qed.
+#[export] Hint Resolve SmOff_set_f_tls_trust : smoffdb.
+Lemma SmOff_set_f_legacy_auth : forall v s, SmOff s -> SmOff (set_f_legacy_auth v s).
+Proof. intros v []; exact (fun h => h). Qed.
+#[export] Hint Resolve SmOff_set_f_legacy_auth : smoffdb.
+Lemma SmOff_set_f_sm_disable : forall v s, SmOff s -> SmOff (set_f_sm_disable v s).
+Proof. intros v []; exact (fun h => h). Qed.
+#[export] Hint Resolve SmOff_set_f_sm_disable : smoffdb.
+Lemma SmOff_set_f_comp_allowed : forall v s, SmOff s -> SmOff (set_f_comp_allowed v s).
+Proof. intros v []; exact (fun h => h). Qed.
+#[export] Hint Resolve SmOff_set_f_comp_allowed : smoffdb.
+Lemma SmOff_set_f_comp_dont_reset : forall v s, SmOff s -> SmOff (set_f_comp_dont_reset v s).
+Proof. intros v []; exact (fun h => h). Qed.
+#[export] Hint Resolve SmOff_set_f_comp_dont_reset : smoffdb.
+Lemma SmOff_set_jid_set : forall v s, SmOff s -> SmOff (set_jid_set v s).
+Proof. intros v []; exact (fun h => h). Qed.
+#[export] Hint Resolve SmOff_set_jid_set : smoffdb.
+Lemma SmOff_set_jid_node : forall v s, SmOff s -> SmOff (set_jid_node v s).
+Proof. intros v []; exact (fun h => h). Qed.
+#[export] Hint Resolve SmOff_set_jid_node : smoffdb.
+Lemma SmOff_set_jid_res : forall v s, SmOff s -> SmOff (set_jid_res v s).
+Proof. intros v []; exact (fun h => h). Qed.
+#[export] Hint Resolve SmOff_set_jid_res : smoffdb.
+Lemma SmOff_set_pass_set : forall v s, SmOff s -> SmOff (set_pass_set v s).
+Proof. intros v []; exact (fun h => h). Qed.
+#[export] Hint Resolve SmOff_set_pass_set : smoffdb.
+Lemma SmOff_set_cert_set : forall v s, SmOff s -> SmOff (set_cert_set v s).
+Proof. intros v []; exact (fun h => h). Qed.
+#[export] Hint Resolve SmOff_set_cert_set : smoffdb.
+Lemma SmOff_set_is_raw : forall v s, SmOff s -> SmOff (set_is_raw v s).
+Proof. intros v []; exact (fun h => h). Qed.
+#[export] Hint Resolve SmOff_set_is_raw : smoffdb.
+Lemma SmOff_set_typ : forall v s, SmOff s -> SmOff (set_typ v s).
+Proof. intros v []; exact (fun h => h). Qed.
+#[export] Hint Resolve SmOff_set_typ : smoffdb.
+Lemma SmOff_set_user_handler : forall v s, SmOff s -> SmOff (set_user_handler v s).
+Proof. intros v []; exact (fun h => h). Qed.
+#[export] Hint Resolve SmOff_set_user_handler : smoffdb.
+Lemma SmOff_set_user_timed : forall v s, SmOff s -> SmOff (set_user_timed v s).
+Proof. intros v []; exact (fun h => h). Qed.
+#[export] Hint Resolve SmOff_set_user_timed : smoffdb.
+Lemma SmOff_set_tlsnew_ok : forall v s, SmOff s -> SmOff (set_tlsnew_ok v s).
+Proof. intros v []; exact (fun h => h). Qed.
+#[export] Hint Resolve SmOff_set_tlsnew_ok : smoffdb.
+Lemma SmOff_set_cb_avail : forall v s, SmOff s -> SmOff (set_cb_avail v s).
+Proof. intros v []; exact (fun h => h). Qed.
+#[export] Hint Resolve SmOff_set_cb_avail : smoffdb.
+Lemma SmOff_set_tls_verdicts : forall v s, SmOff s -> SmOff (set_tls_verdicts v s).
+Proof. intros v []; exact (fun h => h). Qed.
+#[export] Hint Resolve SmOff_set_tls_verdicts : smoffdb.
+Lemma SmOff_set_next_cands : forall v s, SmOff s -> SmOff (set_next_cands v s).
+Proof. intros v []; exact (fun h => h). Qed.
+#[export] Hint Resolve SmOff_set_next_cands : smoffdb.
+Lemma SmOff_set_cands : forall v s, SmOff s -> SmOff (set_cands v s).
+Proof. intros v []; exact (fun h => h). Qed.
+#[export] Hint Resolve SmOff_set_cands : smoffdb.
+Lemma SmOff_set_cur_ep : forall v s, SmOff s -> SmOff (set_cur_ep v s).
+Proof. intros v []; exact (fun h => h). Qed.
+#[export] Hint Resolve SmOff_set_cur_ep : smoffdb.
+Lemma SmOff_set_stamp : forall v s, SmOff s -> SmOff (set_stamp v s).
+Proof. intros v []; exact (fun h => h). Qed.
+#[export] Hint Resolve SmOff_set_stamp : smoffdb.
+Lemma SmOff_set_err : forall v s, SmOff s -> SmOff (set_err v s).
+Proof. intros v []; exact (fun h => h). Qed.
+#[export] Hint Resolve SmOff_set_err : smoffdb.
+Lemma SmOff_set_stream_error : forall v s, SmOff s -> SmOff (set_stream_error v s).
+Proof. intros v []; exact (fun h => h). Qed.
+#[export] Hint Resolve SmOff_set_stream_error : smoffdb.
+Lemma SmOff_set_secured : forall v s, SmOff s -> SmOff (set_secured v s).
+Proof. intros v []; exact (fun h => h). Qed.
+#[export] Hint Resolve SmOff_set_secured : smoffdb.
+Lemma SmOff_set_tls_present : forall v s, SmOff s -> SmOff (set_tls_present v s).
+Proof. intros v []; exact (fun h => h). Qed.
+#[export] Hint Resolve SmOff_set_tls_present : smoffdb.
+Lemma SmOff_set_tls_failed : forall v s, SmOff s -> SmOff (set_tls_failed v s).
+Proof. intros v []; exact (fun h => h). Qed.
+#[export] Hint Resolve SmOff_set_tls_failed : smoffdb.
+Lemma SmOff_set_tls_support : forall v s, SmOff s -> SmOff (set_tls_support v s).
+Proof. intros v []; exact (fun h => h). Qed.
+#[export] Hint Resolve SmOff_set_tls_support : smoffdb.
+Lemma SmOff_set_sasl : forall v s, SmOff s -> SmOff (set_sasl v s).
+Proof. intros v []; exact (fun h => h). Qed.
+#[export] Hint Resolve SmOff_set_sasl : smoffdb.
+Lemma SmOff_set_bind_required : forall v s, SmOff s -> SmOff (set_bind_required v s).
+Proof. intros v []; exact (fun h => h). Qed.
+#[export] Hint Resolve SmOff_set_bind_required : smoffdb.
+Lemma SmOff_set_session_required : forall v s, SmOff s -> SmOff (set_session_required v s).
+Proof. intros v []; exact (fun h => h). Qed.
+#[export] Hint Resolve SmOff_set_session_required : smoffdb.
+Lemma SmOff_set_comp_supported : forall v s, SmOff s -> SmOff (set_comp_supported v s).
+Proof. intros v []; exact (fun h => h). Qed.
+#[export] Hint Resolve SmOff_set_comp_supported : smoffdb.
+Lemma SmOff_set_comp_active : forall v s, SmOff s -> SmOff (set_comp_active v s).
+Proof. intros v []; exact (fun h => h). Qed.
+#[export] Hint Resolve SmOff_set_comp_active : smoffdb.
+Lemma SmOff_set_sm_alloc : forall v s, SmOff s -> SmOff (set_sm_alloc v s).
+Proof. intros v []; exact (fun h => h). Qed.
+#[export] Hint Resolve SmOff_set_sm_alloc : smoffdb.
+Lemma SmOff_set_sm_can_resume : forall v s, SmOff s -> SmOff (set_sm_can_resume v s).
+Proof. intros v []; exact (fun h => h). Qed.
+#[export] Hint Resolve SmOff_set_sm_can_resume : smoffdb.
+Lemma SmOff_set_sm_resume : forall v s, SmOff s -> SmOff (set_sm_resume v s).
+Proof. intros v []; exact (fun h => h). Qed.
+#[export] Hint Resolve SmOff_set_sm_resume : smoffdb.
+Lemma SmOff_set_sm_dont_request : forall v s, SmOff s -> SmOff (set_sm_dont_request v s).
+Proof. intros v []; exact (fun h => h). Qed.
+#[export] Hint Resolve SmOff_set_sm_dont_request : smoffdb.
+Lemma SmOff_set_sm_has_previd : forall v s, SmOff s -> SmOff (set_sm_has_previd v s).
+Proof. intros v []; exact (fun h => h). Qed.
+#[export] Hint Resolve SmOff_set_sm_has_previd : smoffdb.
+Lemma SmOff_set_sm_has_id : forall v s, SmOff s -> SmOff (set_sm_has_id v s).
+Proof. intros v []; exact (fun h => h). Qed.
+#[export] Hint Resolve SmOff_set_sm_has_id : smoffdb.
+Lemma SmOff_set_sm_parked : forall v s, SmOff s -> SmOff (set_sm_parked v s).
+Proof. intros v []; exact (fun h => h). Qed.
+#[export] Hint Resolve SmOff_set_sm_parked : smoffdb.
+Lemma SmOff_set_sm_r_sent : forall v s, SmOff s -> SmOff (set_sm_r_sent v s).
+Proof. intros v []; exact (fun h => h). Qed.
+#[export] Hint Resolve SmOff_set_sm_r_sent : smoffdb.
+Lemma SmOff_set_bound_jid : forall v s, SmOff s -> SmOff (set_bound_jid v s).
+Proof. intros v []; exact (fun h => h). Qed.
+#[export] Hint Resolve SmOff_set_bound_jid : smoffdb.
+Lemma SmOff_set_stream_id : forall v s, SmOff s -> SmOff (set_stream_id v s).
+Proof. intros v []; exact (fun h => h). Qed.
+#[export] Hint Resolve SmOff_set_stream_id : smoffdb.
+Lemma SmOff_set_neg_done : forall v s, SmOff s -> SmOff (set_neg_done v s).
+Proof. intros v []; exact (fun h => h). Qed.
+#[export] Hint Resolve SmOff_set_neg_done : smoffdb.
+Lemma SmOff_set_reset_parser : forall v s, SmOff s -> SmOff (set_reset_parser v s).
+Proof. intros v []; exact (fun h => h). Qed.
+#[export] Hint Resolve SmOff_set_reset_parser : smoffdb.
+Lemma SmOff_set_oh : forall v s, SmOff s -> SmOff (set_oh v s).
+Proof. intros v []; exact (fun h => h). Qed.
+#[export] Hint Resolve SmOff_set_oh : smoffdb.
+Lemma SmOff_set_ps : forall v s, SmOff s -> SmOff (set_ps v s).
+Proof. intros v []; exact (fun h => h). Qed.
+#[export] Hint Resolve SmOff_set_ps : smoffdb.
+Lemma SmOff_set_handlers : forall v s, SmOff s -> SmOff (set_handlers v s).
+Proof. intros v []; exact (fun h => h). Qed.
+#[export] Hint Resolve SmOff_set_handlers : smoffdb.
+Lemma SmOff_set_idhandlers : forall v s, SmOff s -> SmOff (set_idhandlers v s).
+Proof. intros v []; exact (fun h => h). Qed.
+#[export] Hint Resolve SmOff_set_idhandlers : smoffdb.
+Lemma SmOff_set_timed : forall v s, SmOff s -> SmOff (set_timed v s).
+Proof. intros v []; exact (fun h => h). Qed.
+#[export] Hint Resolve SmOff_set_timed : smoffdb.
+Lemma SmOff_set_sendq : forall v s, SmOff s -> SmOff (set_sendq v s).
+Proof. intros v []; exact (fun h => h). Qed.
+#[export] Hint Resolve SmOff_set_sendq : smoffdb.
+Lemma SmOff_set_rxq : forall v s, SmOff s -> SmOff (set_rxq v s).
+Proof. intros v []; exact (fun h => h). Qed.
+#[export] Hint Resolve SmOff_set_rxq : smoffdb.
+Lemma SmOff_set_smq : forall v s, SmOff s -> SmOff (set_smq v s).
+Proof. intros v []; exact (fun h => h). Qed.
+#[export] Hint Resolve SmOff_set_smq : smoffdb.
+Lemma SmOff_set_sm_sent : forall v s, SmOff s -> SmOff (set_sm_sent v s).
+Proof. intros v []; exact (fun h => h). Qed.
+#[export] Hint Resolve SmOff_set_sm_sent : smoffdb.
+Lemma SmOff_set_scram_serial : forall v s, SmOff s -> SmOff (set_scram_serial v s).
+Proof. intros v []; exact (fun h => h). Qed.
+#[export] Hint Resolve SmOff_set_scram_serial : smoffdb.
+Lemma SmOff_set_crashed : forall v s, SmOff s -> SmOff (set_crashed v s).
+Proof. intros v []; exact (fun h => h). Qed.
+#[export] Hint Resolve SmOff_set_crashed : smoffdb.
+Lemma SmOff_set_gh : forall v s, SmOff s -> SmOff (set_gh v s).
+Proof. intros v []; exact (fun h => h). Qed.
+#[export] Hint Resolve SmOff_set_gh : smoffdb.
+Lemma SmOff_upg : forall f s, SmOff s -> SmOff (upg f s).
+Proof. intros f []; exact (fun h => h). Qed.
+Lemma SmOff_live : forall s, st s <> Disconnected -> SmOff s.
+Proof. intros s H D. congruence. Qed.
+Lemma SmOff_set_sm_enabled_false : forall s, SmOff s -> SmOff (set_sm_enabled false s).
+Proof. intros s H D. destruct (H D) as (A & B & C). revert D. sproj. auto. Qed.
+Lemma SmOff_set_sm_bind_saved_false : forall s, SmOff s -> SmOff (set_sm_bind_saved false s).
+Proof. intros s H D. destruct (H D) as (A & B & C). revert D. sproj. auto. Qed.
+Lemma SmOff_set_sm_support_false : forall s, SmOff s -> SmOff (set_sm_support false s).
+Proof. intros s H D. destruct (H D) as (A & B & C). revert D. sproj. auto. Qed.
+Lemma SmOff_reset : forall s, SmOff (reset_sm_for_reconnect s).
+Proof. intros s D. unfold reset_sm_for_reconnect; cases; sproj; auto. Qed.
+#[export] Hint Resolve SmOff_upg SmOff_set_sm_enabled_false SmOff_set_sm_bind_saved_false SmOff_set_sm_support_false SmOff_reset : smoffdb.
+Lemma SmOff_q_append : forall w u sm s, SmOff s -> SmOff (q_append w u sm s).
+Proof. intros; unfold q_append; cases; eauto 10 with smoffdb. Qed.
+#[export] Hint Resolve SmOff_q_append : smoffdb.
+Lemma SmOff_send_gated : forall w u sm s, SmOff s -> SmOff (send_gated w u sm s).
+Proof. intros; unfold send_gated, ret; cases; leaf; eauto 30 with smoffdb. Qed.
+#[export] Hint Resolve SmOff_send_gated : smoffdb.
+Lemma SmOff_send_raw_m : forall w u sm s, SmOff s -> SmOff (send_raw_m w u sm s).
+Proof. intros; unfold send_raw_m, ret; cases; leaf; eauto 30 with smoffdb. Qed.
+#[export] Hint Resolve SmOff_send_raw_m : smoffdb.
+Lemma SmOff_timed_add : forall k n s, SmOff s -> SmOff (timed_add k n s).
+Proof. intros; unfold timed_add, ret; cases; leaf; eauto 30 with smoffdb. Qed.
+#[export] Hint Resolve SmOff_timed_add : smoffdb.
+Lemma SmOff_timed_del : forall k s, SmOff s -> SmOff (timed_del k s).
+Proof. intros; unfold timed_del, ret; cases; leaf; eauto 30 with smoffdb. Qed.
+#[export] Hint Resolve SmOff_timed_del : smoffdb.
+Lemma SmOff_timed_reset_all : forall n s, SmOff s -> SmOff (timed_reset_all n s).
+Proof. intros; unfold timed_reset_all, ret; cases; leaf; eauto 30 with smoffdb. Qed.
+#[export] Hint Resolve SmOff_timed_reset_all : smoffdb.
+Lemma SmOff_timed_set_stamp : forall k n s, SmOff s -> SmOff (timed_set_stamp k n s).
+Proof. intros; unfold timed_set_stamp, ret; cases; leaf; eauto 30 with smoffdb. Qed.
+#[export] Hint Resolve SmOff_timed_set_stamp : smoffdb.
+Lemma SmOff_h_add : forall k s, SmOff s -> SmOff (h_add k s).
+Proof. intros; unfold h_add, ret; cases; leaf; eauto 30 with smoffdb. Qed.
+#[export] Hint Resolve SmOff_h_add : smoffdb.
+Lemma SmOff_h_del : forall k s, SmOff s -> SmOff (h_del k s).
+Proof. intros; unfold h_del, ret; cases; leaf; eauto 30 with smoffdb. Qed.
+#[export] Hint Resolve SmOff_h_del : smoffdb.
+Lemma SmOff_id_add : forall k s, SmOff s -> SmOff (id_add k s).
+Proof. intros; unfold id_add, ret; cases; leaf; eauto 30 with smoffdb. Qed.
+#[export] Hint Resolve SmOff_id_add : smoffdb.
+Lemma SmOff_id_del : forall k s, SmOff s -> SmOff (id_del k s).
+Proof. intros; unfold id_del, ret; cases; leaf; eauto 30 with smoffdb. Qed.
+#[export] Hint Resolve SmOff_id_del : smoffdb.
+
+Lemma SmOff_sm_queue_cleanup : forall h s, SmOff s -> SmOff (sm_queue_cleanup h s).
+Proof. intros; unfold sm_queue_cleanup, ret; cases; leaf; eauto 30 with smoffdb. Qed.
+#[export] Hint Resolve SmOff_sm_queue_cleanup : smoffdb.
+Lemma SmOff_sm_queue_resend : forall s, SmOff s -> SmOff (sm_queue_resend s).
+Proof. intros; unfold sm_queue_resend. apply fold_left_inv; eauto with smoffdb. Qed.
+#[export] Hint Resolve SmOff_sm_queue_resend : smoffdb.
+Lemma SmOff_conn_disconnect : forall s, SmOff s -> SmOff (fst (conn_disconnect s)).
+Proof. intros s H. name_result. unfold conn_disconnect, ret. cases; leaf; eauto 20 with smoffdb. Qed.
+#[export] Hint Resolve SmOff_conn_disconnect : smoffdb.
+Lemma SmOff_xmpp_disconnect : forall n s, SmOff s -> SmOff (xmpp_disconnect n s).
+Proof. intros; unfold xmpp_disconnect, ret; cases; leaf; eauto 30 with smoffdb. Qed.
+#[export] Hint Resolve SmOff_xmpp_disconnect : smoffdb.
+Lemma SmOff_prepare_reset : forall h s, SmOff s -> SmOff (prepare_reset h s).
+Proof. intros; unfold prepare_reset, ret; cases; leaf; eauto 30 with smoffdb. Qed.
+#[export] Hint Resolve SmOff_prepare_reset : smoffdb.
+Lemma SmOff_conn_open_stream : forall s, SmOff s -> SmOff (conn_open_stream s).
+Proof. intros; unfold conn_open_stream, ret; cases; leaf; eauto 30 with smoffdb. Qed.
+#[export] Hint Resolve SmOff_conn_open_stream : smoffdb.
+Lemma SmOff_conn_tls_start : forall s, SmOff s -> SmOff (fst (fst (conn_tls_start s))).
+Proof. intros; name_result; unfold conn_tls_start, ret; cases; leaf; eauto 30 with smoffdb. Qed.
+#[export] Hint Resolve SmOff_conn_tls_start : smoffdb.
+Lemma SmOff_stream_negotiation_success : forall s, SmOff s -> SmOff (fst (stream_negotiation_success s)).
+Proof. intros; name_result; unfold stream_negotiation_success, ret; cases; leaf; eauto 30 with smoffdb. Qed.
+#[export] Hint Resolve SmOff_stream_negotiation_success : smoffdb.
+Lemma SmOff_do_bind : forall n b s, SmOff s -> SmOff (fst (do_bind n b s)).
+Proof. intros; name_result; unfold do_bind, ret; cases; leaf; eauto 30 with smoffdb. Qed.
+#[export] Hint Resolve SmOff_do_bind : smoffdb.
+Lemma SmOff_session_start : forall n s, SmOff s -> SmOff (session_start n s).
+Proof. intros; unfold session_start, ret; cases; leaf; eauto 30 with smoffdb. Qed.
+#[export] Hint Resolve SmOff_session_start : smoffdb.
+Lemma SmOff_sm_enable : forall s, st s <> Disconnected -> SmOff (sm_enable s).
+Proof. intros. apply SmOff_live. rewrite st_sm_enable. assumption. Qed.
+Lemma SmOff_auth_legacy : forall n s, SmOff s -> SmOff (auth_legacy n s).
+Proof. intros; unfold auth_legacy, ret; cases; leaf; eauto 30 with smoffdb. Qed.
+#[export] Hint Resolve SmOff_auth_legacy : smoffdb.
+Lemma SmOff_auth : forall fuel n s, SmOff s -> SmOff (fst (auth fuel n s)).
+Proof. induction fuel; intros; name_result; cbn [auth]; unfold ret; cases; leaf; eauto 30 with smoffdb. Qed.
+#[export] Hint Resolve SmOff_auth : smoffdb.
+Lemma SmOff_sasl_result : forall n e s, SmOff s -> SmOff (fst (sasl_result n e s)).
+Proof. intros; name_result; unfold sasl_result, ret; cases; leaf; eauto 30 with smoffdb. Qed.
+#[export] Hint Resolve SmOff_sasl_result : smoffdb.
+Lemma SmOff_features_sasl : forall n e s, st s <> Disconnected -> SmOff (fst (features_sasl n e s)).
+Proof. intros. apply SmOff_live. rewrite st_features_sasl. assumption. Qed.
+Lemma SmOff_note_rx : forall e s, SmOff s -> SmOff (note_rx e s).
+Proof. intros; unfold note_rx; cbv zeta; eauto with smoffdb. Qed.
+#[export] Hint Resolve SmOff_note_rx : smoffdb.
+Lemma SmOff_sm_handle : forall e s, SmOff s -> SmOff (sm_handle e s).
+Proof. intros; unfold sm_handle, ret; cases; leaf; eauto 30 with smoffdb. Qed.
+#[export] Hint Resolve SmOff_sm_handle : smoffdb.
+Lemma SmOff_open_handler : forall n s, SmOff s -> SmOff (fst (open_handler n s)).
+Proof. intros; name_result; unfold open_handler, ret; cases; leaf; eauto 30 with smoffdb. Qed.
+#[export] Hint Resolve SmOff_open_handler : smoffdb.
+Lemma SmOff_stream_start : forall n a b s, SmOff s -> SmOff (fst (stream_start n a b s)).
+Proof. intros; name_result; unfold stream_start, ret; cases; leaf; eauto 30 with smoffdb. Qed.
+#[export] Hint Resolve SmOff_stream_start : smoffdb.
+Lemma SmOff_stream_end : forall s, SmOff s -> SmOff (fst (stream_end s)).
+Proof. intros; name_result; unfold stream_end, ret; cases; leaf; eauto 30 with smoffdb. Qed.
+#[export] Hint Resolve SmOff_stream_end : smoffdb.
+Lemma SmOff_call_timed : forall k n s, SmOff s -> SmOff (fst (fst (call_timed k n s))).
+Proof. intros k; destruct k; intros; name_result; unfold call_timed, ret; cases; leaf; eauto 30 with smoffdb. Qed.
+#[export] Hint Resolve SmOff_call_timed : smoffdb.
+Lemma SmOff_visit_timed : forall n r k, SmOff (fst r) -> SmOff (fst (visit_timed n r k)).
+Proof. intros n [s o] k H. cbn [fst] in H. name_result. unfold visit_timed. cases; leaf; eauto 30 with smoffdb. Qed.
+Lemma SmOff_fold_visit_timed : forall n l s o, SmOff s -> SmOff (fst (fold_left (visit_timed n) l (s, o))).
+Proof. intros n l s o H. apply (fold_left_inv (fun r => SmOff (fst r))); auto. intros; apply SmOff_visit_timed; auto. Qed.
+#[export] Hint Resolve SmOff_fold_visit_timed : smoffdb.
+Lemma SmOff_fire_timed : forall n s, SmOff s -> SmOff (fst (fire_timed n s)).
+Proof. intros; name_result; unfold fire_timed, ret; cases; leaf; eauto 30 with smoffdb. Qed.
+#[export] Hint Resolve SmOff_fire_timed : smoffdb.
+Lemma SmOff_connect_next : forall n s, SmOff s -> SmOff (fst (fst (connect_next n s))).
+Proof. intros; name_result; unfold connect_next, ret; cases; leaf; eauto 30 with smoffdb. Qed.
+#[export] Hint Resolve SmOff_connect_next : smoffdb.
+Lemma SmOff_conn_established : forall n s, SmOff s -> SmOff (fst (conn_established n s)).
+Proof. intros; name_result; unfold conn_established, ret; cases; leaf; eauto 30 with smoffdb. Qed.
+#[export] Hint Resolve SmOff_conn_established : smoffdb.
+
+(* RPF: the parser bookkeeping is untouched *)
+Record RPF (s0 s : state) : Prop := mkRPF { rpf_rp : reset_parser s = reset_parser s0; rpf_ps : ps s = ps s0; rpf_oh : oh s = oh s0 }.
+Lemma RPF_refl : forall s, RPF s s. Proof. intros; constructor; reflexivity. Qed.
+Lemma RPF_trans : forall a b c, RPF a b -> RPF b c -> RPF a c.
+Proof. intros a b c [] []; constructor; congruence. Qed.
+#[export] Hint Resolve RPF_refl : rpfdb.
+Lemma RPF_set_f_tls_disabled : forall v s0 s, RPF s0 s -> RPF s0 (set_f_tls_disabled v s).
+Proof. intros v s0 s H; apply (RPF_trans _ _ _ H); destruct s; constructor; reflexivity. Qed.
+#[export] Hint Resolve RPF_set_f_tls_disabled : rpfdb.
+Lemma RPF_set_f_tls_mandatory : forall v s0 s, RPF s0 s -> RPF s0 (set_f_tls_mandatory v s).
+Proof. intros v s0 s H; apply (RPF_trans _ _ _ H); destruct s; constructor; reflexivity. Qed.
+#[export] Hint Resolve RPF_set_f_tls_mandatory : rpfdb.
+Lemma RPF_set_f_legacy_ssl : forall v s0 s, RPF s0 s -> RPF s0 (set_f_legacy_ssl v s).
+Proof. intros v s0 s H; apply (RPF_trans _ _ _ H); destruct s; constructor; reflexivity. Qed.
+#[export] Hint Resolve RPF_set_f_legacy_ssl : rpfdb.
+Lemma RPF_set_f_tls_trust : forall v s0 s, RPF s0 s -> RPF s0 (set_f_tls_trust v s).
+Proof. intros v s0 s H; apply (RPF_trans _ _ _ H); destruct s; constructor; reflexivity. Qed.
+#[export] Hint Resolve RPF_set_f_tls_trust : rpfdb.
+Lemma RPF_set_f_legacy_auth : forall v s0 s, RPF s0 s -> RPF s0 (set_f_legacy_auth v s).
+Proof. intros v s0 s H; apply (RPF_trans _ _ _ H); destruct s; constructor; reflexivity. Qed.
+#[export] Hint Resolve RPF_set_f_legacy_auth : rpfdb.
+Lemma RPF_set_f_sm_disable : forall v s0 s, RPF s0 s -> RPF s0 (set_f_sm_disable v s).
+Proof. intros v s0 s H; apply (RPF_trans _ _ _ H); destruct s; constructor; reflexivity. Qed.
+#[export] Hint Resolve RPF_set_f_sm_disable : rpfdb.
+Lemma RPF_set_f_comp_allowed : forall v s0 s, RPF s0 s -> RPF s0 (set_f_comp_allowed v s).
+Proof. intros v s0 s H; apply (RPF_trans _ _ _ H); destruct s; constructor; reflexivity. Qed.
+#[export] Hint Resolve RPF_set_f_comp_allowed : rpfdb.
+Lemma RPF_set_f_comp_dont_reset : forall v s0 s, RPF s0 s -> RPF s0 (set_f_comp_dont_reset v s).
+Proof. intros v s0 s H; apply (RPF_trans _ _ _ H); destruct s; constructor; reflexivity. Qed.
+#[export] Hint Resolve RPF_set_f_comp_dont_reset : rpfdb.
+Lemma RPF_set_jid_set : forall v s0 s, RPF s0 s -> RPF s0 (set_jid_set v s).
+Proof. intros v s0 s H; apply (RPF_trans _ _ _ H); destruct s; constructor; reflexivity. Qed.
+#[export] Hint Resolve RPF_set_jid_set : rpfdb.
+Lemma RPF_set_jid_node : forall v s0 s, RPF s0 s -> RPF s0 (set_jid_node v s).
+Proof. intros v s0 s H; apply (RPF_trans _ _ _ H); destruct s; constructor; reflexivity. Qed.
+#[export] Hint Resolve RPF_set_jid_node : rpfdb.
+Lemma RPF_set_jid_res : forall v s0 s, RPF s0 s -> RPF s0 (set_jid_res v s).
+Proof. intros v s0 s H; apply (RPF_trans _ _ _ H); destruct s; constructor; reflexivity. Qed.
+#[export] Hint Resolve RPF_set_jid_res : rpfdb.
+Lemma RPF_set_pass_set : forall v s0 s, RPF s0 s -> RPF s0 (set_pass_set v s).
+Proof. intros v s0 s H; apply (RPF_trans _ _ _ H); destruct s; constructor; reflexivity. Qed.
+#[export] Hint Resolve RPF_set_pass_set : rpfdb.
+Lemma RPF_set_cert_set : forall v s0 s, RPF s0 s -> RPF s0 (set_cert_set v s).
+Proof. intros v s0 s H; apply (RPF_trans _ _ _ H); destruct s; constructor; reflexivity. Qed.
+#[export] Hint Resolve RPF_set_cert_set : rpfdb.
+Lemma RPF_set_is_raw : forall v s0 s, RPF s0 s -> RPF s0 (set_is_raw v s).
+Proof. intros v s0 s H; apply (RPF_trans _ _ _ H); destruct s; constructor; reflexivity. Qed.
+#[export] Hint Resolve RPF_set_is_raw : rpfdb.
+Lemma RPF_set_typ : forall v s0 s, RPF s0 s -> RPF s0 (set_typ v s).
+Proof. intros v s0 s H; apply (RPF_trans _ _ _ H); destruct s; constructor; reflexivity. Qed.
+#[export] Hint Resolve RPF_set_typ : rpfdb.
+Lemma RPF_set_user_handler : forall v s0 s, RPF s0 s -> RPF s0 (set_user_handler v s).
+Proof. intros v s0 s H; apply (RPF_trans _ _ _ H); destruct s; constructor; reflexivity. Qed.
+#[export] Hint Resolve RPF_set_user_handler : rpfdb.
+Lemma RPF_set_user_timed : forall v s0 s, RPF s0 s -> RPF s0 (set_user_timed v s).
+Proof. intros v s0 s H; apply (RPF_trans _ _ _ H); destruct s; constructor; reflexivity. Qed.
+#[export] Hint Resolve RPF_set_user_timed : rpfdb.
+Lemma RPF_set_tlsnew_ok : forall v s0 s, RPF s0 s -> RPF s0 (set_tlsnew_ok v s).
+Proof. intros v s0 s H; apply (RPF_trans _ _ _ H); destruct s; constructor; reflexivity. Qed.
+#[export] Hint Resolve RPF_set_tlsnew_ok : rpfdb.
+Lemma RPF_set_cb_avail : forall v s0 s, RPF s0 s -> RPF s0 (set_cb_avail v s).
+Proof. intros v s0 s H; apply (RPF_trans _ _ _ H); destruct s; constructor; reflexivity. Qed.
+#[export] Hint Resolve RPF_set_cb_avail : rpfdb.
+Lemma RPF_set_tls_verdicts : forall v s0 s, RPF s0 s -> RPF s0 (set_tls_verdicts v s).
+Proof. intros v s0 s H; apply (RPF_trans _ _ _ H); destruct s; constructor; reflexivity. Qed.
+#[export] Hint Resolve RPF_set_tls_verdicts : rpfdb.
+Lemma RPF_set_next_cands : forall v s0 s, RPF s0 s -> RPF s0 (set_next_cands v s).
+Proof. intros v s0 s H; apply (RPF_trans _ _ _ H); destruct s; constructor; reflexivity. Qed.
+#[export] Hint Resolve RPF_set_next_cands : rpfdb.
+Lemma RPF_set_cands : forall v s0 s, RPF s0 s -> RPF s0 (set_cands v s).
+Proof. intros v s0 s H; apply (RPF_trans _ _ _ H); destruct s; constructor; reflexivity. Qed.
+#[export] Hint Resolve RPF_set_cands : rpfdb.
+Lemma RPF_set_cur_ep : forall v s0 s, RPF s0 s -> RPF s0 (set_cur_ep v s).
+Proof. intros v s0 s H; apply (RPF_trans _ _ _ H); destruct s; constructor; reflexivity. Qed.
+#[export] Hint Resolve RPF_set_cur_ep : rpfdb.
+Lemma RPF_set_st : forall v s0 s, RPF s0 s -> RPF s0 (set_st v s).
+Proof. intros v s0 s H; apply (RPF_trans _ _ _ H); destruct s; constructor; reflexivity. Qed.
+#[export] Hint Resolve RPF_set_st : rpfdb.
+Lemma RPF_set_stamp : forall v s0 s, RPF s0 s -> RPF s0 (set_stamp v s).
+Proof. intros v s0 s H; apply (RPF_trans _ _ _ H); destruct s; constructor; reflexivity. Qed.
+#[export] Hint Resolve RPF_set_stamp : rpfdb.
+Lemma RPF_set_err : forall v s0 s, RPF s0 s -> RPF s0 (set_err v s).
+Proof. intros v s0 s H; apply (RPF_trans _ _ _ H); destruct s; constructor; reflexivity. Qed.
+#[export] Hint Resolve RPF_set_err : rpfdb.
+Lemma RPF_set_stream_error : forall v s0 s, RPF s0 s -> RPF s0 (set_stream_error v s).
+Proof. intros v s0 s H; apply (RPF_trans _ _ _ H); destruct s; constructor; reflexivity. Qed.
+#[export] Hint Resolve RPF_set_stream_error : rpfdb.
+Lemma RPF_set_secured : forall v s0 s, RPF s0 s -> RPF s0 (set_secured v s).
+Proof. intros v s0 s H; apply (RPF_trans _ _ _ H); destruct s; constructor; reflexivity. Qed.
+#[export] Hint Resolve RPF_set_secured : rpfdb.
+Lemma RPF_set_tls_present : forall v s0 s, RPF s0 s -> RPF s0 (set_tls_present v s).
+Proof. intros v s0 s H; apply (RPF_trans _ _ _ H); destruct s; constructor; reflexivity. Qed.
+#[export] Hint Resolve RPF_set_tls_present : rpfdb.
+Lemma RPF_set_tls_failed : forall v s0 s, RPF s0 s -> RPF s0 (set_tls_failed v s).
+Proof. intros v s0 s H; apply (RPF_trans _ _ _ H); destruct s; constructor; reflexivity. Qed.
+#[export] Hint Resolve RPF_set_tls_failed : rpfdb.
+Lemma RPF_set_tls_support : forall v s0 s, RPF s0 s -> RPF s0 (set_tls_support v s).
+Proof. intros v s0 s H; apply (RPF_trans _ _ _ H); destruct s; constructor; reflexivity. Qed.
+#[export] Hint Resolve RPF_set_tls_support : rpfdb.
+Lemma RPF_set_sasl : forall v s0 s, RPF s0 s -> RPF s0 (set_sasl v s).
+Proof. intros v s0 s H; apply (RPF_trans _ _ _ H); destruct s; constructor; reflexivity. Qed.
+#[export] Hint Resolve RPF_set_sasl : rpfdb.
+Lemma RPF_set_bind_required : forall v s0 s, RPF s0 s -> RPF s0 (set_bind_required v s).
+Proof. intros v s0 s H; apply (RPF_trans _ _ _ H); destruct s; constructor; reflexivity. Qed.
+#[export] Hint Resolve RPF_set_bind_required : rpfdb.
+Lemma RPF_set_session_required : forall v s0 s, RPF s0 s -> RPF s0 (set_session_required v s).
+Proof. intros v s0 s H; apply (RPF_trans _ _ _ H); destruct s; constructor; reflexivity. Qed.
+#[export] Hint Resolve RPF_set_session_required : rpfdb.
+Lemma RPF_set_comp_supported : forall v s0 s, RPF s0 s -> RPF s0 (set_comp_supported v s).
+Proof. intros v s0 s H; apply (RPF_trans _ _ _ H); destruct s; constructor; reflexivity. Qed.
+#[export] Hint Resolve RPF_set_comp_supported : rpfdb.
+Lemma RPF_set_comp_active : forall v s0 s, RPF s0 s -> RPF s0 (set_comp_active v s).
+Proof. intros v s0 s H; apply (RPF_trans _ _ _ H); destruct s; constructor; reflexivity. Qed.
+#[export] Hint Resolve RPF_set_comp_active : rpfdb.
+Lemma RPF_set_sm_alloc : forall v s0 s, RPF s0 s -> RPF s0 (set_sm_alloc v s).
+Proof. intros v s0 s H; apply (RPF_trans _ _ _ H); destruct s; constructor; reflexivity. Qed.
+#[export] Hint Resolve RPF_set_sm_alloc : rpfdb.
+Lemma RPF_set_sm_support : forall v s0 s, RPF s0 s -> RPF s0 (set_sm_support v s).
+Proof. intros v s0 s H; apply (RPF_trans _ _ _ H); destruct s; constructor; reflexivity. Qed.
+#[export] Hint Resolve RPF_set_sm_support : rpfdb.
+Lemma RPF_set_sm_enabled : forall v s0 s, RPF s0 s -> RPF s0 (set_sm_enabled v s).
+Proof. intros v s0 s H; apply (RPF_trans _ _ _ H); destruct s; constructor; reflexivity. Qed.
+#[export] Hint Resolve RPF_set_sm_enabled : rpfdb.
+Lemma RPF_set_sm_can_resume : forall v s0 s, RPF s0 s -> RPF s0 (set_sm_can_resume v s).
+Proof. intros v s0 s H; apply (RPF_trans _ _ _ H); destruct s; constructor; reflexivity. Qed.
+#[export] Hint Resolve RPF_set_sm_can_resume : rpfdb.
+Lemma RPF_set_sm_resume : forall v s0 s, RPF s0 s -> RPF s0 (set_sm_resume v s).
+Proof. intros v s0 s H; apply (RPF_trans _ _ _ H); destruct s; constructor; reflexivity. Qed.
+#[export] Hint Resolve RPF_set_sm_resume : rpfdb.
+Lemma RPF_set_sm_dont_request : forall v s0 s, RPF s0 s -> RPF s0 (set_sm_dont_request v s).
+Proof. intros v s0 s H; apply (RPF_trans _ _ _ H); destruct s; constructor; reflexivity. Qed.
+#[export] Hint Resolve RPF_set_sm_dont_request : rpfdb.
+Lemma RPF_set_sm_has_previd : forall v s0 s, RPF s0 s -> RPF s0 (set_sm_has_previd v s).
+Proof. intros v s0 s H; apply (RPF_trans _ _ _ H); destruct s; constructor; reflexivity. Qed.
+#[export] Hint Resolve RPF_set_sm_has_previd : rpfdb.
+Lemma RPF_set_sm_has_id : forall v s0 s, RPF s0 s -> RPF s0 (set_sm_has_id v s).
+Proof. intros v s0 s H; apply (RPF_trans _ _ _ H); destruct s; constructor; reflexivity. Qed.
+#[export] Hint Resolve RPF_set_sm_has_id : rpfdb.
+Lemma RPF_set_sm_parked : forall v s0 s, RPF s0 s -> RPF s0 (set_sm_parked v s).
+Proof. intros v s0 s H; apply (RPF_trans _ _ _ H); destruct s; constructor; reflexivity. Qed.
+#[export] Hint Resolve RPF_set_sm_parked : rpfdb.
+Lemma RPF_set_sm_r_sent : forall v s0 s, RPF s0 s -> RPF s0 (set_sm_r_sent v s).
+Proof. intros v s0 s H; apply (RPF_trans _ _ _ H); destruct s; constructor; reflexivity. Qed.
+#[export] Hint Resolve RPF_set_sm_r_sent : rpfdb.
+Lemma RPF_set_sm_bind_saved : forall v s0 s, RPF s0 s -> RPF s0 (set_sm_bind_saved v s).
+Proof. intros v s0 s H; apply (RPF_trans _ _ _ H); destruct s; constructor; reflexivity. Qed.
+#[export] Hint Resolve RPF_set_sm_bind_saved : rpfdb.
+Lemma RPF_set_bound_jid : forall v s0 s, RPF s0 s -> RPF s0 (set_bound_jid v s).
+Proof. intros v s0 s H; apply (RPF_trans _ _ _ H); destruct s; constructor; reflexivity. Qed.
+#[export] Hint Resolve RPF_set_bound_jid : rpfdb.
+Lemma RPF_set_stream_id : forall v s0 s, RPF s0 s -> RPF s0 (set_stream_id v s).
+Proof. intros v s0 s H; apply (RPF_trans _ _ _ H); destruct s; constructor; reflexivity. Qed.
+#[export] Hint Resolve RPF_set_stream_id : rpfdb.
+Lemma RPF_set_neg_done : forall v s0 s, RPF s0 s -> RPF s0 (set_neg_done v s).
+Proof. intros v s0 s H; apply (RPF_trans _ _ _ H); destruct s; constructor; reflexivity. Qed.
+#[export] Hint Resolve RPF_set_neg_done : rpfdb.
+Lemma RPF_set_handlers : forall v s0 s, RPF s0 s -> RPF s0 (set_handlers v s).
+Proof. intros v s0 s H; apply (RPF_trans _ _ _ H); destruct s; constructor; reflexivity. Qed.
+#[export] Hint Resolve RPF_set_handlers : rpfdb.
+Lemma RPF_set_idhandlers : forall v s0 s, RPF s0 s -> RPF s0 (set_idhandlers v s).
+Proof. intros v s0 s H; apply (RPF_trans _ _ _ H); destruct s; constructor; reflexivity. Qed.
+#[export] Hint Resolve RPF_set_idhandlers : rpfdb.
+Lemma RPF_set_timed : forall v s0 s, RPF s0 s -> RPF s0 (set_timed v s).
+Proof. intros v s0 s H; apply (RPF_trans _ _ _ H); destruct s; constructor; reflexivity. Qed.
+#[export] Hint Resolve RPF_set_timed : rpfdb.
+Lemma RPF_set_sendq : forall v s0 s, RPF s0 s -> RPF s0 (set_sendq v s).
+Proof. intros v s0 s H; apply (RPF_trans _ _ _ H); destruct s; constructor; reflexivity. Qed.
+#[export] Hint Resolve RPF_set_sendq : rpfdb.
+Lemma RPF_set_rxq : forall v s0 s, RPF s0 s -> RPF s0 (set_rxq v s).
+Proof. intros v s0 s H; apply (RPF_trans _ _ _ H); destruct s; constructor; reflexivity. Qed.
+#[export] Hint Resolve RPF_set_rxq : rpfdb.
+Lemma RPF_set_smq : forall v s0 s, RPF s0 s -> RPF s0 (set_smq v s).
+Proof. intros v s0 s H; apply (RPF_trans _ _ _ H); destruct s; constructor; reflexivity. Qed.
+#[export] Hint Resolve RPF_set_smq : rpfdb.
+Lemma RPF_set_sm_sent : forall v s0 s, RPF s0 s -> RPF s0 (set_sm_sent v s).
+Proof. intros v s0 s H; apply (RPF_trans _ _ _ H); destruct s; constructor; reflexivity. Qed.
+#[export] Hint Resolve RPF_set_sm_sent : rpfdb.
+Lemma RPF_set_scram_serial : forall v s0 s, RPF s0 s -> RPF s0 (set_scram_serial v s).
+Proof. intros v s0 s H; apply (RPF_trans _ _ _ H); destruct s; constructor; reflexivity. Qed.
+#[export] Hint Resolve RPF_set_scram_serial : rpfdb.
+Lemma RPF_set_crashed : forall v s0 s, RPF s0 s -> RPF s0 (set_crashed v s).
+Proof. intros v s0 s H; apply (RPF_trans _ _ _ H); destruct s; constructor; reflexivity. Qed.
+#[export] Hint Resolve RPF_set_crashed : rpfdb.
+Lemma RPF_set_gh : forall v s0 s, RPF s0 s -> RPF s0 (set_gh v s).
+Proof. intros v s0 s H; apply (RPF_trans _ _ _ H); destruct s; constructor; reflexivity. Qed.
+#[export] Hint Resolve RPF_set_gh : rpfdb.
+Lemma RPF_upg : forall f s0 s, RPF s0 s -> RPF s0 (upg f s).
+Proof. intros f s0 s H; apply (RPF_trans _ _ _ H); destruct s; constructor; reflexivity. Qed.
+#[export] Hint Resolve RPF_upg : rpfdb.
+Lemma RPF_q_append : forall w u sm s0 s, RPF s0 s -> RPF s0 (q_append w u sm s).
+Proof. intros; unfold q_append, ret; cases; leaf; eauto 30 with rpfdb. Qed.
+#[export] Hint Resolve RPF_q_append : rpfdb.
+Lemma RPF_send_gated : forall w u sm s0 s, RPF s0 s -> RPF s0 (send_gated w u sm s).
+Proof. intros; unfold send_gated, ret; cases; leaf; eauto 30 with rpfdb. Qed.
+#[export] Hint Resolve RPF_send_gated : rpfdb.
+Lemma RPF_send_raw_m : forall w u sm s0 s, RPF s0 s -> RPF s0 (send_raw_m w u sm s).
+Proof. intros; unfold send_raw_m, ret; cases; leaf; eauto 30 with rpfdb. Qed.
+#[export] Hint Resolve RPF_send_raw_m : rpfdb.
+Lemma RPF_timed_add : forall k n s0 s, RPF s0 s -> RPF s0 (timed_add k n s).
+Proof. intros; unfold timed_add, ret; cases; leaf; eauto 30 with rpfdb. Qed.
+#[export] Hint Resolve RPF_timed_add : rpfdb.
+Lemma RPF_timed_del : forall k s0 s, RPF s0 s -> RPF s0 (timed_del k s).
+Proof. intros; unfold timed_del, ret; cases; leaf; eauto 30 with rpfdb. Qed.
+#[export] Hint Resolve RPF_timed_del : rpfdb.
+Lemma RPF_timed_reset_all : forall n s0 s, RPF s0 s -> RPF s0 (timed_reset_all n s).
+Proof. intros; unfold timed_reset_all, ret; cases; leaf; eauto 30 with rpfdb. Qed.
+#[export] Hint Resolve RPF_timed_reset_all : rpfdb.
+Lemma RPF_timed_set_stamp : forall k n s0 s, RPF s0 s -> RPF s0 (timed_set_stamp k n s).
+Proof. intros; unfold timed_set_stamp, ret; cases; leaf; eauto 30 with rpfdb. Qed.
+#[export] Hint Resolve RPF_timed_set_stamp : rpfdb.
+Lemma RPF_h_add : forall k s0 s, RPF s0 s -> RPF s0 (h_add k s).
+Proof. intros; unfold h_add, ret; cases; leaf; eauto 30 with rpfdb. Qed.
+#[export] Hint Resolve RPF_h_add : rpfdb.
+Lemma RPF_h_del : forall k s0 s, RPF s0 s -> RPF s0 (h_del k s).
+Proof. intros; unfold h_del, ret; cases; leaf; eauto 30 with rpfdb. Qed.
+#[export] Hint Resolve RPF_h_del : rpfdb.
+Lemma RPF_id_add : forall k s0 s, RPF s0 s -> RPF s0 (id_add k s).
+Proof. intros; unfold id_add, ret; cases; leaf; eauto 30 with rpfdb. Qed.
+#[export] Hint Resolve RPF_id_add : rpfdb.
+Lemma RPF_id_del : forall k s0 s, RPF s0 s -> RPF s0 (id_del k s).
+Proof. intros; unfold id_del, ret; cases; leaf; eauto 30 with rpfdb. Qed.
+#[export] Hint Resolve RPF_id_del : rpfdb.
+Lemma RPF_reset_sm_for_reconnect : forall s0 s, RPF s0 s -> RPF s0 (reset_sm_for_reconnect s).
+Proof. intros; unfold reset_sm_for_reconnect, ret; cases; leaf; eauto 30 with rpfdb. Qed.
+#[export] Hint Resolve RPF_reset_sm_for_reconnect : rpfdb.
+Lemma RPF_sm_queue_cleanup : forall h s0 s, RPF s0 s -> RPF s0 (sm_queue_cleanup h s).
+Proof. intros; unfold sm_queue_cleanup, ret; cases; leaf; eauto 30 with rpfdb. Qed.
+#[export] Hint Resolve RPF_sm_queue_cleanup : rpfdb.
+Lemma RPF_sm_queue_resend : forall s0 s, RPF s0 s -> RPF s0 (sm_queue_resend s).
+Proof. intros; unfold sm_queue_resend; apply fold_left_inv; eauto with rpfdb. Qed.
+#[export] Hint Resolve RPF_sm_queue_resend : rpfdb.
+Lemma RPF_conn_disconnect : forall s0 s, RPF s0 s -> RPF s0 (fst (conn_disconnect s)).
+Proof. intros; name_result; unfold conn_disconnect, ret; cases; leaf; eauto 30 with rpfdb. Qed.
+#[export] Hint Resolve RPF_conn_disconnect : rpfdb.
+Lemma RPF_xmpp_disconnect : forall n s0 s, RPF s0 s -> RPF s0 (xmpp_disconnect n s).
+Proof. intros; unfold xmpp_disconnect, ret; cases; leaf; eauto 30 with rpfdb. Qed.
+#[export] Hint Resolve RPF_xmpp_disconnect : rpfdb.
+Lemma RPF_conn_open_stream : forall s0 s, RPF s0 s -> RPF s0 (conn_open_stream s).
+Proof. intros; unfold conn_open_stream, ret; cases; leaf; eauto 30 with rpfdb. Qed.
+#[export] Hint Resolve RPF_conn_open_stream : rpfdb.
+Lemma RPF_conn_tls_start : forall s0 s, RPF s0 s -> RPF s0 (fst (fst (conn_tls_start s))).
+Proof. intros; name_result; unfold conn_tls_start, ret; cases; leaf; eauto 30 with rpfdb. Qed.
+#[export] Hint Resolve RPF_conn_tls_start : rpfdb.
+Lemma RPF_stream_negotiation_success : forall s0 s, RPF s0 s -> RPF s0 (fst (stream_negotiation_success s)).
+Proof. intros; name_result; unfold stream_negotiation_success, ret; cases; leaf; eauto 30 with rpfdb. Qed.
+#[export] Hint Resolve RPF_stream_negotiation_success : rpfdb.
+Lemma RPF_do_bind : forall n b s0 s, RPF s0 s -> RPF s0 (fst (do_bind n b s)).
+Proof. intros; name_result; unfold do_bind, ret; cases; leaf; eauto 30 with rpfdb. Qed.
+#[export] Hint Resolve RPF_do_bind : rpfdb.
+Lemma RPF_session_start : forall n s0 s, RPF s0 s -> RPF s0 (session_start n s).
+Proof. intros; unfold session_start, ret; cases; leaf; eauto 30 with rpfdb. Qed.
+#[export] Hint Resolve RPF_session_start : rpfdb.
+Lemma RPF_sm_enable : forall s0 s, RPF s0 s -> RPF s0 (sm_enable s).
+Proof. intros; unfold sm_enable, ret; cases; leaf; eauto 30 with rpfdb. Qed.
+#[export] Hint Resolve RPF_sm_enable : rpfdb.
+Lemma RPF_auth_legacy : forall n s0 s, RPF s0 s -> RPF s0 (auth_legacy n s).
+Proof. intros; unfold auth_legacy, ret; cases; leaf; eauto 30 with rpfdb. Qed.
+#[export] Hint Resolve RPF_auth_legacy : rpfdb.
+Lemma RPF_auth : forall fuel n s0 s, RPF s0 s -> RPF s0 (fst (auth fuel n s)).
+Proof. induction fuel; intros; name_result; cbn [auth]; unfold ret; cases; leaf; eauto 30 with rpfdb. Qed.
+#[export] Hint Resolve RPF_auth : rpfdb.
+Lemma RPF_note_rx : forall e s0 s, RPF s0 s -> RPF s0 (note_rx e s).
+Proof. intros; unfold note_rx; cbv zeta; eauto with rpfdb. Qed.
+#[export] Hint Resolve RPF_note_rx : rpfdb.
+Lemma RPF_sm_handle : forall e s0 s, RPF s0 s -> RPF s0 (sm_handle e s).
+Proof. intros; unfold sm_handle, ret; cases; leaf; eauto 30 with rpfdb. Qed.
+#[export] Hint Resolve RPF_sm_handle : rpfdb.
+Lemma RPF_call_timed : forall k n s0 s, RPF s0 s -> RPF s0 (fst (fst (call_timed k n s))).
+Proof. intros k; destruct k; intros; name_result; unfold call_timed, ret; cases; leaf; eauto 30 with rpfdb. Qed.
+#[export] Hint Resolve RPF_call_timed : rpfdb.
+Lemma RPF_visit_timed : forall n s0 r k, RPF s0 (fst r) -> RPF s0 (fst (visit_timed n r k)).
+Proof. intros n s0 [s o] k H. cbn [fst] in H. name_result. unfold visit_timed. cases; leaf; eauto 30 with rpfdb. Qed.
+Lemma RPF_fold_visit_timed : forall n l s0 s o, RPF s0 s -> RPF s0 (fst (fold_left (visit_timed n) l (s, o))).
+Proof. intros n l s0 s o H. apply (fold_left_inv (fun r => RPF s0 (fst r))); auto. intros; apply RPF_visit_timed; auto. Qed.
+#[export] Hint Resolve RPF_fold_visit_timed : rpfdb.
+Lemma RPF_fire_timed : forall n s0 s, RPF s0 s -> RPF s0 (fst (fire_timed n s)).
+Proof. intros; name_result; unfold fire_timed, ret; cases; leaf; eauto 30 with rpfdb. Qed.
+#[export] Hint Resolve RPF_fire_timed : rpfdb.
+Lemma RPF_connect_next : forall n s0 s, RPF s0 s -> RPF s0 (fst (fst (connect_next n s))).
+Proof. intros; name_result; unfold connect_next; destruct (sock_connect (cands s)) as [oo [[k r]|]]; leaf; eauto 20 with rpfdb. Qed.
+#[export] Hint Resolve RPF_connect_next : rpfdb.
+Lemma RPF_conn_established : forall n s0 s, RPF s0 s -> RPF s0 (fst (conn_established n s)).
+Proof. intros; name_result; unfold conn_established, ret; cases; leaf; eauto 30 with rpfdb. Qed.
+#[export] Hint Resolve RPF_conn_established : rpfdb.
+
+(* Sn: stream management is not switched on *)
+Definition Sn (s0 s : state) : Prop := sm_enabled s = true -> sm_enabled s0 = true.
+Lemma Sn_refl : forall s, Sn s s. Proof. intros s H; exact H. Qed.
+#[export] Hint Resolve Sn_refl : sndb.
+Lemma Sn_set_f_tls_disabled : forall v s0 s, Sn s0 s -> Sn s0 (set_f_tls_disabled v s).
+Proof. intros v s0 []; exact (fun h => h). Qed.
+#[export] Hint Resolve Sn_set_f_tls_disabled : sndb.
+Lemma Sn_set_f_tls_mandatory : forall v s0 s, Sn s0 s -> Sn s0 (set_f_tls_mandatory v s).
+Proof. intros v s0 []; exact (fun h => h). Qed.
+#[export] Hint Resolve Sn_set_f_tls_mandatory : sndb.
+Lemma Sn_set_f_legacy_ssl : forall v s0 s, Sn s0 s -> Sn s0 (set_f_legacy_ssl v s).
+Proof. intros v s0 []; exact (fun h => h). Qed.
+#[export] Hint Resolve Sn_set_f_legacy_ssl : sndb.
+Lemma Sn_set_f_tls_trust : forall v s0 s, Sn s0 s -> Sn s0 (set_f_tls_trust v s).
+Proof. intros v s0 []; exact (fun h => h). Qed.
+#[export] Hint Resolve Sn_set_f_tls_trust : sndb.
+Lemma Sn_set_f_legacy_auth : forall v s0 s, Sn s0 s -> Sn s0 (set_f_legacy_auth v s).
+Proof. intros v s0 []; exact (fun h => h). Qed.
+#[export] Hint Resolve Sn_set_f_legacy_auth : sndb.
+Lemma Sn_set_f_sm_disable : forall v s0 s, Sn s0 s -> Sn s0 (set_f_sm_disable v s).
+Proof. intros v s0 []; exact (fun h => h). Qed.
+#[export] Hint Resolve Sn_set_f_sm_disable : sndb.
+Lemma Sn_set_f_comp_allowed : forall v s0 s, Sn s0 s -> Sn s0 (set_f_comp_allowed v s).
+Proof. intros v s0 []; exact (fun h => h). Qed.
+#[export] Hint Resolve Sn_set_f_comp_allowed : sndb.
+Lemma Sn_set_f_comp_dont_reset : forall v s0 s, Sn s0 s -> Sn s0 (set_f_comp_dont_reset v s).
+Proof. intros v s0 []; exact (fun h => h). Qed.
+#[export] Hint Resolve Sn_set_f_comp_dont_reset : sndb.
+Lemma Sn_set_jid_set : forall v s0 s, Sn s0 s -> Sn s0 (set_jid_set v s).
+Proof. intros v s0 []; exact (fun h => h). Qed.
+#[export] Hint Resolve Sn_set_jid_set : sndb.
+Lemma Sn_set_jid_node : forall v s0 s, Sn s0 s -> Sn s0 (set_jid_node v s).
+Proof. intros v s0 []; exact (fun h => h). Qed.
+#[export] Hint Resolve Sn_set_jid_node : sndb.
+Lemma Sn_set_jid_res : forall v s0 s, Sn s0 s -> Sn s0 (set_jid_res v s).
+Proof. intros v s0 []; exact (fun h => h). Qed.
+#[export] Hint Resolve Sn_set_jid_res : sndb.
+Lemma Sn_set_pass_set : forall v s0 s, Sn s0 s -> Sn s0 (set_pass_set v s).
+Proof. intros v s0 []; exact (fun h => h). Qed.
+#[export] Hint Resolve Sn_set_pass_set : sndb.
+Lemma Sn_set_cert_set : forall v s0 s, Sn s0 s -> Sn s0 (set_cert_set v s).
+Proof. intros v s0 []; exact (fun h => h). Qed.
+#[export] Hint Resolve Sn_set_cert_set : sndb.
+Lemma Sn_set_is_raw : forall v s0 s, Sn s0 s -> Sn s0 (set_is_raw v s).
+Proof. intros v s0 []; exact (fun h => h). Qed.
+#[export] Hint Resolve Sn_set_is_raw : sndb.
+Lemma Sn_set_typ : forall v s0 s, Sn s0 s -> Sn s0 (set_typ v s).
+Proof. intros v s0 []; exact (fun h => h). Qed.
+#[export] Hint Resolve Sn_set_typ : sndb.
+Lemma Sn_set_user_handler : forall v s0 s, Sn s0 s -> Sn s0 (set_user_handler v s).
+Proof. intros v s0 []; exact (fun h => h). Qed.
+#[export] Hint Resolve Sn_set_user_handler : sndb.
+Lemma Sn_set_user_timed : forall v s0 s, Sn s0 s -> Sn s0 (set_user_timed v s).
+Proof. intros v s0 []; exact (fun h => h). Qed.
+#[export] Hint Resolve Sn_set_user_timed : sndb.
+Lemma Sn_set_tlsnew_ok : forall v s0 s, Sn s0 s -> Sn s0 (set_tlsnew_ok v s).
+Proof. intros v s0 []; exact (fun h => h). Qed.
+#[export] Hint Resolve Sn_set_tlsnew_ok : sndb.
+Lemma Sn_set_cb_avail : forall v s0 s, Sn s0 s -> Sn s0 (set_cb_avail v s).
+Proof. intros v s0 []; exact (fun h => h). Qed.
+#[export] Hint Resolve Sn_set_cb_avail : sndb.
+Lemma Sn_set_tls_verdicts : forall v s0 s, Sn s0 s -> Sn s0 (set_tls_verdicts v s).
+Proof. intros v s0 []; exact (fun h => h). Qed.
+#[export] Hint Resolve Sn_set_tls_verdicts : sndb.
+Lemma Sn_set_next_cands : forall v s0 s, Sn s0 s -> Sn s0 (set_next_cands v s).
+Proof. intros v s0 []; exact (fun h => h). Qed.
+#[export] Hint Resolve Sn_set_next_cands : sndb.
+Lemma Sn_set_cands : forall v s0 s, Sn s0 s -> Sn s0 (set_cands v s).
+Proof. intros v s0 []; exact (fun h => h). Qed.
+#[export] Hint Resolve Sn_set_cands : sndb.
+Lemma Sn_set_cur_ep : forall v s0 s, Sn s0 s -> Sn s0 (set_cur_ep v s).
+Proof. intros v s0 []; exact (fun h => h). Qed.
+#[export] Hint Resolve Sn_set_cur_ep : sndb.
+Lemma Sn_set_st : forall v s0 s, Sn s0 s -> Sn s0 (set_st v s).
+Proof. intros v s0 []; exact (fun h => h). Qed.
+#[export] Hint Resolve Sn_set_st : sndb.
+Lemma Sn_set_stamp : forall v s0 s, Sn s0 s -> Sn s0 (set_stamp v s).
+Proof. intros v s0 []; exact (fun h => h). Qed.
+#[export] Hint Resolve Sn_set_stamp : sndb.
+Lemma Sn_set_err : forall v s0 s, Sn s0 s -> Sn s0 (set_err v s).
+Proof. intros v s0 []; exact (fun h => h). Qed.
+#[export] Hint Resolve Sn_set_err : sndb.
+Lemma Sn_set_stream_error : forall v s0 s, Sn s0 s -> Sn s0 (set_stream_error v s).
+Proof. intros v s0 []; exact (fun h => h). Qed.
+#[export] Hint Resolve Sn_set_stream_error : sndb.
+Lemma Sn_set_secured : forall v s0 s, Sn s0 s -> Sn s0 (set_secured v s).
+Proof. intros v s0 []; exact (fun h => h). Qed.
+#[export] Hint Resolve Sn_set_secured : sndb.
+Lemma Sn_set_tls_present : forall v s0 s, Sn s0 s -> Sn s0 (set_tls_present v s).
+Proof. intros v s0 []; exact (fun h => h). Qed.
+#[export] Hint Resolve Sn_set_tls_present : sndb.
+Lemma Sn_set_tls_failed : forall v s0 s, Sn s0 s -> Sn s0 (set_tls_failed v s).
+Proof. intros v s0 []; exact (fun h => h). Qed.
+#[export] Hint Resolve Sn_set_tls_failed : sndb.
+Lemma Sn_set_tls_support : forall v s0 s, Sn s0 s -> Sn s0 (set_tls_support v s).
+Proof. intros v s0 []; exact (fun h => h). Qed.
+#[export] Hint Resolve Sn_set_tls_support : sndb.
+Lemma Sn_set_sasl : forall v s0 s, Sn s0 s -> Sn s0 (set_sasl v s).
+Proof. intros v s0 []; exact (fun h => h). Qed.
+#[export] Hint Resolve Sn_set_sasl : sndb.
+Lemma Sn_set_bind_required : forall v s0 s, Sn s0 s -> Sn s0 (set_bind_required v s).
+Proof. intros v s0 []; exact (fun h => h). Qed.
+#[export] Hint Resolve Sn_set_bind_required : sndb.
+Lemma Sn_set_session_required : forall v s0 s, Sn s0 s -> Sn s0 (set_session_required v s).
+Proof. intros v s0 []; exact (fun h => h). Qed.
+#[export] Hint Resolve Sn_set_session_required : sndb.
+Lemma Sn_set_comp_supported : forall v s0 s, Sn s0 s -> Sn s0 (set_comp_supported v s).
+Proof. intros v s0 []; exact (fun h => h). Qed.
+#[export] Hint Resolve Sn_set_comp_supported : sndb.
+Lemma Sn_set_comp_active : forall v s0 s, Sn s0 s -> Sn s0 (set_comp_active v s).
+Proof. intros v s0 []; exact (fun h => h). Qed.
+#[export] Hint Resolve Sn_set_comp_active : sndb.
+Lemma Sn_set_sm_alloc : forall v s0 s, Sn s0 s -> Sn s0 (set_sm_alloc v s).
+Proof. intros v s0 []; exact (fun h => h). Qed.
+#[export] Hint Resolve Sn_set_sm_alloc : sndb.
+Lemma Sn_set_sm_support : forall v s0 s, Sn s0 s -> Sn s0 (set_sm_support v s).
+Proof. intros v s0 []; exact (fun h => h). Qed.
+#[export] Hint Resolve Sn_set_sm_support : sndb.
+Lemma Sn_set_sm_can_resume : forall v s0 s, Sn s0 s -> Sn s0 (set_sm_can_resume v s).
+Proof. intros v s0 []; exact (fun h => h). Qed.
+#[export] Hint Resolve Sn_set_sm_can_resume : sndb.
+Lemma Sn_set_sm_resume : forall v s0 s, Sn s0 s -> Sn s0 (set_sm_resume v s).
+Proof. intros v s0 []; exact (fun h => h). Qed.
+#[export] Hint Resolve Sn_set_sm_resume : sndb.
+Lemma Sn_set_sm_dont_request : forall v s0 s, Sn s0 s -> Sn s0 (set_sm_dont_request v s).
+Proof. intros v s0 []; exact (fun h => h). Qed.
+#[export] Hint Resolve Sn_set_sm_dont_request : sndb.
+Lemma Sn_set_sm_has_previd : forall v s0 s, Sn s0 s -> Sn s0 (set_sm_has_previd v s).
+Proof. intros v s0 []; exact (fun h => h). Qed.
+#[export] Hint Resolve Sn_set_sm_has_previd : sndb.
+Lemma Sn_set_sm_has_id : forall v s0 s, Sn s0 s -> Sn s0 (set_sm_has_id v s).
+Proof. intros v s0 []; exact (fun h => h). Qed.
+#[export] Hint Resolve Sn_set_sm_has_id : sndb.
+Lemma Sn_set_sm_parked : forall v s0 s, Sn s0 s -> Sn s0 (set_sm_parked v s).
+Proof. intros v s0 []; exact (fun h => h). Qed.
+#[export] Hint Resolve Sn_set_sm_parked : sndb.
+Lemma Sn_set_sm_r_sent : forall v s0 s, Sn s0 s -> Sn s0 (set_sm_r_sent v s).
+Proof. intros v s0 []; exact (fun h => h). Qed.
+#[export] Hint Resolve Sn_set_sm_r_sent : sndb.
+Lemma Sn_set_sm_bind_saved : forall v s0 s, Sn s0 s -> Sn s0 (set_sm_bind_saved v s).
+Proof. intros v s0 []; exact (fun h => h). Qed.
+#[export] Hint Resolve Sn_set_sm_bind_saved : sndb.
+Lemma Sn_set_bound_jid : forall v s0 s, Sn s0 s -> Sn s0 (set_bound_jid v s).
+Proof. intros v s0 []; exact (fun h => h). Qed.
+#[export] Hint Resolve Sn_set_bound_jid : sndb.
+Lemma Sn_set_stream_id : forall v s0 s, Sn s0 s -> Sn s0 (set_stream_id v s).
+Proof. intros v s0 []; exact (fun h => h). Qed.
+#[export] Hint Resolve Sn_set_stream_id : sndb.
+Lemma Sn_set_neg_done : forall v s0 s, Sn s0 s -> Sn s0 (set_neg_done v s).
+Proof. intros v s0 []; exact (fun h => h). Qed.
+#[export] Hint Resolve Sn_set_neg_done : sndb.
+Lemma Sn_set_reset_parser : forall v s0 s, Sn s0 s -> Sn s0 (set_reset_parser v s).
+Proof. intros v s0 []; exact (fun h => h). Qed.
+#[export] Hint Resolve Sn_set_reset_parser : sndb.
+Lemma Sn_set_oh : forall v s0 s, Sn s0 s -> Sn s0 (set_oh v s).
+Proof. intros v s0 []; exact (fun h => h). Qed.
+#[export] Hint Resolve Sn_set_oh : sndb.
+Lemma Sn_set_ps : forall v s0 s, Sn s0 s -> Sn s0 (set_ps v s).
+Proof. intros v s0 []; exact (fun h => h). Qed.
+#[export] Hint Resolve Sn_set_ps : sndb.
+Lemma Sn_set_handlers : forall v s0 s, Sn s0 s -> Sn s0 (set_handlers v s).
+Proof. intros v s0 []; exact (fun h => h). Qed.
+#[export] Hint Resolve Sn_set_handlers : sndb.
+Lemma Sn_set_idhandlers : forall v s0 s, Sn s0 s -> Sn s0 (set_idhandlers v s).
+Proof. intros v s0 []; exact (fun h => h). Qed.
+#[export] Hint Resolve Sn_set_idhandlers : sndb.
+Lemma Sn_set_timed : forall v s0 s, Sn s0 s -> Sn s0 (set_timed v s).
+Proof. intros v s0 []; exact (fun h => h). Qed.
+#[export] Hint Resolve Sn_set_timed : sndb.
+Lemma Sn_set_sendq : forall v s0 s, Sn s0 s -> Sn s0 (set_sendq v s).
+Proof. intros v s0 []; exact (fun h => h). Qed.
+#[export] Hint Resolve Sn_set_sendq : sndb.
+Lemma Sn_set_rxq : forall v s0 s, Sn s0 s -> Sn s0 (set_rxq v s).
+Proof. intros v s0 []; exact (fun h => h). Qed.
+#[export] Hint Resolve Sn_set_rxq : sndb.
+Lemma Sn_set_smq : forall v s0 s, Sn s0 s -> Sn s0 (set_smq v s).
+Proof. intros v s0 []; exact (fun h => h). Qed.
+#[export] Hint Resolve Sn_set_smq : sndb.
+Lemma Sn_set_sm_sent : forall v s0 s, Sn s0 s -> Sn s0 (set_sm_sent v s).
+Proof. intros v s0 []; exact (fun h => h). Qed.
+#[export] Hint Resolve Sn_set_sm_sent : sndb.
+Lemma Sn_set_scram_serial : forall v s0 s, Sn s0 s -> Sn s0 (set_scram_serial v s).
+Proof. intros v s0 []; exact (fun h => h). Qed.
+#[export] Hint Resolve Sn_set_scram_serial : sndb.
+Lemma Sn_set_crashed : forall v s0 s, Sn s0 s -> Sn s0 (set_crashed v s).
+Proof. intros v s0 []; exact (fun h => h). Qed.
+#[export] Hint Resolve Sn_set_crashed : sndb.
+Lemma Sn_set_gh : forall v s0 s, Sn s0 s -> Sn s0 (set_gh v s).
+Proof. intros v s0 []; exact (fun h => h). Qed.
+#[export] Hint Resolve Sn_set_gh : sndb.
+Lemma Sn_upg : forall f s0 s, Sn s0 s -> Sn s0 (upg f s).
+Proof. intros f s0 []; exact (fun h => h). Qed.
+Lemma Sn_set_sm_enabled_false : forall s0 s, Sn s0 (set_sm_enabled false s).
+Proof. intros s0 [] H; cbn in H; discriminate. Qed.
+#[export] Hint Resolve Sn_upg Sn_set_sm_enabled_false : sndb.
+Lemma Sn_q_append : forall w u sm s0 s, Sn s0 s -> Sn s0 (q_append w u sm s).
+Proof. intros; unfold q_append, ret; cases; leaf; eauto 30 with sndb. Qed.
+#[export] Hint Resolve Sn_q_append : sndb.
+Lemma Sn_send_gated : forall w u sm s0 s, Sn s0 s -> Sn s0 (send_gated w u sm s).
+Proof. intros; unfold send_gated, ret; cases; leaf; eauto 30 with sndb. Qed.
+#[export] Hint Resolve Sn_send_gated : sndb.
+Lemma Sn_send_raw_m : forall w u sm s0 s, Sn s0 s -> Sn s0 (send_raw_m w u sm s).
+Proof. intros; unfold send_raw_m, ret; cases; leaf; eauto 30 with sndb. Qed.
+#[export] Hint Resolve Sn_send_raw_m : sndb.
+Lemma Sn_timed_add : forall k n s0 s, Sn s0 s -> Sn s0 (timed_add k n s).
+Proof. intros; unfold timed_add, ret; cases; leaf; eauto 30 with sndb. Qed.
+#[export] Hint Resolve Sn_timed_add : sndb.
+Lemma Sn_timed_del : forall k s0 s, Sn s0 s -> Sn s0 (timed_del k s).
+Proof. intros; unfold timed_del, ret; cases; leaf; eauto 30 with sndb. Qed.
+#[export] Hint Resolve Sn_timed_del : sndb.
+Lemma Sn_timed_reset_all : forall n s0 s, Sn s0 s -> Sn s0 (timed_reset_all n s).
+Proof. intros; unfold timed_reset_all, ret; cases; leaf; eauto 30 with sndb. Qed.
+#[export] Hint Resolve Sn_timed_reset_all : sndb.
+Lemma Sn_timed_set_stamp : forall k n s0 s, Sn s0 s -> Sn s0 (timed_set_stamp k n s).
+Proof. intros; unfold timed_set_stamp, ret; cases; leaf; eauto 30 with sndb. Qed.
+#[export] Hint Resolve Sn_timed_set_stamp : sndb.
+Lemma Sn_h_add : forall k s0 s, Sn s0 s -> Sn s0 (h_add k s).
+Proof. intros; unfold h_add, ret; cases; leaf; eauto 30 with sndb. Qed.
+#[export] Hint Resolve Sn_h_add : sndb.
+Lemma Sn_h_del : forall k s0 s, Sn s0 s -> Sn s0 (h_del k s).
+Proof. intros; unfold h_del, ret; cases; leaf; eauto 30 with sndb. Qed.
+#[export] Hint Resolve Sn_h_del : sndb.
+Lemma Sn_id_add : forall k s0 s, Sn s0 s -> Sn s0 (id_add k s).
+Proof. intros; unfold id_add, ret; cases; leaf; eauto 30 with sndb. Qed.
+#[export] Hint Resolve Sn_id_add : sndb.
+Lemma Sn_id_del : forall k s0 s, Sn s0 s -> Sn s0 (id_del k s).
+Proof. intros; unfold id_del, ret; cases; leaf; eauto 30 with sndb. Qed.
+#[export] Hint Resolve Sn_id_del : sndb.
+Lemma Sn_reset_sm_for_reconnect : forall s0 s, Sn s0 s -> Sn s0 (reset_sm_for_reconnect s).
+Proof. intros; unfold reset_sm_for_reconnect, ret; cases; leaf; eauto 30 with sndb. Qed.
+#[export] Hint Resolve Sn_reset_sm_for_reconnect : sndb.
+Lemma Sn_sm_queue_cleanup : forall h s0 s, Sn s0 s -> Sn s0 (sm_queue_cleanup h s).
+Proof. intros; unfold sm_queue_cleanup, ret; cases; leaf; eauto 30 with sndb. Qed.
+#[export] Hint Resolve Sn_sm_queue_cleanup : sndb.
+Lemma Sn_sm_queue_resend : forall s0 s, Sn s0 s -> Sn s0 (sm_queue_resend s).
+Proof. intros; unfold sm_queue_resend; apply fold_left_inv; eauto with sndb. Qed.
+#[export] Hint Resolve Sn_sm_queue_resend : sndb.
+Lemma Sn_conn_disconnect : forall s0 s, Sn s0 s -> Sn s0 (fst (conn_disconnect s)).
+Proof. intros; name_result; unfold conn_disconnect, ret; cases; leaf; eauto 30 with sndb. Qed.
+#[export] Hint Resolve Sn_conn_disconnect : sndb.
+Lemma Sn_xmpp_disconnect : forall n s0 s, Sn s0 s -> Sn s0 (xmpp_disconnect n s).
+Proof. intros; unfold xmpp_disconnect, ret; cases; leaf; eauto 30 with sndb. Qed.
+#[export] Hint Resolve Sn_xmpp_disconnect : sndb.
+Lemma Sn_prepare_reset : forall h s0 s, Sn s0 s -> Sn s0 (prepare_reset h s).
+Proof. intros; unfold prepare_reset, ret; cases; leaf; eauto 30 with sndb. Qed.
+#[export] Hint Resolve Sn_prepare_reset : sndb.
+Lemma Sn_conn_open_stream : forall s0 s, Sn s0 s -> Sn s0 (conn_open_stream s).
+Proof. intros; unfold conn_open_stream, ret; cases; leaf; eauto 30 with sndb. Qed.
+#[export] Hint Resolve Sn_conn_open_stream : sndb.
+Lemma Sn_conn_tls_start : forall s0 s, Sn s0 s -> Sn s0 (fst (fst (conn_tls_start s))).
+Proof. intros; name_result; unfold conn_tls_start, ret; cases; leaf; eauto 30 with sndb. Qed.
+#[export] Hint Resolve Sn_conn_tls_start : sndb.
+Lemma Sn_stream_negotiation_success : forall s0 s, Sn s0 s -> Sn s0 (fst (stream_negotiation_success s)).
+Proof. intros; name_result; unfold stream_negotiation_success, ret; cases; leaf; eauto 30 with sndb. Qed.
+#[export] Hint Resolve Sn_stream_negotiation_success : sndb.
+Lemma Sn_do_bind : forall n b s0 s, Sn s0 s -> Sn s0 (fst (do_bind n b s)).
+Proof. intros; name_result; unfold do_bind, ret; cases; leaf; eauto 30 with sndb. Qed.
+#[export] Hint Resolve Sn_do_bind : sndb.
+Lemma Sn_session_start : forall n s0 s, Sn s0 s -> Sn s0 (session_start n s).
+Proof. intros; unfold session_start, ret; cases; leaf; eauto 30 with sndb. Qed.
+#[export] Hint Resolve Sn_session_start : sndb.
+Lemma Sn_auth_legacy : forall n s0 s, Sn s0 s -> Sn s0 (auth_legacy n s).
+Proof. intros; unfold auth_legacy, ret; cases; leaf; eauto 30 with sndb. Qed.
+#[export] Hint Resolve Sn_auth_legacy : sndb.
+Lemma Sn_auth : forall fuel n s0 s, Sn s0 s -> Sn s0 (fst (auth fuel n s)).
+Proof. induction fuel; intros; name_result; cbn [auth]; unfold ret; cases; leaf; eauto 30 with sndb. Qed.
+#[export] Hint Resolve Sn_auth : sndb.
+Lemma Sn_sasl_result : forall n e s0 s, Sn s0 s -> Sn s0 (fst (sasl_result n e s)).
+Proof. intros; name_result; unfold sasl_result, ret; cases; leaf; eauto 30 with sndb. Qed.
+#[export] Hint Resolve Sn_sasl_result : sndb.
+Lemma Sn_features_sasl : forall n e s0 s, Sn s0 s -> Sn s0 (fst (features_sasl n e s)).
+Proof. intros; name_result; unfold features_sasl, ret; cases; leaf; eauto 30 with sndb. Qed.
+#[export] Hint Resolve Sn_features_sasl : sndb.
+Lemma Sn_note_rx : forall e s0 s, Sn s0 s -> Sn s0 (note_rx e s).
+Proof. intros; unfold note_rx; cbv zeta; eauto with sndb. Qed.
+#[export] Hint Resolve Sn_note_rx : sndb.
+Lemma Sn_sm_handle : forall e s0 s, Sn s0 s -> Sn s0 (sm_handle e s).
+Proof. intros; unfold sm_handle, ret; cases; leaf; eauto 30 with sndb. Qed.
+#[export] Hint Resolve Sn_sm_handle : sndb.
+Lemma Sn_open_handler : forall n s0 s, Sn s0 s -> Sn s0 (fst (open_handler n s)).
+Proof. intros; name_result; unfold open_handler, ret; cases; leaf; eauto 30 with sndb. Qed.
+#[export] Hint Resolve Sn_open_handler : sndb.
+Lemma Sn_stream_start : forall n a b s0 s, Sn s0 s -> Sn s0 (fst (stream_start n a b s)).
+Proof. intros; name_result; unfold stream_start, ret; cases; leaf; eauto 30 with sndb. Qed.
+#[export] Hint Resolve Sn_stream_start : sndb.
+Lemma Sn_stream_end : forall s0 s, Sn s0 s -> Sn s0 (fst (stream_end s)).
+Proof. intros; name_result; unfold stream_end, ret; cases; leaf; eauto 30 with sndb. Qed.
+#[export] Hint Resolve Sn_stream_end : sndb.
+Lemma Sn_call_timed : forall k n s0 s, Sn s0 s -> Sn s0 (fst (fst (call_timed k n s))).
+Proof. intros k; destruct k; intros; name_result; unfold call_timed, ret; cases; leaf; eauto 30 with sndb. Qed.
+#[export] Hint Resolve Sn_call_timed : sndb.
+Lemma Sn_visit_timed : forall n s0 r k, Sn s0 (fst r) -> Sn s0 (fst (visit_timed n r k)).
+Proof. intros n s0 [s o] k H. cbn [fst] in H. name_result. unfold visit_timed. cases; leaf; eauto 30 with sndb. Qed.
+Lemma Sn_fold_visit_timed : forall n l s0 s o, Sn s0 s -> Sn s0 (fst (fold_left (visit_timed n) l (s, o))).
+Proof. intros n l s0 s o H. apply (fold_left_inv (fun r => Sn s0 (fst r))); auto. intros; apply Sn_visit_timed; auto. Qed.
+#[export] Hint Resolve Sn_fold_visit_timed : sndb.
+Lemma Sn_fire_timed : forall n s0 s, Sn s0 s -> Sn s0 (fst (fire_timed n s)).
+Proof. intros; name_result; unfold fire_timed, ret; cases; leaf; eauto 30 with sndb. Qed.
+#[export] Hint Resolve Sn_fire_timed : sndb.
+Lemma Sn_connect_next : forall n s0 s, Sn s0 s -> Sn s0 (fst (fst (connect_next n s))).
+Proof. intros; name_result; unfold connect_next; destruct (sock_connect (cands s)) as [oo [[k r]|]]; leaf; eauto 20 with sndb. Qed.
+#[export] Hint Resolve Sn_connect_next : sndb.
+Lemma Sn_conn_established : forall n s0 s, Sn s0 s -> Sn s0 (fst (conn_established n s)).
+Proof. intros; name_result; unfold conn_established, ret; cases; leaf; eauto 30 with sndb. Qed.
+#[export] Hint Resolve Sn_conn_established : sndb.
+Lemma Sn_call_handler : forall k n e s0 s, hkind_eqb k HSm = false -> Sn s0 s -> Sn s0 (fst (fst (call_handler k n e s))).
+Proof.
+  intros k; destruct k; intros n0 e s0 s K H; try discriminate;
+    name_result; unfold call_handler, ret; cases; leaf; eauto 30 with sndb.
+Qed.
+
+(* ================================================================== MT: handlers that report "connected" directly exist only once the mandatory-TLS check passed *)
+Definition MT (s : state) : Prop := CS s \/ PL s.
+
+Lemma MT_auth : forall fuel n s, MT s -> MT (fst (auth fuel n s)).
+Proof.
+  intros fuel n s [C|P]; [left; apply CS_auth; exact C|].
+  revert n s P. induction fuel; intros n s P; name_result; cbn [auth]; unfold ret; cases; leaf;
+    try (right; eauto 30 with pldb; fail); try (apply IHfuel; eauto 30 with pldb; fail).
+  all: left; apply CS_auth_legacy;
+    match goal with H : f_tls_mandatory ?s && negb (is_secured ?s) = false |- _ =>
+      apply andb_false_iff in H; destruct H as [H|H]; [right; left; exact H | right; right; apply negb_false_iff in H; exact H] end.
+Qed.
+Ltac mt_simple := match goal with H : MT _ |- _ => destruct H as [?C|?P]; [left; eauto 30 with csdb | right; eauto 30 with pldb] end.
+Lemma MT_sasl_result : forall n e s, MT s -> MT (fst (sasl_result n e s)).
+Proof.
+  intros n e s H. name_result. unfold sasl_result, ret. cases; leaf; first [apply MT_auth; assumption | mt_simple].
+Qed.
+Lemma MT_h_del : forall k s, MT s -> MT (h_del k s).
+Proof. intros k s [C|P]; [left; unfold h_del; eauto with csdb | right; eauto with pldb]. Qed.
+Lemma MT_call_handler_visit : forall k n e s, TI s -> MT s -> h_has k s = true ->
+  MT (if snd (call_handler k n e s) then fst (fst (call_handler k n e s)) else h_del k (fst (fst (call_handler k n e s)))).
+Proof.
+  intros k n e s T H Hk.
+  assert (G : MT (fst (fst (call_handler k n e s)))).
+  { destruct k; try (name_result; unfold call_handler, ret; cases; leaf;
+      first [ apply MT_auth; mt_simple | apply MT_sasl_result; assumption | mt_simple ]; fail).
+    (* _handle_proceedtls_default: registered only while not secured *)
+    assert (S0 : is_secured s = false).
+    { destruct T as (_ & _ & I1). unfold is_secured. destruct (secured s); auto. rewrite (I1 eq_refl) in Hk. discriminate. }
+    pose proof (Fr_call_handler HProceedTls n e s s (Fr_refl s)) as F.
+    pose proof (fr_st _ _ F) as Fst. pose proof (fr_f_tls_mandatory _ _ F) as Fm.
+    destruct H as [[D|[M|I]]|P]; [left; left | left; right; left | congruence | right].
+    - destruct Fst as [E|E]; congruence.
+    - congruence.
+    - name_result; unfold call_handler, ret; cases; leaf; eauto 30 with pldb. }
+  destruct (call_handler k n e s) as [[s1 o1] keep]. cbn [fst snd] in *. destruct keep; auto using MT_h_del.
+Qed.
+
+(* ================================================================== StEq: code that never (dis)connects *)
+Definition StEq (s0 s : state) : Prop := st s = st s0.
+Lemma StEq_refl : forall s, StEq s s. Proof. reflexivity. Qed.
+#[export] Hint Resolve StEq_refl : steqdb.
+Lemma StEq_set_f_tls_disabled : forall v s0 s, StEq s0 s -> StEq s0 (set_f_tls_disabled v s).
+Proof. intros v s0 []; exact (fun h => h). Qed.
+#[export] Hint Resolve StEq_set_f_tls_disabled : steqdb.
+Lemma StEq_set_f_tls_mandatory : forall v s0 s, StEq s0 s -> StEq s0 (set_f_tls_mandatory v s).
+Proof. intros v s0 []; exact (fun h => h). Qed.
+#[export] Hint Resolve StEq_set_f_tls_mandatory : steqdb.
+Lemma StEq_set_f_legacy_ssl : forall v s0 s, StEq s0 s -> StEq s0 (set_f_legacy_ssl v s).
+Proof. intros v s0 []; exact (fun h => h). Qed.
+#[export] Hint Resolve StEq_set_f_legacy_ssl : steqdb.
+Lemma StEq_set_f_tls_trust : forall v s0 s, StEq s0 s -> StEq s0 (set_f_tls_trust v s).
+Proof. intros v s0 []; exact (fun h => h). Qed.
+#[export] Hint Resolve StEq_set_f_tls_trust : steqdb.
+Lemma StEq_set_f_legacy_auth : forall v s0 s, StEq s0 s -> StEq s0 (set_f_legacy_auth v s).
+Proof. intros v s0 []; exact (fun h => h). Qed.
+#[export] Hint Resolve StEq_set_f_legacy_auth : steqdb.
+Lemma StEq_set_f_sm_disable : forall v s0 s, StEq s0 s -> StEq s0 (set_f_sm_disable v s).
+Proof. intros v s0 []; exact (fun h => h). Qed.
+#[export] Hint Resolve StEq_set_f_sm_disable : steqdb.
+Lemma StEq_set_f_comp_allowed : forall v s0 s, StEq s0 s -> StEq s0 (set_f_comp_allowed v s).
+Proof. intros v s0 []; exact (fun h => h). Qed.
+#[export] Hint Resolve StEq_set_f_comp_allowed : steqdb.
+Lemma StEq_set_f_comp_dont_reset : forall v s0 s, StEq s0 s -> StEq s0 (set_f_comp_dont_reset v s).
+Proof. intros v s0 []; exact (fun h => h). Qed.
+#[export] Hint Resolve StEq_set_f_comp_dont_reset : steqdb.
+Lemma StEq_set_jid_set : forall v s0 s, StEq s0 s -> StEq s0 (set_jid_set v s).
+Proof. intros v s0 []; exact (fun h => h). Qed.
+#[export] Hint Resolve StEq_set_jid_set : steqdb.
+Lemma StEq_set_jid_node : forall v s0 s, StEq s0 s -> StEq s0 (set_jid_node v s).
+Proof. intros v s0 []; exact (fun h => h). Qed.
+#[export] Hint Resolve StEq_set_jid_node : steqdb.
+Lemma StEq_set_jid_res : forall v s0 s, StEq s0 s -> StEq s0 (set_jid_res v s).
+Proof. intros v s0 []; exact (fun h => h). Qed.
+#[export] Hint Resolve StEq_set_jid_res : steqdb.
+Lemma StEq_set_pass_set : forall v s0 s, StEq s0 s -> StEq s0 (set_pass_set v s).
+Proof. intros v s0 []; exact (fun h => h). Qed.
+#[export] Hint Resolve StEq_set_pass_set : steqdb.
+Lemma StEq_set_cert_set : forall v s0 s, StEq s0 s -> StEq s0 (set_cert_set v s).
+Proof. intros v s0 []; exact (fun h => h). Qed.
+#[export] Hint Resolve StEq_set_cert_set : steqdb.
+Lemma StEq_set_is_raw : forall v s0 s, StEq s0 s -> StEq s0 (set_is_raw v s).
+Proof. intros v s0 []; exact (fun h => h). Qed.
+#[export] Hint Resolve StEq_set_is_raw : steqdb.
+Lemma StEq_set_typ : forall v s0 s, StEq s0 s -> StEq s0 (set_typ v s).
+Proof. intros v s0 []; exact (fun h => h). Qed.
+#[export] Hint Resolve StEq_set_typ : steqdb.
+Lemma StEq_set_user_handler : forall v s0 s, StEq s0 s -> StEq s0 (set_user_handler v s).
+Proof. intros v s0 []; exact (fun h => h). Qed.
+#[export] Hint Resolve StEq_set_user_handler : steqdb.
+Lemma StEq_set_user_timed : forall v s0 s, StEq s0 s -> StEq s0 (set_user_timed v s).
+Proof. intros v s0 []; exact (fun h => h). Qed.
+#[export] Hint Resolve StEq_set_user_timed : steqdb.
+Lemma StEq_set_tlsnew_ok : forall v s0 s, StEq s0 s -> StEq s0 (set_tlsnew_ok v s).
+Proof. intros v s0 []; exact (fun h => h). Qed.
+#[export] Hint Resolve StEq_set_tlsnew_ok : steqdb.
+Lemma StEq_set_cb_avail : forall v s0 s, StEq s0 s -> StEq s0 (set_cb_avail v s).
+Proof. intros v s0 []; exact (fun h => h). Qed.
+#[export] Hint Resolve StEq_set_cb_avail : steqdb.
+Lemma StEq_set_tls_verdicts : forall v s0 s, StEq s0 s -> StEq s0 (set_tls_verdicts v s).
+Proof. intros v s0 []; exact (fun h => h). Qed.
+#[export] Hint Resolve StEq_set_tls_verdicts : steqdb.
+Lemma StEq_set_next_cands : forall v s0 s, StEq s0 s -> StEq s0 (set_next_cands v s).
+Proof. intros v s0 []; exact (fun h => h). Qed.
+#[export] Hint Resolve StEq_set_next_cands : steqdb.
+Lemma StEq_set_cands : forall v s0 s, StEq s0 s -> StEq s0 (set_cands v s).
+Proof. intros v s0 []; exact (fun h => h). Qed.
+#[export] Hint Resolve StEq_set_cands : steqdb.
+Lemma StEq_set_cur_ep : forall v s0 s, StEq s0 s -> StEq s0 (set_cur_ep v s).
+Proof. intros v s0 []; exact (fun h => h). Qed.
+#[export] Hint Resolve StEq_set_cur_ep : steqdb.
+Lemma StEq_set_stamp : forall v s0 s, StEq s0 s -> StEq s0 (set_stamp v s).
+Proof. intros v s0 []; exact (fun h => h). Qed.
+#[export] Hint Resolve StEq_set_stamp : steqdb.
+Lemma StEq_set_err : forall v s0 s, StEq s0 s -> StEq s0 (set_err v s).
+Proof. intros v s0 []; exact (fun h => h). Qed.
+#[export] Hint Resolve StEq_set_err : steqdb.
+Lemma StEq_set_stream_error : forall v s0 s, StEq s0 s -> StEq s0 (set_stream_error v s).
+Proof. intros v s0 []; exact (fun h => h). Qed.
+#[export] Hint Resolve StEq_set_stream_error : steqdb.
+Lemma StEq_set_secured : forall v s0 s, StEq s0 s -> StEq s0 (set_secured v s).
+Proof. intros v s0 []; exact (fun h => h). Qed.
+#[export] Hint Resolve StEq_set_secured : steqdb.
+Lemma StEq_set_tls_present : forall v s0 s, StEq s0 s -> StEq s0 (set_tls_present v s).
+Proof. intros v s0 []; exact (fun h => h). Qed.
+#[export] Hint Resolve StEq_set_tls_present : steqdb.
+Lemma StEq_set_tls_failed : forall v s0 s, StEq s0 s -> StEq s0 (set_tls_failed v s).
+Proof. intros v s0 []; exact (fun h => h). Qed.
+#[export] Hint Resolve StEq_set_tls_failed : steqdb.
+Lemma StEq_set_tls_support : forall v s0 s, StEq s0 s -> StEq s0 (set_tls_support v s).
+Proof. intros v s0 []; exact (fun h => h). Qed.
+#[export] Hint Resolve StEq_set_tls_support : steqdb.
+Lemma StEq_set_sasl : forall v s0 s, StEq s0 s -> StEq s0 (set_sasl v s).
+Proof. intros v s0 []; exact (fun h => h). Qed.
+#[export] Hint Resolve StEq_set_sasl : steqdb.
+Lemma StEq_set_bind_required : forall v s0 s, StEq s0 s -> StEq s0 (set_bind_required v s).
+Proof. intros v s0 []; exact (fun h => h). Qed.
+#[export] Hint Resolve StEq_set_bind_required : steqdb.
+Lemma StEq_set_session_required : forall v s0 s, StEq s0 s -> StEq s0 (set_session_required v s).
+Proof. intros v s0 []; exact (fun h => h). Qed.
+#[export] Hint Resolve StEq_set_session_required : steqdb.
+Lemma StEq_set_comp_supported : forall v s0 s, StEq s0 s -> StEq s0 (set_comp_supported v s).
+Proof. intros v s0 []; exact (fun h => h). Qed.
+#[export] Hint Resolve StEq_set_comp_supported : steqdb.
+Lemma StEq_set_comp_active : forall v s0 s, StEq s0 s -> StEq s0 (set_comp_active v s).
+Proof. intros v s0 []; exact (fun h => h). Qed.
+#[export] Hint Resolve StEq_set_comp_active : steqdb.
+Lemma StEq_set_sm_alloc : forall v s0 s, StEq s0 s -> StEq s0 (set_sm_alloc v s).
+Proof. intros v s0 []; exact (fun h => h). Qed.
+#[export] Hint Resolve StEq_set_sm_alloc : steqdb.
+Lemma StEq_set_sm_support : forall v s0 s, StEq s0 s -> StEq s0 (set_sm_support v s).
+Proof. intros v s0 []; exact (fun h => h). Qed.
+#[export] Hint Resolve StEq_set_sm_support : steqdb.
+Lemma StEq_set_sm_enabled : forall v s0 s, StEq s0 s -> StEq s0 (set_sm_enabled v s).
+Proof. intros v s0 []; exact (fun h => h). Qed.
+#[export] Hint Resolve StEq_set_sm_enabled : steqdb.
+Lemma StEq_set_sm_can_resume : forall v s0 s, StEq s0 s -> StEq s0 (set_sm_can_resume v s).
+Proof. intros v s0 []; exact (fun h => h). Qed.
+#[export] Hint Resolve StEq_set_sm_can_resume : steqdb.
+Lemma StEq_set_sm_resume : forall v s0 s, StEq s0 s -> StEq s0 (set_sm_resume v s).
+Proof. intros v s0 []; exact (fun h => h). Qed.
+#[export] Hint Resolve StEq_set_sm_resume : steqdb.
+Lemma StEq_set_sm_dont_request : forall v s0 s, StEq s0 s -> StEq s0 (set_sm_dont_request v s).
+Proof. intros v s0 []; exact (fun h => h). Qed.
+#[export] Hint Resolve StEq_set_sm_dont_request : steqdb.
+Lemma StEq_set_sm_has_previd : forall v s0 s, StEq s0 s -> StEq s0 (set_sm_has_previd v s).
+Proof. intros v s0 []; exact (fun h => h). Qed.
+#[export] Hint Resolve StEq_set_sm_has_previd : steqdb.
+Lemma StEq_set_sm_has_id : forall v s0 s, StEq s0 s -> StEq s0 (set_sm_has_id v s).
+Proof. intros v s0 []; exact (fun h => h). Qed.
+#[export] Hint Resolve StEq_set_sm_has_id : steqdb.
+Lemma StEq_set_sm_parked : forall v s0 s, StEq s0 s -> StEq s0 (set_sm_parked v s).
+Proof. intros v s0 []; exact (fun h => h). Qed.
+#[export] Hint Resolve StEq_set_sm_parked : steqdb.
+Lemma StEq_set_sm_r_sent : forall v s0 s, StEq s0 s -> StEq s0 (set_sm_r_sent v s).
+Proof. intros v s0 []; exact (fun h => h). Qed.
+#[export] Hint Resolve StEq_set_sm_r_sent : steqdb.
+Lemma StEq_set_sm_bind_saved : forall v s0 s, StEq s0 s -> StEq s0 (set_sm_bind_saved v s).
+Proof. intros v s0 []; exact (fun h => h). Qed.
+#[export] Hint Resolve StEq_set_sm_bind_saved : steqdb.
+Lemma StEq_set_bound_jid : forall v s0 s, StEq s0 s -> StEq s0 (set_bound_jid v s).
+Proof. intros v s0 []; exact (fun h => h). Qed.
+#[export] Hint Resolve StEq_set_bound_jid : steqdb.
+Lemma StEq_set_stream_id : forall v s0 s, StEq s0 s -> StEq s0 (set_stream_id v s).
+Proof. intros v s0 []; exact (fun h => h). Qed.
+#[export] Hint Resolve StEq_set_stream_id : steqdb.
+Lemma StEq_set_neg_done : forall v s0 s, StEq s0 s -> StEq s0 (set_neg_done v s).
+Proof. intros v s0 []; exact (fun h => h). Qed.
+#[export] Hint Resolve StEq_set_neg_done : steqdb.
+Lemma StEq_set_reset_parser : forall v s0 s, StEq s0 s -> StEq s0 (set_reset_parser v s).
+Proof. intros v s0 []; exact (fun h => h). Qed.
+#[export] Hint Resolve StEq_set_reset_parser : steqdb.
+Lemma StEq_set_oh : forall v s0 s, StEq s0 s -> StEq s0 (set_oh v s).
+Proof. intros v s0 []; exact (fun h => h). Qed.
+#[export] Hint Resolve StEq_set_oh : steqdb.
+Lemma StEq_set_ps : forall v s0 s, StEq s0 s -> StEq s0 (set_ps v s).
+Proof. intros v s0 []; exact (fun h => h). Qed.
+#[export] Hint Resolve StEq_set_ps : steqdb.
+Lemma StEq_set_handlers : forall v s0 s, StEq s0 s -> StEq s0 (set_handlers v s).
+Proof. intros v s0 []; exact (fun h => h). Qed.
+#[export] Hint Resolve StEq_set_handlers : steqdb.
+Lemma StEq_set_idhandlers : forall v s0 s, StEq s0 s -> StEq s0 (set_idhandlers v s).
+Proof. intros v s0 []; exact (fun h => h). Qed.
+#[export] Hint Resolve StEq_set_idhandlers : steqdb.
+Lemma StEq_set_timed : forall v s0 s, StEq s0 s -> StEq s0 (set_timed v s).
+Proof. intros v s0 []; exact (fun h => h). Qed.
+#[export] Hint Resolve StEq_set_timed : steqdb.
+Lemma StEq_set_sendq : forall v s0 s, StEq s0 s -> StEq s0 (set_sendq v s).
+Proof. intros v s0 []; exact (fun h => h). Qed.
+#[export] Hint Resolve StEq_set_sendq : steqdb.
+Lemma StEq_set_rxq : forall v s0 s, StEq s0 s -> StEq s0 (set_rxq v s).
+Proof. intros v s0 []; exact (fun h => h). Qed.
+#[export] Hint Resolve StEq_set_rxq : steqdb.
+Lemma StEq_set_smq : forall v s0 s, StEq s0 s -> StEq s0 (set_smq v s).
+Proof. intros v s0 []; exact (fun h => h). Qed.
+#[export] Hint Resolve StEq_set_smq : steqdb.
+Lemma StEq_set_sm_sent : forall v s0 s, StEq s0 s -> StEq s0 (set_sm_sent v s).
+Proof. intros v s0 []; exact (fun h => h). Qed.
+#[export] Hint Resolve StEq_set_sm_sent : steqdb.
+Lemma StEq_set_scram_serial : forall v s0 s, StEq s0 s -> StEq s0 (set_scram_serial v s).
+Proof. intros v s0 []; exact (fun h => h). Qed.
+#[export] Hint Resolve StEq_set_scram_serial : steqdb.
+Lemma StEq_set_crashed : forall v s0 s, StEq s0 s -> StEq s0 (set_crashed v s).
+Proof. intros v s0 []; exact (fun h => h). Qed.
+#[export] Hint Resolve StEq_set_crashed : steqdb.
+Lemma StEq_set_gh : forall v s0 s, StEq s0 s -> StEq s0 (set_gh v s).
+Proof. intros v s0 []; exact (fun h => h). Qed.
+#[export] Hint Resolve StEq_set_gh : steqdb.
+Lemma StEq_upg : forall f s0 s, StEq s0 s -> StEq s0 (upg f s).
+Proof. intros f s0 []; exact (fun h => h). Qed.
+#[export] Hint Resolve StEq_upg : steqdb.
+Lemma StEq_q_append : forall w u sm s0 s, StEq s0 s -> StEq s0 (q_append w u sm s).
+Proof. intros; unfold q_append, ret; cases; leaf; eauto 30 with steqdb. Qed.
+#[export] Hint Resolve StEq_q_append : steqdb.
+Lemma StEq_send_gated : forall w u sm s0 s, StEq s0 s -> StEq s0 (send_gated w u sm s).
+Proof. intros; unfold send_gated, ret; cases; leaf; eauto 30 with steqdb. Qed.
+#[export] Hint Resolve StEq_send_gated : steqdb.
+Lemma StEq_send_raw_m : forall w u sm s0 s, StEq s0 s -> StEq s0 (send_raw_m w u sm s).
+Proof. intros; unfold send_raw_m, ret; cases; leaf; eauto 30 with steqdb. Qed.
+#[export] Hint Resolve StEq_send_raw_m : steqdb.
+Lemma StEq_timed_add : forall k n s0 s, StEq s0 s -> StEq s0 (timed_add k n s).
+Proof. intros; unfold timed_add, ret; cases; leaf; eauto 30 with steqdb. Qed.
+#[export] Hint Resolve StEq_timed_add : steqdb.
+Lemma StEq_timed_del : forall k s0 s, StEq s0 s -> StEq s0 (timed_del k s).
+Proof. intros; unfold timed_del, ret; cases; leaf; eauto 30 with steqdb. Qed.
+#[export] Hint Resolve StEq_timed_del : steqdb.
+Lemma StEq_timed_reset_all : forall n s0 s, StEq s0 s -> StEq s0 (timed_reset_all n s).
+Proof. intros; unfold timed_reset_all, ret; cases; leaf; eauto 30 with steqdb. Qed.
+#[export] Hint Resolve StEq_timed_reset_all : steqdb.
+Lemma StEq_timed_set_stamp : forall k n s0 s, StEq s0 s -> StEq s0 (timed_set_stamp k n s).
+Proof. intros; unfold timed_set_stamp, ret; cases; leaf; eauto 30 with steqdb. Qed.
+#[export] Hint Resolve StEq_timed_set_stamp : steqdb.
+Lemma StEq_h_add : forall k s0 s, StEq s0 s -> StEq s0 (h_add k s).
+Proof. intros; unfold h_add, ret; cases; leaf; eauto 30 with steqdb. Qed.
+#[export] Hint Resolve StEq_h_add : steqdb.
+Lemma StEq_h_del : forall k s0 s, StEq s0 s -> StEq s0 (h_del k s).
+Proof. intros; unfold h_del, ret; cases; leaf; eauto 30 with steqdb. Qed.
+#[export] Hint Resolve StEq_h_del : steqdb.
+Lemma StEq_id_add : forall k s0 s, StEq s0 s -> StEq s0 (id_add k s).
+Proof. intros; unfold id_add, ret; cases; leaf; eauto 30 with steqdb. Qed.
+#[export] Hint Resolve StEq_id_add : steqdb.
+Lemma StEq_id_del : forall k s0 s, StEq s0 s -> StEq s0 (id_del k s).
+Proof. intros; unfold id_del, ret; cases; leaf; eauto 30 with steqdb. Qed.
+#[export] Hint Resolve StEq_id_del : steqdb.
+Lemma StEq_reset_sm_for_reconnect : forall s0 s, StEq s0 s -> StEq s0 (reset_sm_for_reconnect s).
+Proof. intros; unfold reset_sm_for_reconnect, ret; cases; leaf; eauto 30 with steqdb. Qed.
+#[export] Hint Resolve StEq_reset_sm_for_reconnect : steqdb.
+Lemma StEq_sm_queue_cleanup : forall h s0 s, StEq s0 s -> StEq s0 (sm_queue_cleanup h s).
+Proof. intros; unfold sm_queue_cleanup, ret; cases; leaf; eauto 30 with steqdb. Qed.
+#[export] Hint Resolve StEq_sm_queue_cleanup : steqdb.
+Lemma StEq_sm_queue_resend : forall s0 s, StEq s0 s -> StEq s0 (sm_queue_resend s).
+Proof. intros; unfold sm_queue_resend; apply fold_left_inv; eauto with steqdb. Qed.
+#[export] Hint Resolve StEq_sm_queue_resend : steqdb.
+Lemma StEq_xmpp_disconnect : forall n s0 s, StEq s0 s -> StEq s0 (xmpp_disconnect n s).
+Proof. intros; unfold xmpp_disconnect, ret; cases; leaf; eauto 30 with steqdb. Qed.
+#[export] Hint Resolve StEq_xmpp_disconnect : steqdb.
+Lemma StEq_prepare_reset : forall h s0 s, StEq s0 s -> StEq s0 (prepare_reset h s).
+Proof. intros; unfold prepare_reset, ret; cases; leaf; eauto 30 with steqdb. Qed.
+#[export] Hint Resolve StEq_prepare_reset : steqdb.
+Lemma StEq_conn_open_stream : forall s0 s, StEq s0 s -> StEq s0 (conn_open_stream s).
+Proof. intros; unfold conn_open_stream, ret; cases; leaf; eauto 30 with steqdb. Qed.
+#[export] Hint Resolve StEq_conn_open_stream : steqdb.
+Lemma StEq_conn_tls_start : forall s0 s, StEq s0 s -> StEq s0 (fst (fst (conn_tls_start s))).
+Proof. intros; name_result; unfold conn_tls_start, ret; cases; leaf; eauto 30 with steqdb. Qed.
+#[export] Hint Resolve StEq_conn_tls_start : steqdb.
+Lemma StEq_stream_negotiation_success : forall s0 s, StEq s0 s -> StEq s0 (fst (stream_negotiation_success s)).
+Proof. intros; name_result; unfold stream_negotiation_success, ret; cases; leaf; eauto 30 with steqdb. Qed.
+#[export] Hint Resolve StEq_stream_negotiation_success : steqdb.
+Lemma StEq_do_bind : forall n b s0 s, StEq s0 s -> StEq s0 (fst (do_bind n b s)).
+Proof. intros; name_result; unfold do_bind, ret; cases; leaf; eauto 30 with steqdb. Qed.
+#[export] Hint Resolve StEq_do_bind : steqdb.
+Lemma StEq_session_start : forall n s0 s, StEq s0 s -> StEq s0 (session_start n s).
+Proof. intros; unfold session_start, ret; cases; leaf; eauto 30 with steqdb. Qed.
+#[export] Hint Resolve StEq_session_start : steqdb.
+Lemma StEq_sm_enable : forall s0 s, StEq s0 s -> StEq s0 (sm_enable s).
+Proof. intros; unfold sm_enable, ret; cases; leaf; eauto 30 with steqdb. Qed.
+#[export] Hint Resolve StEq_sm_enable : steqdb.
+Lemma StEq_auth_legacy : forall n s0 s, StEq s0 s -> StEq s0 (auth_legacy n s).
+Proof. intros; unfold auth_legacy, ret; cases; leaf; eauto 30 with steqdb. Qed.
+#[export] Hint Resolve StEq_auth_legacy : steqdb.
+Lemma StEq_features_sasl : forall n e s0 s, StEq s0 s -> StEq s0 (fst (features_sasl n e s)).
+Proof. intros; name_result; unfold features_sasl, ret; cases; leaf; eauto 30 with steqdb. Qed.
+#[export] Hint Resolve StEq_features_sasl : steqdb.
+Lemma StEq_call_id_handler : forall k n e s0 s, StEq s0 s -> StEq s0 (fst (call_id_handler k n e s)).
+Proof. intros k; destruct k; intros; name_result; unfold call_id_handler, ret; cases; leaf; eauto 30 with steqdb. Qed.
+#[export] Hint Resolve StEq_call_id_handler : steqdb.
+Lemma StEq_note_rx : forall e s0 s, StEq s0 s -> StEq s0 (note_rx e s).
+Proof. intros; unfold note_rx; cbv zeta; eauto with steqdb. Qed.
+#[export] Hint Resolve StEq_note_rx : steqdb.
+Lemma StEq_sm_handle : forall e s0 s, StEq s0 s -> StEq s0 (sm_handle e s).
+Proof. intros; unfold sm_handle, ret; cases; leaf; eauto 30 with steqdb. Qed.
+#[export] Hint Resolve StEq_sm_handle : steqdb.
+Lemma StEq_open_handler : forall n s0 s, StEq s0 s -> StEq s0 (fst (open_handler n s)).
+Proof. intros; name_result; unfold open_handler, ret; cases; leaf; eauto 30 with steqdb. Qed.
+#[export] Hint Resolve StEq_open_handler : steqdb.
+Lemma StEq_connect_next : forall n s0 s, StEq s0 s -> StEq s0 (fst (fst (connect_next n s))).
+Proof. intros; name_result; unfold connect_next; destruct (sock_connect (cands s)) as [oo [[k r]|]]; leaf; eauto 20 with steqdb. Qed.
+#[export] Hint Resolve StEq_connect_next : steqdb.
+
+(* ================================================================== where a connection can be dropped in the middle of a chunk *)
+Lemma notCS : forall s, st s <> Disconnected -> f_tls_mandatory s && negb (is_secured s) = true -> ~ CS s.
+Proof.
+  intros s D H [C|[C|C]]; [congruence | |]; apply andb_prop in H; destruct H as [A B]; [congruence|].
+  rewrite C in B. discriminate.
+Qed.
+Ltac da_leaf :=
+  match goal with
+  | D : st ?s <> Disconnected, H : st ?x = Disconnected |- _ =>
+      let E := fresh in assert (E : StEq s x) by eauto 30 with steqdb; unfold StEq in E; congruence
+  end.
+Lemma DA_auth : forall fuel n s s1 o, auth fuel n s = (s1, o) -> st s <> Disconnected -> st s1 = Disconnected ->
+  HFr s s1 /\ ~ CS s.
+Proof.
+  induction fuel; intros n s s1 o E D H; revert E; cbn [auth]; unfold ret; cases; leaf; try da_leaf.
+  all: try (split; [eauto 10 with hfrdb | apply notCS; assumption]).
+  - destruct (IHfuel n (set_tls_support false s) _ _ (surjective_pairing _) D H) as [A B].
+    split; [destruct A; constructor; assumption | intros C; apply B; destruct C as [C|[C|C]]; [left|right;left|right;right]; exact C].
+Qed.
+Lemma DA_auth' : forall fuel n s x, HFr s x -> StEq s x -> (CS s -> CS x) ->
+  st s <> Disconnected -> st (fst (auth fuel n x)) = Disconnected -> HFr s (fst (auth fuel n x)) /\ ~ CS s.
+Proof.
+  intros fuel n s x Hx Sx Cx D H. unfold StEq in Sx.
+  destruct (DA_auth fuel n x _ _ (surjective_pairing _)) as [A B]; auto; [congruence|].
+  split; [exact (HFr_trans _ _ _ Hx A) | auto].
+Qed.
+Lemma DA_sasl_result : forall n e s, st s <> Disconnected -> st (fst (sasl_result n e s)) = Disconnected ->
+  HFr s (fst (sasl_result n e s)) /\ ~ CS s.
+Proof.
+  intros n e s D. name_result. unfold sasl_result, ret. cases; leaf; try da_leaf.
+  apply DA_auth'; auto with hfrdb steqdb.
+Qed.
+Lemma DA_call_handler : forall k n e s, st s <> Disconnected -> st (fst (fst (call_handler k n e s))) = Disconnected ->
+  (HFr s (fst (fst (call_handler k n e s))) /\ ~ CS s) /\ snd (call_handler k n e s) = false.
+Proof.
+  intros k n e s D. name_result. destruct k; unfold call_handler, ret; cases; leaf; try da_leaf;
+    (split; [|reflexivity]); try (apply DA_sasl_result; assumption).
+  all: apply DA_auth'; auto; try solve [eauto 20 with hfrdb]; try solve [unfold timed_del; eauto 20 with steqdb]; try solve [intros; eauto 20 with csdb].
+Qed.
+
+Definition is_authcaller (k : hkind) : bool :=
+  match k with HFeatures | HSaslResult _ | HDigestChallenge | HDigestRspauth | HScramChallenge _ _ => true | _ => false end.
+Lemma StEq_call_handler : forall k n e s0 s, is_authcaller k = false -> StEq s0 s -> StEq s0 (fst (fst (call_handler k n e s))).
+Proof.
+  intros k; destruct k; intros n0 e s0 s K H; try discriminate;
+    name_result; unfold call_handler, ret; cases; leaf; eauto 30 with steqdb.
+Qed.
+Lemma HFr_call_handler_nonmain : forall k n e s0 s, is_main k = false -> HFr s0 s -> HFr s0 (fst (fst (call_handler k n e s))).
+Proof.
+  intros k; destruct k; intros n0 e s0 s K H; try discriminate;
+    name_result; unfold call_handler, ret; cases; leaf; eauto 30 with hfrdb.
+Qed.
+
+(* T25: a disconnected object has no TLS session *)
+Definition T25 (s : state) : Prop := st s = Disconnected -> tls_present s = false.
+Lemma T25_set_f_tls_disabled : forall v s, T25 s -> T25 (set_f_tls_disabled v s).
+Proof. intros v []; exact (fun h => h). Qed.
+#[export] Hint Resolve T25_set_f_tls_disabled : t25db.
+Lemma T25_set_f_tls_mandatory : forall v s, T25 s -> T25 (set_f_tls_mandatory v s).
+Proof. intros v []; exact (fun h => h). Qed.
+#[export] Hint Resolve T25_set_f_tls_mandatory : t25db.
+Lemma T25_set_f_legacy_ssl : forall v s, T25 s -> T25 (set_f_legacy_ssl v s).
+Proof. intros v []; exact (fun h => h). Qed.
+#[export] Hint Resolve T25_set_f_legacy_ssl : t25db.
+Lemma T25_set_f_tls_trust : forall v s, T25 s -> T25 (set_f_tls_trust v s).
+Proof. intros v []; exact (fun h => h). Qed.
+#[export] Hint Resolve T25_set_f_tls_trust : t25db.
+Lemma T25_set_f_legacy_auth : forall v s, T25 s -> T25 (set_f_legacy_auth v s).
+Proof. intros v []; exact (fun h => h). Qed.
+#[export] Hint Resolve T25_set_f_legacy_auth : t25db.
+Lemma T25_set_f_sm_disable : forall v s, T25 s -> T25 (set_f_sm_disable v s).
+Proof. intros v []; exact (fun h => h). Qed.
+#[export] Hint Resolve T25_set_f_sm_disable : t25db.
+Lemma T25_set_f_comp_allowed : forall v s, T25 s -> T25 (set_f_comp_allowed v s).
+Proof. intros v []; exact (fun h => h). Qed.
+#[export] Hint Resolve T25_set_f_comp_allowed : t25db.
+Lemma T25_set_f_comp_dont_reset : forall v s, T25 s -> T25 (set_f_comp_dont_reset v s).
+Proof. intros v []; exact (fun h => h). Qed.
+#[export] Hint Resolve T25_set_f_comp_dont_reset : t25db.
+Lemma T25_set_jid_set : forall v s, T25 s -> T25 (set_jid_set v s).
+Proof. intros v []; exact (fun h => h). Qed.
+#[export] Hint Resolve T25_set_jid_set : t25db.
+Lemma T25_set_jid_node : forall v s, T25 s -> T25 (set_jid_node v s).
+Proof. intros v []; exact (fun h => h). Qed.
+#[export] Hint Resolve T25_set_jid_node : t25db.
+Lemma T25_set_jid_res : forall v s, T25 s -> T25 (set_jid_res v s).
+Proof. intros v []; exact (fun h => h). Qed.
+#[export] Hint Resolve T25_set_jid_res : t25db.
+Lemma T25_set_pass_set : forall v s, T25 s -> T25 (set_pass_set v s).
+Proof. intros v []; exact (fun h => h). Qed.
+#[export] Hint Resolve T25_set_pass_set : t25db.
+Lemma T25_set_cert_set : forall v s, T25 s -> T25 (set_cert_set v s).
+Proof. intros v []; exact (fun h => h). Qed.
+#[export] Hint Resolve T25_set_cert_set : t25db.
+Lemma T25_set_is_raw : forall v s, T25 s -> T25 (set_is_raw v s).
+Proof. intros v []; exact (fun h => h). Qed.
+#[export] Hint Resolve T25_set_is_raw : t25db.
+Lemma T25_set_typ : forall v s, T25 s -> T25 (set_typ v s).
+Proof. intros v []; exact (fun h => h). Qed.
+#[export] Hint Resolve T25_set_typ : t25db.
+Lemma T25_set_user_handler : forall v s, T25 s -> T25 (set_user_handler v s).
+Proof. intros v []; exact (fun h => h). Qed.
+#[export] Hint Resolve T25_set_user_handler : t25db.
+Lemma T25_set_user_timed : forall v s, T25 s -> T25 (set_user_timed v s).
+Proof. intros v []; exact (fun h => h). Qed.
+#[export] Hint Resolve T25_set_user_timed : t25db.
+Lemma T25_set_tlsnew_ok : forall v s, T25 s -> T25 (set_tlsnew_ok v s).
+Proof. intros v []; exact (fun h => h). Qed.
+#[export] Hint Resolve T25_set_tlsnew_ok : t25db.
+Lemma T25_set_cb_avail : forall v s, T25 s -> T25 (set_cb_avail v s).
+Proof. intros v []; exact (fun h => h). Qed.
+#[export] Hint Resolve T25_set_cb_avail : t25db.
+Lemma T25_set_tls_verdicts : forall v s, T25 s -> T25 (set_tls_verdicts v s).
+Proof. intros v []; exact (fun h => h). Qed.
+#[export] Hint Resolve T25_set_tls_verdicts : t25db.
+Lemma T25_set_next_cands : forall v s, T25 s -> T25 (set_next_cands v s).
+Proof. intros v []; exact (fun h => h). Qed.
+#[export] Hint Resolve T25_set_next_cands : t25db.
+Lemma T25_set_cands : forall v s, T25 s -> T25 (set_cands v s).
+Proof. intros v []; exact (fun h => h). Qed.
+#[export] Hint Resolve T25_set_cands : t25db.
+Lemma T25_set_cur_ep : forall v s, T25 s -> T25 (set_cur_ep v s).
+Proof. intros v []; exact (fun h => h). Qed.
+#[export] Hint Resolve T25_set_cur_ep : t25db.
+Lemma T25_set_stamp : forall v s, T25 s -> T25 (set_stamp v s).
+Proof. intros v []; exact (fun h => h). Qed.
+#[export] Hint Resolve T25_set_stamp : t25db.
+Lemma T25_set_err : forall v s, T25 s -> T25 (set_err v s).
+Proof. intros v []; exact (fun h => h). Qed.
+#[export] Hint Resolve T25_set_err : t25db.
+Lemma T25_set_stream_error : forall v s, T25 s -> T25 (set_stream_error v s).
+Proof. intros v []; exact (fun h => h). Qed.
+#[export] Hint Resolve T25_set_stream_error : t25db.
+Lemma T25_set_secured : forall v s, T25 s -> T25 (set_secured v s).
+Proof. intros v []; exact (fun h => h). Qed.
+#[export] Hint Resolve T25_set_secured : t25db.
+Lemma T25_set_tls_failed : forall v s, T25 s -> T25 (set_tls_failed v s).
+Proof. intros v []; exact (fun h => h). Qed.
+#[export] Hint Resolve T25_set_tls_failed : t25db.
+Lemma T25_set_tls_support : forall v s, T25 s -> T25 (set_tls_support v s).
+Proof. intros v []; exact (fun h => h). Qed.
+#[export] Hint Resolve T25_set_tls_support : t25db.
+Lemma T25_set_sasl : forall v s, T25 s -> T25 (set_sasl v s).
+Proof. intros v []; exact (fun h => h). Qed.
+#[export] Hint Resolve T25_set_sasl : t25db.
+Lemma T25_set_bind_required : forall v s, T25 s -> T25 (set_bind_required v s).
+Proof. intros v []; exact (fun h => h). Qed.
+#[export] Hint Resolve T25_set_bind_required : t25db.
+Lemma T25_set_session_required : forall v s, T25 s -> T25 (set_session_required v s).
+Proof. intros v []; exact (fun h => h). Qed.
+#[export] Hint Resolve T25_set_session_required : t25db.
+Lemma T25_set_comp_supported : forall v s, T25 s -> T25 (set_comp_supported v s).
+Proof. intros v []; exact (fun h => h). Qed.
+#[export] Hint Resolve T25_set_comp_supported : t25db.
+Lemma T25_set_comp_active : forall v s, T25 s -> T25 (set_comp_active v s).
+Proof. intros v []; exact (fun h => h). Qed.
+#[export] Hint Resolve T25_set_comp_active : t25db.
+Lemma T25_set_sm_alloc : forall v s, T25 s -> T25 (set_sm_alloc v s).
+Proof. intros v []; exact (fun h => h). Qed.
+#[export] Hint Resolve T25_set_sm_alloc : t25db.
+Lemma T25_set_sm_support : forall v s, T25 s -> T25 (set_sm_support v s).
+Proof. intros v []; exact (fun h => h). Qed.
+#[export] Hint Resolve T25_set_sm_support : t25db.
+Lemma T25_set_sm_enabled : forall v s, T25 s -> T25 (set_sm_enabled v s).
+Proof. intros v []; exact (fun h => h). Qed.
+#[export] Hint Resolve T25_set_sm_enabled : t25db.
+Lemma T25_set_sm_can_resume : forall v s, T25 s -> T25 (set_sm_can_resume v s).
+Proof. intros v []; exact (fun h => h). Qed.
+#[export] Hint Resolve T25_set_sm_can_resume : t25db.
+Lemma T25_set_sm_resume : forall v s, T25 s -> T25 (set_sm_resume v s).
+Proof. intros v []; exact (fun h => h). Qed.
+#[export] Hint Resolve T25_set_sm_resume : t25db.
+Lemma T25_set_sm_dont_request : forall v s, T25 s -> T25 (set_sm_dont_request v s).
+Proof. intros v []; exact (fun h => h). Qed.
+#[export] Hint Resolve T25_set_sm_dont_request : t25db.
+Lemma T25_set_sm_has_previd : forall v s, T25 s -> T25 (set_sm_has_previd v s).
+Proof. intros v []; exact (fun h => h). Qed.
+#[export] Hint Resolve T25_set_sm_has_previd : t25db.
+Lemma T25_set_sm_has_id : forall v s, T25 s -> T25 (set_sm_has_id v s).
+Proof. intros v []; exact (fun h => h). Qed.
+#[export] Hint Resolve T25_set_sm_has_id : t25db.
+Lemma T25_set_sm_parked : forall v s, T25 s -> T25 (set_sm_parked v s).
+Proof. intros v []; exact (fun h => h). Qed.
+#[export] Hint Resolve T25_set_sm_parked : t25db.
+Lemma T25_set_sm_r_sent : forall v s, T25 s -> T25 (set_sm_r_sent v s).
+Proof. intros v []; exact (fun h => h). Qed.
+#[export] Hint Resolve T25_set_sm_r_sent : t25db.
+Lemma T25_set_sm_bind_saved : forall v s, T25 s -> T25 (set_sm_bind_saved v s).
+Proof. intros v []; exact (fun h => h). Qed.
+#[export] Hint Resolve T25_set_sm_bind_saved : t25db.
+Lemma T25_set_bound_jid : forall v s, T25 s -> T25 (set_bound_jid v s).
+Proof. intros v []; exact (fun h => h). Qed.
+#[export] Hint Resolve T25_set_bound_jid : t25db.
+Lemma T25_set_stream_id : forall v s, T25 s -> T25 (set_stream_id v s).
+Proof. intros v []; exact (fun h => h). Qed.
+#[export] Hint Resolve T25_set_stream_id : t25db.
+Lemma T25_set_neg_done : forall v s, T25 s -> T25 (set_neg_done v s).
+Proof. intros v []; exact (fun h => h). Qed.
+#[export] Hint Resolve T25_set_neg_done : t25db.
+Lemma T25_set_reset_parser : forall v s, T25 s -> T25 (set_reset_parser v s).
+Proof. intros v []; exact (fun h => h). Qed.
+#[export] Hint Resolve T25_set_reset_parser : t25db.
+Lemma T25_set_oh : forall v s, T25 s -> T25 (set_oh v s).
+Proof. intros v []; exact (fun h => h). Qed.
+#[export] Hint Resolve T25_set_oh : t25db.
+Lemma T25_set_ps : forall v s, T25 s -> T25 (set_ps v s).
+Proof. intros v []; exact (fun h => h). Qed.
+#[export] Hint Resolve T25_set_ps : t25db.
+Lemma T25_set_handlers : forall v s, T25 s -> T25 (set_handlers v s).
+Proof. intros v []; exact (fun h => h). Qed.
+#[export] Hint Resolve T25_set_handlers : t25db.
+Lemma T25_set_idhandlers : forall v s, T25 s -> T25 (set_idhandlers v s).
+Proof. intros v []; exact (fun h => h). Qed.
+#[export] Hint Resolve T25_set_idhandlers : t25db.
+Lemma T25_set_timed : forall v s, T25 s -> T25 (set_timed v s).
+Proof. intros v []; exact (fun h => h). Qed.
+#[export] Hint Resolve T25_set_timed : t25db.
+Lemma T25_set_sendq : forall v s, T25 s -> T25 (set_sendq v s).
+Proof. intros v []; exact (fun h => h). Qed.
+#[export] Hint Resolve T25_set_sendq : t25db.
+Lemma T25_set_rxq : forall v s, T25 s -> T25 (set_rxq v s).
+Proof. intros v []; exact (fun h => h). Qed.
+#[export] Hint Resolve T25_set_rxq : t25db.
+Lemma T25_set_smq : forall v s, T25 s -> T25 (set_smq v s).
+Proof. intros v []; exact (fun h => h). Qed.
+#[export] Hint Resolve T25_set_smq : t25db.
+Lemma T25_set_sm_sent : forall v s, T25 s -> T25 (set_sm_sent v s).
+Proof. intros v []; exact (fun h => h). Qed.
+#[export] Hint Resolve T25_set_sm_sent : t25db.
+Lemma T25_set_scram_serial : forall v s, T25 s -> T25 (set_scram_serial v s).
+Proof. intros v []; exact (fun h => h). Qed.
+#[export] Hint Resolve T25_set_scram_serial : t25db.
+Lemma T25_set_crashed : forall v s, T25 s -> T25 (set_crashed v s).
+Proof. intros v []; exact (fun h => h). Qed.
+#[export] Hint Resolve T25_set_crashed : t25db.
+Lemma T25_set_gh : forall v s, T25 s -> T25 (set_gh v s).
+Proof. intros v []; exact (fun h => h). Qed.
+#[export] Hint Resolve T25_set_gh : t25db.
+Lemma T25_upg : forall f s, T25 s -> T25 (upg f s).
+Proof. intros f []; exact (fun h => h). Qed.
+Lemma T25_live : forall s, st s <> Disconnected -> T25 s.
+Proof. intros s H D. congruence. Qed.
+Lemma T25_set_tls_present_false : forall s, T25 (set_tls_present false s).
+Proof. intros [] D; reflexivity. Qed.
+#[export] Hint Resolve T25_upg T25_set_tls_present_false : t25db.
+Lemma T25_q_append : forall w u sm s, T25 s -> T25 (q_append w u sm s).
+Proof. intros; unfold q_append; cases; eauto 10 with t25db. Qed.
+#[export] Hint Resolve T25_q_append : t25db.
+Lemma T25_send_gated : forall w u sm s, T25 s -> T25 (send_gated w u sm s).
+Proof. intros; unfold send_gated, ret; cases; leaf; eauto 30 with t25db. Qed.
+#[export] Hint Resolve T25_send_gated : t25db.
+Lemma T25_send_raw_m : forall w u sm s, T25 s -> T25 (send_raw_m w u sm s).
+Proof. intros; unfold send_raw_m, ret; cases; leaf; eauto 30 with t25db. Qed.
+#[export] Hint Resolve T25_send_raw_m : t25db.
+Lemma T25_timed_add : forall k n s, T25 s -> T25 (timed_add k n s).
+Proof. intros; unfold timed_add, ret; cases; leaf; eauto 30 with t25db. Qed.
+#[export] Hint Resolve T25_timed_add : t25db.
+Lemma T25_timed_del : forall k s, T25 s -> T25 (timed_del k s).
+Proof. intros; unfold timed_del, ret; cases; leaf; eauto 30 with t25db. Qed.
+#[export] Hint Resolve T25_timed_del : t25db.
+Lemma T25_timed_reset_all : forall n s, T25 s -> T25 (timed_reset_all n s).
+Proof. intros; unfold timed_reset_all, ret; cases; leaf; eauto 30 with t25db. Qed.
+#[export] Hint Resolve T25_timed_reset_all : t25db.
+Lemma T25_timed_set_stamp : forall k n s, T25 s -> T25 (timed_set_stamp k n s).
+Proof. intros; unfold timed_set_stamp, ret; cases; leaf; eauto 30 with t25db. Qed.
+#[export] Hint Resolve T25_timed_set_stamp : t25db.
+Lemma T25_h_add : forall k s, T25 s -> T25 (h_add k s).
+Proof. intros; unfold h_add, ret; cases; leaf; eauto 30 with t25db. Qed.
+#[export] Hint Resolve T25_h_add : t25db.
+Lemma T25_h_del : forall k s, T25 s -> T25 (h_del k s).
+Proof. intros; unfold h_del, ret; cases; leaf; eauto 30 with t25db. Qed.
+#[export] Hint Resolve T25_h_del : t25db.
+Lemma T25_id_add : forall k s, T25 s -> T25 (id_add k s).
+Proof. intros; unfold id_add, ret; cases; leaf; eauto 30 with t25db. Qed.
+#[export] Hint Resolve T25_id_add : t25db.
+Lemma T25_id_del : forall k s, T25 s -> T25 (id_del k s).
+Proof. intros; unfold id_del, ret; cases; leaf; eauto 30 with t25db. Qed.
+#[export] Hint Resolve T25_id_del : t25db.
+Lemma T25_reset_sm_for_reconnect : forall s, T25 s -> T25 (reset_sm_for_reconnect s).
+Proof. intros; unfold reset_sm_for_reconnect, ret; cases; leaf; eauto 30 with t25db. Qed.
+#[export] Hint Resolve T25_reset_sm_for_reconnect : t25db.
+Lemma T25_sm_queue_cleanup : forall h s, T25 s -> T25 (sm_queue_cleanup h s).
+Proof. intros; unfold sm_queue_cleanup, ret; cases; leaf; eauto 30 with t25db. Qed.
+#[export] Hint Resolve T25_sm_queue_cleanup : t25db.
+Lemma T25_sm_queue_resend : forall s, T25 s -> T25 (sm_queue_resend s).
+Proof. intros; unfold sm_queue_resend. apply fold_left_inv; eauto with t25db. Qed.
+#[export] Hint Resolve T25_sm_queue_resend : t25db.
+Lemma T25_conn_disconnect : forall s, T25 s -> T25 (fst (conn_disconnect s)).
+Proof. intros s H. name_result. unfold conn_disconnect, ret. cases; leaf; eauto 20 with t25db. Qed.
+#[export] Hint Resolve T25_conn_disconnect : t25db.
+Lemma T25_xmpp_disconnect : forall n s, T25 s -> T25 (xmpp_disconnect n s).
+Proof. intros; unfold xmpp_disconnect, ret; cases; leaf; eauto 30 with t25db. Qed.
+#[export] Hint Resolve T25_xmpp_disconnect : t25db.
+Lemma T25_prepare_reset : forall h s, T25 s -> T25 (prepare_reset h s).
+Proof. intros; unfold prepare_reset, ret; cases; leaf; eauto 30 with t25db. Qed.
+#[export] Hint Resolve T25_prepare_reset : t25db.
+Lemma T25_conn_open_stream : forall s, T25 s -> T25 (conn_open_stream s).
+Proof. intros; unfold conn_open_stream, ret; cases; leaf; eauto 30 with t25db. Qed.
+#[export] Hint Resolve T25_conn_open_stream : t25db.
+Lemma T25_conn_tls_start : forall s, st s <> Disconnected -> T25 (fst (fst (conn_tls_start s))).
+Proof. intros s D. apply T25_live. pose proof (StEq_conn_tls_start s s (StEq_refl s)) as E. unfold StEq in E. congruence. Qed.
+Lemma T25_stream_negotiation_success : forall s, T25 s -> T25 (fst (stream_negotiation_success s)).
+Proof. intros; name_result; unfold stream_negotiation_success, ret; cases; leaf; eauto 30 with t25db. Qed.
+#[export] Hint Resolve T25_stream_negotiation_success : t25db.
+Lemma T25_do_bind : forall n b s, T25 s -> T25 (fst (do_bind n b s)).
+Proof. intros; name_result; unfold do_bind, ret; cases; leaf; eauto 30 with t25db. Qed.
+#[export] Hint Resolve T25_do_bind : t25db.
+Lemma T25_session_start : forall n s, T25 s -> T25 (session_start n s).
+Proof. intros; unfold session_start, ret; cases; leaf; eauto 30 with t25db. Qed.
+#[export] Hint Resolve T25_session_start : t25db.
+Lemma T25_sm_enable : forall s, T25 s -> T25 (sm_enable s).
+Proof. intros; unfold sm_enable, ret; cases; leaf; eauto 30 with t25db. Qed.
+#[export] Hint Resolve T25_sm_enable : t25db.
+Lemma T25_auth_legacy : forall n s, T25 s -> T25 (auth_legacy n s).
+Proof. intros; unfold auth_legacy, ret; cases; leaf; eauto 30 with t25db. Qed.
+#[export] Hint Resolve T25_auth_legacy : t25db.
+Lemma T25_auth : forall fuel n s, T25 s -> T25 (fst (auth fuel n s)).
+Proof. induction fuel; intros; name_result; cbn [auth]; unfold ret; cases; leaf; eauto 30 with t25db. Qed.
+#[export] Hint Resolve T25_auth : t25db.
+Lemma T25_sasl_result : forall n e s, T25 s -> T25 (fst (sasl_result n e s)).
+Proof. intros; name_result; unfold sasl_result, ret; cases; leaf; eauto 30 with t25db. Qed.
+#[export] Hint Resolve T25_sasl_result : t25db.
+Lemma T25_features_sasl : forall n e s, T25 s -> T25 (fst (features_sasl n e s)).
+Proof. intros; name_result; unfold features_sasl, ret; cases; leaf; eauto 30 with t25db. Qed.
+#[export] Hint Resolve T25_features_sasl : t25db.
+Lemma T25_call_id_handler : forall k n e s, T25 s -> T25 (fst (call_id_handler k n e s)).
+Proof. intros k; destruct k; intros; name_result; unfold call_id_handler, ret; cases; leaf; eauto 30 with t25db. Qed.
+#[export] Hint Resolve T25_call_id_handler : t25db.
+Lemma T25_note_rx : forall e s, T25 s -> T25 (note_rx e s).
+Proof. intros; unfold note_rx; cbv zeta; eauto with t25db. Qed.
+#[export] Hint Resolve T25_note_rx : t25db.
+Lemma T25_sm_handle : forall e s, T25 s -> T25 (sm_handle e s).
+Proof. intros; unfold sm_handle, ret; cases; leaf; eauto 30 with t25db. Qed.
+#[export] Hint Resolve T25_sm_handle : t25db.
+Lemma T25_open_handler : forall n s, T25 s -> T25 (fst (open_handler n s)).
+Proof. intros; name_result; unfold open_handler, ret; cases; leaf; eauto 30 with t25db. Qed.
+#[export] Hint Resolve T25_open_handler : t25db.
+Lemma T25_stream_start : forall n a b s, T25 s -> T25 (fst (stream_start n a b s)).
+Proof. intros; name_result; unfold stream_start, ret; cases; leaf; eauto 30 with t25db. Qed.
+#[export] Hint Resolve T25_stream_start : t25db.
+Lemma T25_stream_end : forall s, T25 s -> T25 (fst (stream_end s)).
+Proof. intros; name_result; unfold stream_end, ret; cases; leaf; eauto 30 with t25db. Qed.
+#[export] Hint Resolve T25_stream_end : t25db.
+Lemma T25_call_timed : forall k n s, T25 s -> T25 (fst (fst (call_timed k n s))).
+Proof. intros k; destruct k; intros; name_result; unfold call_timed, ret; cases; leaf; eauto 30 with t25db. Qed.
+#[export] Hint Resolve T25_call_timed : t25db.
+Lemma T25_visit_timed : forall n r k, T25 (fst r) -> T25 (fst (visit_timed n r k)).
+Proof. intros n [s o] k H. cbn [fst] in H. name_result. unfold visit_timed. cases; leaf; eauto 30 with t25db. Qed.
+Lemma T25_fold_visit_timed : forall n l s o, T25 s -> T25 (fst (fold_left (visit_timed n) l (s, o))).
+Proof. intros n l s o H. apply (fold_left_inv (fun r => T25 (fst r))); auto. intros; apply T25_visit_timed; auto. Qed.
+#[export] Hint Resolve T25_fold_visit_timed : t25db.
+Lemma T25_fire_timed : forall n s, T25 s -> T25 (fst (fire_timed n s)).
+Proof. intros; name_result; unfold fire_timed, ret; cases; leaf; eauto 30 with t25db. Qed.
+#[export] Hint Resolve T25_fire_timed : t25db.
+Lemma T25_connect_next : forall n s, T25 s -> T25 (fst (fst (connect_next n s))).
+Proof. intros; name_result; unfold connect_next, ret; cases; leaf; eauto 30 with t25db. Qed.
+#[export] Hint Resolve T25_connect_next : t25db.
+Lemma T25_call_handler_other : forall k n e s, hkind_eqb k HProceedTls = false -> T25 s -> T25 (fst (fst (call_handler k n e s))).
+Proof.
+  intros k; destruct k; intros n0 e s K H; try discriminate;
+    name_result; unfold call_handler, ret; cases; leaf; eauto 30 with t25db.
+Qed.
+Lemma T25_call_handler_visit : forall k n e s, st s <> Disconnected \/ hkind_eqb k HProceedTls = false -> T25 s ->
+  T25 (if snd (call_handler k n e s) then fst (fst (call_handler k n e s)) else h_del k (fst (fst (call_handler k n e s)))).
+Proof.
+  intros k n e s C H.
+  assert (G : T25 (fst (fst (call_handler k n e s)))).
+  { destruct (hkind_eqb k HProceedTls) eqn:K; [|apply T25_call_handler_other; auto].
+    destruct C as [C|C]; [|discriminate]. apply T25_live.
+    pose proof (StEq_call_handler k n e s s) as E. unfold StEq in E. rewrite E; auto. apply hkind_eqb_eq in K. subst k. reflexivity. }
+  destruct (call_handler k n e s) as [[s1 o1] keep]. cbn [fst snd] in *. destruct keep; auto using T25_h_del.
+Qed.
+
+(* ================================================================== PH: the phase invariant at rest *)
+Definition is_q (k : hkind) : bool := match k with HUser | HError | HComponentHs | HSm => false | _ => true end.
+Definition is_sm (k : hkind) : bool := match k with HSm => true | _ => false end.
+Definition qmarks (s : state) : nat := List.length (filter (fun x => is_q (fst x)) (handlers s)).
+Definition hsm (s : state) : nat := List.length (filter (fun x => is_sm (fst x)) (handlers s)).
+Definition SE (s : state) : Prop := sm_enabled s = true -> qmarks s = 0%nat /\ id_has IKBind s = false /\ pending s = 0%nat.
+Definition Dead (s : state) : Prop :=
+  hmarks s = 0%nat /\ imarks s = 0%nat /\ id_has IKLegacy s = false /\ h_has HComponentHs s = false.
+Definition DL (s : state) : Prop := st s = Disconnected -> Dead s.
+Record PH (s : state) : Prop := mkPH {
+  ph_ti : TI s; ph_amo : (marks s <= 1)%nat; ph_t01 : T01 s; ph_mt : MT s; ph_smoff : SmOff s; ph_se : SE s;
+  ph_t25 : T25 s }.
+
+Lemma hmarks_split : forall s, hmarks s = (qmarks s + hsm s)%nat.
+Proof.
+  intros. unfold hmarks, qmarks, hsm. induction (handlers s) as [|x l IH]; [reflexivity|]. cbn [filter].
+  destruct (fst x); cbn [is_main is_q is_sm List.length]; lia.
+Qed.
+Lemma hsm_pos : forall s, h_has HSm s = true -> (1 <= hsm s)%nat.
+Proof.
+  intros s. unfold hsm, h_has. induction (handlers s) as [|x l IH]; cbn; [discriminate|].
+  destruct (fst x); cbn; auto; lia.
+Qed.
+Lemma qmarks_pos : forall k s, is_q k = true -> h_has k s = true -> (1 <= qmarks s)%nat.
+Proof.
+  intros k s M. unfold qmarks, h_has. induction (handlers s) as [|x l IH]; cbn; [discriminate|].
+  destruct (hkind_eqb k (fst x)) eqn:E; [apply hkind_eqb_eq in E; rewrite <- E, M; cbn; lia|].
+  cbn [orb]. intros Hl. specialize (IH Hl). destruct (is_q (fst x)); cbn; lia.
+Qed.
+Lemma imarks_pos : forall k s, is_main_id k = true -> id_has k s = true -> (1 <= imarks s)%nat.
+Proof.
+  intros k s M. unfold imarks, id_has. induction (idhandlers s) as [|x l IH]; cbn; [discriminate|].
+  destruct (idk_eqb k (fst x)) eqn:E; [assert (k = fst x) by (destruct k, (fst x); cbn in E; congruence); subst k; rewrite M; cbn; lia|].
+  cbn [orb]. intros Hl. specialize (IH Hl). destruct (is_main_id (fst x)); cbn; lia.
+Qed.
+Lemma qmarks_h_del : forall k s, (qmarks (h_del k s) <= qmarks s)%nat.
+Proof.
+  intros. unfold qmarks, h_del. sproj. induction (handlers s) as [|x l IH]; [cbn; lia|]. cbn [filter].
+  destruct (negb (hkind_eqb k (fst x))); cbn [filter]; destruct (is_q (fst x)); cbn [List.length]; lia.
+Qed.
+Lemma hmarks_h_del_le : forall k s, (hmarks (h_del k s) <= hmarks s)%nat.
+Proof. intros. pose proof (hmarks_h_del k s). lia. Qed.
+Lemma HFr_obs : forall s0 s, HFr s0 s ->
+  marks s = marks s0 /\ hmarks s = hmarks s0 /\ imarks s = imarks s0 /\ qmarks s = qmarks s0 /\ pending s = pending s0 /\
+  (forall k, h_has k s = h_has k s0) /\ (forall k, id_has k s = id_has k s0).
+Proof.
+  intros s0 s []. unfold marks, hmarks, imarks, qmarks, pending, h_has, id_has.
+  rewrite hfr_h0, hfr_i0, hfr_oh0, hfr_rp0, hfr_ps0. repeat split; reflexivity.
+Qed.
+Lemma Dead_HFr : forall s0 s, HFr s0 s -> Dead s0 -> Dead s.
+Proof. intros s0 s F (A & B & C & D). destruct (HFr_obs _ _ F) as (_ & E1 & E2 & _ & _ & E3 & E4). unfold Dead. rewrite E1, E2, E3, E4. auto. Qed.
+Lemma Dead_h_del : forall k s, Dead s -> Dead (h_del k s).
+Proof.
+  intros k s (A & B & C & D). unfold Dead. pose proof (hmarks_h_del_le k s). rewrite h_has_h_del, D.
+  repeat split; auto; lia.
+Qed.
+
+Lemma SmOff_call_handler_other : forall k n e s, hkind_eqb k HFeaturesSasl = false -> hkind_eqb k HFeaturesCompress = false ->
+  hkind_eqb k HSm = false -> SmOff s -> SmOff (fst (fst (call_handler k n e s))).
+Proof.
+  intros k; destruct k; intros n0 e s K1 K2 K3 H; try discriminate;
+    name_result; unfold call_handler, ret; cases; leaf; eauto 30 with smoffdb.
+Qed.
+
+(* a handler that may run on a dead connection is one of the two harmless ones *)
+Lemma Dead_handler : forall k s, Dead s -> h_has k s = true -> is_main k = false /\ hkind_eqb k HComponentHs = false.
+Proof.
+  intros k s (A & B & C & D) Hk. split.
+  - destruct (is_main k) eqn:M; auto. pose proof (hmarks_pos k s M Hk). lia.
+  - destruct (hkind_eqb k HComponentHs) eqn:E; auto. apply hkind_eqb_eq in E. subst k. congruence.
+Qed.
+
+Lemma SE_HFr : forall s0 s, HFr s0 s -> (qmarks s0 = 0%nat /\ id_has IKBind s0 = false /\ pending s0 = 0%nat) -> SE s.
+Proof.
+  intros s0 s F (A & B & C) _. destruct (HFr_obs _ _ F) as (_ & _ & _ & E1 & E2 & _ & E3). rewrite E1, E2, E3. auto.
+Qed.
+Lemma SE_h_del : forall k s, SE s -> SE (h_del k s).
+Proof.
+  intros k s H En. destruct (H En) as (A & B & C). pose proof (qmarks_h_del k s). repeat split; auto. lia.
+Qed.
+Lemma sm_token : forall s, (marks s <= 1)%nat -> h_has HSm s = true ->
+  qmarks s = 0%nat /\ id_has IKBind s = false /\ pending s = 0%nat.
+Proof.
+  intros s M H. pose proof (hsm_pos s H). pose proof (hmarks_split s). unfold marks in M.
+  repeat split; try lia. destruct (id_has IKBind s) eqn:E; auto. pose proof (imarks_pos IKBind s eq_refl E). lia.
+Qed.
+(* _handle_sm: stream management is switched on only by <resumed/>, when _handle_sm is the single token *)
+Lemma SE_HSm : forall n e s, (marks s <= 1)%nat -> h_has HSm s = true ->
+  SE (if snd (call_handler HSm n e s) then fst (fst (call_handler HSm n e s)) else h_del HSm (fst (fst (call_handler HSm n e s)))).
+Proof.
+  intros n e s M H. pose proof (sm_token s M H) as Q.
+  name_result. unfold call_handler, ret. cases; leaf;
+    first [ intros En; exfalso; revert En; unfold h_del; sproj; congruence
+          | apply SE_h_del; eapply SE_HFr; [ | exact Q]; eauto 30 with hfrdb ].
+Qed.
+
+Section VisitLevel.
+Variables (k : hkind) (n : Z) (e : elem) (s : state).
+Hypothesis (P : PH s) (L : DL s) (Hk : h_has k s = true).
+Let s1 := fst (fst (call_handler k n e s)).
+Let keep := snd (call_handler k n e s).
+Let s' := if keep then s1 else h_del k s1.
+
+Lemma visit_live_main : is_main k = true -> st s <> Disconnected.
+Proof.
+  intros M D. destruct (Dead_handler k s (L D) Hk) as [A _]. congruence.
+Qed.
+
+Lemma visit_amo : (marks s' <= 1)%nat.
+Proof.
+  pose proof (Bd_call_handler k n e 0 s s (Bd_refl s)) as B. fold s1 keep in B. destruct P.
+  unfold s'. destruct keep eqn:K.
+  - pose proof (bd_marks _ _ _ B) as BM. rewrite andb_false_r in BM. cbn in BM. lia.
+  - pose proof (marks_h_del k s1) as D. rewrite (h_has_Bd _ _ _ k B Hk) in D. pose proof (bd_marks _ _ _ B) as BM. cbn [negb] in *.
+    rewrite andb_true_r in *. lia.
+Qed.
+
+Lemma visit_smoff : SmOff s'.
+Proof.
+  assert (G : SmOff s1).
+  { destruct (is_main k) eqn:M.
+    - pose proof (visit_live_main M) as D.
+      destruct (is_authcaller k) eqn:A.
+      + apply SmOff_call_handler_other; try (destruct k; try discriminate; reflexivity). apply P.
+      + apply SmOff_live. pose proof (StEq_call_handler k n e s s A (StEq_refl s)) as E. unfold StEq in E. fold s1 in E. congruence.
+    - apply SmOff_call_handler_other; try (destruct k; try discriminate; reflexivity). apply P. }
+  unfold s'. destruct keep; auto using SmOff_h_del.
+Qed.
+
+Lemma visit_dl : DL s'.
+Proof.
+  assert (Est : st s' = st s1) by (unfold s'; destruct keep; reflexivity).
+  intros D. rewrite Est in D.
+  destruct (st s) eqn:S0.
+  - (* already disconnected: only _handle_error / the user handler can be registered *)
+    destruct (Dead_handler k s (L S0) Hk) as [A B].
+    pose proof (HFr_call_handler_nonmain k n e s s A (HFr_refl s)) as F. fold s1 in F.
+    pose proof (Dead_HFr _ _ F (L S0)) as G. unfold s'. destruct keep; auto using Dead_h_del.
+  - assert (S0' : st s <> Disconnected) by congruence. clear S0.
+    destruct (DA_call_handler k n e s S0' D) as [[F NC] K]. fold s1 in F. fold keep in K.
+    destruct (ph_mt _ P) as [C|(PL1 & PL2 & _)]; [contradiction|].
+    assert (A : is_authcaller k = true).
+    { destruct (is_authcaller k) eqn:A; auto. pose proof (StEq_call_handler k n e s s A (StEq_refl s)) as E.
+      unfold StEq in E. fold s1 in E. congruence. }
+    assert (M : is_main k = true) by (destruct k; try discriminate; reflexivity).
+    destruct (HFr_obs _ _ F) as (_ & E1 & E2 & _ & _ & E3 & E4).
+    pose proof (hmarks_pos k s M Hk). pose proof (ph_amo _ P) as AM. unfold marks in AM.
+    pose proof (hmarks_h_del k s1) as HD. rewrite E3, Hk, M in HD. cbn [b2n andb] in HD.
+    unfold s'. rewrite K. unfold Dead. rewrite h_has_h_del, E3, PL2.
+    assert (imarks (h_del k s1) = imarks s1) as -> by reflexivity.
+    assert (id_has IKLegacy (h_del k s1) = id_has IKLegacy s1) as -> by reflexivity.
+    rewrite E4, PL1. rewrite ?E2; repeat split; auto; lia.
+  - assert (S0' : st s <> Disconnected) by congruence. clear S0.
+    destruct (DA_call_handler k n e s S0' D) as [[F NC] K]. fold s1 in F. fold keep in K.
+    destruct (ph_mt _ P) as [C|(PL1 & PL2 & _)]; [contradiction|].
+    assert (A : is_authcaller k = true).
+    { destruct (is_authcaller k) eqn:A; auto. pose proof (StEq_call_handler k n e s s A (StEq_refl s)) as E.
+      unfold StEq in E. fold s1 in E. congruence. }
+    assert (M : is_main k = true) by (destruct k; try discriminate; reflexivity).
+    destruct (HFr_obs _ _ F) as (_ & E1 & E2 & _ & _ & E3 & E4).
+    pose proof (hmarks_pos k s M Hk). pose proof (ph_amo _ P) as AM. unfold marks in AM.
+    pose proof (hmarks_h_del k s1) as HD. rewrite E3, Hk, M in HD. cbn [b2n andb] in HD.
+    unfold s'. rewrite K. unfold Dead. rewrite h_has_h_del, E3, PL2.
+    assert (imarks (h_del k s1) = imarks s1) as -> by reflexivity.
+    assert (id_has IKLegacy (h_del k s1) = id_has IKLegacy s1) as -> by reflexivity.
+    rewrite E4, PL1. rewrite ?E2; repeat split; auto; lia.
+Qed.
+Lemma visit_se : SE s'.
+Proof.
+  destruct (hkind_eqb k HSm) eqn:K; [apply hkind_eqb_eq in K; unfold s', keep, s1; subst k; apply SE_HSm; [apply P | exact Hk]|].
+  intros En. assert (En1 : sm_enabled s1 = true) by (revert En; unfold s'; destruct keep; auto).
+  pose proof (Sn_call_handler k n e s s K (Sn_refl s) En1) as En0.
+  destruct (ph_se _ P En0) as (Q0 & B0 & P0).
+  assert (NQ : is_q k = false) by (destruct (is_q k) eqn:Q; auto; pose proof (qmarks_pos k s Q Hk); lia).
+  assert (NM : is_main k = false) by (destruct k; try discriminate; reflexivity).
+  pose proof (HFr_call_handler_nonmain k n e s s NM (HFr_refl s)) as F. fold s1 in F.
+  assert (G : SE s1) by (eapply SE_HFr; eauto).
+  unfold s' in *. destruct keep; [exact (G En)|exact (SE_h_del k s1 G En)].
+Qed.
+End VisitLevel.
+
+Lemma PH_visit_step : forall k n e s, PH s -> DL s -> h_has k s = true ->
+  let r := call_handler k n e s in
+  PH (if snd r then fst (fst r) else h_del k (fst (fst r))) /\ DL (if snd r then fst (fst r) else h_del k (fst (fst r))).
+Proof.
+  intros k n e s P L Hk. cbv zeta. split; [constructor|].
+  - apply TI_call_handler_visit; [apply P | exact Hk].
+  - apply visit_amo; assumption.
+  - apply T01_call_handler_visit; [apply P | apply P | exact Hk].
+  - apply MT_call_handler_visit; [apply P | apply P | exact Hk].
+  - apply visit_smoff; assumption.
+  - apply visit_se; assumption.
+  - apply T25_call_handler_visit; [ | apply P].
+    destruct (st s) eqn:S0; [right | left; discriminate | left; discriminate].
+    destruct (Dead_handler k s (L S0) Hk) as [A _]. destruct (hkind_eqb k HProceedTls) eqn:K; auto.
+    apply hkind_eqb_eq in K. subst k. discriminate.
+  - apply visit_dl; assumption.
+Qed.
+Lemma PH_visit : forall n e r k, PH (fst r) /\ DL (fst r) -> PH (fst (visit n e r k)) /\ DL (fst (visit n e r k)).
+Proof.
+  intros n e [s o] k [P L]. cbn [fst] in *. unfold visit.
+  destruct (crashed s); auto. destruct (negb (h_has k s)) eqn:E; auto. apply negb_false_iff in E.
+  destruct (hkind_eqb k HUser && negb (neg_done s)); auto. destruct (negb (filter_match k e)); auto.
+  pose proof (PH_visit_step k n e s P L E) as T. cbv zeta in T.
+  destruct (call_handler k n e s) as [[s1 o1] keep]. cbn [fst snd] in *. exact T.
+Qed.
+Lemma PH_fold_visit : forall n e l s o, PH s -> DL s ->
+  PH (fst (fold_left (visit n e) l (s, o))) /\ DL (fst (fold_left (visit n e) l (s, o))).
+Proof.
+  intros n e l s o P L. apply (fold_left_inv (fun r => PH (fst r) /\ DL (fst r))); auto. intros; apply PH_visit; auto.
+Qed.
+
+(* steps that do not touch the registrations *)
+Lemma PH_neutral : forall s s', HFr s s' -> TI s' -> T01 s' -> MT s' -> SmOff s' -> Sn s s' -> T25 s' -> PH s -> PH s'.
+Proof.
+  intros s s' F A B C D E T P. destruct (HFr_obs _ _ F) as (M & _). constructor; auto.
+  - rewrite M. apply P.
+  - intros En. eapply SE_HFr; eauto. apply (ph_se _ P). apply E. exact En.
+Qed.
+Lemma MT_of : forall f s, (CS s -> CS (f s)) -> (PL s -> PL (f s)) -> MT s -> MT (f s).
+Proof. intros f s A B [C|P]; [left|right]; auto. Qed.
+Lemma DL_neutral : forall s s', HFr s s' -> st s' = st s -> DL s -> DL s'.
+Proof. intros s s' F E L D. apply (Dead_HFr _ _ F). apply L. congruence. Qed.
+
+Lemma PH_note_rx : forall e s, PH s -> PH (note_rx e s).
+Proof.
+  intros e s P. apply (PH_neutral s (note_rx e s));
+    [ apply HFr_note_rx, HFr_refl | apply TI_note_rx, P | apply T01_note_rx, P
+    | apply (MT_of (note_rx e)); [apply CS_note_rx | apply PL_note_rx | apply P]
+    | apply SmOff_note_rx, P | apply Sn_note_rx, Sn_refl | apply T25_note_rx, P | exact P ].
+Qed.
+
+(* QFr: no handler that can queue a negotiation element is added, no restart is scheduled *)
+Record QFr (s0 s : state) : Prop := mkQFr {
+  qfr_q : qmarks s = qmarks s0; qfr_oh : oh s = oh s0; qfr_rp : reset_parser s = reset_parser s0; qfr_ps : ps s = ps s0;
+  qfr_bind : id_has IKBind s = true -> id_has IKBind s0 = true }.
+Lemma QFr_refl : forall s, QFr s s. Proof. intros; constructor; auto. Qed.
+Lemma QFr_trans : forall a b c, QFr a b -> QFr b c -> QFr a c.
+Proof. intros a b c [] []; constructor; try congruence; auto. Qed.
+#[export] Hint Resolve QFr_refl : qfrdb.
+Lemma QFr_set_f_tls_disabled : forall v s0 s, QFr s0 s -> QFr s0 (set_f_tls_disabled v s).
+Proof. intros v s0 s H; apply (QFr_trans _ _ _ H); destruct s; constructor; auto. Qed.
+#[export] Hint Resolve QFr_set_f_tls_disabled : qfrdb.
+Lemma QFr_set_f_tls_mandatory : forall v s0 s, QFr s0 s -> QFr s0 (set_f_tls_mandatory v s).
+Proof. intros v s0 s H; apply (QFr_trans _ _ _ H); destruct s; constructor; auto. Qed.
+#[export] Hint Resolve QFr_set_f_tls_mandatory : qfrdb.
+Lemma QFr_set_f_legacy_ssl : forall v s0 s, QFr s0 s -> QFr s0 (set_f_legacy_ssl v s).
+Proof. intros v s0 s H; apply (QFr_trans _ _ _ H); destruct s; constructor; auto. Qed.
+#[export] Hint Resolve QFr_set_f_legacy_ssl : qfrdb.
+Lemma QFr_set_f_tls_trust : forall v s0 s, QFr s0 s -> QFr s0 (set_f_tls_trust v s).
+Proof. intros v s0 s H; apply (QFr_trans _ _ _ H); destruct s; constructor; auto. Qed.
+#[export] Hint Resolve QFr_set_f_tls_trust : qfrdb.
+Lemma QFr_set_f_legacy_auth : forall v s0 s, QFr s0 s -> QFr s0 (set_f_legacy_auth v s).
+Proof. intros v s0 s H; apply (QFr_trans _ _ _ H); destruct s; constructor; auto. Qed.
+#[export] Hint Resolve QFr_set_f_legacy_auth : qfrdb.
+Lemma QFr_set_f_sm_disable : forall v s0 s, QFr s0 s -> QFr s0 (set_f_sm_disable v s).
+Proof. intros v s0 s H; apply (QFr_trans _ _ _ H); destruct s; constructor; auto. Qed.
+#[export] Hint Resolve QFr_set_f_sm_disable : qfrdb.
+Lemma QFr_set_f_comp_allowed : forall v s0 s, QFr s0 s -> QFr s0 (set_f_comp_allowed v s).
+Proof. intros v s0 s H; apply (QFr_trans _ _ _ H); destruct s; constructor; auto. Qed.
+#[export] Hint Resolve QFr_set_f_comp_allowed : qfrdb.
+Lemma QFr_set_f_comp_dont_reset : forall v s0 s, QFr s0 s -> QFr s0 (set_f_comp_dont_reset v s).
+Proof. intros v s0 s H; apply (QFr_trans _ _ _ H); destruct s; constructor; auto. Qed.
+#[export] Hint Resolve QFr_set_f_comp_dont_reset : qfrdb.
+Lemma QFr_set_jid_set : forall v s0 s, QFr s0 s -> QFr s0 (set_jid_set v s).
+Proof. intros v s0 s H; apply (QFr_trans _ _ _ H); destruct s; constructor; auto. Qed.
+#[export] Hint Resolve QFr_set_jid_set : qfrdb.
+Lemma QFr_set_jid_node : forall v s0 s, QFr s0 s -> QFr s0 (set_jid_node v s).
+Proof. intros v s0 s H; apply (QFr_trans _ _ _ H); destruct s; constructor; auto. Qed.
+#[export] Hint Resolve QFr_set_jid_node : qfrdb.
+Lemma QFr_set_jid_res : forall v s0 s, QFr s0 s -> QFr s0 (set_jid_res v s).
+Proof. intros v s0 s H; apply (QFr_trans _ _ _ H); destruct s; constructor; auto. Qed.
+#[export] Hint Resolve QFr_set_jid_res : qfrdb.
+Lemma QFr_set_pass_set : forall v s0 s, QFr s0 s -> QFr s0 (set_pass_set v s).
+Proof. intros v s0 s H; apply (QFr_trans _ _ _ H); destruct s; constructor; auto. Qed.
+#[export] Hint Resolve QFr_set_pass_set : qfrdb.
+Lemma QFr_set_cert_set : forall v s0 s, QFr s0 s -> QFr s0 (set_cert_set v s).
+Proof. intros v s0 s H; apply (QFr_trans _ _ _ H); destruct s; constructor; auto. Qed.
+#[export] Hint Resolve QFr_set_cert_set : qfrdb.
+Lemma QFr_set_is_raw : forall v s0 s, QFr s0 s -> QFr s0 (set_is_raw v s).
+Proof. intros v s0 s H; apply (QFr_trans _ _ _ H); destruct s; constructor; auto. Qed.
+#[export] Hint Resolve QFr_set_is_raw : qfrdb.
+Lemma QFr_set_typ : forall v s0 s, QFr s0 s -> QFr s0 (set_typ v s).
+Proof. intros v s0 s H; apply (QFr_trans _ _ _ H); destruct s; constructor; auto. Qed.
+#[export] Hint Resolve QFr_set_typ : qfrdb.
+Lemma QFr_set_user_handler : forall v s0 s, QFr s0 s -> QFr s0 (set_user_handler v s).
+Proof. intros v s0 s H; apply (QFr_trans _ _ _ H); destruct s; constructor; auto. Qed.
+#[export] Hint Resolve QFr_set_user_handler : qfrdb.
+Lemma QFr_set_user_timed : forall v s0 s, QFr s0 s -> QFr s0 (set_user_timed v s).
+Proof. intros v s0 s H; apply (QFr_trans _ _ _ H); destruct s; constructor; auto. Qed.
+#[export] Hint Resolve QFr_set_user_timed : qfrdb.
+Lemma QFr_set_tlsnew_ok : forall v s0 s, QFr s0 s -> QFr s0 (set_tlsnew_ok v s).
+Proof. intros v s0 s H; apply (QFr_trans _ _ _ H); destruct s; constructor; auto. Qed.
+#[export] Hint Resolve QFr_set_tlsnew_ok : qfrdb.
+Lemma QFr_set_cb_avail : forall v s0 s, QFr s0 s -> QFr s0 (set_cb_avail v s).
+Proof. intros v s0 s H; apply (QFr_trans _ _ _ H); destruct s; constructor; auto. Qed.
+#[export] Hint Resolve QFr_set_cb_avail : qfrdb.
+Lemma QFr_set_tls_verdicts : forall v s0 s, QFr s0 s -> QFr s0 (set_tls_verdicts v s).
+Proof. intros v s0 s H; apply (QFr_trans _ _ _ H); destruct s; constructor; auto. Qed.
+#[export] Hint Resolve QFr_set_tls_verdicts : qfrdb.
+Lemma QFr_set_next_cands : forall v s0 s, QFr s0 s -> QFr s0 (set_next_cands v s).
+Proof. intros v s0 s H; apply (QFr_trans _ _ _ H); destruct s; constructor; auto. Qed.
+#[export] Hint Resolve QFr_set_next_cands : qfrdb.
+Lemma QFr_set_cands : forall v s0 s, QFr s0 s -> QFr s0 (set_cands v s).
+Proof. intros v s0 s H; apply (QFr_trans _ _ _ H); destruct s; constructor; auto. Qed.
+#[export] Hint Resolve QFr_set_cands : qfrdb.
+Lemma QFr_set_cur_ep : forall v s0 s, QFr s0 s -> QFr s0 (set_cur_ep v s).
+Proof. intros v s0 s H; apply (QFr_trans _ _ _ H); destruct s; constructor; auto. Qed.
+#[export] Hint Resolve QFr_set_cur_ep : qfrdb.
+Lemma QFr_set_st : forall v s0 s, QFr s0 s -> QFr s0 (set_st v s).
+Proof. intros v s0 s H; apply (QFr_trans _ _ _ H); destruct s; constructor; auto. Qed.
+#[export] Hint Resolve QFr_set_st : qfrdb.
+Lemma QFr_set_stamp : forall v s0 s, QFr s0 s -> QFr s0 (set_stamp v s).
+Proof. intros v s0 s H; apply (QFr_trans _ _ _ H); destruct s; constructor; auto. Qed.
+#[export] Hint Resolve QFr_set_stamp : qfrdb.
+Lemma QFr_set_err : forall v s0 s, QFr s0 s -> QFr s0 (set_err v s).
+Proof. intros v s0 s H; apply (QFr_trans _ _ _ H); destruct s; constructor; auto. Qed.
+#[export] Hint Resolve QFr_set_err : qfrdb.
+Lemma QFr_set_stream_error : forall v s0 s, QFr s0 s -> QFr s0 (set_stream_error v s).
+Proof. intros v s0 s H; apply (QFr_trans _ _ _ H); destruct s; constructor; auto. Qed.
+#[export] Hint Resolve QFr_set_stream_error : qfrdb.
+Lemma QFr_set_secured : forall v s0 s, QFr s0 s -> QFr s0 (set_secured v s).
+Proof. intros v s0 s H; apply (QFr_trans _ _ _ H); destruct s; constructor; auto. Qed.
+#[export] Hint Resolve QFr_set_secured : qfrdb.
+Lemma QFr_set_tls_present : forall v s0 s, QFr s0 s -> QFr s0 (set_tls_present v s).
+Proof. intros v s0 s H; apply (QFr_trans _ _ _ H); destruct s; constructor; auto. Qed.
+#[export] Hint Resolve QFr_set_tls_present : qfrdb.
+Lemma QFr_set_tls_failed : forall v s0 s, QFr s0 s -> QFr s0 (set_tls_failed v s).
+Proof. intros v s0 s H; apply (QFr_trans _ _ _ H); destruct s; constructor; auto. Qed.
+#[export] Hint Resolve QFr_set_tls_failed : qfrdb.
+Lemma QFr_set_tls_support : forall v s0 s, QFr s0 s -> QFr s0 (set_tls_support v s).
+Proof. intros v s0 s H; apply (QFr_trans _ _ _ H); destruct s; constructor; auto. Qed.
+#[export] Hint Resolve QFr_set_tls_support : qfrdb.
+Lemma QFr_set_sasl : forall v s0 s, QFr s0 s -> QFr s0 (set_sasl v s).
+Proof. intros v s0 s H; apply (QFr_trans _ _ _ H); destruct s; constructor; auto. Qed.
+#[export] Hint Resolve QFr_set_sasl : qfrdb.
+Lemma QFr_set_bind_required : forall v s0 s, QFr s0 s -> QFr s0 (set_bind_required v s).
+Proof. intros v s0 s H; apply (QFr_trans _ _ _ H); destruct s; constructor; auto. Qed.
+#[export] Hint Resolve QFr_set_bind_required : qfrdb.
+Lemma QFr_set_session_required : forall v s0 s, QFr s0 s -> QFr s0 (set_session_required v s).
+Proof. intros v s0 s H; apply (QFr_trans _ _ _ H); destruct s; constructor; auto. Qed.
+#[export] Hint Resolve QFr_set_session_required : qfrdb.
+Lemma QFr_set_comp_supported : forall v s0 s, QFr s0 s -> QFr s0 (set_comp_supported v s).
+Proof. intros v s0 s H; apply (QFr_trans _ _ _ H); destruct s; constructor; auto. Qed.
+#[export] Hint Resolve QFr_set_comp_supported : qfrdb.
+Lemma QFr_set_comp_active : forall v s0 s, QFr s0 s -> QFr s0 (set_comp_active v s).
+Proof. intros v s0 s H; apply (QFr_trans _ _ _ H); destruct s; constructor; auto. Qed.
+#[export] Hint Resolve QFr_set_comp_active : qfrdb.
+Lemma QFr_set_sm_alloc : forall v s0 s, QFr s0 s -> QFr s0 (set_sm_alloc v s).
+Proof. intros v s0 s H; apply (QFr_trans _ _ _ H); destruct s; constructor; auto. Qed.
+#[export] Hint Resolve QFr_set_sm_alloc : qfrdb.
+Lemma QFr_set_sm_support : forall v s0 s, QFr s0 s -> QFr s0 (set_sm_support v s).
+Proof. intros v s0 s H; apply (QFr_trans _ _ _ H); destruct s; constructor; auto. Qed.
+#[export] Hint Resolve QFr_set_sm_support : qfrdb.
+Lemma QFr_set_sm_enabled : forall v s0 s, QFr s0 s -> QFr s0 (set_sm_enabled v s).
+Proof. intros v s0 s H; apply (QFr_trans _ _ _ H); destruct s; constructor; auto. Qed.
+#[export] Hint Resolve QFr_set_sm_enabled : qfrdb.
+Lemma QFr_set_sm_can_resume : forall v s0 s, QFr s0 s -> QFr s0 (set_sm_can_resume v s).
+Proof. intros v s0 s H; apply (QFr_trans _ _ _ H); destruct s; constructor; auto. Qed.
+#[export] Hint Resolve QFr_set_sm_can_resume : qfrdb.
+Lemma QFr_set_sm_resume : forall v s0 s, QFr s0 s -> QFr s0 (set_sm_resume v s).
+Proof. intros v s0 s H; apply (QFr_trans _ _ _ H); destruct s; constructor; auto. Qed.
+#[export] Hint Resolve QFr_set_sm_resume : qfrdb.
+Lemma QFr_set_sm_dont_request : forall v s0 s, QFr s0 s -> QFr s0 (set_sm_dont_request v s).
+Proof. intros v s0 s H; apply (QFr_trans _ _ _ H); destruct s; constructor; auto. Qed.
+#[export] Hint Resolve QFr_set_sm_dont_request : qfrdb.
+Lemma QFr_set_sm_has_previd : forall v s0 s, QFr s0 s -> QFr s0 (set_sm_has_previd v s).
+Proof. intros v s0 s H; apply (QFr_trans _ _ _ H); destruct s; constructor; auto. Qed.
+#[export] Hint Resolve QFr_set_sm_has_previd : qfrdb.
+Lemma QFr_set_sm_has_id : forall v s0 s, QFr s0 s -> QFr s0 (set_sm_has_id v s).
+Proof. intros v s0 s H; apply (QFr_trans _ _ _ H); destruct s; constructor; auto. Qed.
+#[export] Hint Resolve QFr_set_sm_has_id : qfrdb.
+Lemma QFr_set_sm_parked : forall v s0 s, QFr s0 s -> QFr s0 (set_sm_parked v s).
+Proof. intros v s0 s H; apply (QFr_trans _ _ _ H); destruct s; constructor; auto. Qed.
+#[export] Hint Resolve QFr_set_sm_parked : qfrdb.
+Lemma QFr_set_sm_r_sent : forall v s0 s, QFr s0 s -> QFr s0 (set_sm_r_sent v s).
+Proof. intros v s0 s H; apply (QFr_trans _ _ _ H); destruct s; constructor; auto. Qed.
+#[export] Hint Resolve QFr_set_sm_r_sent : qfrdb.
+Lemma QFr_set_sm_bind_saved : forall v s0 s, QFr s0 s -> QFr s0 (set_sm_bind_saved v s).
+Proof. intros v s0 s H; apply (QFr_trans _ _ _ H); destruct s; constructor; auto. Qed.
+#[export] Hint Resolve QFr_set_sm_bind_saved : qfrdb.
+Lemma QFr_set_bound_jid : forall v s0 s, QFr s0 s -> QFr s0 (set_bound_jid v s).
+Proof. intros v s0 s H; apply (QFr_trans _ _ _ H); destruct s; constructor; auto. Qed.
+#[export] Hint Resolve QFr_set_bound_jid : qfrdb.
+Lemma QFr_set_stream_id : forall v s0 s, QFr s0 s -> QFr s0 (set_stream_id v s).
+Proof. intros v s0 s H; apply (QFr_trans _ _ _ H); destruct s; constructor; auto. Qed.
+#[export] Hint Resolve QFr_set_stream_id : qfrdb.
+Lemma QFr_set_neg_done : forall v s0 s, QFr s0 s -> QFr s0 (set_neg_done v s).
+Proof. intros v s0 s H; apply (QFr_trans _ _ _ H); destruct s; constructor; auto. Qed.
+#[export] Hint Resolve QFr_set_neg_done : qfrdb.
+Lemma QFr_set_timed : forall v s0 s, QFr s0 s -> QFr s0 (set_timed v s).
+Proof. intros v s0 s H; apply (QFr_trans _ _ _ H); destruct s; constructor; auto. Qed.
+#[export] Hint Resolve QFr_set_timed : qfrdb.
+Lemma QFr_set_sendq : forall v s0 s, QFr s0 s -> QFr s0 (set_sendq v s).
+Proof. intros v s0 s H; apply (QFr_trans _ _ _ H); destruct s; constructor; auto. Qed.
+#[export] Hint Resolve QFr_set_sendq : qfrdb.
+Lemma QFr_set_rxq : forall v s0 s, QFr s0 s -> QFr s0 (set_rxq v s).
+Proof. intros v s0 s H; apply (QFr_trans _ _ _ H); destruct s; constructor; auto. Qed.
+#[export] Hint Resolve QFr_set_rxq : qfrdb.
+Lemma QFr_set_smq : forall v s0 s, QFr s0 s -> QFr s0 (set_smq v s).
+Proof. intros v s0 s H; apply (QFr_trans _ _ _ H); destruct s; constructor; auto. Qed.
+#[export] Hint Resolve QFr_set_smq : qfrdb.
+Lemma QFr_set_sm_sent : forall v s0 s, QFr s0 s -> QFr s0 (set_sm_sent v s).
+Proof. intros v s0 s H; apply (QFr_trans _ _ _ H); destruct s; constructor; auto. Qed.
+#[export] Hint Resolve QFr_set_sm_sent : qfrdb.
+Lemma QFr_set_scram_serial : forall v s0 s, QFr s0 s -> QFr s0 (set_scram_serial v s).
+Proof. intros v s0 s H; apply (QFr_trans _ _ _ H); destruct s; constructor; auto. Qed.
+#[export] Hint Resolve QFr_set_scram_serial : qfrdb.
+Lemma QFr_set_crashed : forall v s0 s, QFr s0 s -> QFr s0 (set_crashed v s).
+Proof. intros v s0 s H; apply (QFr_trans _ _ _ H); destruct s; constructor; auto. Qed.
+#[export] Hint Resolve QFr_set_crashed : qfrdb.
+Lemma QFr_set_gh : forall v s0 s, QFr s0 s -> QFr s0 (set_gh v s).
+Proof. intros v s0 s H; apply (QFr_trans _ _ _ H); destruct s; constructor; auto. Qed.
+#[export] Hint Resolve QFr_set_gh : qfrdb.
+Lemma QFr_upg : forall f s0 s, QFr s0 s -> QFr s0 (upg f s).
+Proof. intros f s0 s H; apply (QFr_trans _ _ _ H); destruct s; constructor; auto. Qed.
+Lemma QFr_h_add : forall k s0 s, is_q k = false -> QFr s0 s -> QFr s0 (h_add k s).
+Proof.
+  intros k s0 s Q H. apply (QFr_trans _ _ _ H). unfold h_add. destruct (h_has k s); [apply QFr_refl|].
+  constructor; auto. unfold qmarks. sproj. rewrite filter_length_app. cbn [filter fst]. rewrite Q. cbn. lia.
+Qed.
+Lemma QFr_id_add : forall k s0 s, idk_eqb IKBind k = false -> QFr s0 s -> QFr s0 (id_add k s).
+Proof.
+  intros k s0 s Q H. apply (QFr_trans _ _ _ H). constructor; try (unfold id_add; cases; reflexivity).
+  rewrite id_has_id_add, Q, orb_false_r. auto.
+Qed.
+Lemma QFr_id_del : forall k s0 s, QFr s0 s -> QFr s0 (id_del k s).
+Proof.
+  intros k s0 s H. apply (QFr_trans _ _ _ H). constructor; try reflexivity.
+  rewrite id_has_id_del. intros E. apply andb_prop in E. apply E.
+Qed.
+#[export] Hint Resolve QFr_upg QFr_id_del : qfrdb.
+#[export] Hint Extern 1 (QFr _ (h_add _ _)) => (apply QFr_h_add; [reflexivity | ]) : qfrdb.
+#[export] Hint Extern 1 (QFr _ (id_add _ _)) => (apply QFr_id_add; [reflexivity | ]) : qfrdb.
+Lemma QFr_HFr : forall s0 s s', QFr s0 s -> HFr s s' -> QFr s0 s'.
+Proof.
+  intros s0 s s' H F. apply (QFr_trans _ _ _ H). destruct (HFr_obs _ _ F) as (_ & _ & _ & E1 & _ & _ & E2). destruct F.
+  constructor; auto. rewrite E2. auto.
+Qed.
+Lemma QFr_q_append : forall w u sm s0 s, QFr s0 s -> QFr s0 (q_append w u sm s).
+Proof. intros; unfold q_append, ret; cases; leaf; eauto 30 with qfrdb. Qed.
+#[export] Hint Resolve QFr_q_append : qfrdb.
+Lemma QFr_send_gated : forall w u sm s0 s, QFr s0 s -> QFr s0 (send_gated w u sm s).
+Proof. intros; unfold send_gated, ret; cases; leaf; eauto 30 with qfrdb. Qed.
+#[export] Hint Resolve QFr_send_gated : qfrdb.
+Lemma QFr_send_raw_m : forall w u sm s0 s, QFr s0 s -> QFr s0 (send_raw_m w u sm s).
+Proof. intros; unfold send_raw_m, ret; cases; leaf; eauto 30 with qfrdb. Qed.
+#[export] Hint Resolve QFr_send_raw_m : qfrdb.
+Lemma QFr_timed_add : forall k n s0 s, QFr s0 s -> QFr s0 (timed_add k n s).
+Proof. intros; unfold timed_add, ret; cases; leaf; eauto 30 with qfrdb. Qed.
+#[export] Hint Resolve QFr_timed_add : qfrdb.
+Lemma QFr_timed_del : forall k s0 s, QFr s0 s -> QFr s0 (timed_del k s).
+Proof. intros; unfold timed_del, ret; cases; leaf; eauto 30 with qfrdb. Qed.
+#[export] Hint Resolve QFr_timed_del : qfrdb.
+Lemma QFr_timed_reset_all : forall n s0 s, QFr s0 s -> QFr s0 (timed_reset_all n s).
+Proof. intros; unfold timed_reset_all, ret; cases; leaf; eauto 30 with qfrdb. Qed.
+#[export] Hint Resolve QFr_timed_reset_all : qfrdb.
+Lemma QFr_timed_set_stamp : forall k n s0 s, QFr s0 s -> QFr s0 (timed_set_stamp k n s).
+Proof. intros; unfold timed_set_stamp, ret; cases; leaf; eauto 30 with qfrdb. Qed.
+#[export] Hint Resolve QFr_timed_set_stamp : qfrdb.
+Lemma QFr_reset_sm_for_reconnect : forall s0 s, QFr s0 s -> QFr s0 (reset_sm_for_reconnect s).
+Proof. intros; unfold reset_sm_for_reconnect, ret; cases; leaf; eauto 30 with qfrdb. Qed.
+#[export] Hint Resolve QFr_reset_sm_for_reconnect : qfrdb.
+Lemma QFr_sm_queue_cleanup : forall h s0 s, QFr s0 s -> QFr s0 (sm_queue_cleanup h s).
+Proof. intros; unfold sm_queue_cleanup, ret; cases; leaf; eauto 30 with qfrdb. Qed.
+#[export] Hint Resolve QFr_sm_queue_cleanup : qfrdb.
+Lemma QFr_sm_queue_resend : forall s0 s, QFr s0 s -> QFr s0 (sm_queue_resend s).
+Proof. intros; unfold sm_queue_resend; apply fold_left_inv; eauto with qfrdb. Qed.
+#[export] Hint Resolve QFr_sm_queue_resend : qfrdb.
+Lemma QFr_conn_disconnect : forall s0 s, QFr s0 s -> QFr s0 (fst (conn_disconnect s)).
+Proof. intros; name_result; unfold conn_disconnect, ret; cases; leaf; eauto 30 with qfrdb. Qed.
+#[export] Hint Resolve QFr_conn_disconnect : qfrdb.
+Lemma QFr_xmpp_disconnect : forall n s0 s, QFr s0 s -> QFr s0 (xmpp_disconnect n s).
+Proof. intros; unfold xmpp_disconnect, ret; cases; leaf; eauto 30 with qfrdb. Qed.
+#[export] Hint Resolve QFr_xmpp_disconnect : qfrdb.
+Lemma QFr_conn_open_stream : forall s0 s, QFr s0 s -> QFr s0 (conn_open_stream s).
+Proof. intros; unfold conn_open_stream, ret; cases; leaf; eauto 30 with qfrdb. Qed.
+#[export] Hint Resolve QFr_conn_open_stream : qfrdb.
+Lemma QFr_stream_negotiation_success : forall s0 s, QFr s0 s -> QFr s0 (fst (stream_negotiation_success s)).
+Proof. intros; name_result; unfold stream_negotiation_success, ret; cases; leaf; eauto 30 with qfrdb. Qed.
+#[export] Hint Resolve QFr_stream_negotiation_success : qfrdb.
+Lemma QFr_session_start : forall n s0 s, QFr s0 s -> QFr s0 (session_start n s).
+Proof. intros; unfold session_start, ret; cases; leaf; eauto 30 with qfrdb. Qed.
+#[export] Hint Resolve QFr_session_start : qfrdb.
+Lemma QFr_sm_enable : forall s0 s, QFr s0 s -> QFr s0 (sm_enable s).
+Proof. intros; unfold sm_enable, ret; cases; leaf; eauto 30 with qfrdb. Qed.
+#[export] Hint Resolve QFr_sm_enable : qfrdb.
+Lemma QFr_note_rx : forall e s0 s, QFr s0 s -> QFr s0 (note_rx e s).
+Proof. intros; unfold note_rx; cbv zeta; eauto with qfrdb. Qed.
+#[export] Hint Resolve QFr_note_rx : qfrdb.
+Lemma QFr_sm_handle : forall e s0 s, QFr s0 s -> QFr s0 (sm_handle e s).
+Proof. intros; unfold sm_handle, ret; cases; leaf; eauto 30 with qfrdb. Qed.
+#[export] Hint Resolve QFr_sm_handle : qfrdb.
+Lemma QFr_call_id_handler : forall k n e s0 s, QFr s0 s -> QFr s0 (fst (call_id_handler k n e s)).
+Proof. intros k; destruct k; intros; name_result; unfold call_id_handler, ret; cases; leaf; eauto 30 with qfrdb. Qed.
+
+Lemma Dead_no_id : forall k s, Dead s -> id_has k s = false.
+Proof.
+  intros k s (A & B & C & D). destruct (id_has k s) eqn:E; auto. destruct k; try congruence;
+    match type of E with id_has ?k' _ = _ => pose proof (imarks_pos k' s eq_refl E) end; lia.
+Qed.
+Lemma idk_eqb_refl : forall k, idk_eqb k k = true. Proof. destruct k; reflexivity. Qed.
+Lemma MT_id_del : forall k s, MT s -> MT (id_del k s).
+Proof. intros k s [C|P]; [left; unfold id_del; eauto with csdb | right; eauto with pldb]. Qed.
+
+Lemma imarks_pos_l : forall k (l : list (idk * bool)), is_main_id k = true ->
+  existsb (fun x => idk_eqb k (fst x)) l = true -> (1 <= List.length (filter (fun x => is_main_id (fst x)) l))%nat.
+Proof.
+  intros k l M. induction l as [|x l IH]; cbn; [discriminate|].
+  destruct (idk_eqb k (fst x)) eqn:E; [assert (k = fst x) by (destruct k, (fst x); cbn in E; congruence); subst k; rewrite M; cbn; lia|].
+  cbn [orb]. intros Hl. specialize (IH Hl). destruct (is_main_id (fst x)); cbn; lia.
+Qed.
+Lemma imarks_two : forall s, id_has IKBind s = true -> id_has IKSession s = true -> (2 <= imarks s)%nat.
+Proof.
+  intros s. unfold id_has, imarks. induction (idhandlers s) as [|x l IH]; cbn; [discriminate|].
+  destruct (fst x); cbn; intros A B.
+  - pose proof (imarks_pos_l IKSession l eq_refl B). lia.
+  - pose proof (imarks_pos_l IKBind l eq_refl A). lia.
+  - auto.
+Qed.
+Lemma PH_id_step : forall k n e s, PH s -> DL s -> id_has k s = true ->
+  PH (id_del k (fst (call_id_handler k n e s))) /\ DL (id_del k (fst (call_id_handler k n e s))).
+Proof.
+  intros k n e s P L Hk.
+  assert (D : st s <> Disconnected).
+  { intros D. rewrite (Dead_no_id k s (L D)) in Hk. discriminate. }
+  pose proof (StEq_call_id_handler k n e s s (StEq_refl s)) as E. unfold StEq in E.
+  set (s1 := fst (call_id_handler k n e s)) in *.
+  assert (D' : st (id_del k s1) <> Disconnected) by (change (st (id_del k s1)) with (st s1); congruence).
+  split; [constructor | intros X; congruence].
+  - unfold id_del. apply TI_set_idhandlers. apply TI_call_id_handler, P.
+  - pose proof (Bd_call_id_handler k n e 0 s s (Bd_refl s)) as B. fold s1 in B.
+    pose proof (marks_id_del k s1) as M. rewrite (id_has_Bd _ _ _ k B Hk), andb_true_r in M.
+    pose proof (bd_marks _ _ _ B) as BM. pose proof (ph_amo _ P). lia.
+  - unfold id_del. apply T01_set_idhandlers. apply T01_call_id_handler, P.
+  - apply MT_id_del. apply (MT_of (fun x => fst (call_id_handler k n e x))); [apply CS_call_id_handler | apply PL_call_id_handler | apply P].
+  - apply SmOff_live. exact D'.
+  - (* stream management is switched on from the bind / session result only *)
+    pose proof (QFr_call_id_handler k n e s s (QFr_refl s)) as Q. fold s1 in Q.
+    intros En. change (sm_enabled (id_del k s1)) with (sm_enabled s1) in En.
+    assert (Base : qmarks s = 0%nat /\ pending s = 0%nat /\ (id_has IKBind s = true -> k = IKBind)).
+    { destruct (is_main_id k) eqn:M.
+      - pose proof (imarks_pos k s M Hk). pose proof (ph_amo _ P) as AM. pose proof (hmarks_split s). unfold marks in AM.
+        repeat split; try lia. intros B. destruct k; auto; try discriminate.
+        pose proof (imarks_two s B Hk). lia.
+      - assert (k = IKLegacy) by (destruct k; try discriminate; reflexivity). subst k.
+        assert (En0 : sm_enabled s = true).
+        { revert En. clear. unfold s1. name_result. unfold call_id_handler, ret. cases; leaf;
+            match goal with En : sm_enabled ?x = true |- sm_enabled ?s = true =>
+              let Sx := fresh in assert (Sx : Sn s x) by eauto 30 with sndb; exact (Sx En) end. }
+        destruct (ph_se _ P En0) as (A & B & C). repeat split; auto. congruence. }
+    destruct Base as (B1 & B2 & B3).
+    pose proof (qfr_q _ _ Q) as Q1. pose proof (qfr_oh _ _ Q) as Q2. pose proof (qfr_rp _ _ Q) as Q3.
+    pose proof (qfr_ps _ _ Q) as Q4. pose proof (qfr_bind _ _ Q) as Q5.
+    assert (pending (id_del k s1) = pending s1) as -> by reflexivity.
+    assert (qmarks (id_del k s1) = qmarks s1) as -> by reflexivity.
+    unfold pending. rewrite Q1, Q2, Q3, Q4. fold (pending s). repeat split; auto.
+    rewrite id_has_id_del. destruct (id_has IKBind s1) eqn:E1; auto.
+    rewrite (B3 (Q5 eq_refl)). reflexivity.
+  - apply T25_live. exact D'.
+Qed.
+
+Lemma qmarks_enable_all : forall s, qmarks (set_handlers (map (fun x => (fst x, true)) (handlers s)) s) = qmarks s.
+Proof.
+  intros. unfold qmarks. sproj. induction (handlers s) as [|x l IH]; [reflexivity|]. cbn [map filter fst].
+  destruct (is_q (fst x)); cbn [List.length]; rewrite IH; reflexivity.
+Qed.
+Lemma PH_enable_all : forall s, PH s -> PH (set_handlers (map (fun x => (fst x, true)) (handlers s)) s).
+Proof.
+  intros s P. constructor.
+  - apply TI_enable_all, P.
+  - rewrite marks_enable_all. apply P.
+  - apply T01_enable_all, P.
+  - destruct (ph_mt _ P) as [C|Q]; [left; apply CS_set_handlers; exact C | right; apply PL_enable_all; exact Q].
+  - apply SmOff_set_handlers, P.
+  - intros En. destruct (ph_se _ P En) as (A & B & C). rewrite qmarks_enable_all. repeat split; assumption.
+  - apply T25_set_handlers, P.
+Qed.
+Lemma DL_enable_all : forall s, DL s -> DL (set_handlers (map (fun x => (fst x, true)) (handlers s)) s).
+Proof.
+  intros s L D. destruct (L D) as (A & B & C & E). unfold Dead. rewrite hmarks_enable_all, h_has_enable_all. repeat split; assumption.
+Qed.
+Lemma PH_set_crashed : forall v s, PH s -> PH (set_crashed v s).
+Proof.
+  intros v s P. apply (PH_neutral s); [eauto with hfrdb | apply TI_set_crashed, P | apply T01_set_crashed, P
+    | apply (MT_of (set_crashed v)); [apply CS_set_crashed | apply PL_set_crashed | apply P]
+    | apply SmOff_set_crashed, P | apply Sn_set_crashed, Sn_refl | apply T25_set_crashed, P | exact P].
+Qed.
+Lemma PH_sm_handle : forall e s, PH s -> PH (sm_handle e s).
+Proof.
+  intros e s P. apply (PH_neutral s); [apply HFr_sm_handle, HFr_refl | apply TI_sm_handle, P | apply T01_sm_handle, P
+    | apply (MT_of (sm_handle e)); [apply CS_sm_handle | apply PL_sm_handle | apply P]
+    | apply SmOff_sm_handle, P | apply Sn_sm_handle, Sn_refl | apply T25_sm_handle, P | exact P].
+Qed.
+Lemma DL_sm_handle : forall e s, DL s -> DL (sm_handle e s).
+Proof. intros e s L. apply (DL_neutral s); auto. apply HFr_sm_handle, HFr_refl. apply (StEq_sm_handle e s s (StEq_refl s)). Qed.
+Lemma DL_note_rx : forall e s, DL s -> DL (note_rx e s).
+Proof. intros e s L. apply (DL_neutral s); auto. apply HFr_note_rx, HFr_refl. Qed.
+Lemma DL_set_crashed : forall v s, DL s -> DL (set_crashed v s).
+Proof. intros v s L. apply (DL_neutral s); auto. eauto with hfrdb. Qed.
+
+Lemma PH_dispatch : forall n e s, PH s -> DL s -> PH (fst (dispatch n e s)) /\ DL (fst (dispatch n e s)).
+Proof.
+  intros n e s0 P0 L0. unfold dispatch.
+  pose proof (PH_note_rx e s0 P0) as P1. pose proof (DL_note_rx e s0 L0) as L1.
+  generalize dependent (note_rx e s0). clear s0 P0 L0. intros s P1 L1.
+  destruct (negb (sm_alloc s)); [cbn [fst]; auto using PH_set_crashed, DL_set_crashed|].
+  pose proof (PH_enable_all s P1) as P2. pose proof (DL_enable_all s L1) as L2.
+  generalize dependent (set_handlers (map (fun x : hkind * bool => (fst x, true)) (handlers s)) s). clear s P1 L1. intros s P2 L2.
+  cbv zeta.
+  match goal with |- context [let '(s1, o1) := ?r in _] => assert (R : PH (fst r) /\ DL (fst r)) end.
+  { destruct (idk_of (e_id e)) as [k|]; [|cbn; auto]. destruct (id_has k s) eqn:Hk; [|cbn; auto].
+    pose proof (PH_id_step k n e s P2 L2 Hk) as T. destruct (call_id_handler k n e s) as [s1 o1]. cbn [fst] in *. exact T. }
+  match goal with |- context [let '(s1, o1) := ?r in _] => destruct r as [s1 o1] end. cbn [fst] in R. destruct R as [P3 L3].
+  pose proof (PH_fold_visit n e (map fst (filter (fun x => snd x) (handlers s1))) s1 o1 P3 L3) as [P4 L4].
+  destruct (fold_left (visit n e) (map fst (filter (fun x => snd x) (handlers s1))) (s1, o1)) as [s3 o3]. cbn [fst] in *.
+  destruct (crashed s3); [cbn; auto|]. destruct (sm_enabled s3); cbn [fst]; auto using PH_sm_handle, DL_sm_handle.
+Qed.
+
+(* PsEq: only the parser layer moves the parser state *)
+Definition PsEq (s0 s : state) : Prop := ps s = ps s0.
+Lemma PsEq_refl : forall s, PsEq s s. Proof. reflexivity. Qed.
+#[export] Hint Resolve PsEq_refl : pseqdb.
+Lemma PsEq_set_f_tls_disabled : forall v s0 s, PsEq s0 s -> PsEq s0 (set_f_tls_disabled v s).
+Proof. intros v s0 []; exact (fun h => h). Qed.
+#[export] Hint Resolve PsEq_set_f_tls_disabled : pseqdb.
+Lemma PsEq_set_f_tls_mandatory : forall v s0 s, PsEq s0 s -> PsEq s0 (set_f_tls_mandatory v s).
+Proof. intros v s0 []; exact (fun h => h). Qed.
+#[export] Hint Resolve PsEq_set_f_tls_mandatory : pseqdb.
+Lemma PsEq_set_f_legacy_ssl : forall v s0 s, PsEq s0 s -> PsEq s0 (set_f_legacy_ssl v s).
+Proof. intros v s0 []; exact (fun h => h). Qed.
+#[export] Hint Resolve PsEq_set_f_legacy_ssl : pseqdb.
+Lemma PsEq_set_f_tls_trust : forall v s0 s, PsEq s0 s -> PsEq s0 (set_f_tls_trust v s).
+Proof. intros v s0 []; exact (fun h => h). Qed.
+#[export] Hint Resolve PsEq_set_f_tls_trust : pseqdb.
+Lemma PsEq_set_f_legacy_auth : forall v s0 s, PsEq s0 s -> PsEq s0 (set_f_legacy_auth v s).
+Proof. intros v s0 []; exact (fun h => h). Qed.
+#[export] Hint Resolve PsEq_set_f_legacy_auth : pseqdb.
+Lemma PsEq_set_f_sm_disable : forall v s0 s, PsEq s0 s -> PsEq s0 (set_f_sm_disable v s).
+Proof. intros v s0 []; exact (fun h => h). Qed.
+#[export] Hint Resolve PsEq_set_f_sm_disable : pseqdb.
+Lemma PsEq_set_f_comp_allowed : forall v s0 s, PsEq s0 s -> PsEq s0 (set_f_comp_allowed v s).
+Proof. intros v s0 []; exact (fun h => h). Qed.
+#[export] Hint Resolve PsEq_set_f_comp_allowed : pseqdb.
+Lemma PsEq_set_f_comp_dont_reset : forall v s0 s, PsEq s0 s -> PsEq s0 (set_f_comp_dont_reset v s).
+Proof. intros v s0 []; exact (fun h => h). Qed.
+#[export] Hint Resolve PsEq_set_f_comp_dont_reset : pseqdb.
+Lemma PsEq_set_jid_set : forall v s0 s, PsEq s0 s -> PsEq s0 (set_jid_set v s).
+Proof. intros v s0 []; exact (fun h => h). Qed.
+#[export] Hint Resolve PsEq_set_jid_set : pseqdb.
+Lemma PsEq_set_jid_node : forall v s0 s, PsEq s0 s -> PsEq s0 (set_jid_node v s).
+Proof. intros v s0 []; exact (fun h => h). Qed.
+#[export] Hint Resolve PsEq_set_jid_node : pseqdb.
+Lemma PsEq_set_jid_res : forall v s0 s, PsEq s0 s -> PsEq s0 (set_jid_res v s).
+Proof. intros v s0 []; exact (fun h => h). Qed.
+#[export] Hint Resolve PsEq_set_jid_res : pseqdb.
+Lemma PsEq_set_pass_set : forall v s0 s, PsEq s0 s -> PsEq s0 (set_pass_set v s).
+Proof. intros v s0 []; exact (fun h => h). Qed.
+#[export] Hint Resolve PsEq_set_pass_set : pseqdb.
+Lemma PsEq_set_cert_set : forall v s0 s, PsEq s0 s -> PsEq s0 (set_cert_set v s).
+Proof. intros v s0 []; exact (fun h => h). Qed.
+#[export] Hint Resolve PsEq_set_cert_set : pseqdb.
+Lemma PsEq_set_is_raw : forall v s0 s, PsEq s0 s -> PsEq s0 (set_is_raw v s).
+Proof. intros v s0 []; exact (fun h => h). Qed.
+#[export] Hint Resolve PsEq_set_is_raw : pseqdb.
+Lemma PsEq_set_typ : forall v s0 s, PsEq s0 s -> PsEq s0 (set_typ v s).
+Proof. intros v s0 []; exact (fun h => h). Qed.
+#[export] Hint Resolve PsEq_set_typ : pseqdb.
+Lemma PsEq_set_user_handler : forall v s0 s, PsEq s0 s -> PsEq s0 (set_user_handler v s).
+Proof. intros v s0 []; exact (fun h => h). Qed.
+#[export] Hint Resolve PsEq_set_user_handler : pseqdb.
+Lemma PsEq_set_user_timed : forall v s0 s, PsEq s0 s -> PsEq s0 (set_user_timed v s).
+Proof. intros v s0 []; exact (fun h => h). Qed.
+#[export] Hint Resolve PsEq_set_user_timed : pseqdb.
+Lemma PsEq_set_tlsnew_ok : forall v s0 s, PsEq s0 s -> PsEq s0 (set_tlsnew_ok v s).
+Proof. intros v s0 []; exact (fun h => h). Qed.
+#[export] Hint Resolve PsEq_set_tlsnew_ok : pseqdb.
+Lemma PsEq_set_cb_avail : forall v s0 s, PsEq s0 s -> PsEq s0 (set_cb_avail v s).
+Proof. intros v s0 []; exact (fun h => h). Qed.
+#[export] Hint Resolve PsEq_set_cb_avail : pseqdb.
+Lemma PsEq_set_tls_verdicts : forall v s0 s, PsEq s0 s -> PsEq s0 (set_tls_verdicts v s).
+Proof. intros v s0 []; exact (fun h => h). Qed.
+#[export] Hint Resolve PsEq_set_tls_verdicts : pseqdb.
+Lemma PsEq_set_next_cands : forall v s0 s, PsEq s0 s -> PsEq s0 (set_next_cands v s).
+Proof. intros v s0 []; exact (fun h => h). Qed.
+#[export] Hint Resolve PsEq_set_next_cands : pseqdb.
+Lemma PsEq_set_cands : forall v s0 s, PsEq s0 s -> PsEq s0 (set_cands v s).
+Proof. intros v s0 []; exact (fun h => h). Qed.
+#[export] Hint Resolve PsEq_set_cands : pseqdb.
+Lemma PsEq_set_cur_ep : forall v s0 s, PsEq s0 s -> PsEq s0 (set_cur_ep v s).
+Proof. intros v s0 []; exact (fun h => h). Qed.
+#[export] Hint Resolve PsEq_set_cur_ep : pseqdb.
+Lemma PsEq_set_st : forall v s0 s, PsEq s0 s -> PsEq s0 (set_st v s).
+Proof. intros v s0 []; exact (fun h => h). Qed.
+#[export] Hint Resolve PsEq_set_st : pseqdb.
+Lemma PsEq_set_stamp : forall v s0 s, PsEq s0 s -> PsEq s0 (set_stamp v s).
+Proof. intros v s0 []; exact (fun h => h). Qed.
+#[export] Hint Resolve PsEq_set_stamp : pseqdb.
+Lemma PsEq_set_err : forall v s0 s, PsEq s0 s -> PsEq s0 (set_err v s).
+Proof. intros v s0 []; exact (fun h => h). Qed.
+#[export] Hint Resolve PsEq_set_err : pseqdb.
+Lemma PsEq_set_stream_error : forall v s0 s, PsEq s0 s -> PsEq s0 (set_stream_error v s).
+Proof. intros v s0 []; exact (fun h => h). Qed.
+#[export] Hint Resolve PsEq_set_stream_error : pseqdb.
+Lemma PsEq_set_secured : forall v s0 s, PsEq s0 s -> PsEq s0 (set_secured v s).
+Proof. intros v s0 []; exact (fun h => h). Qed.
+#[export] Hint Resolve PsEq_set_secured : pseqdb.
+Lemma PsEq_set_tls_present : forall v s0 s, PsEq s0 s -> PsEq s0 (set_tls_present v s).
+Proof. intros v s0 []; exact (fun h => h). Qed.
+#[export] Hint Resolve PsEq_set_tls_present : pseqdb.
+Lemma PsEq_set_tls_failed : forall v s0 s, PsEq s0 s -> PsEq s0 (set_tls_failed v s).
+Proof. intros v s0 []; exact (fun h => h). Qed.
+#[export] Hint Resolve PsEq_set_tls_failed : pseqdb.
+Lemma PsEq_set_tls_support : forall v s0 s, PsEq s0 s -> PsEq s0 (set_tls_support v s).
+Proof. intros v s0 []; exact (fun h => h). Qed.
+#[export] Hint Resolve PsEq_set_tls_support : pseqdb.
+Lemma PsEq_set_sasl : forall v s0 s, PsEq s0 s -> PsEq s0 (set_sasl v s).
+Proof. intros v s0 []; exact (fun h => h). Qed.
+#[export] Hint Resolve PsEq_set_sasl : pseqdb.
+Lemma PsEq_set_bind_required : forall v s0 s, PsEq s0 s -> PsEq s0 (set_bind_required v s).
+Proof. intros v s0 []; exact (fun h => h). Qed.
+#[export] Hint Resolve PsEq_set_bind_required : pseqdb.
+Lemma PsEq_set_session_required : forall v s0 s, PsEq s0 s -> PsEq s0 (set_session_required v s).
+Proof. intros v s0 []; exact (fun h => h). Qed.
+#[export] Hint Resolve PsEq_set_session_required : pseqdb.
+Lemma PsEq_set_comp_supported : forall v s0 s, PsEq s0 s -> PsEq s0 (set_comp_supported v s).
+Proof. intros v s0 []; exact (fun h => h). Qed.
+#[export] Hint Resolve PsEq_set_comp_supported : pseqdb.
+Lemma PsEq_set_comp_active : forall v s0 s, PsEq s0 s -> PsEq s0 (set_comp_active v s).
+Proof. intros v s0 []; exact (fun h => h). Qed.
+#[export] Hint Resolve PsEq_set_comp_active : pseqdb.
+Lemma PsEq_set_sm_alloc : forall v s0 s, PsEq s0 s -> PsEq s0 (set_sm_alloc v s).
+Proof. intros v s0 []; exact (fun h => h). Qed.
+#[export] Hint Resolve PsEq_set_sm_alloc : pseqdb.
+Lemma PsEq_set_sm_support : forall v s0 s, PsEq s0 s -> PsEq s0 (set_sm_support v s).
+Proof. intros v s0 []; exact (fun h => h). Qed.
+#[export] Hint Resolve PsEq_set_sm_support : pseqdb.
+Lemma PsEq_set_sm_enabled : forall v s0 s, PsEq s0 s -> PsEq s0 (set_sm_enabled v s).
+Proof. intros v s0 []; exact (fun h => h). Qed.
+#[export] Hint Resolve PsEq_set_sm_enabled : pseqdb.
+Lemma PsEq_set_sm_can_resume : forall v s0 s, PsEq s0 s -> PsEq s0 (set_sm_can_resume v s).
+Proof. intros v s0 []; exact (fun h => h). Qed.
+#[export] Hint Resolve PsEq_set_sm_can_resume : pseqdb.
+Lemma PsEq_set_sm_resume : forall v s0 s, PsEq s0 s -> PsEq s0 (set_sm_resume v s).
+Proof. intros v s0 []; exact (fun h => h). Qed.
+#[export] Hint Resolve PsEq_set_sm_resume : pseqdb.
+Lemma PsEq_set_sm_dont_request : forall v s0 s, PsEq s0 s -> PsEq s0 (set_sm_dont_request v s).
+Proof. intros v s0 []; exact (fun h => h). Qed.
+#[export] Hint Resolve PsEq_set_sm_dont_request : pseqdb.
+Lemma PsEq_set_sm_has_previd : forall v s0 s, PsEq s0 s -> PsEq s0 (set_sm_has_previd v s).
+Proof. intros v s0 []; exact (fun h => h). Qed.
+#[export] Hint Resolve PsEq_set_sm_has_previd : pseqdb.
+Lemma PsEq_set_sm_has_id : forall v s0 s, PsEq s0 s -> PsEq s0 (set_sm_has_id v s).
+Proof. intros v s0 []; exact (fun h => h). Qed.
+#[export] Hint Resolve PsEq_set_sm_has_id : pseqdb.
+Lemma PsEq_set_sm_parked : forall v s0 s, PsEq s0 s -> PsEq s0 (set_sm_parked v s).
+Proof. intros v s0 []; exact (fun h => h). Qed.
+#[export] Hint Resolve PsEq_set_sm_parked : pseqdb.
+Lemma PsEq_set_sm_r_sent : forall v s0 s, PsEq s0 s -> PsEq s0 (set_sm_r_sent v s).
+Proof. intros v s0 []; exact (fun h => h). Qed.
+#[export] Hint Resolve PsEq_set_sm_r_sent : pseqdb.
+Lemma PsEq_set_sm_bind_saved : forall v s0 s, PsEq s0 s -> PsEq s0 (set_sm_bind_saved v s).
+Proof. intros v s0 []; exact (fun h => h). Qed.
+#[export] Hint Resolve PsEq_set_sm_bind_saved : pseqdb.
+Lemma PsEq_set_bound_jid : forall v s0 s, PsEq s0 s -> PsEq s0 (set_bound_jid v s).
+Proof. intros v s0 []; exact (fun h => h). Qed.
+#[export] Hint Resolve PsEq_set_bound_jid : pseqdb.
+Lemma PsEq_set_stream_id : forall v s0 s, PsEq s0 s -> PsEq s0 (set_stream_id v s).
+Proof. intros v s0 []; exact (fun h => h). Qed.
+#[export] Hint Resolve PsEq_set_stream_id : pseqdb.
+Lemma PsEq_set_neg_done : forall v s0 s, PsEq s0 s -> PsEq s0 (set_neg_done v s).
+Proof. intros v s0 []; exact (fun h => h). Qed.
+#[export] Hint Resolve PsEq_set_neg_done : pseqdb.
+Lemma PsEq_set_reset_parser : forall v s0 s, PsEq s0 s -> PsEq s0 (set_reset_parser v s).
+Proof. intros v s0 []; exact (fun h => h). Qed.
+#[export] Hint Resolve PsEq_set_reset_parser : pseqdb.
+Lemma PsEq_set_oh : forall v s0 s, PsEq s0 s -> PsEq s0 (set_oh v s).
+Proof. intros v s0 []; exact (fun h => h). Qed.
+#[export] Hint Resolve PsEq_set_oh : pseqdb.
+Lemma PsEq_set_handlers : forall v s0 s, PsEq s0 s -> PsEq s0 (set_handlers v s).
+Proof. intros v s0 []; exact (fun h => h). Qed.
+#[export] Hint Resolve PsEq_set_handlers : pseqdb.
+Lemma PsEq_set_idhandlers : forall v s0 s, PsEq s0 s -> PsEq s0 (set_idhandlers v s).
+Proof. intros v s0 []; exact (fun h => h). Qed.
+#[export] Hint Resolve PsEq_set_idhandlers : pseqdb.
+Lemma PsEq_set_timed : forall v s0 s, PsEq s0 s -> PsEq s0 (set_timed v s).
+Proof. intros v s0 []; exact (fun h => h). Qed.
+#[export] Hint Resolve PsEq_set_timed : pseqdb.
+Lemma PsEq_set_sendq : forall v s0 s, PsEq s0 s -> PsEq s0 (set_sendq v s).
+Proof. intros v s0 []; exact (fun h => h). Qed.
+#[export] Hint Resolve PsEq_set_sendq : pseqdb.
+Lemma PsEq_set_rxq : forall v s0 s, PsEq s0 s -> PsEq s0 (set_rxq v s).
+Proof. intros v s0 []; exact (fun h => h). Qed.
+#[export] Hint Resolve PsEq_set_rxq : pseqdb.
+Lemma PsEq_set_smq : forall v s0 s, PsEq s0 s -> PsEq s0 (set_smq v s).
+Proof. intros v s0 []; exact (fun h => h). Qed.
+#[export] Hint Resolve PsEq_set_smq : pseqdb.
+Lemma PsEq_set_sm_sent : forall v s0 s, PsEq s0 s -> PsEq s0 (set_sm_sent v s).
+Proof. intros v s0 []; exact (fun h => h). Qed.
+#[export] Hint Resolve PsEq_set_sm_sent : pseqdb.
+Lemma PsEq_set_scram_serial : forall v s0 s, PsEq s0 s -> PsEq s0 (set_scram_serial v s).
+Proof. intros v s0 []; exact (fun h => h). Qed.
+#[export] Hint Resolve PsEq_set_scram_serial : pseqdb.
+Lemma PsEq_set_crashed : forall v s0 s, PsEq s0 s -> PsEq s0 (set_crashed v s).
+Proof. intros v s0 []; exact (fun h => h). Qed.
+#[export] Hint Resolve PsEq_set_crashed : pseqdb.
+Lemma PsEq_set_gh : forall v s0 s, PsEq s0 s -> PsEq s0 (set_gh v s).
+Proof. intros v s0 []; exact (fun h => h). Qed.
+#[export] Hint Resolve PsEq_set_gh : pseqdb.
+Lemma PsEq_upg : forall f s0 s, PsEq s0 s -> PsEq s0 (upg f s).
+Proof. intros f s0 []; exact (fun h => h). Qed.
+#[export] Hint Resolve PsEq_upg : pseqdb.
+Lemma PsEq_q_append : forall w u sm s0 s, PsEq s0 s -> PsEq s0 (q_append w u sm s).
+Proof. intros; unfold q_append, ret; cases; leaf; eauto 30 with pseqdb. Qed.
+#[export] Hint Resolve PsEq_q_append : pseqdb.
+Lemma PsEq_send_gated : forall w u sm s0 s, PsEq s0 s -> PsEq s0 (send_gated w u sm s).
+Proof. intros; unfold send_gated, ret; cases; leaf; eauto 30 with pseqdb. Qed.
+#[export] Hint Resolve PsEq_send_gated : pseqdb.
+Lemma PsEq_send_raw_m : forall w u sm s0 s, PsEq s0 s -> PsEq s0 (send_raw_m w u sm s).
+Proof. intros; unfold send_raw_m, ret; cases; leaf; eauto 30 with pseqdb. Qed.
+#[export] Hint Resolve PsEq_send_raw_m : pseqdb.
+Lemma PsEq_timed_add : forall k n s0 s, PsEq s0 s -> PsEq s0 (timed_add k n s).
+Proof. intros; unfold timed_add, ret; cases; leaf; eauto 30 with pseqdb. Qed.
+#[export] Hint Resolve PsEq_timed_add : pseqdb.
+Lemma PsEq_timed_del : forall k s0 s, PsEq s0 s -> PsEq s0 (timed_del k s).
+Proof. intros; unfold timed_del, ret; cases; leaf; eauto 30 with pseqdb. Qed.
+#[export] Hint Resolve PsEq_timed_del : pseqdb.
+Lemma PsEq_timed_reset_all : forall n s0 s, PsEq s0 s -> PsEq s0 (timed_reset_all n s).
+Proof. intros; unfold timed_reset_all, ret; cases; leaf; eauto 30 with pseqdb. Qed.
+#[export] Hint Resolve PsEq_timed_reset_all : pseqdb.
+Lemma PsEq_timed_set_stamp : forall k n s0 s, PsEq s0 s -> PsEq s0 (timed_set_stamp k n s).
+Proof. intros; unfold timed_set_stamp, ret; cases; leaf; eauto 30 with pseqdb. Qed.
+#[export] Hint Resolve PsEq_timed_set_stamp : pseqdb.
+Lemma PsEq_h_add : forall k s0 s, PsEq s0 s -> PsEq s0 (h_add k s).
+Proof. intros; unfold h_add, ret; cases; leaf; eauto 30 with pseqdb. Qed.
+#[export] Hint Resolve PsEq_h_add : pseqdb.
+Lemma PsEq_h_del : forall k s0 s, PsEq s0 s -> PsEq s0 (h_del k s).
+Proof. intros; unfold h_del, ret; cases; leaf; eauto 30 with pseqdb. Qed.
+#[export] Hint Resolve PsEq_h_del : pseqdb.
+Lemma PsEq_id_add : forall k s0 s, PsEq s0 s -> PsEq s0 (id_add k s).
+Proof. intros; unfold id_add, ret; cases; leaf; eauto 30 with pseqdb. Qed.
+#[export] Hint Resolve PsEq_id_add : pseqdb.
+Lemma PsEq_id_del : forall k s0 s, PsEq s0 s -> PsEq s0 (id_del k s).
+Proof. intros; unfold id_del, ret; cases; leaf; eauto 30 with pseqdb. Qed.
+#[export] Hint Resolve PsEq_id_del : pseqdb.
+Lemma PsEq_reset_sm_for_reconnect : forall s0 s, PsEq s0 s -> PsEq s0 (reset_sm_for_reconnect s).
+Proof. intros; unfold reset_sm_for_reconnect, ret; cases; leaf; eauto 30 with pseqdb. Qed.
+#[export] Hint Resolve PsEq_reset_sm_for_reconnect : pseqdb.
+Lemma PsEq_sm_queue_cleanup : forall h s0 s, PsEq s0 s -> PsEq s0 (sm_queue_cleanup h s).
+Proof. intros; unfold sm_queue_cleanup, ret; cases; leaf; eauto 30 with pseqdb. Qed.
+#[export] Hint Resolve PsEq_sm_queue_cleanup : pseqdb.
+Lemma PsEq_sm_queue_resend : forall s0 s, PsEq s0 s -> PsEq s0 (sm_queue_resend s).
+Proof. intros; unfold sm_queue_resend; apply fold_left_inv; eauto with pseqdb. Qed.
+#[export] Hint Resolve PsEq_sm_queue_resend : pseqdb.
+Lemma PsEq_conn_disconnect : forall s0 s, PsEq s0 s -> PsEq s0 (fst (conn_disconnect s)).
+Proof. intros; name_result; unfold conn_disconnect, ret; cases; leaf; eauto 30 with pseqdb. Qed.
+#[export] Hint Resolve PsEq_conn_disconnect : pseqdb.
+Lemma PsEq_xmpp_disconnect : forall n s0 s, PsEq s0 s -> PsEq s0 (xmpp_disconnect n s).
+Proof. intros; unfold xmpp_disconnect, ret; cases; leaf; eauto 30 with pseqdb. Qed.
+#[export] Hint Resolve PsEq_xmpp_disconnect : pseqdb.
+Lemma PsEq_prepare_reset : forall h s0 s, PsEq s0 s -> PsEq s0 (prepare_reset h s).
+Proof. intros; unfold prepare_reset, ret; cases; leaf; eauto 30 with pseqdb. Qed.
+#[export] Hint Resolve PsEq_prepare_reset : pseqdb.
+Lemma PsEq_conn_open_stream : forall s0 s, PsEq s0 s -> PsEq s0 (conn_open_stream s).
+Proof. intros; unfold conn_open_stream, ret; cases; leaf; eauto 30 with pseqdb. Qed.
+#[export] Hint Resolve PsEq_conn_open_stream : pseqdb.
+Lemma PsEq_conn_tls_start : forall s0 s, PsEq s0 s -> PsEq s0 (fst (fst (conn_tls_start s))).
+Proof. intros; name_result; unfold conn_tls_start, ret; cases; leaf; eauto 30 with pseqdb. Qed.
+#[export] Hint Resolve PsEq_conn_tls_start : pseqdb.
+Lemma PsEq_stream_negotiation_success : forall s0 s, PsEq s0 s -> PsEq s0 (fst (stream_negotiation_success s)).
+Proof. intros; name_result; unfold stream_negotiation_success, ret; cases; leaf; eauto 30 with pseqdb. Qed.
+#[export] Hint Resolve PsEq_stream_negotiation_success : pseqdb.
+Lemma PsEq_do_bind : forall n b s0 s, PsEq s0 s -> PsEq s0 (fst (do_bind n b s)).
+Proof. intros; name_result; unfold do_bind, ret; cases; leaf; eauto 30 with pseqdb. Qed.
+#[export] Hint Resolve PsEq_do_bind : pseqdb.
+Lemma PsEq_session_start : forall n s0 s, PsEq s0 s -> PsEq s0 (session_start n s).
+Proof. intros; unfold session_start, ret; cases; leaf; eauto 30 with pseqdb. Qed.
+#[export] Hint Resolve PsEq_session_start : pseqdb.
+Lemma PsEq_sm_enable : forall s0 s, PsEq s0 s -> PsEq s0 (sm_enable s).
+Proof. intros; unfold sm_enable, ret; cases; leaf; eauto 30 with pseqdb. Qed.
+#[export] Hint Resolve PsEq_sm_enable : pseqdb.
+Lemma PsEq_auth_legacy : forall n s0 s, PsEq s0 s -> PsEq s0 (auth_legacy n s).
+Proof. intros; unfold auth_legacy, ret; cases; leaf; eauto 30 with pseqdb. Qed.
+#[export] Hint Resolve PsEq_auth_legacy : pseqdb.
+Lemma PsEq_auth : forall fuel n s0 s, PsEq s0 s -> PsEq s0 (fst (auth fuel n s)).
+Proof. induction fuel; intros; name_result; cbn [auth]; unfold ret; cases; leaf; eauto 30 with pseqdb. Qed.
+#[export] Hint Resolve PsEq_auth : pseqdb.
+Lemma PsEq_sasl_result : forall n e s0 s, PsEq s0 s -> PsEq s0 (fst (sasl_result n e s)).
+Proof. intros; name_result; unfold sasl_result, ret; cases; leaf; eauto 30 with pseqdb. Qed.
+#[export] Hint Resolve PsEq_sasl_result : pseqdb.
+Lemma PsEq_features_sasl : forall n e s0 s, PsEq s0 s -> PsEq s0 (fst (features_sasl n e s)).
+Proof. intros; name_result; unfold features_sasl, ret; cases; leaf; eauto 30 with pseqdb. Qed.
+#[export] Hint Resolve PsEq_features_sasl : pseqdb.
+Lemma PsEq_call_handler : forall k n e s0 s, PsEq s0 s -> PsEq s0 (fst (fst (call_handler k n e s))).
+Proof. intros k; destruct k; intros; name_result; unfold call_handler, ret; cases; leaf; eauto 30 with pseqdb. Qed.
+#[export] Hint Resolve PsEq_call_handler : pseqdb.
+Lemma PsEq_call_id_handler : forall k n e s0 s, PsEq s0 s -> PsEq s0 (fst (call_id_handler k n e s)).
+Proof. intros k; destruct k; intros; name_result; unfold call_id_handler, ret; cases; leaf; eauto 30 with pseqdb. Qed.
+#[export] Hint Resolve PsEq_call_id_handler : pseqdb.
+Lemma PsEq_note_rx : forall e s0 s, PsEq s0 s -> PsEq s0 (note_rx e s).
+Proof. intros; unfold note_rx; cbv zeta; eauto with pseqdb. Qed.
+#[export] Hint Resolve PsEq_note_rx : pseqdb.
+Lemma PsEq_visit : forall n e s0 r k, PsEq s0 (fst r) -> PsEq s0 (fst (visit n e r k)).
+Proof. intros n e s0 [s o] k H. cbn [fst] in H. name_result. unfold visit. cases; leaf; eauto 30 with pseqdb. Qed.
+Lemma PsEq_fold_visit : forall n e l s0 s o, PsEq s0 s -> PsEq s0 (fst (fold_left (visit n e) l (s, o))).
+Proof. intros n e l s0 s o H. apply (fold_left_inv (fun r => PsEq s0 (fst r))); auto. intros; apply PsEq_visit; auto. Qed.
+#[export] Hint Resolve PsEq_fold_visit : pseqdb.
+Lemma PsEq_sm_handle : forall e s0 s, PsEq s0 s -> PsEq s0 (sm_handle e s).
+Proof. intros; unfold sm_handle, ret; cases; leaf; eauto 30 with pseqdb. Qed.
+#[export] Hint Resolve PsEq_sm_handle : pseqdb.
+Lemma PsEq_dispatch : forall n e s0 s, PsEq s0 s -> PsEq s0 (fst (dispatch n e s)).
+Proof. intros; name_result; unfold dispatch, ret; cases; leaf; eauto 30 with pseqdb. Qed.
+#[export] Hint Resolve PsEq_dispatch : pseqdb.
+Lemma PsEq_open_handler : forall n s0 s, PsEq s0 s -> PsEq s0 (fst (open_handler n s)).
+Proof. intros; name_result; unfold open_handler, ret; cases; leaf; eauto 30 with pseqdb. Qed.
+#[export] Hint Resolve PsEq_open_handler : pseqdb.
+Lemma PsEq_stream_start : forall n a b s0 s, PsEq s0 s -> PsEq s0 (fst (stream_start n a b s)).
+Proof. intros; name_result; unfold stream_start, ret; cases; leaf; eauto 30 with pseqdb. Qed.
+#[export] Hint Resolve PsEq_stream_start : pseqdb.
+Lemma PsEq_stream_end : forall s0 s, PsEq s0 s -> PsEq s0 (fst (stream_end s)).
+Proof. intros; name_result; unfold stream_end, ret; cases; leaf; eauto 30 with pseqdb. Qed.
+#[export] Hint Resolve PsEq_stream_end : pseqdb.
+Lemma PsEq_call_timed : forall k n s0 s, PsEq s0 s -> PsEq s0 (fst (fst (call_timed k n s))).
+Proof. intros k; destruct k; intros; name_result; unfold call_timed, ret; cases; leaf; eauto 30 with pseqdb. Qed.
+#[export] Hint Resolve PsEq_call_timed : pseqdb.
+Lemma PsEq_visit_timed : forall n s0 r k, PsEq s0 (fst r) -> PsEq s0 (fst (visit_timed n r k)).
+Proof. intros n s0 [s o] k H. cbn [fst] in H. name_result. unfold visit_timed. cases; leaf; eauto 30 with pseqdb. Qed.
+Lemma PsEq_fold_visit_timed : forall n l s0 s o, PsEq s0 s -> PsEq s0 (fst (fold_left (visit_timed n) l (s, o))).
+Proof. intros n l s0 s o H. apply (fold_left_inv (fun r => PsEq s0 (fst r))); auto. intros; apply PsEq_visit_timed; auto. Qed.
+#[export] Hint Resolve PsEq_fold_visit_timed : pseqdb.
+Lemma PsEq_fire_timed : forall n s0 s, PsEq s0 s -> PsEq s0 (fst (fire_timed n s)).
+Proof. intros; name_result; unfold fire_timed, ret; cases; leaf; eauto 30 with pseqdb. Qed.
+#[export] Hint Resolve PsEq_fire_timed : pseqdb.
+Lemma PsEq_connect_next : forall n s0 s, PsEq s0 s -> PsEq s0 (fst (fst (connect_next n s))).
+Proof. intros; name_result; unfold connect_next; destruct (sock_connect (cands s)) as [oo [[k r]|]]; leaf; eauto 20 with pseqdb. Qed.
+#[export] Hint Resolve PsEq_connect_next : pseqdb.
+Lemma PsEq_conn_established : forall n s0 s, PsEq s0 s -> PsEq s0 (fst (conn_established n s)).
+Proof. intros; name_result; unfold conn_established, ret; cases; leaf; eauto 30 with pseqdb. Qed.
+#[export] Hint Resolve PsEq_conn_established : pseqdb.
+
+(* ------------------------------------------------------------------ parser-layer steps *)
+Lemma pending_set_ps : forall p s, is_depth0 p = false -> (pending (set_ps p s) <= pending s)%nat.
+Proof.
+  intros p s D. unfold pending. sproj. rewrite D, orb_false_r.
+  destruct (client_oh (oh s)), (reset_parser s), (is_depth0 (ps s)); cbn; lia.
+Qed.
+Lemma PH_set_ps : forall p s, is_depth0 p = false -> PH s -> PH (set_ps p s).
+Proof.
+  intros p s D P. pose proof (pending_set_ps p s D) as Pe. constructor.
+  - apply TI_set_ps, P.
+  - pose proof (ph_amo _ P) as M. unfold marks in *.
+    assert (hmarks (set_ps p s) = hmarks s) as -> by reflexivity. assert (imarks (set_ps p s) = imarks s) as -> by reflexivity. lia.
+  - apply T01_set_ps; [exact D | apply P].
+  - apply (MT_of (set_ps p)); [apply CS_set_ps | apply PL_set_ps | apply P].
+  - apply SmOff_set_ps, P.
+  - intros En. destruct (ph_se _ P En) as (A & B & C). repeat split; auto. lia.
+  - apply T25_set_ps, P.
+Qed.
+Lemma DL_set_ps : forall p s, DL s -> DL (set_ps p s).
+Proof. intros p s L D. exact (L D). Qed.
+
+Lemma PH_conn_disconnect : forall s, PH s -> PH (fst (conn_disconnect s)).
+Proof.
+  intros s P. apply (PH_neutral s); [apply HFr_conn_disconnect, HFr_refl | apply TI_conn_disconnect, P | apply T01_conn_disconnect, P
+    | apply (MT_of (fun x => fst (conn_disconnect x))); [apply CS_conn_disconnect | apply PL_conn_disconnect | apply P]
+    | apply SmOff_conn_disconnect, P | apply Sn_conn_disconnect, Sn_refl | apply T25_conn_disconnect, P | exact P].
+Qed.
+Lemma PH_stream_end : forall s, PH s -> PH (fst (stream_end s)).
+Proof.
+  intros s P. apply (PH_neutral s); [ | apply TI_stream_end, P | apply T01_stream_end, P
+    | apply (MT_of (fun x => fst (stream_end x))); [apply CS_stream_end | apply PL_stream_end | apply P]
+    | apply SmOff_stream_end, P | apply Sn_stream_end, Sn_refl | apply T25_stream_end, P | exact P].
+  name_result. unfold stream_end. cases; leaf; eauto 20 with hfrdb.
+Qed.
+
+(* the open handlers: the pending client restart becomes a registered features handler *)
+Lemma QFr_open_handler : forall n s0 s, client_oh (oh s) = false -> QFr s0 s -> QFr s0 (fst (open_handler n s)).
+Proof.
+  intros n s0 s C H. name_result. unfold open_handler, ret. destruct (oh s); try discriminate; cases; leaf; eauto 30 with qfrdb.
+Qed.
+Lemma MT_open_handler : forall n s, MT s -> MT (fst (open_handler n s)).
+Proof.
+  intros n s [C|P]; [left; apply CS_open_handler; exact C|].
+  right. assert (O : oh s <> OpenComponent) by apply P.
+  name_result. unfold open_handler, ret. destruct (oh s) eqn:E; try congruence; cases; leaf; eauto 30 with pldb.
+Qed.
+Lemma MT_stream_start : forall n a b s, MT s -> MT (fst (stream_start n a b s)).
+Proof.
+  intros n a b s H. name_result. unfold stream_start. cases; leaf.
+  - apply MT_open_handler. destruct H as [C|P]; [left; eauto 10 with csdb | right; eauto 10 with pldb].
+  - destruct H as [C|P]; [left; eauto 10 with csdb | right; eauto 10 with pldb].
+Qed.
+Lemma QFr_stream_start : forall n a b s0 s, client_oh (oh s) = false -> QFr s0 s -> QFr s0 (fst (stream_start n a b s)).
+Proof.
+  intros n a b s0 s C H. name_result. unfold stream_start. cases; leaf.
+  - apply QFr_open_handler; [exact C | eauto 10 with qfrdb].
+  - apply (QFr_HFr s0 s); auto. eauto 10 with hfrdb.
+Qed.
+Lemma StEq_stream_start_ok : forall n b s0 s, StEq s0 s -> StEq s0 (fst (stream_start n true b s)).
+Proof. intros n b s0 s H. name_result. unfold stream_start. leaf. eauto 10 with steqdb. Qed.
+
+Lemma PH_stream_start : forall n a b s p, PH s -> ps s = PDepth0 -> reset_parser s = false -> is_depth0 p = false ->
+  PH (fst (stream_start n a b (set_ps p s))).
+Proof.
+  intros n a b s p P D R Dp. set (x := set_ps p s).
+  assert (Px : PH x) by (apply PH_set_ps; assumption).
+  constructor.
+  - apply TI_stream_start, Px.
+  - pose proof (Bd_stream_start n a b 0 x x (Bd_refl x)) as B. destruct B as [B _ _ _].
+    pose proof (ph_amo _ P) as M. unfold marks, pending in *.
+    assert (hmarks x = hmarks s) as E1 by reflexivity. assert (imarks x = imarks s) as E2 by reflexivity.
+    assert (oh x = oh s) as E3 by reflexivity. assert (reset_parser x = reset_parser s) as E4 by reflexivity.
+    assert (ps x = p) as E5 by reflexivity.
+    rewrite E1, E2, E3, E4, E5, R, Dp in B. rewrite R, D in M. cbn [orb is_depth0] in *. rewrite andb_false_r in B. rewrite andb_true_r in M.
+    cbn [b2n] in B. lia.
+  - apply T01_stream_start; [ | apply Px]. intros O. change (sasl x) with (sasl s). apply (proj1 (ph_t01 _ P)); [exact O|].
+    rewrite D. apply orb_true_r.
+  - apply MT_stream_start, Px.
+  - apply SmOff_stream_start, Px.
+  - intros En. pose proof (Sn_stream_start n a b x x (Sn_refl x) En) as En0. change (sm_enabled x) with (sm_enabled s) in En0.
+    destruct (ph_se _ P En0) as (A & B & C).
+    assert (Cl : client_oh (oh s) = false).
+    { unfold pending in C. rewrite D in C. cbn [is_depth0] in C. rewrite orb_true_r, andb_true_r in C. destruct (client_oh (oh s)); auto; discriminate. }
+    pose proof (QFr_stream_start n a b x x Cl (QFr_refl x)) as Q.
+    pose proof (qfr_q _ _ Q) as Q1. pose proof (qfr_oh _ _ Q) as Q2. pose proof (qfr_bind _ _ Q) as Q5.
+    change (qmarks x) with (qmarks s) in Q1. change (oh x) with (oh s) in Q2. change (id_has IKBind x) with (id_has IKBind s) in Q5.
+    rewrite Q1. unfold pending. rewrite Q2, Cl. repeat split; auto.
+    destruct (id_has IKBind (fst (stream_start n a b x))); auto. rewrite Q5 in B; auto.
+  - apply T25_stream_start, Px.
+Qed.
+
+(* ------------------------------------------------------------------ one chunk *)
+Definition ps_live (p : pstate) : bool := match p with PClosed | PDead => false | _ => true end.
+Definition FI (s : state) : Prop :=
+  PH s /\ (ps_live (ps s) = true -> DL s) /\ (is_depth0 (ps s) = true -> st s = Connected /\ reset_parser s = false).
+
+Lemma FI_intro : forall s, PH s -> (ps_live (ps s) = true -> DL s) -> is_depth0 (ps s) = false -> FI s.
+Proof. intros s P L D. refine (conj P (conj L _)). rewrite D. discriminate. Qed.
+
+Lemma FI_feed_item : forall n it s, FI s -> FI (fst (fst (feed_item n it s))).
+Proof.
+  intros n it s (P & L & F). unfold feed_item.
+  destruct (ps s) eqn:Ps; cbn [ps_live is_depth0] in *.
+  - (* PDepth0 *)
+    destruct (F eq_refl) as [Fc Fr]. clear F. destruct it as [h|e| |].
+    + (* stream header *)
+      pose proof (PH_stream_start n true h s POpen P Ps Fr eq_refl) as P1.
+      pose proof (PsEq_stream_start n true h _ _ (PsEq_refl (set_ps POpen s))) as E1. unfold PsEq in E1.
+      pose proof (StEq_stream_start_ok n h _ _ (StEq_refl (set_ps POpen s))) as E2. unfold StEq in E2.
+      destruct (stream_start n true h (set_ps POpen s)) as [s1 o1]. cbn [fst] in *.
+      apply FI_intro; auto; [ | rewrite E1; reflexivity]. intros _ D. change (st (set_ps POpen s)) with (st s) in E2. congruence.
+    + destruct (ns_eqb (e_ns e) NsStreams).
+      * cbn [fst]. apply FI_intro; [apply PH_set_ps; auto | discriminate | reflexivity].
+      * pose proof (PH_stream_start n (ename_eqb (e_name e) NmStream) false s PClosed P Ps Fr eq_refl) as P1.
+        pose proof (PsEq_stream_start n (ename_eqb (e_name e) NmStream) false _ _ (PsEq_refl (set_ps PClosed s))) as E1. unfold PsEq in E1.
+        destruct (stream_start n (ename_eqb (e_name e) NmStream) false (set_ps PClosed s)) as [s1 o1]. cbn [fst] in *.
+        change (ps (set_ps PClosed s)) with PClosed in E1.
+        destruct (crashed s1); [cbn [fst]; apply FI_intro; auto; rewrite E1; [discriminate|reflexivity]|].
+        pose proof (PH_stream_end s1 P1) as P2. pose proof (PsEq_stream_end s1 s1 (PsEq_refl s1)) as E2. unfold PsEq in E2.
+        destruct (stream_end s1) as [s2 o2]. cbn [fst] in *. apply FI_intro; auto; rewrite E2, E1; [discriminate|reflexivity].
+    + cbn [fst]. apply FI_intro; [apply PH_set_ps; auto | discriminate | reflexivity].
+    + cbn [fst]. apply FI_intro; [apply PH_set_ps; auto | discriminate | reflexivity].
+  - (* POpen *)
+    specialize (L eq_refl). destruct it as [h|e| |].
+    + cbn [fst]. apply FI_intro; [apply PH_set_ps; auto | intros _; apply DL_set_ps; exact L | reflexivity].
+    + pose proof (PH_dispatch n e s P L) as [P1 L1]. pose proof (PsEq_dispatch n e s s (PsEq_refl s)) as E1. unfold PsEq in E1.
+      destruct (dispatch n e s) as [s1 o1]. cbn [fst] in *. apply FI_intro; auto; rewrite E1, Ps; reflexivity.
+    + pose proof (PH_stream_end _ (PH_set_ps PClosed s eq_refl P)) as P1.
+      pose proof (PsEq_stream_end _ _ (PsEq_refl (set_ps PClosed s))) as E1. unfold PsEq in E1.
+      destruct (stream_end (set_ps PClosed s)) as [s1 o1]. cbn [fst] in *. change (ps (set_ps PClosed s)) with PClosed in E1.
+      apply FI_intro; auto; rewrite E1; [discriminate|reflexivity].
+    + cbn [fst]. apply FI_intro; [apply PH_set_ps; auto | discriminate | reflexivity].
+  - (* PSwallow *)
+    specialize (L eq_refl). destruct it as [h|e| |].
+    + cbn [fst]. apply FI_intro; [apply PH_set_ps; auto | intros _; apply DL_set_ps; exact L | reflexivity].
+    + cbn [fst]. apply FI_intro; [apply PH_set_ps; auto | intros _; apply DL_set_ps; exact L | reflexivity].
+    + destruct n0 as [|[|m]].
+      * cbn [fst]. apply FI_intro; [apply PH_set_ps; auto | intros _; apply DL_set_ps; exact L | reflexivity].
+      * pose proof (PH_dispatch n (nested_stream_elem cns) _ (PH_set_ps POpen s eq_refl P) (DL_set_ps POpen s L)) as [P1 L1].
+        pose proof (PsEq_dispatch n (nested_stream_elem cns) _ _ (PsEq_refl (set_ps POpen s))) as E1. unfold PsEq in E1.
+        destruct (dispatch n (nested_stream_elem cns) (set_ps POpen s)) as [s1 o1]. cbn [fst] in *.
+        change (ps (set_ps POpen s)) with POpen in E1. apply FI_intro; auto; rewrite E1; reflexivity.
+      * cbn [fst]. apply FI_intro; [apply PH_set_ps; auto | intros _; apply DL_set_ps; exact L | reflexivity].
+    + cbn [fst]. apply FI_intro; [apply PH_set_ps; auto | discriminate | reflexivity].
+  - (* PClosed *)
+    destruct it; cbn [fst]; apply FI_intro; try (apply PH_set_ps; auto); try discriminate; reflexivity.
+  - (* PDead *)
+    destruct it; cbn [fst]; apply FI_intro; auto; try discriminate; rewrite Ps; try discriminate; reflexivity.
+Qed.
+Lemma FI_feed_items : forall n its s, FI s -> FI (fst (fst (feed_items n its s))).
+Proof.
+  induction its as [|it r IH]; intros s H; cbn [feed_items]; [exact H|].
+  destruct (crashed s); [exact H|].
+  pose proof (FI_feed_item n it s H) as H1. destruct (feed_item n it s) as [[s1 o1] bad]. cbn [fst] in *.
+  destruct bad; [exact H1|]. specialize (IH s1 H1). destruct (feed_items n r s1) as [[s2 o2] bad2]. exact IH.
+Qed.
+
+(* ------------------------------------------------------------------ timed handlers *)
+Lemma timed_lookup_has : forall k s x, timed_lookup k s = Some x -> timed_has k s = true.
+Proof.
+  intros k s x. unfold timed_lookup, timed_has. induction (timed s) as [|y l IH]; cbn; [discriminate|].
+  destruct (tkind_eqb k (fst (fst y))); cbn; auto.
+Qed.
+Lemma PH_step_neutral : forall (f : state -> state) s,
+  (forall s0 x, HFr s0 x -> HFr s0 (f x)) -> (forall x, TI x -> TI (f x)) -> (forall x, T01 x -> T01 (f x)) ->
+  (forall x, CS x -> CS (f x)) -> (forall x, PL x -> PL (f x)) -> (forall x, SmOff x -> SmOff (f x)) ->
+  (forall s0 x, Sn s0 x -> Sn s0 (f x)) -> (forall x, T25 x -> T25 (f x)) -> PH s -> PH (f s).
+Proof.
+  intros f s A B C D E F G T P. apply (PH_neutral s); auto using HFr_refl, Sn_refl; try apply P.
+  - apply B, P. - apply C, P. - apply (MT_of f); auto. apply P. - apply F, P. - apply T, P.
+Qed.
+Lemma PH_xmpp_disconnect : forall n s, PH s -> PH (xmpp_disconnect n s).
+Proof.
+  intros n s. apply (PH_step_neutral (xmpp_disconnect n)); intros;
+    auto using HFr_xmpp_disconnect, TI_xmpp_disconnect, T01_xmpp_disconnect, CS_xmpp_disconnect, PL_xmpp_disconnect, SmOff_xmpp_disconnect, Sn_xmpp_disconnect, T25_xmpp_disconnect.
+Qed.
+Lemma PH_timed_set_stamp : forall k n s, PH s -> PH (timed_set_stamp k n s).
+Proof.
+  intros k n s. apply (PH_step_neutral (timed_set_stamp k n)); intros;
+    auto using HFr_timed_set_stamp, TI_timed_set_stamp, T01_timed_set_stamp, CS_timed_set_stamp, PL_timed_set_stamp, SmOff_timed_set_stamp, Sn_timed_set_stamp, T25_timed_set_stamp.
+Qed.
+Lemma PH_timed_del : forall k s, PH s -> PH (timed_del k s).
+Proof.
+  intros k s. apply (PH_step_neutral (timed_del k)); intros;
+    auto using HFr_timed_del, TI_timed_del, T01_timed_del, CS_timed_del, PL_timed_del, SmOff_timed_del, Sn_timed_del, T25_timed_del.
+Qed.
+Lemma PH_auth_timer : forall n s, PH s -> timed_has TMissingFeatures s = true -> PH (fst (auth 1 n s)).
+Proof.
+  intros n s P T. destruct (proj2 (ph_t01 _ P) T) as [S0 F0]. constructor.
+  - apply TI_auth, P.
+  - pose proof (Bd_auth0 1 n 0 s s (proj1 (ph_ti _ P)) S0 (Bd_refl s)) as B. destruct B as [B ? ? ?]. pose proof (ph_amo _ P). lia.
+  - apply T01_auth, P.
+  - apply MT_auth, P.
+  - apply SmOff_auth, P.
+  - intros En. pose proof (Sn_auth 1 n s s (Sn_refl s) En) as En0. destruct (ph_se _ P En0) as (A & _).
+    pose proof (qmarks_pos HFeatures s eq_refl F0). lia.
+  - apply T25_auth, P.
+Qed.
+Lemma PH_call_timed_step : forall k n s, PH s -> timed_has k s = true ->
+  let r := call_timed k n s in PH (if snd r then fst (fst r) else timed_del k (fst (fst r))).
+Proof.
+  intros k n s P T. cbv zeta. destruct k; unfold call_timed; cbn [fst snd]; auto using PH_timed_del, PH_xmpp_disconnect.
+  - pose proof (PH_auth_timer n s P T) as Q. destruct (auth 1 n s) as [s1 o1]. cbn [fst snd] in *. apply PH_timed_del, Q.
+  - pose proof (PH_conn_disconnect s P) as Q. destruct (conn_disconnect s) as [s1 o1]. cbn [fst snd] in *. apply PH_timed_del, Q.
+Qed.
+Lemma PH_visit_timed : forall n r k, PH (fst r) -> PH (fst (visit_timed n r k)).
+Proof.
+  intros n [s o] k P. cbn [fst] in *. unfold visit_timed.
+  destruct (crashed s); auto. destruct (timed_lookup k s) as [[en stp]|] eqn:E; auto.
+  destruct (negb en); auto. destruct (tkind_eqb k TUser && negb (neg_done s)); auto.
+  destruct (n - stp >=? tperiod s k); auto.
+  assert (T : timed_has k (timed_set_stamp k n s) = true) by (rewrite timed_has_timed_set_stamp; eapply timed_lookup_has; eauto).
+  pose proof (PH_call_timed_step k n _ (PH_timed_set_stamp k n s P) T) as Q. cbv zeta in Q.
+  destruct (call_timed k n (timed_set_stamp k n s)) as [[s2 o2] keep]. cbn [fst snd] in *. exact Q.
+Qed.
+Lemma PH_fire_timed : forall n s, PH s -> PH (fst (fire_timed n s)).
+Proof.
+  intros n s P. unfold fire_timed, ret. destruct (st s); auto.
+  apply (fold_left_inv (fun r => PH (fst r))); [intros; apply PH_visit_timed; auto|]. cbn [fst].
+  apply (PH_neutral s); [apply HFr_set_timed, HFr_refl | apply TI_set_timed, P | apply T01_enable_timed, P
+    | apply (MT_of (set_timed _)); [apply CS_set_timed | apply PL_set_timed | apply P]
+    | apply SmOff_set_timed, P | apply Sn_set_timed, Sn_refl | apply T25_set_timed, P | exact P].
+Qed.
+
+(* ================================================================== the phase invariant along an event-loop iteration *)
+Definition CG (s : state) : Prop :=
+  st s = Connecting -> hmarks s = 0%nat /\ imarks s = 0%nat /\ secured s = false /\ tls_present s = false.
+Definition F24 (s : state) : Prop := f_tls_mandatory s && f_tls_disabled s = false.
+Definition PHS (s : state) : Prop := PH s /\ CG s /\ F24 s.
+
+Lemma hmarks0_no_handler : forall k s, hmarks s = 0%nat -> is_main k = true -> h_has k s = false.
+Proof. intros k s H M. destruct (h_has k s) eqn:E; auto. pose proof (hmarks_pos k s M E). lia. Qed.
+
+Lemma HFr_conn_established : forall n s0 s, HFr s0 s -> HFr s0 (fst (conn_established n s)).
+Proof.
+  intros n s0 s H. name_result. unfold conn_established.
+  destruct (f_legacy_ssl s && negb (is_raw s)).
+  - pose proof (HFr_conn_tls_start s0 s H) as T. destruct (conn_tls_start s) as [[sa oa] ok]. cbn [fst] in T.
+    cases; leaf; eauto 20 with hfrdb.
+  - cases; leaf; eauto 20 with hfrdb.
+Qed.
+Lemma PL_conn_established : forall n s, PL s -> PL (fst (conn_established n s)).
+Proof.
+  intros n s H. name_result. unfold conn_established.
+  destruct (f_legacy_ssl s && negb (is_raw s)).
+  - pose proof (PL_conn_tls_start s H) as T. destruct (conn_tls_start s) as [[sa oa] ok]. cbn [fst] in T.
+    cases; leaf; eauto 20 with pldb.
+  - cases; leaf; eauto 20 with pldb.
+Qed.
+Lemma T25_conn_established : forall n s, st s <> Disconnected -> T25 s -> T25 (fst (conn_established n s)).
+Proof.
+  intros n s D H. name_result. unfold conn_established.
+  destruct (f_legacy_ssl s && negb (is_raw s)).
+  - pose proof (T25_conn_tls_start s D) as T. destruct (conn_tls_start s) as [[sa oa] ok]. cbn [fst] in T.
+    cases; leaf; eauto 20 with t25db.
+  - cases; leaf; eauto 20 with t25db.
+Qed.
+(* the TCP connect completes: TLS (legacy SSL) may start, the first stream header is queued *)
+Lemma PH_conn_established : forall n s, PH s -> st s <> Disconnected -> hmarks s = 0%nat -> (CS s -> f_tls_mandatory s = false) ->
+  PH (fst (conn_established n s)).
+Proof.
+  intros n s P D H0 Cm.
+  pose proof (HFr_conn_established n s s (HFr_refl s)) as F. destruct (HFr_obs _ _ F) as (M & _).
+  constructor.
+  - apply TI_conn_established; [apply hmarks0_no_handler; auto | apply P].
+  - rewrite M. apply P.
+  - apply T01_conn_established, P.
+  - destruct (ph_mt _ P) as [C|Q]; [left; right; left | right; apply PL_conn_established; exact Q].
+    pose proof (Fr_conn_established n s s (Fr_refl s)) as Ff. rewrite (fr_f_tls_mandatory _ _ Ff). auto.
+  - apply SmOff_conn_established, P.
+  - intros En. eapply SE_HFr; eauto. apply (ph_se _ P). apply (Sn_conn_established n s s (Sn_refl s) En).
+  - apply T25_conn_established; [exact D | apply P].
+Qed.
+
+Ltac ph_setter := intros; eauto with hfrdb tidb t01db csdb pldb smoffdb sndb t25db.
+Lemma PHS_of : forall s s', PH s' ->
+  (st s' = Connecting -> st s = Connecting /\ hmarks s' = hmarks s /\ imarks s' = imarks s /\ secured s' = secured s /\ tls_present s' = tls_present s) ->
+  f_tls_mandatory s' = f_tls_mandatory s -> f_tls_disabled s' = f_tls_disabled s -> PHS s -> PHS s'.
+Proof.
+  intros s s' P C M D (P0 & C0 & F0). refine (conj P (conj _ _)).
+  - intros X. destruct (C X) as (A & B1 & B2 & B3 & B4). destruct (C0 A) as (E1 & E2 & E3 & E4). repeat split; congruence.
+  - unfold F24 in *. congruence.
+Qed.
+Lemma PHS_ph_pre : forall rd s, PHS s -> PHS (ph_pre rd s).
+Proof.
+  intros rd s H. unfold ph_pre. cases; auto; (eapply PHS_of; [ | | | | exact H]; [apply (PH_step_neutral (set_rxq _)); try apply H; ph_setter | auto | reflexivity | reflexivity]).
+Qed.
+Lemma PHS_send_phase : forall s, PHS s -> PHS (fst (send_phase s)).
+Proof.
+  intros s H. unfold send_phase, ret. destruct (st s) eqn:C; auto. cbv zeta.
+  match goal with |- context [negb (err ?y =? 0)] => set (x := y) end.
+  assert (Px : PH x /\ st x = Connected /\ f_tls_mandatory x = f_tls_mandatory s /\ f_tls_disabled x = f_tls_disabled s).
+  { split; [|repeat split; auto]. unfold x.
+    apply (PH_step_neutral (set_sm_sent _)); try ph_setter. apply (PH_step_neutral (set_smq _)); try ph_setter.
+    apply (PH_step_neutral (set_sendq _)); try ph_setter. apply H. }
+  clearbody x. destruct Px as (Px & Cx & M & D).
+  destruct (negb (err x =? 0)).
+  - pose proof (PH_conn_disconnect _ (PH_step_neutral (set_err ECONNABORTED) x ltac:(ph_setter) ltac:(ph_setter) ltac:(ph_setter) ltac:(ph_setter) ltac:(ph_setter) ltac:(ph_setter) ltac:(ph_setter) ltac:(ph_setter) Px)) as Q.
+    pose proof (Fr_conn_disconnect (set_err ECONNABORTED x) _ (Fr_refl _)) as F.
+    destruct (conn_disconnect (set_err ECONNABORTED x)) as [s2 o2]. cbn [fst] in *.
+    eapply PHS_of; [exact Q | | | | exact H].
+    + intros X. exfalso. destruct (fr_st _ _ F) as [E|E]; change (st (set_err ECONNABORTED x)) with (st x) in E; congruence.
+    + rewrite (fr_f_tls_mandatory _ _ F). exact M.
+    + rewrite (fr_f_tls_disabled _ _ F). exact D.
+  - cbn [fst]. eapply PHS_of; [exact Px | intros X; congruence | exact M | exact D | exact H].
+Qed.
+Lemma PHS_ph_reset : forall s, PHS s -> PHS (ph_reset s) /\ reset_parser (ph_reset s) = false.
+Proof.
+  intros s H. unfold ph_reset. destruct (reset_parser s) eqn:R; [|auto]. split; [|reflexivity].
+  destruct H as (P & C & F).
+  assert (P' : PH (set_ps PDepth0 (set_reset_parser false s))).
+  { constructor.
+    - apply TI_set_ps, TI_set_reset_parser, P.
+    - pose proof (ph_amo _ P) as M. unfold marks, pending in *. sproj. rewrite R in M. cbn [orb is_depth0] in *.
+      assert (hmarks (set_ps PDepth0 (set_reset_parser false s)) = hmarks s) as -> by reflexivity.
+      assert (imarks (set_ps PDepth0 (set_reset_parser false s)) = imarks s) as -> by reflexivity. exact M.
+    - destruct (ph_t01 _ P) as [A B]. split; [|exact B]. intros O _. apply A; [exact O|]. rewrite R. reflexivity.
+    - apply (MT_of (fun x => set_ps PDepth0 (set_reset_parser false x))); [intros; eauto with csdb | intros; eauto with pldb | apply P].
+    - apply SmOff_set_ps, SmOff_set_reset_parser, P.
+    - intros En. destruct (ph_se _ P En) as (A & B & Cc). repeat split; auto.
+      unfold pending in *. sproj. rewrite R in Cc. cbn [orb is_depth0] in *. exact Cc.
+    - apply T25_set_ps, T25_set_reset_parser, P. }
+  refine (conj P' (conj _ F)). exact C.
+Qed.
+Lemma PHS_fire_timed : forall n s, PHS s -> PHS (fst (fire_timed n s)).
+Proof.
+  intros n s H. pose proof (PH_fire_timed n s (proj1 H)) as P. pose proof (Fr_fire_timed n s s (Fr_refl s)) as F.
+  eapply PHS_of; [exact P | | apply (fr_f_tls_mandatory _ _ F) | apply (fr_f_tls_disabled _ _ F) | exact H].
+  intros X. assert (C : st s = Connecting) by (destruct (fr_st _ _ F) as [E|E]; congruence).
+  unfold fire_timed, ret. rewrite C. cbn [fst]. auto.
+Qed.
+Lemma PH_timeout : forall e s, PH s -> st s = Connecting -> tls_present s = false ->
+  PH (reset_sm_for_reconnect (set_neg_done false (set_st Disconnected (set_err e s)))).
+Proof.
+  intros e s P C T. constructor.
+  - apply TI_reset_sm_for_reconnect, TI_set_neg_done, TI_set_st, TI_set_err, P.
+  - assert (F : HFr s (reset_sm_for_reconnect (set_neg_done false (set_st Disconnected (set_err e s))))) by eauto 10 with hfrdb.
+    rewrite (proj1 (HFr_obs _ _ F)). apply P.
+  - apply T01_reset_sm_for_reconnect, T01_set_neg_done, T01_set_st, T01_set_err, P.
+  - left. apply CS_reset_sm_for_reconnect, CS_set_neg_done. left. reflexivity.
+  - apply SmOff_reset.
+  - intros En. exfalso. revert En. unfold reset_sm_for_reconnect; cases; sproj; discriminate.
+  - intros _. unfold reset_sm_for_reconnect; cases; sproj; exact T.
+Qed.
+Lemma PHS_connect_next : forall n s, PHS s -> st s = Connecting ->
+  PHS (fst (fst (connect_next n s))) /\ st (fst (fst (connect_next n s))) = Connecting /\
+  tls_present (fst (fst (connect_next n s))) = false /\ reset_parser (fst (fst (connect_next n s))) = reset_parser s.
+Proof.
+  intros n s H C. destruct (proj1 (proj2 H) C) as (C1 & C2 & C3 & C4).
+  unfold connect_next. destruct (sock_connect (cands s)) as [oo [[k r]|]]; cbn [fst].
+  - refine (conj _ (conj C (conj C4 eq_refl))).
+    eapply PHS_of; [ | | | | exact H]; [ | auto | reflexivity | reflexivity].
+    apply (PH_step_neutral (set_rxq _)); try ph_setter. apply (PH_step_neutral (set_stamp _)); try ph_setter.
+    apply (PH_step_neutral (set_cur_ep _)); try ph_setter. apply (PH_step_neutral (set_cands _)); try ph_setter. apply H.
+  - refine (conj _ (conj C (conj C4 eq_refl))).
+    eapply PHS_of; [ | | | | exact H]; [ | auto | reflexivity | reflexivity].
+    apply (PH_step_neutral (set_cands _)); try ph_setter. apply H.
+Qed.
+Lemma PHS_ph_watch : forall n s, PHS s -> reset_parser s = false ->
+  PHS (fst (ph_watch n s)) /\ reset_parser (fst (ph_watch n s)) = false.
+Proof.
+  intros n s H R. unfold ph_watch, ret. destruct (st s) eqn:C; auto.
+  destruct (n - stamp s <=? CONNECT_TIMEOUT); auto.
+  destruct (PHS_connect_next n s H C) as (H1 & C1 & T1 & R1).
+  destruct (connect_next n s) as [[s1 o1] ok]. cbn [fst] in *. destruct ok; cbn [fst]; [split; congruence|].
+  split; [|unfold reset_sm_for_reconnect; cases; sproj; congruence].
+  eapply PHS_of; [apply PH_timeout; [apply H1 | exact C1 | exact T1] | | | | exact H1].
+  - intros X. exfalso. revert X. unfold reset_sm_for_reconnect; cases; sproj; discriminate.
+  - unfold reset_sm_for_reconnect; cases; reflexivity.
+  - unfold reset_sm_for_reconnect; cases; reflexivity.
+Qed.
+Lemma PH_set_st_connected : forall s, PH s -> st s = Connecting -> PH (set_st Connected s).
+Proof.
+  intros s P C. constructor.
+  - apply TI_set_st, P.
+  - apply P.
+  - apply T01_set_st, P.
+  - destruct (ph_mt _ P) as [[D|[D|D]]|Q]; [congruence | left; right; left; exact D | left; right; right; exact D | right; apply PL_set_st; exact Q].
+  - apply SmOff_live. discriminate.
+  - apply (ph_se _ P).
+  - apply T25_live. discriminate.
+Qed.
+Lemma PHS_ph_io : forall n s, PHS s -> reset_parser s = false -> PHS (fst (ph_io n s)).
+Proof.
+  intros n s H R. unfold ph_io, ret. destruct (st s) eqn:C; auto.
+  - (* Connecting *)
+    destruct (proj1 (proj2 H) C) as (C1 & C2 & C3 & C4).
+    destruct (cur_ep s) eqn:E; auto.
+    + (* the TCP connect completes *)
+      set (x := set_st Connected s).
+      assert (Px : PH x) by (apply PH_set_st_connected; [apply H | exact C]).
+      assert (Q : PH (fst (conn_established n x))).
+      { apply PH_conn_established; auto; [discriminate|].
+        intros [D|[D|D]]; [discriminate | exact D | ]. unfold is_secured in D. change (secured x) with (secured s) in D. rewrite C3 in D. discriminate. }
+      pose proof (Fr_conn_established n x x (Fr_refl x)) as F.
+      apply (PHS_of s); [exact Q | | exact (fr_f_tls_mandatory _ _ F) | exact (fr_f_tls_disabled _ _ F) | exact H].
+      intros X. exfalso. destruct (fr_st _ _ F) as [D|D]; change (st x) with Connected in D; congruence.
+    + destruct (PHS_connect_next n s H C) as (H1 & Cc & T1 & R1).
+      destruct (connect_next n s) as [[s1 o1] ok]. cbn [fst] in *. destruct ok; cbn [fst]; auto.
+      eapply PHS_of; [apply PH_timeout; [apply H1 | exact Cc | exact T1] | | | | exact H1].
+      * intros X. exfalso. revert X. unfold reset_sm_for_reconnect; cases; sproj; discriminate.
+      * unfold reset_sm_for_reconnect; cases; reflexivity.
+      * unfold reset_sm_for_reconnect; cases; reflexivity.
+  - (* Connected: one read *)
+    cbv zeta. set (x := set_rxq (tl (rxq s)) s).
+    assert (Hx : PHS x).
+    { eapply PHS_of; [ | | | | exact H]; [apply (PH_step_neutral (set_rxq _)); try ph_setter; apply H | intros X; exfalso; change (st x) with (st s) in X; congruence | reflexivity | reflexivity]. }
+    assert (Cx : st x = Connected) by exact C.
+    assert (Fin : forall s', PH s' -> Fr x s' -> PHS s').
+    { intros s' P' F. eapply PHS_of; [exact P' | | apply (fr_f_tls_mandatory _ _ F) | apply (fr_f_tls_disabled _ _ F) | exact Hx].
+      intros X. exfalso. destruct (fr_st _ _ F) as [D|D]; congruence. }
+    destruct (match rxq s with [] => RdNone | r :: _ => r end); cbn [fst]; auto.
+    + (* a chunk *)
+      assert (FIx : FI x).
+      { refine (conj (proj1 Hx) (conj _ _)); [intros _ D; congruence | intros _; split; [exact Cx | exact R]]. }
+      pose proof (FI_feed_items n its x FIx) as (P1 & _). pose proof (Fr_feed_items n its x x (Fr_refl x)) as F.
+      destruct (feed_items n its x) as [[s1 o1] bad]. cbn [fst] in *. destruct bad; cbn [fst]; [|apply Fin; auto].
+      apply Fin; [|eauto with frdb].
+      apply (PH_step_neutral (send_gated WStreamErr false false)); intros;
+        auto using HFr_send_gated, TI_send_gated, T01_send_gated, CS_send_gated, PL_send_gated, SmOff_send_gated, Sn_send_gated, T25_send_gated.
+    + destruct (tls_present x); (apply Fin; [apply PH_conn_disconnect; apply (PH_step_neutral (set_err ECONNRESET)); try ph_setter; apply Hx | eauto with frdb]).
+    + apply Fin; [apply PH_conn_disconnect; apply (PH_step_neutral (set_err ECONNRESET)); try ph_setter; apply Hx | eauto with frdb].
+Qed.
+Lemma PHS_run_once : forall n rd s, PHS s -> PHS (fst (run_once n rd s)).
+Proof.
+  intros n rd s H.
+  apply (run_once_ind (fun s _ => PHS s) (fun s _ => PHS s /\ reset_parser s = false) (fun s _ => PHS s /\ reset_parser s = false)
+           (fun s _ => PHS s /\ reset_parser s = false) (fun s _ => PHS s) (fun s _ => PHS s) (fun s _ => PHS s)); auto.
+  - intros _. apply PHS_send_phase, PHS_ph_pre, H.
+  - intros s1 _ H1. apply PHS_ph_reset, H1.
+  - intros s1 _ [H1 R1]. split; [apply PHS_fire_timed, H1|].
+    pose proof (RPF_fire_timed n s1 s1 (RPF_refl s1)) as F. rewrite (rpf_rp _ _ F). exact R1.
+  - intros s1 _ [H1 R1]. exact H1.
+  - intros s1 _ [H1 R1]. apply PHS_ph_watch; assumption.
+  - intros s1 _ [H1 R1]. exact H1.
+  - intros s1 _ [H1 R1]. apply PHS_ph_io; assumption.
+  - intros s1 _ H1. apply PHS_fire_timed, H1.
+Qed.
+
+(* ------------------------------------------------------------------ _conn_connect *)
+Lemma hmarks_user_only : forall (l : list (hkind * bool)),
+  List.length (filter (fun x => is_main (fst x)) (filter (fun x => hkind_eqb (fst x) HUser) l)) = 0%nat.
+Proof.
+  induction l as [|x l IH]; [reflexivity|]. cbn [filter]. destruct (hkind_eqb (fst x) HUser) eqn:E; auto.
+  apply hkind_eqb_eq in E. cbn [filter]. rewrite E. exact IH.
+Qed.
+Lemma h_has_user_only : forall k (l : list (hkind * bool)), hkind_eqb k HUser = false ->
+  existsb (fun x => hkind_eqb k (fst x)) (filter (fun x => hkind_eqb (fst x) HUser) l) = false.
+Proof.
+  intros k l K. induction l as [|x l IH]; [reflexivity|]. cbn [filter]. destruct (hkind_eqb (fst x) HUser) eqn:E; auto.
+  apply hkind_eqb_eq in E. cbn [existsb]. rewrite E, K. exact IH.
+Qed.
+Lemma timed_user_only : forall k (l : list (tkind * bool * Z)), tkind_eqb k TUser = false ->
+  existsb (fun x => tkind_eqb k (fst (fst x))) (filter (fun x => tkind_eqb (fst (fst x)) TUser) l) = false.
+Proof.
+  intros k l K. induction l as [|x l IH]; [reflexivity|]. cbn [filter]. destruct (tkind_eqb (fst (fst x)) TUser) eqn:E; auto.
+  apply tkind_eqb_eq in E. cbn [existsb]. rewrite E, K. exact IH.
+Qed.
+
+Lemma PHS_conn_connect : forall n t s, PHS s -> (t = TComponent -> f_tls_disabled s = true) ->
+  PHS (fst (fst (conn_connect n t s))).
+Proof.
+  intros n t s H Ft. unfold conn_connect. destruct (st s) eqn:C; auto.
+  destruct H as (P & Cg & F). cbv zeta.
+  assert (T0' : tls_present s = false) by (apply (ph_t25 _ P); exact C).
+  destruct (ph_smoff _ P C) as (S1 & S2 & S3).
+  match goal with |- context [sock_connect ?c] => destruct (sock_connect c) as [oo [[k r]|]] end; cbn [fst].
+  - (* a socket: the attempt starts *)
+    unfold conn_reset, prepare_reset. rewrite C. cbv zeta.
+    refine (conj _ (conj _ _)); [constructor | | ].
+    + refine (conj _ (conj _ _)); sproj; auto; intros; try discriminate; congruence.
+    + unfold marks, hmarks, imarks, pending. sproj. rewrite hmarks_user_only. cbn [List.length filter].
+      match goal with |- (0 + 0 + b2n ?b <= 1)%nat => destruct b; cbn; lia end.
+    + split.
+      * intros _ _. sproj. reflexivity.
+      * intros T. exfalso. revert T. unfold timed_has. sproj. rewrite timed_user_only; [discriminate | reflexivity].
+    + destruct t.
+      * right. refine (conj _ (conj _ _)).
+        -- unfold id_has. sproj. reflexivity.
+        -- unfold h_has. sproj. apply h_has_user_only. reflexivity.
+        -- sproj. destruct (is_raw s); discriminate.
+      * left. right. left. sproj. unfold F24 in F. rewrite (Ft eq_refl), andb_true_r in F. exact F.
+    + apply SmOff_live. sproj. discriminate.
+    + intros En. exfalso. revert En. sproj. congruence.
+    + apply T25_live. sproj. discriminate.
+    + intros _. unfold hmarks, imarks. sproj. rewrite hmarks_user_only. auto.
+    + unfold F24 in *. sproj. exact F.
+  - (* no socket *)
+    unfold conn_reset. rewrite C. cbv zeta.
+    refine (conj _ (conj _ _)); [constructor | | ].
+    + refine (conj _ (conj _ _)); sproj; auto; intros; try discriminate. congruence.
+    + pose proof (ph_amo _ P) as M. unfold marks, hmarks, imarks, pending in *. sproj. rewrite hmarks_user_only. cbn [List.length filter].
+      destruct (client_oh (oh s) && (reset_parser s || is_depth0 (ps s))); cbn; lia.
+    + split.
+      * intros _ _. sproj. reflexivity.
+      * intros T. exfalso. revert T. unfold timed_has. sproj. rewrite timed_user_only; [discriminate | reflexivity].
+    + left. left. sproj. exact C.
+    + intros _. sproj. auto.
+    + intros En. exfalso. revert En. sproj. congruence.
+    + intros _. sproj. exact T0'.
+    + intros X. exfalso. revert X. sproj. congruence.
+    + unfold F24 in *. sproj. exact F.
+Qed.
+
+(* ------------------------------------------------------------------ user operations *)
+Lemma PH_disc_cfg : forall s s', st s = Disconnected -> st s' = Disconnected ->
+  handlers s' = handlers s -> idhandlers s' = idhandlers s -> oh s' = oh s -> reset_parser s' = reset_parser s -> ps s' = ps s ->
+  timed s' = timed s -> sasl s' = sasl s -> tls_support s' = tls_support s -> tls_present s' = tls_present s ->
+  secured s' = secured s -> sm_enabled s' = sm_enabled s -> sm_support s' = sm_support s -> sm_bind_saved s' = sm_bind_saved s ->
+  PH s -> PH s'.
+Proof.
+  intros s s' D D' E1 E2 E3 E4 E5 E6 E7 E8 E9 E10 E11 E12 E13 P.
+  assert (F : HFr s s') by (constructor; assumption). destruct (HFr_obs _ _ F) as (M & _ & _ & Q & Pe & Hh & Hi).
+  constructor.
+  - destruct (ph_ti _ P) as (A & B & C). refine (conj _ (conj _ _)); rewrite ?E8, ?E9, ?E10, ?Hh; auto.
+  - rewrite M. apply P.
+  - destruct (ph_t01 _ P) as [A B]. split.
+    + intros O R. rewrite E7. apply A; congruence.
+    + unfold T1, timed_has. rewrite E6, E7, Hh. exact B.
+  - left. left. exact D'.
+  - intros _. rewrite E11, E12, E13. apply (ph_smoff _ P D).
+  - intros En. rewrite Q, Hi, Pe. apply (ph_se _ P). congruence.
+  - intros _. rewrite E9. apply (ph_t25 _ P D).
+Qed.
+Lemma PHS_disc_cfg : forall s s', st s = Disconnected -> st s' = Disconnected ->
+  handlers s' = handlers s -> idhandlers s' = idhandlers s -> oh s' = oh s -> reset_parser s' = reset_parser s -> ps s' = ps s ->
+  timed s' = timed s -> sasl s' = sasl s -> tls_support s' = tls_support s -> tls_present s' = tls_present s ->
+  secured s' = secured s -> sm_enabled s' = sm_enabled s -> sm_support s' = sm_support s -> sm_bind_saved s' = sm_bind_saved s ->
+  F24 s' -> PHS s -> PHS s'.
+Proof.
+  intros s s' D D' E1 E2 E3 E4 E5 E6 E7 E8 E9 E10 E11 E12 E13 F (P & _ & _).
+  refine (conj _ (conj _ F)); [apply (PH_disc_cfg s); assumption | intros X; congruence].
+Qed.
+Lemma PH_h_add_user : forall s, PH s -> PH (h_add HUser s).
+Proof.
+  intros s P. constructor.
+  - apply TI_h_add; [reflexivity | apply P].
+  - pose proof (Bd_h_add HUser 0 s s (Bd_refl s)) as B. destruct B as [B ? ? ?]. pose proof (ph_amo _ P). cbn in B. lia.
+  - apply T01_h_add, P.
+  - apply (MT_of (h_add HUser)); [apply CS_h_add | intros; apply PL_h_add; auto | apply P].
+  - apply SmOff_h_add, P.
+  - intros En. pose proof (QFr_h_add HUser s s eq_refl (QFr_refl s)) as Q.
+    assert (En0 : sm_enabled s = true) by (revert En; unfold h_add; cases; auto).
+    destruct (ph_se _ P En0) as (A & B & C). rewrite (qfr_q _ _ Q). unfold pending. rewrite (qfr_oh _ _ Q), (qfr_rp _ _ Q), (qfr_ps _ _ Q).
+    repeat split; auto. destruct (id_has IKBind (h_add HUser s)) eqn:E; auto. rewrite (qfr_bind _ _ Q E) in B. discriminate.
+  - apply T25_h_add, P.
+Qed.
+Lemma PH_timed_add_user : forall n s, PH s -> PH (timed_add TUser n s).
+Proof.
+  intros n s. apply (PH_step_neutral (timed_add TUser n)); intros;
+    auto using HFr_timed_add, TI_timed_add, CS_timed_add, PL_timed_add, SmOff_timed_add, Sn_timed_add, T25_timed_add.
+  apply T01_timed_add; auto.
+Qed.
+Lemma F24_set_flags : forall w s, F24 s -> F24 (fst (set_flags w s)).
+Proof.
+  intros w s F. unfold set_flags. destruct (st s); auto.
+  destruct (testbit w flag_conflict_a && existsb (testbit w) flag_conflict_b) eqn:E; auto.
+  cbn [fst]. unfold F24. sproj. unfold flag_conflict_a, flag_conflict_b in E. cbn [existsb] in E.
+  destruct (testbit w FLAG_DISABLE_TLS), (testbit w FLAG_MANDATORY_TLS); auto.
+Qed.
+
+Lemma PHS_inner : forall s s', PHS s -> PH s' -> Fr s s' ->
+  (st s' = Connecting -> hmarks s' = hmarks s /\ imarks s' = imarks s /\ secured s' = secured s /\ tls_present s' = tls_present s) ->
+  PHS s'.
+Proof.
+  intros s s' H P F C. apply (PHS_of s); auto; [ | apply (fr_f_tls_mandatory _ _ F) | apply (fr_f_tls_disabled _ _ F)].
+  intros X. split; [destruct (fr_st _ _ F) as [E|E]; congruence | auto].
+Qed.
+Ltac cg_eq1 := first [reflexivity | cbv beta delta [xmpp_disconnect send_gated send_raw_m q_append timed_add conn_open_stream prepare_reset is_connected_owner]; cases; first [reflexivity | congruence]].
+Ltac cg_eq := intros _; repeat split; cg_eq1.
+
+Lemma PH_open_stream_raw : forall s, PH s -> PH (conn_open_stream (prepare_reset OpenRaw s)).
+Proof.
+  intros s P. constructor.
+  - apply TI_conn_open_stream, TI_prepare_reset, P.
+  - pose proof (ph_amo _ P) as M.
+    assert (F : HFr (prepare_reset OpenRaw s) (conn_open_stream (prepare_reset OpenRaw s))) by eauto with hfrdb.
+    rewrite (proj1 (HFr_obs _ _ F)). unfold marks, pending, prepare_reset in *. sproj. cbn [client_oh andb b2n].
+    assert (hmarks (set_oh OpenRaw (set_reset_parser true s)) = hmarks s) as -> by reflexivity.
+    assert (imarks (set_oh OpenRaw (set_reset_parser true s)) = imarks s) as -> by reflexivity. lia.
+  - apply T01_conn_open_stream. apply T01_prepare_reset; [discriminate | apply P].
+  - apply (MT_of (fun x => conn_open_stream (prepare_reset OpenRaw x))); [intros; eauto with csdb | intros; eauto with pldb | apply P].
+  - apply SmOff_conn_open_stream, SmOff_prepare_reset, P.
+  - intros En. assert (En0 : sm_enabled s = true) by (apply (Sn_conn_open_stream _ _ (Sn_prepare_reset OpenRaw s s (Sn_refl s))); exact En).
+    destruct (ph_se _ P En0) as (A & B & C).
+    assert (F : HFr (prepare_reset OpenRaw s) (conn_open_stream (prepare_reset OpenRaw s))) by eauto with hfrdb.
+    destruct (HFr_obs _ _ F) as (_ & _ & _ & Q & Pe & _ & Hi). rewrite Q, Pe, Hi. repeat split; auto.
+  - apply T25_conn_open_stream, T25_prepare_reset, P.
+Qed.
+
+Ltac ph_chain P :=
+  match type of P with PH ?s0 => eapply (PH_neutral s0) end;
+  [ eauto 20 with hfrdb | pose proof (ph_ti _ P); eauto 20 with tidb | pose proof (ph_t01 _ P); eauto 20 with t01db
+  | destruct (ph_mt _ P); [left; eauto 20 with csdb | right; eauto 20 with pldb]
+  | pose proof (ph_smoff _ P); eauto 20 with smoffdb | eauto 20 with sndb | pose proof (ph_t25 _ P); eauto 20 with t25db | exact P ].
+Ltac phs_chain H :=
+  let P := fresh "P" in pose proof (proj1 H) as P;
+  match type of P with PH ?s0 => eapply (PHS_of s0) end; [ ph_chain P | let X := fresh in intros X; repeat split; first [exact X | cg_eq1 | revert X; cg_eq1] | cg_eq1 | cg_eq1 | exact H ].
+
+Lemma PHS_connect_client : forall n s, PHS s -> PHS (fst (fst (connect_client n s))).
+Proof.
+  intros n s H. unfold connect_client. cbv zeta.
+  cases; cbn [fst]; first [apply PHS_conn_connect; [phs_chain H | discriminate] | phs_chain H | exact H].
+Qed.
+Lemma PHS_set_flags : forall w s, PHS s -> PHS (fst (set_flags w s)).
+Proof.
+  intros w s H. pose proof (F24_set_flags w s (proj2 (proj2 H))) as F. revert F.
+  unfold set_flags. destruct (st s) eqn:C; auto.
+  destruct (testbit w flag_conflict_a && existsb (testbit w) flag_conflict_b) eqn:E; auto.
+  cbn [fst]. intros F. apply (PHS_disc_cfg s); try reflexivity; auto.
+Qed.
+Lemma PHS_connect_component : forall n s, PHS s -> PHS (fst (fst (connect_component n s))).
+Proof.
+  intros n s H. unfold connect_component. destruct (negb (jid_set s && pass_set s)); [exact H|]. cbv zeta.
+  match goal with |- context [set_flags ?w s] => pose proof (PHS_set_flags w s H) as Hx; destruct (set_flags w s) as [s1 rc] end.
+  cbn [fst] in Hx. destruct (negb (f_tls_disabled s1)) eqn:D; [exact Hx|]. apply negb_false_iff in D.
+  apply PHS_conn_connect; [phs_chain Hx | intros _; exact D].
+Qed.
+
+Lemma PHS_step0 : forall s op, PHS s -> PHS (fst (step0 s op)).
+Proof.
+  intros s op H. unfold step0. destruct (crashed s); [exact H|]. destruct op.
+  - (* OpSetFlags *) pose proof (PHS_set_flags w s H) as Q. destruct (set_flags w s). exact Q.
+  - destruct (st s) eqn:C; cbn [fst ret]; auto. apply (PHS_disc_cfg s); try reflexivity; auto; apply H.
+  - destruct (st s) eqn:C; cbn [fst ret]; auto. apply (PHS_disc_cfg s); try reflexivity; auto; apply H.
+  - destruct (st s) eqn:C; cbn [fst ret]; auto. apply (PHS_disc_cfg s); try reflexivity; auto; apply H.
+  - (* OpUserHandlers *)
+    destruct (st s) eqn:C; cbn [fst ret]; auto.
+    assert (H1 : PHS (if stanza then h_add HUser s else s)).
+    { destruct stanza; auto. apply (PHS_of s); [apply PH_h_add_user, H | intros X; exfalso; revert X; unfold h_add; cases; sproj; congruence
+        | unfold h_add; cases; reflexivity | unfold h_add; cases; reflexivity | exact H]. }
+    assert (C1 : st (if stanza then h_add HUser s else s) = Disconnected) by (destruct stanza; auto; unfold h_add; cases; auto).
+    generalize dependent (if stanza then h_add HUser s else s). intros x H1 C1.
+    assert (H2 : PHS (match timed with Some _ => timed_add TUser now x | None => x end)).
+    { destruct timed; auto. apply (PHS_of x); [apply PH_timed_add_user, H1 | intros X; exfalso; revert X; unfold timed_add; cases; sproj; congruence
+        | unfold timed_add; cases; reflexivity | unfold timed_add; cases; reflexivity | exact H1]. }
+    phs_chain H2.
+  - destruct (st s) eqn:C; cbn [fst ret]; auto. apply (PHS_disc_cfg s); try reflexivity; auto; apply H.
+  - cbn [fst ret]. phs_chain H.
+  - (* OpConnectClient *) pose proof (PHS_connect_client now s H) as Q. destruct (connect_client now s) as [[s1 o] rc]. exact Q.
+  - (* OpConnectRaw *)
+    destruct (st s) eqn:C; cbn [fst]; auto.
+    assert (Hx : PHS (set_is_raw true s)) by phs_chain H.
+    pose proof (PHS_connect_client now _ Hx) as Q. destruct (connect_client now (set_is_raw true s)) as [[s1 o] rc]. exact Q.
+  - (* OpConnectComponent *) pose proof (PHS_connect_component now s H) as Q. destruct (connect_component now s) as [[s1 o] rc]. exact Q.
+  - apply PHS_run_once, H.
+  - cbn [fst ret]. apply (PHS_inner s); [exact H | apply PH_xmpp_disconnect, H | eauto with frdb | cg_eq].
+  - cbn [fst ret]. pose proof (proj1 H) as P. apply (PHS_inner s); [exact H | ph_chain P | eauto with frdb | cg_eq].
+  - cbn [fst ret]. pose proof (proj1 H) as P. apply (PHS_inner s); [exact H | ph_chain P | eauto with frdb | cg_eq].
+  - exact H.
+  - destruct (is_raw s); cbn [fst ret]; auto.
+    apply (PHS_inner s); [exact H | apply PH_open_stream_raw, H | eauto with frdb | cg_eq].
+  - destruct (st s); cbn [fst ret]; auto;
+      (apply (PHS_inner s); [exact H | apply PH_conn_disconnect, H | eauto with frdb | ]);
+      unfold conn_disconnect; cases; cbn [fst]; intros X;
+        try (exfalso; revert X; unfold reset_sm_for_reconnect; cases; sproj; congruence); repeat split; reflexivity.
+Qed.
+Lemma PHS_note_outs : forall outs s, PHS s -> PHS (note_outs outs s).
+Proof. intros outs s H. unfold note_outs. phs_chain H. Qed.
+Lemma PHS_step : forall s op, PHS s -> PHS (fst (step s op)).
+Proof. intros s op H. rewrite step_eq. cbn [fst]. apply PHS_note_outs, PHS_step0, H. Qed.
+Lemma PHS_init : PHS init_state.
+Proof.
+  refine (conj _ (conj _ _)); [constructor | | ].
+  - refine (conj _ (conj _ _)); cbn; auto; discriminate.
+  - cbn. lia.
+  - split; [intros _ _; reflexivity | intros T; discriminate].
+  - left. left. reflexivity.
+  - intros _. cbn. auto.
+  - intros En. discriminate.
+  - intros _. reflexivity.
+  - intros X. discriminate.
+  - reflexivity.
+Qed.
